@@ -140,6 +140,8 @@ Xfer(tw, wl, fca) ==
     sc = [n |-> [w \in Waiters |-> w], p |-> [w \in Waiters |-> w]],   \* same_condition rings
     nww = [t \in Threads |-> 0],                 \* nsync_wait_n record: waiting
     nwsem = [t \in Threads |-> 0],               \* nsync_wait_n record: sem (the waiter whose semaphore it names)
+    nww2 = [t \in Threads |-> 0],                \* second record of a two-object nsync_wait_n (cv, cancel note): waiting
+    nreg2 = {},                                  \* threads whose second record is registered with the note
     sem = [w \in Waiters |-> 0],
     data = [v \in 1..NV |-> 0],                  \* client cells, written under the write lock
     now = 0,
@@ -502,9 +504,11 @@ Xfer(tw, wl, fca) ==
   }
 
   \* ------------------------------------------------------------------ nsync_wait_n (mu, {cv}) (wait.c:28-100 with cv.c:454-493)
-  procedure wait_n(ndl)
-    variables old = 0, wq = FALSE;
+  procedure wait_n(ndl, wcn)
+    variables old = 0, wq = FALSE, still2 = TRUE, cvr = FALSE;
   {
+   wn_0_l:   if (~wcn) { GetWaiter(); goto wn_1_st; };                                        \* wcn: nsync_wait_n (mu, .., 2, {cv, note}); the note's functions are atomic
+   wn_0_r:   if (note) { ret[self] := 1; return; } else { GetWaiter(); };                              \* regions at this layer.  wait.c:34-38: the note is ready at once (index 1)
    wn_1_st:  nww[self] := 0; picked[self] := FALSE; nwalive[self] := TRUE; nwsem[self] := W(self);                              \* wait.c:54 ATM_STORE
    wn_2_ld:  old := cvword;                                                      \* cv.c:463 nsync_spin_test_and_set_
              if ((old & CVSPIN) # 0) { goto wn_2_d; };
@@ -512,9 +516,14 @@ Xfer(tw, wl, fca) ==
    wn_2_d:   goto wn_2_ld;
    wn_4_st:  nww[self] := 1;                                                     \* cv.c:465 ATM_STORE
    wn_5_st:  cvword := old | CVNE;                                               \* cv.c:467 ATM_STORE_REL
-             held[self] := 0;
+   wn_5_l:   if (~wcn) { goto wn_5u_l; };
+   wn_5a_st: nww2[self] := 0;                                                    \* wait.c:54 ATM_STORE for the second object
+   wn_5b_r:  if (~note) { nww2[self] := 1; nreg2 := nreg2 \cup {self}; };        \* note_enqueue (note.c:262-277), atomic here
+   wn_5u_l:  held[self] := 0;
              call mu_unlock(1, FALSE);                                           \* wait.c:62
-   wn_6_ld:  if (nww[self] = 0) { goto wn_8_ld; };                               \* cv.c:456 ATM_LOAD_ACQ (cv_ready_time)
+   wn_6_ld:  cvr := (nww[self] = 0);                                              \* cv.c:456 ATM_LOAD_ACQ (cv_ready_time)
+   wn_6_l:   if (~wcn) { if (cvr) { goto wn_8_ld; } else { goto wn_7_pd; }; };   \* wait.c:66-73: every object's ready time is asked, then the minimum decides
+   wn_6a_r:  if (cvr \/ note) { goto wn_8_ld; };                                 \* note_ready_time
    wn_7_pd:  await sem[W(self)] > 0 \/ Expired(ndl, now);                           \* wait.c:76 nsync_mu_semaphore_p_with_deadline
              if (sem[W(self)] > 0) { sem[W(self)] := sem[W(self)] - 1; goto wn_6_ld; };
    wn_8_ld:  old := cvword;                                                      \* cv.c:475 nsync_spin_test_and_set_
@@ -525,8 +534,12 @@ Xfer(tw, wl, fca) ==
              else { taint3 := taint3 \/ ~InQ(cvq, -self); cvq := Without(cvq, -self); wq := TRUE; };
    wn_11_st: nww[self] := 0;                                                     \* cv.c:478 ATM_STORE
    wn_12_st: cvword := IF cvq = <<>> THEN Clr(old, CVNE) ELSE old;               \* cv.c:485 ATM_STORE_REL
-             call mu_lock(1);                                                    \* wait.c:95
-   wn_13_l:  ret[self] := IF wq THEN 1 ELSE 0; nwalive[self] := FALSE; return;                           \* 1 = count (timeout), 0 = index of the cv
+   wn_12_l:  if (~wcn) { goto wn_12u_l; };
+   wn_12a_r: still2 := ~note;                                                    \* note_dequeue (note.c:279-293), atomic here
+             nreg2 := nreg2 \ {self}; nww2[self] := 0;
+   wn_12u_l: call mu_lock(1);                                                    \* wait.c:95
+   wn_13_l:  ret[self] := IF ~wq THEN 0 ELSE IF wcn /\ ~still2 THEN 1 ELSE (IF wcn THEN 2 ELSE 1);    \* index of the first object no longer registered, or count
+             nwalive[self] := FALSE; return;
   }
 
   \* ------------------------------------------------------------------ nsync_mu_debug_state_and_waiters (debug.c:195-223)
@@ -588,9 +601,9 @@ Xfer(tw, wl, fca) ==
            if (data[CurOp(self).v] = 0 /\ ret[self] \notin {ETIMEDOUT, ECANCELED}) { GetWaiter(); call cv_wait(CurOp(self).dl, CurOp(self).cn, CurOp(self).x = 9); }
            else { ip[self] := ip[self] + 1; ret[self] := -1; };
          }
-         else if (CurOp(self).op = "waitn") { ip[self] := ip[self] + 1; GetWaiter(); call wait_n(CurOp(self).dl); }
+         else if (CurOp(self).op = "waitn") { ip[self] := ip[self] + 1; call wait_n(CurOp(self).dl, CurOp(self).cn); }
          else if (CurOp(self).op = "waitnloop") {
-           if (data[CurOp(self).v] = 0 /\ ret[self] # 1) { GetWaiter(); call wait_n(CurOp(self).dl); }
+           if (data[CurOp(self).v] = 0 /\ ret[self] # 1) { call wait_n(CurOp(self).dl, FALSE); }
            else { ip[self] := ip[self] + 1; ret[self] := -1; };
          }
          else if (CurOp(self).op = "signal") { ip[self] := ip[self] + 1; call cv_wake(FALSE); }
@@ -600,8 +613,10 @@ Xfer(tw, wl, fca) ==
          else if (CurOp(self).op = "notify") {                                     \* nsync_note_notify of the cancel note (atomic region)
            ip[self] := ip[self] + 1;
            note := TRUE;
-           sem := [u \in Waiters |-> IF u \in nreg THEN SetV(sem[u]) ELSE sem[u]];
+           sem := [u \in Waiters |-> IF u \in nreg \/ (\E t \in nreg2 : mw[t] = u) THEN SetV(sem[u]) ELSE sem[u]];
            nreg := {};
+           nww2 := [t \in Threads |-> IF t \in nreg2 THEN 0 ELSE nww2[t]];
+           nreg2 := {};
          }
          else if (CurOp(self).op = "decref") {                                     \* C13: last := (--refs = 0), under the lock
            ip[self] := ip[self] + 1;
@@ -613,34 +628,34 @@ Xfer(tw, wl, fca) ==
   }
 } *)
 \* BEGIN TRANSLATION
-\* Procedure variable old of procedure lock_slow at line 178 col 15 changed to old_
-\* Procedure variable old of procedure unlock_slow at line 217 col 15 changed to old_u
-\* Procedure variable rmq of procedure unlock_slow at line 217 col 101 changed to rmq_
-\* Procedure variable old of procedure mu_lock at line 278 col 15 changed to old_m
-\* Procedure variable old of procedure mu_trylock at line 291 col 15 changed to old_mu
-\* Procedure variable old of procedure mu_unlock at line 302 col 15 changed to old_mu_
-\* Procedure variable old of procedure try_acquire at line 332 col 15 changed to old_t
-\* Procedure variable old of procedure mu_wait at line 359 col 15 changed to old_mu_w
-\* Procedure variable lt of procedure mu_wait at line 359 col 24 changed to lt_
-\* Procedure variable out of procedure mu_wait at line 359 col 46 changed to out_
-\* Procedure variable rc of procedure mu_wait at line 359 col 55 changed to rc_
-\* Procedure variable so of procedure mu_wait at line 359 col 86 changed to so_
-\* Procedure variable old of procedure cv_wake at line 430 col 15 changed to old_c
-\* Procedure variable old of procedure cv_wait at line 462 col 15 changed to old_cv
-\* Procedure variable lt of procedure cv_wait at line 462 col 24 changed to lt_c
-\* Procedure variable rc of procedure cv_wait at line 462 col 32 changed to rc_c
-\* Parameter lt of procedure lock_slow at line 177 col 23 changed to lt_l
-\* Parameter lt of procedure unlock_slow at line 216 col 25 changed to lt_u
-\* Parameter lt of procedure mu_lock at line 277 col 21 changed to lt_m
-\* Parameter lt of procedure mu_trylock at line 290 col 24 changed to lt_mu
-\* Parameter lt of procedure mu_unlock at line 301 col 23 changed to lt_mu_
-\* Parameter dl of procedure mu_wait at line 358 col 24 changed to dl_
-\* Parameter cn of procedure mu_wait at line 358 col 28 changed to cn_
+\* Procedure variable old of procedure lock_slow at line 180 col 15 changed to old_
+\* Procedure variable old of procedure unlock_slow at line 219 col 15 changed to old_u
+\* Procedure variable rmq of procedure unlock_slow at line 219 col 101 changed to rmq_
+\* Procedure variable old of procedure mu_lock at line 280 col 15 changed to old_m
+\* Procedure variable old of procedure mu_trylock at line 293 col 15 changed to old_mu
+\* Procedure variable old of procedure mu_unlock at line 304 col 15 changed to old_mu_
+\* Procedure variable old of procedure try_acquire at line 334 col 15 changed to old_t
+\* Procedure variable old of procedure mu_wait at line 361 col 15 changed to old_mu_w
+\* Procedure variable lt of procedure mu_wait at line 361 col 24 changed to lt_
+\* Procedure variable out of procedure mu_wait at line 361 col 46 changed to out_
+\* Procedure variable rc of procedure mu_wait at line 361 col 55 changed to rc_
+\* Procedure variable so of procedure mu_wait at line 361 col 86 changed to so_
+\* Procedure variable old of procedure cv_wake at line 432 col 15 changed to old_c
+\* Procedure variable old of procedure cv_wait at line 464 col 15 changed to old_cv
+\* Procedure variable lt of procedure cv_wait at line 464 col 24 changed to lt_c
+\* Procedure variable rc of procedure cv_wait at line 464 col 32 changed to rc_c
+\* Parameter lt of procedure lock_slow at line 179 col 23 changed to lt_l
+\* Parameter lt of procedure unlock_slow at line 218 col 25 changed to lt_u
+\* Parameter lt of procedure mu_lock at line 279 col 21 changed to lt_m
+\* Parameter lt of procedure mu_trylock at line 292 col 24 changed to lt_mu
+\* Parameter lt of procedure mu_unlock at line 303 col 23 changed to lt_mu_
+\* Parameter dl of procedure mu_wait at line 360 col 24 changed to dl_
+\* Parameter cn of procedure mu_wait at line 360 col 28 changed to cn_
 CONSTANT defaultInitValue
 VARIABLES pc, word, queue, cvword, cvq, waiting, rmc, cvmu, wl, wc, sc, nww, 
-          nwsem, sem, data, now, note, nreg, held, ret, sres, picked, sleeps, 
-          inlock, ip, mw, pool, nalloc, nq, muFreed, refs, nwalive, taint3, 
-          stack
+          nwsem, nww2, nreg2, sem, data, now, note, nreg, held, ret, sres, 
+          picked, sleeps, inlock, ip, mw, pool, nalloc, nq, muFreed, refs, 
+          nwalive, taint3, stack
 
 (* define statement *)
 CurOp(t) == Prog[t][ip[t]]
@@ -654,17 +669,18 @@ VARIABLES lt_l, clear, old_, zlo, zhi, wcnt, lw, lt_u, old_u, tc, nwl, wtrs,
           ww, old_mu_, sdl, scn, lt, rc, old_t, c, dl_, cn_, old_mu_w, lt_, 
           first, out_, rc_, hadw, ata, so_, havel, tw, allr, omw, fca, sorw, 
           all, old_c, tws, alr, rmq, dl, cn, gen, old_cv, lt_c, rc_c, so, out, 
-          ndl, old, wq, dw, k, cdw, ck
+          ndl, wcn, old, wq, still2, cvr, dw, k, cdw, ck
 
 vars == << pc, word, queue, cvword, cvq, waiting, rmc, cvmu, wl, wc, sc, nww, 
-           nwsem, sem, data, now, note, nreg, held, ret, sres, picked, sleeps, 
-           inlock, ip, mw, pool, nalloc, nq, muFreed, refs, nwalive, taint3, 
-           stack, lt_l, clear, old_, zlo, zhi, wcnt, lw, lt_u, old_u, tc, nwl, 
-           wtrs, wake, wty, sor, cor, rmq_, late, lt_m, old_m, lt_mu, old_mu, 
-           lt_mu_, ww, old_mu_, sdl, scn, lt, rc, old_t, c, dl_, cn_, 
-           old_mu_w, lt_, first, out_, rc_, hadw, ata, so_, havel, tw, allr, 
-           omw, fca, sorw, all, old_c, tws, alr, rmq, dl, cn, gen, old_cv, 
-           lt_c, rc_c, so, out, ndl, old, wq, dw, k, cdw, ck >>
+           nwsem, nww2, nreg2, sem, data, now, note, nreg, held, ret, sres, 
+           picked, sleeps, inlock, ip, mw, pool, nalloc, nq, muFreed, refs, 
+           nwalive, taint3, stack, lt_l, clear, old_, zlo, zhi, wcnt, lw, 
+           lt_u, old_u, tc, nwl, wtrs, wake, wty, sor, cor, rmq_, late, lt_m, 
+           old_m, lt_mu, old_mu, lt_mu_, ww, old_mu_, sdl, scn, lt, rc, old_t, 
+           c, dl_, cn_, old_mu_w, lt_, first, out_, rc_, hadw, ata, so_, 
+           havel, tw, allr, omw, fca, sorw, all, old_c, tws, alr, rmq, dl, cn, 
+           gen, old_cv, lt_c, rc_c, so, out, ndl, wcn, old, wq, still2, cvr, 
+           dw, k, cdw, ck >>
 
 ProcSet == (Threads)
 
@@ -681,6 +697,8 @@ Init == (* Global variables *)
         /\ sc = [n |-> [w \in Waiters |-> w], p |-> [w \in Waiters |-> w]]
         /\ nww = [t \in Threads |-> 0]
         /\ nwsem = [t \in Threads |-> 0]
+        /\ nww2 = [t \in Threads |-> 0]
+        /\ nreg2 = {}
         /\ sem = [w \in Waiters |-> 0]
         /\ data = [v \in 1..NV |-> 0]
         /\ now = 0
@@ -774,8 +792,11 @@ Init == (* Global variables *)
         /\ out = [ self \in ProcSet |-> 0]
         (* Procedure wait_n *)
         /\ ndl = [ self \in ProcSet |-> defaultInitValue]
+        /\ wcn = [ self \in ProcSet |-> defaultInitValue]
         /\ old = [ self \in ProcSet |-> 0]
         /\ wq = [ self \in ProcSet |-> FALSE]
+        /\ still2 = [ self \in ProcSet |-> TRUE]
+        /\ cvr = [ self \in ProcSet |-> FALSE]
         (* Procedure debug_state *)
         /\ dw = [ self \in ProcSet |-> 0]
         /\ k = [ self \in ProcSet |-> 0]
@@ -798,33 +819,34 @@ ls_1_ld(self) == /\ pc[self] = "ls_1_ld"
                                   THEN /\ pc' = [pc EXCEPT ![self] = "ls_3_cas"]
                                   ELSE /\ pc' = [pc EXCEPT ![self] = "ls_d"]
                  /\ UNCHANGED << word, queue, cvword, cvq, waiting, rmc, sc, 
-                                 nww, nwsem, sem, data, now, note, nreg, held, 
-                                 ret, sres, picked, sleeps, inlock, ip, mw, 
-                                 pool, nalloc, nq, muFreed, refs, nwalive, 
-                                 taint3, stack, lt_l, clear, wcnt, lw, lt_u, 
-                                 old_u, tc, nwl, wtrs, wake, wty, sor, cor, 
-                                 rmq_, late, lt_m, old_m, lt_mu, old_mu, 
+                                 nww, nwsem, nww2, nreg2, sem, data, now, note, 
+                                 nreg, held, ret, sres, picked, sleeps, inlock, 
+                                 ip, mw, pool, nalloc, nq, muFreed, refs, 
+                                 nwalive, taint3, stack, lt_l, clear, wcnt, lw, 
+                                 lt_u, old_u, tc, nwl, wtrs, wake, wty, sor, 
+                                 cor, rmq_, late, lt_m, old_m, lt_mu, old_mu, 
                                  lt_mu_, ww, old_mu_, sdl, scn, lt, rc, old_t, 
                                  c, dl_, cn_, old_mu_w, lt_, first, out_, rc_, 
                                  hadw, ata, so_, havel, tw, allr, omw, fca, 
                                  sorw, all, old_c, tws, alr, rmq, dl, cn, gen, 
-                                 old_cv, lt_c, rc_c, so, out, ndl, old, wq, dw, 
-                                 k, cdw, ck >>
+                                 old_cv, lt_c, rc_c, so, out, ndl, wcn, old, 
+                                 wq, still2, cvr, dw, k, cdw, ck >>
 
 ls_d(self) == /\ pc[self] = "ls_d"
               /\ pc' = [pc EXCEPT ![self] = "ls_1_ld"]
               /\ UNCHANGED << word, queue, cvword, cvq, waiting, rmc, cvmu, wl, 
-                              wc, sc, nww, nwsem, sem, data, now, note, nreg, 
-                              held, ret, sres, picked, sleeps, inlock, ip, mw, 
-                              pool, nalloc, nq, muFreed, refs, nwalive, taint3, 
-                              stack, lt_l, clear, old_, zlo, zhi, wcnt, lw, 
-                              lt_u, old_u, tc, nwl, wtrs, wake, wty, sor, cor, 
-                              rmq_, late, lt_m, old_m, lt_mu, old_mu, lt_mu_, 
-                              ww, old_mu_, sdl, scn, lt, rc, old_t, c, dl_, 
-                              cn_, old_mu_w, lt_, first, out_, rc_, hadw, ata, 
-                              so_, havel, tw, allr, omw, fca, sorw, all, old_c, 
-                              tws, alr, rmq, dl, cn, gen, old_cv, lt_c, rc_c, 
-                              so, out, ndl, old, wq, dw, k, cdw, ck >>
+                              wc, sc, nww, nwsem, nww2, nreg2, sem, data, now, 
+                              note, nreg, held, ret, sres, picked, sleeps, 
+                              inlock, ip, mw, pool, nalloc, nq, muFreed, refs, 
+                              nwalive, taint3, stack, lt_l, clear, old_, zlo, 
+                              zhi, wcnt, lw, lt_u, old_u, tc, nwl, wtrs, wake, 
+                              wty, sor, cor, rmq_, late, lt_m, old_m, lt_mu, 
+                              old_mu, lt_mu_, ww, old_mu_, sdl, scn, lt, rc, 
+                              old_t, c, dl_, cn_, old_mu_w, lt_, first, out_, 
+                              rc_, hadw, ata, so_, havel, tw, allr, omw, fca, 
+                              sorw, all, old_c, tws, alr, rmq, dl, cn, gen, 
+                              old_cv, lt_c, rc_c, so, out, ndl, wcn, old, wq, 
+                              still2, cvr, dw, k, cdw, ck >>
 
 ls_2_cas(self) == /\ pc[self] = "ls_2_cas"
                   /\ IF word = old_[self]
@@ -844,17 +866,18 @@ ls_2_cas(self) == /\ pc[self] = "ls_2_cas"
                              /\ UNCHANGED << word, held, inlock, stack, lt_l, 
                                              clear, old_, zlo, zhi, wcnt, lw >>
                   /\ UNCHANGED << queue, cvword, cvq, waiting, rmc, cvmu, wl, 
-                                  wc, sc, nww, nwsem, sem, data, now, note, 
-                                  nreg, ret, sres, picked, sleeps, ip, mw, 
-                                  pool, nalloc, nq, muFreed, refs, nwalive, 
-                                  taint3, lt_u, old_u, tc, nwl, wtrs, wake, 
-                                  wty, sor, cor, rmq_, late, lt_m, old_m, 
+                                  wc, sc, nww, nwsem, nww2, nreg2, sem, data, 
+                                  now, note, nreg, ret, sres, picked, sleeps, 
+                                  ip, mw, pool, nalloc, nq, muFreed, refs, 
+                                  nwalive, taint3, lt_u, old_u, tc, nwl, wtrs, 
+                                  wake, wty, sor, cor, rmq_, late, lt_m, old_m, 
                                   lt_mu, old_mu, lt_mu_, ww, old_mu_, sdl, scn, 
                                   lt, rc, old_t, c, dl_, cn_, old_mu_w, lt_, 
                                   first, out_, rc_, hadw, ata, so_, havel, tw, 
                                   allr, omw, fca, sorw, all, old_c, tws, alr, 
                                   rmq, dl, cn, gen, old_cv, lt_c, rc_c, so, 
-                                  out, ndl, old, wq, dw, k, cdw, ck >>
+                                  out, ndl, wcn, old, wq, still2, cvr, dw, k, 
+                                  cdw, ck >>
 
 ls_3_cas(self) == /\ pc[self] = "ls_3_cas"
                   /\ IF word = old_[self]
@@ -863,54 +886,56 @@ ls_3_cas(self) == /\ pc[self] = "ls_3_cas"
                         ELSE /\ pc' = [pc EXCEPT ![self] = "ls_d"]
                              /\ word' = word
                   /\ UNCHANGED << queue, cvword, cvq, waiting, rmc, cvmu, wl, 
-                                  wc, sc, nww, nwsem, sem, data, now, note, 
-                                  nreg, held, ret, sres, picked, sleeps, 
-                                  inlock, ip, mw, pool, nalloc, nq, muFreed, 
-                                  refs, nwalive, taint3, stack, lt_l, clear, 
-                                  old_, zlo, zhi, wcnt, lw, lt_u, old_u, tc, 
-                                  nwl, wtrs, wake, wty, sor, cor, rmq_, late, 
-                                  lt_m, old_m, lt_mu, old_mu, lt_mu_, ww, 
+                                  wc, sc, nww, nwsem, nww2, nreg2, sem, data, 
+                                  now, note, nreg, held, ret, sres, picked, 
+                                  sleeps, inlock, ip, mw, pool, nalloc, nq, 
+                                  muFreed, refs, nwalive, taint3, stack, lt_l, 
+                                  clear, old_, zlo, zhi, wcnt, lw, lt_u, old_u, 
+                                  tc, nwl, wtrs, wake, wty, sor, cor, rmq_, 
+                                  late, lt_m, old_m, lt_mu, old_mu, lt_mu_, ww, 
                                   old_mu_, sdl, scn, lt, rc, old_t, c, dl_, 
                                   cn_, old_mu_w, lt_, first, out_, rc_, hadw, 
                                   ata, so_, havel, tw, allr, omw, fca, sorw, 
                                   all, old_c, tws, alr, rmq, dl, cn, gen, 
-                                  old_cv, lt_c, rc_c, so, out, ndl, old, wq, 
-                                  dw, k, cdw, ck >>
+                                  old_cv, lt_c, rc_c, so, out, ndl, wcn, old, 
+                                  wq, still2, cvr, dw, k, cdw, ck >>
 
 ls_4_st(self) == /\ pc[self] = "ls_4_st"
                  /\ waiting' = [waiting EXCEPT ![W(self)] = 1]
                  /\ queue' = (IF wcnt[self] = 0 THEN Append(queue, W(self)) ELSE <<W(self)>> \o queue)
                  /\ pc' = [pc EXCEPT ![self] = "ls_5_ld"]
                  /\ UNCHANGED << word, cvword, cvq, rmc, cvmu, wl, wc, sc, nww, 
-                                 nwsem, sem, data, now, note, nreg, held, ret, 
-                                 sres, picked, sleeps, inlock, ip, mw, pool, 
-                                 nalloc, nq, muFreed, refs, nwalive, taint3, 
-                                 stack, lt_l, clear, old_, zlo, zhi, wcnt, lw, 
-                                 lt_u, old_u, tc, nwl, wtrs, wake, wty, sor, 
-                                 cor, rmq_, late, lt_m, old_m, lt_mu, old_mu, 
-                                 lt_mu_, ww, old_mu_, sdl, scn, lt, rc, old_t, 
-                                 c, dl_, cn_, old_mu_w, lt_, first, out_, rc_, 
-                                 hadw, ata, so_, havel, tw, allr, omw, fca, 
-                                 sorw, all, old_c, tws, alr, rmq, dl, cn, gen, 
-                                 old_cv, lt_c, rc_c, so, out, ndl, old, wq, dw, 
-                                 k, cdw, ck >>
+                                 nwsem, nww2, nreg2, sem, data, now, note, 
+                                 nreg, held, ret, sres, picked, sleeps, inlock, 
+                                 ip, mw, pool, nalloc, nq, muFreed, refs, 
+                                 nwalive, taint3, stack, lt_l, clear, old_, 
+                                 zlo, zhi, wcnt, lw, lt_u, old_u, tc, nwl, 
+                                 wtrs, wake, wty, sor, cor, rmq_, late, lt_m, 
+                                 old_m, lt_mu, old_mu, lt_mu_, ww, old_mu_, 
+                                 sdl, scn, lt, rc, old_t, c, dl_, cn_, 
+                                 old_mu_w, lt_, first, out_, rc_, hadw, ata, 
+                                 so_, havel, tw, allr, omw, fca, sorw, all, 
+                                 old_c, tws, alr, rmq, dl, cn, gen, old_cv, 
+                                 lt_c, rc_c, so, out, ndl, wcn, old, wq, 
+                                 still2, cvr, dw, k, cdw, ck >>
 
 ls_5_ld(self) == /\ pc[self] = "ls_5_ld"
                  /\ old_' = [old_ EXCEPT ![self] = word]
                  /\ pc' = [pc EXCEPT ![self] = "ls_6_cas"]
                  /\ UNCHANGED << word, queue, cvword, cvq, waiting, rmc, cvmu, 
-                                 wl, wc, sc, nww, nwsem, sem, data, now, note, 
-                                 nreg, held, ret, sres, picked, sleeps, inlock, 
-                                 ip, mw, pool, nalloc, nq, muFreed, refs, 
-                                 nwalive, taint3, stack, lt_l, clear, zlo, zhi, 
-                                 wcnt, lw, lt_u, old_u, tc, nwl, wtrs, wake, 
-                                 wty, sor, cor, rmq_, late, lt_m, old_m, lt_mu, 
-                                 old_mu, lt_mu_, ww, old_mu_, sdl, scn, lt, rc, 
-                                 old_t, c, dl_, cn_, old_mu_w, lt_, first, 
-                                 out_, rc_, hadw, ata, so_, havel, tw, allr, 
-                                 omw, fca, sorw, all, old_c, tws, alr, rmq, dl, 
-                                 cn, gen, old_cv, lt_c, rc_c, so, out, ndl, 
-                                 old, wq, dw, k, cdw, ck >>
+                                 wl, wc, sc, nww, nwsem, nww2, nreg2, sem, 
+                                 data, now, note, nreg, held, ret, sres, 
+                                 picked, sleeps, inlock, ip, mw, pool, nalloc, 
+                                 nq, muFreed, refs, nwalive, taint3, stack, 
+                                 lt_l, clear, zlo, zhi, wcnt, lw, lt_u, old_u, 
+                                 tc, nwl, wtrs, wake, wty, sor, cor, rmq_, 
+                                 late, lt_m, old_m, lt_mu, old_mu, lt_mu_, ww, 
+                                 old_mu_, sdl, scn, lt, rc, old_t, c, dl_, cn_, 
+                                 old_mu_w, lt_, first, out_, rc_, hadw, ata, 
+                                 so_, havel, tw, allr, omw, fca, sorw, all, 
+                                 old_c, tws, alr, rmq, dl, cn, gen, old_cv, 
+                                 lt_c, rc_c, so, out, ndl, wcn, old, wq, 
+                                 still2, cvr, dw, k, cdw, ck >>
 
 ls_6_cas(self) == /\ pc[self] = "ls_6_cas"
                   /\ IF word = old_[self]
@@ -919,19 +944,19 @@ ls_6_cas(self) == /\ pc[self] = "ls_6_cas"
                         ELSE /\ pc' = [pc EXCEPT ![self] = "ls_5_ld"]
                              /\ word' = word
                   /\ UNCHANGED << queue, cvword, cvq, waiting, rmc, cvmu, wl, 
-                                  wc, sc, nww, nwsem, sem, data, now, note, 
-                                  nreg, held, ret, sres, picked, sleeps, 
-                                  inlock, ip, mw, pool, nalloc, nq, muFreed, 
-                                  refs, nwalive, taint3, stack, lt_l, clear, 
-                                  old_, zlo, zhi, wcnt, lw, lt_u, old_u, tc, 
-                                  nwl, wtrs, wake, wty, sor, cor, rmq_, late, 
-                                  lt_m, old_m, lt_mu, old_mu, lt_mu_, ww, 
+                                  wc, sc, nww, nwsem, nww2, nreg2, sem, data, 
+                                  now, note, nreg, held, ret, sres, picked, 
+                                  sleeps, inlock, ip, mw, pool, nalloc, nq, 
+                                  muFreed, refs, nwalive, taint3, stack, lt_l, 
+                                  clear, old_, zlo, zhi, wcnt, lw, lt_u, old_u, 
+                                  tc, nwl, wtrs, wake, wty, sor, cor, rmq_, 
+                                  late, lt_m, old_m, lt_mu, old_mu, lt_mu_, ww, 
                                   old_mu_, sdl, scn, lt, rc, old_t, c, dl_, 
                                   cn_, old_mu_w, lt_, first, out_, rc_, hadw, 
                                   ata, so_, havel, tw, allr, omw, fca, sorw, 
                                   all, old_c, tws, alr, rmq, dl, cn, gen, 
-                                  old_cv, lt_c, rc_c, so, out, ndl, old, wq, 
-                                  dw, k, cdw, ck >>
+                                  old_cv, lt_c, rc_c, so, out, ndl, wcn, old, 
+                                  wq, still2, cvr, dw, k, cdw, ck >>
 
 ls_7_ld(self) == /\ pc[self] = "ls_7_ld"
                  /\ IF waiting[W(self)] # 0
@@ -942,18 +967,19 @@ ls_7_ld(self) == /\ pc[self] = "ls_7_ld"
                             /\ clear' = [clear EXCEPT ![self] = DESIG]
                             /\ pc' = [pc EXCEPT ![self] = "ls_d"]
                  /\ UNCHANGED << word, queue, cvword, cvq, waiting, rmc, cvmu, 
-                                 wl, wc, sc, nww, nwsem, sem, data, now, note, 
-                                 nreg, held, ret, sres, picked, sleeps, inlock, 
-                                 ip, mw, pool, nalloc, nq, muFreed, refs, 
-                                 nwalive, taint3, stack, lt_l, old_, zlo, zhi, 
-                                 lt_u, old_u, tc, nwl, wtrs, wake, wty, sor, 
-                                 cor, rmq_, late, lt_m, old_m, lt_mu, old_mu, 
-                                 lt_mu_, ww, old_mu_, sdl, scn, lt, rc, old_t, 
-                                 c, dl_, cn_, old_mu_w, lt_, first, out_, rc_, 
-                                 hadw, ata, so_, havel, tw, allr, omw, fca, 
-                                 sorw, all, old_c, tws, alr, rmq, dl, cn, gen, 
-                                 old_cv, lt_c, rc_c, so, out, ndl, old, wq, dw, 
-                                 k, cdw, ck >>
+                                 wl, wc, sc, nww, nwsem, nww2, nreg2, sem, 
+                                 data, now, note, nreg, held, ret, sres, 
+                                 picked, sleeps, inlock, ip, mw, pool, nalloc, 
+                                 nq, muFreed, refs, nwalive, taint3, stack, 
+                                 lt_l, old_, zlo, zhi, lt_u, old_u, tc, nwl, 
+                                 wtrs, wake, wty, sor, cor, rmq_, late, lt_m, 
+                                 old_m, lt_mu, old_mu, lt_mu_, ww, old_mu_, 
+                                 sdl, scn, lt, rc, old_t, c, dl_, cn_, 
+                                 old_mu_w, lt_, first, out_, rc_, hadw, ata, 
+                                 so_, havel, tw, allr, omw, fca, sorw, all, 
+                                 old_c, tws, alr, rmq, dl, cn, gen, old_cv, 
+                                 lt_c, rc_c, so, out, ndl, wcn, old, wq, 
+                                 still2, cvr, dw, k, cdw, ck >>
 
 ls_8_p(self) == /\ pc[self] = "ls_8_p"
                 /\ sem[W(self)] > 0
@@ -961,18 +987,18 @@ ls_8_p(self) == /\ pc[self] = "ls_8_p"
                 /\ sleeps' = [sleeps EXCEPT ![self] = IF sleeps[self] >= SB THEN SB ELSE sleeps[self] + 1]
                 /\ pc' = [pc EXCEPT ![self] = "ls_7_ld"]
                 /\ UNCHANGED << word, queue, cvword, cvq, waiting, rmc, cvmu, 
-                                wl, wc, sc, nww, nwsem, data, now, note, nreg, 
-                                held, ret, sres, picked, inlock, ip, mw, pool, 
-                                nalloc, nq, muFreed, refs, nwalive, taint3, 
-                                stack, lt_l, clear, old_, zlo, zhi, wcnt, lw, 
-                                lt_u, old_u, tc, nwl, wtrs, wake, wty, sor, 
-                                cor, rmq_, late, lt_m, old_m, lt_mu, old_mu, 
-                                lt_mu_, ww, old_mu_, sdl, scn, lt, rc, old_t, 
-                                c, dl_, cn_, old_mu_w, lt_, first, out_, rc_, 
-                                hadw, ata, so_, havel, tw, allr, omw, fca, 
-                                sorw, all, old_c, tws, alr, rmq, dl, cn, gen, 
-                                old_cv, lt_c, rc_c, so, out, ndl, old, wq, dw, 
-                                k, cdw, ck >>
+                                wl, wc, sc, nww, nwsem, nww2, nreg2, data, now, 
+                                note, nreg, held, ret, sres, picked, inlock, 
+                                ip, mw, pool, nalloc, nq, muFreed, refs, 
+                                nwalive, taint3, stack, lt_l, clear, old_, zlo, 
+                                zhi, wcnt, lw, lt_u, old_u, tc, nwl, wtrs, 
+                                wake, wty, sor, cor, rmq_, late, lt_m, old_m, 
+                                lt_mu, old_mu, lt_mu_, ww, old_mu_, sdl, scn, 
+                                lt, rc, old_t, c, dl_, cn_, old_mu_w, lt_, 
+                                first, out_, rc_, hadw, ata, so_, havel, tw, 
+                                allr, omw, fca, sorw, all, old_c, tws, alr, 
+                                rmq, dl, cn, gen, old_cv, lt_c, rc_c, so, out, 
+                                ndl, wcn, old, wq, still2, cvr, dw, k, cdw, ck >>
 
 lock_slow(self) == ls_1_ld(self) \/ ls_d(self) \/ ls_2_cas(self)
                       \/ ls_3_cas(self) \/ ls_4_st(self) \/ ls_5_ld(self)
@@ -988,33 +1014,35 @@ us_1_ld(self) == /\ pc[self] = "us_1_ld"
                                   THEN /\ pc' = [pc EXCEPT ![self] = "us_3_cas"]
                                   ELSE /\ pc' = [pc EXCEPT ![self] = "us_d"]
                  /\ UNCHANGED << word, queue, cvword, cvq, waiting, rmc, cvmu, 
-                                 wl, wc, sc, nww, nwsem, sem, data, now, note, 
-                                 nreg, held, ret, sres, picked, sleeps, inlock, 
-                                 ip, mw, pool, nalloc, nq, muFreed, refs, 
-                                 nwalive, taint3, stack, lt_l, clear, old_, 
-                                 zlo, zhi, wcnt, lw, lt_u, nwl, wtrs, wake, 
-                                 wty, sor, cor, rmq_, late, lt_m, old_m, lt_mu, 
-                                 old_mu, lt_mu_, ww, old_mu_, sdl, scn, lt, rc, 
-                                 old_t, c, dl_, cn_, old_mu_w, lt_, first, 
-                                 out_, rc_, hadw, ata, so_, havel, tw, allr, 
-                                 omw, fca, sorw, all, old_c, tws, alr, rmq, dl, 
-                                 cn, gen, old_cv, lt_c, rc_c, so, out, ndl, 
-                                 old, wq, dw, k, cdw, ck >>
+                                 wl, wc, sc, nww, nwsem, nww2, nreg2, sem, 
+                                 data, now, note, nreg, held, ret, sres, 
+                                 picked, sleeps, inlock, ip, mw, pool, nalloc, 
+                                 nq, muFreed, refs, nwalive, taint3, stack, 
+                                 lt_l, clear, old_, zlo, zhi, wcnt, lw, lt_u, 
+                                 nwl, wtrs, wake, wty, sor, cor, rmq_, late, 
+                                 lt_m, old_m, lt_mu, old_mu, lt_mu_, ww, 
+                                 old_mu_, sdl, scn, lt, rc, old_t, c, dl_, cn_, 
+                                 old_mu_w, lt_, first, out_, rc_, hadw, ata, 
+                                 so_, havel, tw, allr, omw, fca, sorw, all, 
+                                 old_c, tws, alr, rmq, dl, cn, gen, old_cv, 
+                                 lt_c, rc_c, so, out, ndl, wcn, old, wq, 
+                                 still2, cvr, dw, k, cdw, ck >>
 
 us_d(self) == /\ pc[self] = "us_d"
               /\ pc' = [pc EXCEPT ![self] = "us_1_ld"]
               /\ UNCHANGED << word, queue, cvword, cvq, waiting, rmc, cvmu, wl, 
-                              wc, sc, nww, nwsem, sem, data, now, note, nreg, 
-                              held, ret, sres, picked, sleeps, inlock, ip, mw, 
-                              pool, nalloc, nq, muFreed, refs, nwalive, taint3, 
-                              stack, lt_l, clear, old_, zlo, zhi, wcnt, lw, 
-                              lt_u, old_u, tc, nwl, wtrs, wake, wty, sor, cor, 
-                              rmq_, late, lt_m, old_m, lt_mu, old_mu, lt_mu_, 
-                              ww, old_mu_, sdl, scn, lt, rc, old_t, c, dl_, 
-                              cn_, old_mu_w, lt_, first, out_, rc_, hadw, ata, 
-                              so_, havel, tw, allr, omw, fca, sorw, all, old_c, 
-                              tws, alr, rmq, dl, cn, gen, old_cv, lt_c, rc_c, 
-                              so, out, ndl, old, wq, dw, k, cdw, ck >>
+                              wc, sc, nww, nwsem, nww2, nreg2, sem, data, now, 
+                              note, nreg, held, ret, sres, picked, sleeps, 
+                              inlock, ip, mw, pool, nalloc, nq, muFreed, refs, 
+                              nwalive, taint3, stack, lt_l, clear, old_, zlo, 
+                              zhi, wcnt, lw, lt_u, old_u, tc, nwl, wtrs, wake, 
+                              wty, sor, cor, rmq_, late, lt_m, old_m, lt_mu, 
+                              old_mu, lt_mu_, ww, old_mu_, sdl, scn, lt, rc, 
+                              old_t, c, dl_, cn_, old_mu_w, lt_, first, out_, 
+                              rc_, hadw, ata, so_, havel, tw, allr, omw, fca, 
+                              sorw, all, old_c, tws, alr, rmq, dl, cn, gen, 
+                              old_cv, lt_c, rc_c, so, out, ndl, wcn, old, wq, 
+                              still2, cvr, dw, k, cdw, ck >>
 
 us_2_cas(self) == /\ pc[self] = "us_2_cas"
                   /\ IF word = old_u[self]
@@ -1037,17 +1065,18 @@ us_2_cas(self) == /\ pc[self] = "us_2_cas"
                                              wtrs, wake, wty, sor, cor, rmq_, 
                                              late >>
                   /\ UNCHANGED << queue, cvword, cvq, waiting, rmc, cvmu, wl, 
-                                  wc, sc, nww, nwsem, sem, data, now, note, 
-                                  nreg, held, ret, sres, picked, sleeps, 
-                                  inlock, ip, mw, pool, nalloc, nq, muFreed, 
-                                  refs, nwalive, taint3, lt_l, clear, old_, 
-                                  zlo, zhi, wcnt, lw, lt_m, old_m, lt_mu, 
+                                  wc, sc, nww, nwsem, nww2, nreg2, sem, data, 
+                                  now, note, nreg, held, ret, sres, picked, 
+                                  sleeps, inlock, ip, mw, pool, nalloc, nq, 
+                                  muFreed, refs, nwalive, taint3, lt_l, clear, 
+                                  old_, zlo, zhi, wcnt, lw, lt_m, old_m, lt_mu, 
                                   old_mu, lt_mu_, ww, old_mu_, sdl, scn, lt, 
                                   rc, old_t, c, dl_, cn_, old_mu_w, lt_, first, 
                                   out_, rc_, hadw, ata, so_, havel, tw, allr, 
                                   omw, fca, sorw, all, old_c, tws, alr, rmq, 
                                   dl, cn, gen, old_cv, lt_c, rc_c, so, out, 
-                                  ndl, old, wq, dw, k, cdw, ck >>
+                                  ndl, wcn, old, wq, still2, cvr, dw, k, cdw, 
+                                  ck >>
 
 us_3_cas(self) == /\ pc[self] = "us_3_cas"
                   /\ IF word = old_u[self]
@@ -1064,18 +1093,18 @@ us_3_cas(self) == /\ pc[self] = "us_3_cas"
                              /\ UNCHANGED << word, queue, nwl, wtrs, wake, wty, 
                                              sor, late >>
                   /\ UNCHANGED << cvword, cvq, waiting, rmc, cvmu, wl, wc, sc, 
-                                  nww, nwsem, sem, data, now, note, nreg, held, 
-                                  ret, sres, picked, sleeps, inlock, ip, mw, 
-                                  pool, nalloc, nq, muFreed, refs, nwalive, 
-                                  taint3, stack, lt_l, clear, old_, zlo, zhi, 
-                                  wcnt, lw, lt_u, old_u, tc, cor, rmq_, lt_m, 
-                                  old_m, lt_mu, old_mu, lt_mu_, ww, old_mu_, 
-                                  sdl, scn, lt, rc, old_t, c, dl_, cn_, 
-                                  old_mu_w, lt_, first, out_, rc_, hadw, ata, 
-                                  so_, havel, tw, allr, omw, fca, sorw, all, 
-                                  old_c, tws, alr, rmq, dl, cn, gen, old_cv, 
-                                  lt_c, rc_c, so, out, ndl, old, wq, dw, k, 
-                                  cdw, ck >>
+                                  nww, nwsem, nww2, nreg2, sem, data, now, 
+                                  note, nreg, held, ret, sres, picked, sleeps, 
+                                  inlock, ip, mw, pool, nalloc, nq, muFreed, 
+                                  refs, nwalive, taint3, stack, lt_l, clear, 
+                                  old_, zlo, zhi, wcnt, lw, lt_u, old_u, tc, 
+                                  cor, rmq_, lt_m, old_m, lt_mu, old_mu, 
+                                  lt_mu_, ww, old_mu_, sdl, scn, lt, rc, old_t, 
+                                  c, dl_, cn_, old_mu_w, lt_, first, out_, rc_, 
+                                  hadw, ata, so_, havel, tw, allr, omw, fca, 
+                                  sorw, all, old_c, tws, alr, rmq, dl, cn, gen, 
+                                  old_cv, lt_c, rc_c, so, out, ndl, wcn, old, 
+                                  wq, still2, cvr, dw, k, cdw, ck >>
 
 us_pass_l(self) == /\ pc[self] = "us_pass_l"
                    /\ IF nwl[self] = <<>>
@@ -1088,56 +1117,56 @@ us_pass_l(self) == /\ pc[self] = "us_pass_l"
                               /\ pc' = [pc EXCEPT ![self] = "us_rel_l"]
                               /\ UNCHANGED << queue, cor >>
                    /\ UNCHANGED << word, cvword, cvq, waiting, rmc, cvmu, wl, 
-                                   wc, sc, nww, nwsem, sem, data, now, note, 
-                                   nreg, held, ret, sres, picked, sleeps, 
-                                   inlock, ip, mw, pool, nalloc, nq, muFreed, 
-                                   refs, nwalive, taint3, stack, lt_l, clear, 
-                                   old_, zlo, zhi, wcnt, lw, lt_u, old_u, nwl, 
-                                   wtrs, wake, wty, sor, rmq_, late, lt_m, 
-                                   old_m, lt_mu, old_mu, lt_mu_, ww, old_mu_, 
-                                   sdl, scn, lt, rc, old_t, c, dl_, cn_, 
-                                   old_mu_w, lt_, first, out_, rc_, hadw, ata, 
-                                   so_, havel, tw, allr, omw, fca, sorw, all, 
-                                   old_c, tws, alr, rmq, dl, cn, gen, old_cv, 
-                                   lt_c, rc_c, so, out, ndl, old, wq, dw, k, 
-                                   cdw, ck >>
+                                   wc, sc, nww, nwsem, nww2, nreg2, sem, data, 
+                                   now, note, nreg, held, ret, sres, picked, 
+                                   sleeps, inlock, ip, mw, pool, nalloc, nq, 
+                                   muFreed, refs, nwalive, taint3, stack, lt_l, 
+                                   clear, old_, zlo, zhi, wcnt, lw, lt_u, 
+                                   old_u, nwl, wtrs, wake, wty, sor, rmq_, 
+                                   late, lt_m, old_m, lt_mu, old_mu, lt_mu_, 
+                                   ww, old_mu_, sdl, scn, lt, rc, old_t, c, 
+                                   dl_, cn_, old_mu_w, lt_, first, out_, rc_, 
+                                   hadw, ata, so_, havel, tw, allr, omw, fca, 
+                                   sorw, all, old_c, tws, alr, rmq, dl, cn, 
+                                   gen, old_cv, lt_c, rc_c, so, out, ndl, wcn, 
+                                   old, wq, still2, cvr, dw, k, cdw, ck >>
 
 us_rel_l(self) == /\ pc[self] = "us_rel_l"
                   /\ IF tc[self]
                         THEN /\ pc' = [pc EXCEPT ![self] = "us_rs_ld"]
                         ELSE /\ pc' = [pc EXCEPT ![self] = "us_scan_l"]
                   /\ UNCHANGED << word, queue, cvword, cvq, waiting, rmc, cvmu, 
-                                  wl, wc, sc, nww, nwsem, sem, data, now, note, 
-                                  nreg, held, ret, sres, picked, sleeps, 
-                                  inlock, ip, mw, pool, nalloc, nq, muFreed, 
-                                  refs, nwalive, taint3, stack, lt_l, clear, 
-                                  old_, zlo, zhi, wcnt, lw, lt_u, old_u, tc, 
-                                  nwl, wtrs, wake, wty, sor, cor, rmq_, late, 
-                                  lt_m, old_m, lt_mu, old_mu, lt_mu_, ww, 
-                                  old_mu_, sdl, scn, lt, rc, old_t, c, dl_, 
-                                  cn_, old_mu_w, lt_, first, out_, rc_, hadw, 
-                                  ata, so_, havel, tw, allr, omw, fca, sorw, 
-                                  all, old_c, tws, alr, rmq, dl, cn, gen, 
-                                  old_cv, lt_c, rc_c, so, out, ndl, old, wq, 
-                                  dw, k, cdw, ck >>
+                                  wl, wc, sc, nww, nwsem, nww2, nreg2, sem, 
+                                  data, now, note, nreg, held, ret, sres, 
+                                  picked, sleeps, inlock, ip, mw, pool, nalloc, 
+                                  nq, muFreed, refs, nwalive, taint3, stack, 
+                                  lt_l, clear, old_, zlo, zhi, wcnt, lw, lt_u, 
+                                  old_u, tc, nwl, wtrs, wake, wty, sor, cor, 
+                                  rmq_, late, lt_m, old_m, lt_mu, old_mu, 
+                                  lt_mu_, ww, old_mu_, sdl, scn, lt, rc, old_t, 
+                                  c, dl_, cn_, old_mu_w, lt_, first, out_, rc_, 
+                                  hadw, ata, so_, havel, tw, allr, omw, fca, 
+                                  sorw, all, old_c, tws, alr, rmq, dl, cn, gen, 
+                                  old_cv, lt_c, rc_c, so, out, ndl, wcn, old, 
+                                  wq, still2, cvr, dw, k, cdw, ck >>
 
 us_rs_ld(self) == /\ pc[self] = "us_rs_ld"
                   /\ old_u' = [old_u EXCEPT ![self] = word]
                   /\ pc' = [pc EXCEPT ![self] = "us_rs_cas"]
                   /\ UNCHANGED << word, queue, cvword, cvq, waiting, rmc, cvmu, 
-                                  wl, wc, sc, nww, nwsem, sem, data, now, note, 
-                                  nreg, held, ret, sres, picked, sleeps, 
-                                  inlock, ip, mw, pool, nalloc, nq, muFreed, 
-                                  refs, nwalive, taint3, stack, lt_l, clear, 
-                                  old_, zlo, zhi, wcnt, lw, lt_u, tc, nwl, 
-                                  wtrs, wake, wty, sor, cor, rmq_, late, lt_m, 
-                                  old_m, lt_mu, old_mu, lt_mu_, ww, old_mu_, 
-                                  sdl, scn, lt, rc, old_t, c, dl_, cn_, 
-                                  old_mu_w, lt_, first, out_, rc_, hadw, ata, 
-                                  so_, havel, tw, allr, omw, fca, sorw, all, 
-                                  old_c, tws, alr, rmq, dl, cn, gen, old_cv, 
-                                  lt_c, rc_c, so, out, ndl, old, wq, dw, k, 
-                                  cdw, ck >>
+                                  wl, wc, sc, nww, nwsem, nww2, nreg2, sem, 
+                                  data, now, note, nreg, held, ret, sres, 
+                                  picked, sleeps, inlock, ip, mw, pool, nalloc, 
+                                  nq, muFreed, refs, nwalive, taint3, stack, 
+                                  lt_l, clear, old_, zlo, zhi, wcnt, lw, lt_u, 
+                                  tc, nwl, wtrs, wake, wty, sor, cor, rmq_, 
+                                  late, lt_m, old_m, lt_mu, old_mu, lt_mu_, ww, 
+                                  old_mu_, sdl, scn, lt, rc, old_t, c, dl_, 
+                                  cn_, old_mu_w, lt_, first, out_, rc_, hadw, 
+                                  ata, so_, havel, tw, allr, omw, fca, sorw, 
+                                  all, old_c, tws, alr, rmq, dl, cn, gen, 
+                                  old_cv, lt_c, rc_c, so, out, ndl, wcn, old, 
+                                  wq, still2, cvr, dw, k, cdw, ck >>
 
 us_rs_cas(self) == /\ pc[self] = "us_rs_cas"
                    /\ IF word = old_u[self]
@@ -1146,24 +1175,25 @@ us_rs_cas(self) == /\ pc[self] = "us_rs_cas"
                          ELSE /\ pc' = [pc EXCEPT ![self] = "us_rs_ld"]
                               /\ word' = word
                    /\ UNCHANGED << queue, cvword, cvq, waiting, rmc, cvmu, wl, 
-                                   wc, sc, nww, nwsem, sem, data, now, note, 
-                                   nreg, held, ret, sres, picked, sleeps, 
-                                   inlock, ip, mw, pool, nalloc, nq, muFreed, 
-                                   refs, nwalive, taint3, stack, lt_l, clear, 
-                                   old_, zlo, zhi, wcnt, lw, lt_u, old_u, tc, 
-                                   nwl, wtrs, wake, wty, sor, cor, rmq_, late, 
-                                   lt_m, old_m, lt_mu, old_mu, lt_mu_, ww, 
-                                   old_mu_, sdl, scn, lt, rc, old_t, c, dl_, 
-                                   cn_, old_mu_w, lt_, first, out_, rc_, hadw, 
-                                   ata, so_, havel, tw, allr, omw, fca, sorw, 
-                                   all, old_c, tws, alr, rmq, dl, cn, gen, 
-                                   old_cv, lt_c, rc_c, so, out, ndl, old, wq, 
-                                   dw, k, cdw, ck >>
+                                   wc, sc, nww, nwsem, nww2, nreg2, sem, data, 
+                                   now, note, nreg, held, ret, sres, picked, 
+                                   sleeps, inlock, ip, mw, pool, nalloc, nq, 
+                                   muFreed, refs, nwalive, taint3, stack, lt_l, 
+                                   clear, old_, zlo, zhi, wcnt, lw, lt_u, 
+                                   old_u, tc, nwl, wtrs, wake, wty, sor, cor, 
+                                   rmq_, late, lt_m, old_m, lt_mu, old_mu, 
+                                   lt_mu_, ww, old_mu_, sdl, scn, lt, rc, 
+                                   old_t, c, dl_, cn_, old_mu_w, lt_, first, 
+                                   out_, rc_, hadw, ata, so_, havel, tw, allr, 
+                                   omw, fca, sorw, all, old_c, tws, alr, rmq, 
+                                   dl, cn, gen, old_cv, lt_c, rc_c, so, out, 
+                                   ndl, wcn, old, wq, still2, cvr, dw, k, cdw, 
+                                   ck >>
 
 us_scan_l(self) == /\ pc[self] = "us_scan_l"
                    /\ LET r == Scan(nwl[self], 1, <<>>, wty[self], sor[self], sc, wc, wl, data, tc[self]) IN
                         /\ Assert(tc[self] => ((word & WLOCK) # 0 /\ \A u \in Threads : held[u] = 0), 
-                                  "Failure of assertion at line 248, column 16.")
+                                  "Failure of assertion at line 250, column 16.")
                         /\ nwl' = [nwl EXCEPT ![self] = r.l]
                         /\ rmq_' = [rmq_ EXCEPT ![self] = r.wake]
                         /\ wake' = [wake EXCEPT ![self] = wake[self] \o r.wake]
@@ -1172,93 +1202,95 @@ us_scan_l(self) == /\ pc[self] = "us_scan_l"
                         /\ sor' = [sor EXCEPT ![self] = IF r.more THEN Clr(r.sor, ALLF) ELSE r.sor]
                    /\ pc' = [pc EXCEPT ![self] = "us_rmq_l"]
                    /\ UNCHANGED << word, queue, cvword, cvq, waiting, rmc, 
-                                   cvmu, wl, wc, nww, nwsem, sem, data, now, 
-                                   note, nreg, held, ret, sres, picked, sleeps, 
-                                   inlock, ip, mw, pool, nalloc, nq, muFreed, 
-                                   refs, nwalive, taint3, stack, lt_l, clear, 
-                                   old_, zlo, zhi, wcnt, lw, lt_u, old_u, tc, 
-                                   wtrs, cor, late, lt_m, old_m, lt_mu, old_mu, 
-                                   lt_mu_, ww, old_mu_, sdl, scn, lt, rc, 
-                                   old_t, c, dl_, cn_, old_mu_w, lt_, first, 
-                                   out_, rc_, hadw, ata, so_, havel, tw, allr, 
-                                   omw, fca, sorw, all, old_c, tws, alr, rmq, 
-                                   dl, cn, gen, old_cv, lt_c, rc_c, so, out, 
-                                   ndl, old, wq, dw, k, cdw, ck >>
+                                   cvmu, wl, wc, nww, nwsem, nww2, nreg2, sem, 
+                                   data, now, note, nreg, held, ret, sres, 
+                                   picked, sleeps, inlock, ip, mw, pool, 
+                                   nalloc, nq, muFreed, refs, nwalive, taint3, 
+                                   stack, lt_l, clear, old_, zlo, zhi, wcnt, 
+                                   lw, lt_u, old_u, tc, wtrs, cor, late, lt_m, 
+                                   old_m, lt_mu, old_mu, lt_mu_, ww, old_mu_, 
+                                   sdl, scn, lt, rc, old_t, c, dl_, cn_, 
+                                   old_mu_w, lt_, first, out_, rc_, hadw, ata, 
+                                   so_, havel, tw, allr, omw, fca, sorw, all, 
+                                   old_c, tws, alr, rmq, dl, cn, gen, old_cv, 
+                                   lt_c, rc_c, so, out, ndl, wcn, old, wq, 
+                                   still2, cvr, dw, k, cdw, ck >>
 
 us_rmq_l(self) == /\ pc[self] = "us_rmq_l"
                   /\ IF rmq_[self] = <<>>
                         THEN /\ pc' = [pc EXCEPT ![self] = "us_after_l"]
                         ELSE /\ pc' = [pc EXCEPT ![self] = "us_rm_ld"]
                   /\ UNCHANGED << word, queue, cvword, cvq, waiting, rmc, cvmu, 
-                                  wl, wc, sc, nww, nwsem, sem, data, now, note, 
-                                  nreg, held, ret, sres, picked, sleeps, 
-                                  inlock, ip, mw, pool, nalloc, nq, muFreed, 
-                                  refs, nwalive, taint3, stack, lt_l, clear, 
-                                  old_, zlo, zhi, wcnt, lw, lt_u, old_u, tc, 
-                                  nwl, wtrs, wake, wty, sor, cor, rmq_, late, 
-                                  lt_m, old_m, lt_mu, old_mu, lt_mu_, ww, 
-                                  old_mu_, sdl, scn, lt, rc, old_t, c, dl_, 
-                                  cn_, old_mu_w, lt_, first, out_, rc_, hadw, 
-                                  ata, so_, havel, tw, allr, omw, fca, sorw, 
-                                  all, old_c, tws, alr, rmq, dl, cn, gen, 
-                                  old_cv, lt_c, rc_c, so, out, ndl, old, wq, 
-                                  dw, k, cdw, ck >>
+                                  wl, wc, sc, nww, nwsem, nww2, nreg2, sem, 
+                                  data, now, note, nreg, held, ret, sres, 
+                                  picked, sleeps, inlock, ip, mw, pool, nalloc, 
+                                  nq, muFreed, refs, nwalive, taint3, stack, 
+                                  lt_l, clear, old_, zlo, zhi, wcnt, lw, lt_u, 
+                                  old_u, tc, nwl, wtrs, wake, wty, sor, cor, 
+                                  rmq_, late, lt_m, old_m, lt_mu, old_mu, 
+                                  lt_mu_, ww, old_mu_, sdl, scn, lt, rc, old_t, 
+                                  c, dl_, cn_, old_mu_w, lt_, first, out_, rc_, 
+                                  hadw, ata, so_, havel, tw, allr, omw, fca, 
+                                  sorw, all, old_c, tws, alr, rmq, dl, cn, gen, 
+                                  old_cv, lt_c, rc_c, so, out, ndl, wcn, old, 
+                                  wq, still2, cvr, dw, k, cdw, ck >>
 
 us_rm_ld(self) == /\ pc[self] = "us_rm_ld"
                   /\ TRUE
                   /\ pc' = [pc EXCEPT ![self] = "us_rm_cas"]
                   /\ UNCHANGED << word, queue, cvword, cvq, waiting, rmc, cvmu, 
-                                  wl, wc, sc, nww, nwsem, sem, data, now, note, 
-                                  nreg, held, ret, sres, picked, sleeps, 
-                                  inlock, ip, mw, pool, nalloc, nq, muFreed, 
-                                  refs, nwalive, taint3, stack, lt_l, clear, 
-                                  old_, zlo, zhi, wcnt, lw, lt_u, old_u, tc, 
-                                  nwl, wtrs, wake, wty, sor, cor, rmq_, late, 
-                                  lt_m, old_m, lt_mu, old_mu, lt_mu_, ww, 
-                                  old_mu_, sdl, scn, lt, rc, old_t, c, dl_, 
-                                  cn_, old_mu_w, lt_, first, out_, rc_, hadw, 
-                                  ata, so_, havel, tw, allr, omw, fca, sorw, 
-                                  all, old_c, tws, alr, rmq, dl, cn, gen, 
-                                  old_cv, lt_c, rc_c, so, out, ndl, old, wq, 
-                                  dw, k, cdw, ck >>
+                                  wl, wc, sc, nww, nwsem, nww2, nreg2, sem, 
+                                  data, now, note, nreg, held, ret, sres, 
+                                  picked, sleeps, inlock, ip, mw, pool, nalloc, 
+                                  nq, muFreed, refs, nwalive, taint3, stack, 
+                                  lt_l, clear, old_, zlo, zhi, wcnt, lw, lt_u, 
+                                  old_u, tc, nwl, wtrs, wake, wty, sor, cor, 
+                                  rmq_, late, lt_m, old_m, lt_mu, old_mu, 
+                                  lt_mu_, ww, old_mu_, sdl, scn, lt, rc, old_t, 
+                                  c, dl_, cn_, old_mu_w, lt_, first, out_, rc_, 
+                                  hadw, ata, so_, havel, tw, allr, omw, fca, 
+                                  sorw, all, old_c, tws, alr, rmq, dl, cn, gen, 
+                                  old_cv, lt_c, rc_c, so, out, ndl, wcn, old, 
+                                  wq, still2, cvr, dw, k, cdw, ck >>
 
 us_rm_cas(self) == /\ pc[self] = "us_rm_cas"
                    /\ rmc' = [rmc EXCEPT ![Head(rmq_[self])] = rmc[Head(rmq_[self])] + 1]
                    /\ rmq_' = [rmq_ EXCEPT ![self] = Tail(rmq_[self])]
                    /\ pc' = [pc EXCEPT ![self] = "us_rmq_l"]
                    /\ UNCHANGED << word, queue, cvword, cvq, waiting, cvmu, wl, 
-                                   wc, sc, nww, nwsem, sem, data, now, note, 
-                                   nreg, held, ret, sres, picked, sleeps, 
-                                   inlock, ip, mw, pool, nalloc, nq, muFreed, 
-                                   refs, nwalive, taint3, stack, lt_l, clear, 
-                                   old_, zlo, zhi, wcnt, lw, lt_u, old_u, tc, 
-                                   nwl, wtrs, wake, wty, sor, cor, late, lt_m, 
-                                   old_m, lt_mu, old_mu, lt_mu_, ww, old_mu_, 
-                                   sdl, scn, lt, rc, old_t, c, dl_, cn_, 
-                                   old_mu_w, lt_, first, out_, rc_, hadw, ata, 
-                                   so_, havel, tw, allr, omw, fca, sorw, all, 
-                                   old_c, tws, alr, rmq, dl, cn, gen, old_cv, 
-                                   lt_c, rc_c, so, out, ndl, old, wq, dw, k, 
-                                   cdw, ck >>
+                                   wc, sc, nww, nwsem, nww2, nreg2, sem, data, 
+                                   now, note, nreg, held, ret, sres, picked, 
+                                   sleeps, inlock, ip, mw, pool, nalloc, nq, 
+                                   muFreed, refs, nwalive, taint3, stack, lt_l, 
+                                   clear, old_, zlo, zhi, wcnt, lw, lt_u, 
+                                   old_u, tc, nwl, wtrs, wake, wty, sor, cor, 
+                                   late, lt_m, old_m, lt_mu, old_mu, lt_mu_, 
+                                   ww, old_mu_, sdl, scn, lt, rc, old_t, c, 
+                                   dl_, cn_, old_mu_w, lt_, first, out_, rc_, 
+                                   hadw, ata, so_, havel, tw, allr, omw, fca, 
+                                   sorw, all, old_c, tws, alr, rmq, dl, cn, 
+                                   gen, old_cv, lt_c, rc_c, so, out, ndl, wcn, 
+                                   old, wq, still2, cvr, dw, k, cdw, ck >>
 
 us_after_l(self) == /\ pc[self] = "us_after_l"
                     /\ IF tc[self]
                           THEN /\ pc' = [pc EXCEPT ![self] = "us_ts_ld"]
                           ELSE /\ pc' = [pc EXCEPT ![self] = "us_merge_l"]
                     /\ UNCHANGED << word, queue, cvword, cvq, waiting, rmc, 
-                                    cvmu, wl, wc, sc, nww, nwsem, sem, data, 
-                                    now, note, nreg, held, ret, sres, picked, 
-                                    sleeps, inlock, ip, mw, pool, nalloc, nq, 
-                                    muFreed, refs, nwalive, taint3, stack, 
-                                    lt_l, clear, old_, zlo, zhi, wcnt, lw, 
-                                    lt_u, old_u, tc, nwl, wtrs, wake, wty, sor, 
-                                    cor, rmq_, late, lt_m, old_m, lt_mu, 
+                                    cvmu, wl, wc, sc, nww, nwsem, nww2, nreg2, 
+                                    sem, data, now, note, nreg, held, ret, 
+                                    sres, picked, sleeps, inlock, ip, mw, pool, 
+                                    nalloc, nq, muFreed, refs, nwalive, taint3, 
+                                    stack, lt_l, clear, old_, zlo, zhi, wcnt, 
+                                    lw, lt_u, old_u, tc, nwl, wtrs, wake, wty, 
+                                    sor, cor, rmq_, late, lt_m, old_m, lt_mu, 
                                     old_mu, lt_mu_, ww, old_mu_, sdl, scn, lt, 
                                     rc, old_t, c, dl_, cn_, old_mu_w, lt_, 
                                     first, out_, rc_, hadw, ata, so_, havel, 
                                     tw, allr, omw, fca, sorw, all, old_c, tws, 
                                     alr, rmq, dl, cn, gen, old_cv, lt_c, rc_c, 
-                                    so, out, ndl, old, wq, dw, k, cdw, ck >>
+                                    so, out, ndl, wcn, old, wq, still2, cvr, 
+                                    dw, k, cdw, ck >>
 
 us_ts_ld(self) == /\ pc[self] = "us_ts_ld"
                   /\ old_u' = [old_u EXCEPT ![self] = word]
@@ -1266,19 +1298,19 @@ us_ts_ld(self) == /\ pc[self] = "us_ts_ld"
                         THEN /\ pc' = [pc EXCEPT ![self] = "us_ts_d"]
                         ELSE /\ pc' = [pc EXCEPT ![self] = "us_ts_cas"]
                   /\ UNCHANGED << word, queue, cvword, cvq, waiting, rmc, cvmu, 
-                                  wl, wc, sc, nww, nwsem, sem, data, now, note, 
-                                  nreg, held, ret, sres, picked, sleeps, 
-                                  inlock, ip, mw, pool, nalloc, nq, muFreed, 
-                                  refs, nwalive, taint3, stack, lt_l, clear, 
-                                  old_, zlo, zhi, wcnt, lw, lt_u, tc, nwl, 
-                                  wtrs, wake, wty, sor, cor, rmq_, late, lt_m, 
-                                  old_m, lt_mu, old_mu, lt_mu_, ww, old_mu_, 
-                                  sdl, scn, lt, rc, old_t, c, dl_, cn_, 
-                                  old_mu_w, lt_, first, out_, rc_, hadw, ata, 
-                                  so_, havel, tw, allr, omw, fca, sorw, all, 
-                                  old_c, tws, alr, rmq, dl, cn, gen, old_cv, 
-                                  lt_c, rc_c, so, out, ndl, old, wq, dw, k, 
-                                  cdw, ck >>
+                                  wl, wc, sc, nww, nwsem, nww2, nreg2, sem, 
+                                  data, now, note, nreg, held, ret, sres, 
+                                  picked, sleeps, inlock, ip, mw, pool, nalloc, 
+                                  nq, muFreed, refs, nwalive, taint3, stack, 
+                                  lt_l, clear, old_, zlo, zhi, wcnt, lw, lt_u, 
+                                  tc, nwl, wtrs, wake, wty, sor, cor, rmq_, 
+                                  late, lt_m, old_m, lt_mu, old_mu, lt_mu_, ww, 
+                                  old_mu_, sdl, scn, lt, rc, old_t, c, dl_, 
+                                  cn_, old_mu_w, lt_, first, out_, rc_, hadw, 
+                                  ata, so_, havel, tw, allr, omw, fca, sorw, 
+                                  all, old_c, tws, alr, rmq, dl, cn, gen, 
+                                  old_cv, lt_c, rc_c, so, out, ndl, wcn, old, 
+                                  wq, still2, cvr, dw, k, cdw, ck >>
 
 us_ts_cas(self) == /\ pc[self] = "us_ts_cas"
                    /\ IF word = old_u[self]
@@ -1287,36 +1319,37 @@ us_ts_cas(self) == /\ pc[self] = "us_ts_cas"
                          ELSE /\ pc' = [pc EXCEPT ![self] = "us_ts_d"]
                               /\ word' = word
                    /\ UNCHANGED << queue, cvword, cvq, waiting, rmc, cvmu, wl, 
-                                   wc, sc, nww, nwsem, sem, data, now, note, 
-                                   nreg, held, ret, sres, picked, sleeps, 
-                                   inlock, ip, mw, pool, nalloc, nq, muFreed, 
-                                   refs, nwalive, taint3, stack, lt_l, clear, 
-                                   old_, zlo, zhi, wcnt, lw, lt_u, old_u, tc, 
-                                   nwl, wtrs, wake, wty, sor, cor, rmq_, late, 
-                                   lt_m, old_m, lt_mu, old_mu, lt_mu_, ww, 
-                                   old_mu_, sdl, scn, lt, rc, old_t, c, dl_, 
-                                   cn_, old_mu_w, lt_, first, out_, rc_, hadw, 
-                                   ata, so_, havel, tw, allr, omw, fca, sorw, 
-                                   all, old_c, tws, alr, rmq, dl, cn, gen, 
-                                   old_cv, lt_c, rc_c, so, out, ndl, old, wq, 
-                                   dw, k, cdw, ck >>
+                                   wc, sc, nww, nwsem, nww2, nreg2, sem, data, 
+                                   now, note, nreg, held, ret, sres, picked, 
+                                   sleeps, inlock, ip, mw, pool, nalloc, nq, 
+                                   muFreed, refs, nwalive, taint3, stack, lt_l, 
+                                   clear, old_, zlo, zhi, wcnt, lw, lt_u, 
+                                   old_u, tc, nwl, wtrs, wake, wty, sor, cor, 
+                                   rmq_, late, lt_m, old_m, lt_mu, old_mu, 
+                                   lt_mu_, ww, old_mu_, sdl, scn, lt, rc, 
+                                   old_t, c, dl_, cn_, old_mu_w, lt_, first, 
+                                   out_, rc_, hadw, ata, so_, havel, tw, allr, 
+                                   omw, fca, sorw, all, old_c, tws, alr, rmq, 
+                                   dl, cn, gen, old_cv, lt_c, rc_c, so, out, 
+                                   ndl, wcn, old, wq, still2, cvr, dw, k, cdw, 
+                                   ck >>
 
 us_ts_d(self) == /\ pc[self] = "us_ts_d"
                  /\ pc' = [pc EXCEPT ![self] = "us_ts_ld"]
                  /\ UNCHANGED << word, queue, cvword, cvq, waiting, rmc, cvmu, 
-                                 wl, wc, sc, nww, nwsem, sem, data, now, note, 
-                                 nreg, held, ret, sres, picked, sleeps, inlock, 
-                                 ip, mw, pool, nalloc, nq, muFreed, refs, 
-                                 nwalive, taint3, stack, lt_l, clear, old_, 
-                                 zlo, zhi, wcnt, lw, lt_u, old_u, tc, nwl, 
-                                 wtrs, wake, wty, sor, cor, rmq_, late, lt_m, 
-                                 old_m, lt_mu, old_mu, lt_mu_, ww, old_mu_, 
-                                 sdl, scn, lt, rc, old_t, c, dl_, cn_, 
-                                 old_mu_w, lt_, first, out_, rc_, hadw, ata, 
-                                 so_, havel, tw, allr, omw, fca, sorw, all, 
-                                 old_c, tws, alr, rmq, dl, cn, gen, old_cv, 
-                                 lt_c, rc_c, so, out, ndl, old, wq, dw, k, cdw, 
-                                 ck >>
+                                 wl, wc, sc, nww, nwsem, nww2, nreg2, sem, 
+                                 data, now, note, nreg, held, ret, sres, 
+                                 picked, sleeps, inlock, ip, mw, pool, nalloc, 
+                                 nq, muFreed, refs, nwalive, taint3, stack, 
+                                 lt_l, clear, old_, zlo, zhi, wcnt, lw, lt_u, 
+                                 old_u, tc, nwl, wtrs, wake, wty, sor, cor, 
+                                 rmq_, late, lt_m, old_m, lt_mu, old_mu, 
+                                 lt_mu_, ww, old_mu_, sdl, scn, lt, rc, old_t, 
+                                 c, dl_, cn_, old_mu_w, lt_, first, out_, rc_, 
+                                 hadw, ata, so_, havel, tw, allr, omw, fca, 
+                                 sorw, all, old_c, tws, alr, rmq, dl, cn, gen, 
+                                 old_cv, lt_c, rc_c, so, out, ndl, wcn, old, 
+                                 wq, still2, cvr, dw, k, cdw, ck >>
 
 us_merge_l(self) == /\ pc[self] = "us_merge_l"
                     /\ sc' = Merge(sc, wc, Last(wtrs[self]), First(nwl[self]))
@@ -1325,36 +1358,37 @@ us_merge_l(self) == /\ pc[self] = "us_merge_l"
                     /\ queue' = <<>>
                     /\ pc' = [pc EXCEPT ![self] = "us_pass_l"]
                     /\ UNCHANGED << word, cvword, cvq, waiting, rmc, cvmu, wl, 
-                                    wc, nww, nwsem, sem, data, now, note, nreg, 
-                                    held, ret, sres, picked, sleeps, inlock, 
-                                    ip, mw, pool, nalloc, nq, muFreed, refs, 
-                                    nwalive, taint3, stack, lt_l, clear, old_, 
-                                    zlo, zhi, wcnt, lw, lt_u, old_u, tc, wake, 
-                                    wty, sor, cor, rmq_, late, lt_m, old_m, 
-                                    lt_mu, old_mu, lt_mu_, ww, old_mu_, sdl, 
-                                    scn, lt, rc, old_t, c, dl_, cn_, old_mu_w, 
-                                    lt_, first, out_, rc_, hadw, ata, so_, 
-                                    havel, tw, allr, omw, fca, sorw, all, 
-                                    old_c, tws, alr, rmq, dl, cn, gen, old_cv, 
-                                    lt_c, rc_c, so, out, ndl, old, wq, dw, k, 
-                                    cdw, ck >>
+                                    wc, nww, nwsem, nww2, nreg2, sem, data, 
+                                    now, note, nreg, held, ret, sres, picked, 
+                                    sleeps, inlock, ip, mw, pool, nalloc, nq, 
+                                    muFreed, refs, nwalive, taint3, stack, 
+                                    lt_l, clear, old_, zlo, zhi, wcnt, lw, 
+                                    lt_u, old_u, tc, wake, wty, sor, cor, rmq_, 
+                                    late, lt_m, old_m, lt_mu, old_mu, lt_mu_, 
+                                    ww, old_mu_, sdl, scn, lt, rc, old_t, c, 
+                                    dl_, cn_, old_mu_w, lt_, first, out_, rc_, 
+                                    hadw, ata, so_, havel, tw, allr, omw, fca, 
+                                    sorw, all, old_c, tws, alr, rmq, dl, cn, 
+                                    gen, old_cv, lt_c, rc_c, so, out, ndl, wcn, 
+                                    old, wq, still2, cvr, dw, k, cdw, ck >>
 
 us_4_ld(self) == /\ pc[self] = "us_4_ld"
                  /\ old_u' = [old_u EXCEPT ![self] = word]
                  /\ pc' = [pc EXCEPT ![self] = "us_5_cas"]
                  /\ UNCHANGED << word, queue, cvword, cvq, waiting, rmc, cvmu, 
-                                 wl, wc, sc, nww, nwsem, sem, data, now, note, 
-                                 nreg, held, ret, sres, picked, sleeps, inlock, 
-                                 ip, mw, pool, nalloc, nq, muFreed, refs, 
-                                 nwalive, taint3, stack, lt_l, clear, old_, 
-                                 zlo, zhi, wcnt, lw, lt_u, tc, nwl, wtrs, wake, 
-                                 wty, sor, cor, rmq_, late, lt_m, old_m, lt_mu, 
-                                 old_mu, lt_mu_, ww, old_mu_, sdl, scn, lt, rc, 
-                                 old_t, c, dl_, cn_, old_mu_w, lt_, first, 
-                                 out_, rc_, hadw, ata, so_, havel, tw, allr, 
-                                 omw, fca, sorw, all, old_c, tws, alr, rmq, dl, 
-                                 cn, gen, old_cv, lt_c, rc_c, so, out, ndl, 
-                                 old, wq, dw, k, cdw, ck >>
+                                 wl, wc, sc, nww, nwsem, nww2, nreg2, sem, 
+                                 data, now, note, nreg, held, ret, sres, 
+                                 picked, sleeps, inlock, ip, mw, pool, nalloc, 
+                                 nq, muFreed, refs, nwalive, taint3, stack, 
+                                 lt_l, clear, old_, zlo, zhi, wcnt, lw, lt_u, 
+                                 tc, nwl, wtrs, wake, wty, sor, cor, rmq_, 
+                                 late, lt_m, old_m, lt_mu, old_mu, lt_mu_, ww, 
+                                 old_mu_, sdl, scn, lt, rc, old_t, c, dl_, cn_, 
+                                 old_mu_w, lt_, first, out_, rc_, hadw, ata, 
+                                 so_, havel, tw, allr, omw, fca, sorw, all, 
+                                 old_c, tws, alr, rmq, dl, cn, gen, old_cv, 
+                                 lt_c, rc_c, so, out, ndl, wcn, old, wq, 
+                                 still2, cvr, dw, k, cdw, ck >>
 
 us_5_cas(self) == /\ pc[self] = "us_5_cas"
                   /\ IF word = old_u[self]
@@ -1382,34 +1416,36 @@ us_5_cas(self) == /\ pc[self] = "us_5_cas"
                                              wtrs, wake, wty, sor, cor, rmq_, 
                                              late >>
                   /\ UNCHANGED << queue, cvword, cvq, waiting, rmc, cvmu, wl, 
-                                  wc, sc, nww, nwsem, sem, data, now, note, 
-                                  nreg, held, ret, sres, picked, sleeps, 
-                                  inlock, ip, mw, pool, nalloc, nq, muFreed, 
-                                  refs, nwalive, taint3, lt_l, clear, old_, 
-                                  zlo, zhi, wcnt, lw, lt_m, old_m, lt_mu, 
+                                  wc, sc, nww, nwsem, nww2, nreg2, sem, data, 
+                                  now, note, nreg, held, ret, sres, picked, 
+                                  sleeps, inlock, ip, mw, pool, nalloc, nq, 
+                                  muFreed, refs, nwalive, taint3, lt_l, clear, 
+                                  old_, zlo, zhi, wcnt, lw, lt_m, old_m, lt_mu, 
                                   old_mu, lt_mu_, ww, old_mu_, sdl, scn, lt, 
                                   rc, old_t, c, dl_, cn_, old_mu_w, lt_, first, 
                                   out_, rc_, hadw, ata, so_, havel, tw, allr, 
                                   omw, fca, sorw, all, old_c, tws, alr, rmq, 
                                   dl, cn, gen, old_cv, lt_c, rc_c, so, out, 
-                                  ndl, old, wq, dw, k, cdw, ck >>
+                                  ndl, wcn, old, wq, still2, cvr, dw, k, cdw, 
+                                  ck >>
 
 us_6_st(self) == /\ pc[self] = "us_6_st"
                  /\ waiting' = [waiting EXCEPT ![Head(wake[self])] = 0]
                  /\ pc' = [pc EXCEPT ![self] = "us_7_v"]
                  /\ UNCHANGED << word, queue, cvword, cvq, rmc, cvmu, wl, wc, 
-                                 sc, nww, nwsem, sem, data, now, note, nreg, 
-                                 held, ret, sres, picked, sleeps, inlock, ip, 
-                                 mw, pool, nalloc, nq, muFreed, refs, nwalive, 
-                                 taint3, stack, lt_l, clear, old_, zlo, zhi, 
-                                 wcnt, lw, lt_u, old_u, tc, nwl, wtrs, wake, 
-                                 wty, sor, cor, rmq_, late, lt_m, old_m, lt_mu, 
-                                 old_mu, lt_mu_, ww, old_mu_, sdl, scn, lt, rc, 
-                                 old_t, c, dl_, cn_, old_mu_w, lt_, first, 
-                                 out_, rc_, hadw, ata, so_, havel, tw, allr, 
-                                 omw, fca, sorw, all, old_c, tws, alr, rmq, dl, 
-                                 cn, gen, old_cv, lt_c, rc_c, so, out, ndl, 
-                                 old, wq, dw, k, cdw, ck >>
+                                 sc, nww, nwsem, nww2, nreg2, sem, data, now, 
+                                 note, nreg, held, ret, sres, picked, sleeps, 
+                                 inlock, ip, mw, pool, nalloc, nq, muFreed, 
+                                 refs, nwalive, taint3, stack, lt_l, clear, 
+                                 old_, zlo, zhi, wcnt, lw, lt_u, old_u, tc, 
+                                 nwl, wtrs, wake, wty, sor, cor, rmq_, late, 
+                                 lt_m, old_m, lt_mu, old_mu, lt_mu_, ww, 
+                                 old_mu_, sdl, scn, lt, rc, old_t, c, dl_, cn_, 
+                                 old_mu_w, lt_, first, out_, rc_, hadw, ata, 
+                                 so_, havel, tw, allr, omw, fca, sorw, all, 
+                                 old_c, tws, alr, rmq, dl, cn, gen, old_cv, 
+                                 lt_c, rc_c, so, out, ndl, wcn, old, wq, 
+                                 still2, cvr, dw, k, cdw, ck >>
 
 us_7_v(self) == /\ pc[self] = "us_7_v"
                 /\ sem' = [sem EXCEPT ![Head(wake[self])] = SetV(sem[Head(wake[self])])]
@@ -1432,17 +1468,17 @@ us_7_v(self) == /\ pc[self] = "us_7_v"
                            /\ UNCHANGED << stack, lt_u, old_u, tc, nwl, wtrs, 
                                            wty, sor, cor, rmq_, late >>
                 /\ UNCHANGED << word, queue, cvword, cvq, waiting, rmc, cvmu, 
-                                wl, wc, sc, nww, nwsem, data, now, note, nreg, 
-                                held, ret, sres, picked, sleeps, inlock, ip, 
-                                mw, pool, nalloc, nq, muFreed, refs, nwalive, 
-                                taint3, lt_l, clear, old_, zlo, zhi, wcnt, lw, 
-                                lt_m, old_m, lt_mu, old_mu, lt_mu_, ww, 
-                                old_mu_, sdl, scn, lt, rc, old_t, c, dl_, cn_, 
-                                old_mu_w, lt_, first, out_, rc_, hadw, ata, 
-                                so_, havel, tw, allr, omw, fca, sorw, all, 
-                                old_c, tws, alr, rmq, dl, cn, gen, old_cv, 
-                                lt_c, rc_c, so, out, ndl, old, wq, dw, k, cdw, 
-                                ck >>
+                                wl, wc, sc, nww, nwsem, nww2, nreg2, data, now, 
+                                note, nreg, held, ret, sres, picked, sleeps, 
+                                inlock, ip, mw, pool, nalloc, nq, muFreed, 
+                                refs, nwalive, taint3, lt_l, clear, old_, zlo, 
+                                zhi, wcnt, lw, lt_m, old_m, lt_mu, old_mu, 
+                                lt_mu_, ww, old_mu_, sdl, scn, lt, rc, old_t, 
+                                c, dl_, cn_, old_mu_w, lt_, first, out_, rc_, 
+                                hadw, ata, so_, havel, tw, allr, omw, fca, 
+                                sorw, all, old_c, tws, alr, rmq, dl, cn, gen, 
+                                old_cv, lt_c, rc_c, so, out, ndl, wcn, old, wq, 
+                                still2, cvr, dw, k, cdw, ck >>
 
 unlock_slow(self) == us_1_ld(self) \/ us_d(self) \/ us_2_cas(self)
                         \/ us_3_cas(self) \/ us_pass_l(self)
@@ -1468,18 +1504,18 @@ lk_1_cas(self) == /\ pc[self] = "lk_1_cas"
                              /\ UNCHANGED << word, held, inlock, stack, lt_m, 
                                              old_m >>
                   /\ UNCHANGED << queue, cvword, cvq, waiting, rmc, cvmu, wl, 
-                                  wc, sc, nww, nwsem, sem, data, now, note, 
-                                  nreg, ret, sres, picked, sleeps, ip, mw, 
-                                  pool, nalloc, nq, muFreed, refs, nwalive, 
-                                  taint3, lt_l, clear, old_, zlo, zhi, wcnt, 
-                                  lw, lt_u, old_u, tc, nwl, wtrs, wake, wty, 
-                                  sor, cor, rmq_, late, lt_mu, old_mu, lt_mu_, 
-                                  ww, old_mu_, sdl, scn, lt, rc, old_t, c, dl_, 
-                                  cn_, old_mu_w, lt_, first, out_, rc_, hadw, 
-                                  ata, so_, havel, tw, allr, omw, fca, sorw, 
-                                  all, old_c, tws, alr, rmq, dl, cn, gen, 
-                                  old_cv, lt_c, rc_c, so, out, ndl, old, wq, 
-                                  dw, k, cdw, ck >>
+                                  wc, sc, nww, nwsem, nww2, nreg2, sem, data, 
+                                  now, note, nreg, ret, sres, picked, sleeps, 
+                                  ip, mw, pool, nalloc, nq, muFreed, refs, 
+                                  nwalive, taint3, lt_l, clear, old_, zlo, zhi, 
+                                  wcnt, lw, lt_u, old_u, tc, nwl, wtrs, wake, 
+                                  wty, sor, cor, rmq_, late, lt_mu, old_mu, 
+                                  lt_mu_, ww, old_mu_, sdl, scn, lt, rc, old_t, 
+                                  c, dl_, cn_, old_mu_w, lt_, first, out_, rc_, 
+                                  hadw, ata, so_, havel, tw, allr, omw, fca, 
+                                  sorw, all, old_c, tws, alr, rmq, dl, cn, gen, 
+                                  old_cv, lt_c, rc_c, so, out, ndl, wcn, old, 
+                                  wq, still2, cvr, dw, k, cdw, ck >>
 
 lk_2_ld(self) == /\ pc[self] = "lk_2_ld"
                  /\ IF AndZ(word, IF lt_m[self] = 1 THEN WZLO ELSE RZLO, IF lt_m[self] = 1 THEN WZHI ELSE RZHI) # 0
@@ -1517,17 +1553,17 @@ lk_2_ld(self) == /\ pc[self] = "lk_2_ld"
                             /\ UNCHANGED << mw, pool, nalloc, stack, lt_l, 
                                             clear, old_, zlo, zhi, wcnt, lw >>
                  /\ UNCHANGED << word, queue, cvword, cvq, waiting, rmc, cvmu, 
-                                 wl, wc, sc, nww, nwsem, sem, data, now, note, 
-                                 nreg, held, ret, sres, picked, sleeps, inlock, 
-                                 ip, nq, muFreed, refs, nwalive, taint3, lt_u, 
-                                 old_u, tc, nwl, wtrs, wake, wty, sor, cor, 
-                                 rmq_, late, lt_m, lt_mu, old_mu, lt_mu_, ww, 
-                                 old_mu_, sdl, scn, lt, rc, old_t, c, dl_, cn_, 
-                                 old_mu_w, lt_, first, out_, rc_, hadw, ata, 
-                                 so_, havel, tw, allr, omw, fca, sorw, all, 
-                                 old_c, tws, alr, rmq, dl, cn, gen, old_cv, 
-                                 lt_c, rc_c, so, out, ndl, old, wq, dw, k, cdw, 
-                                 ck >>
+                                 wl, wc, sc, nww, nwsem, nww2, nreg2, sem, 
+                                 data, now, note, nreg, held, ret, sres, 
+                                 picked, sleeps, inlock, ip, nq, muFreed, refs, 
+                                 nwalive, taint3, lt_u, old_u, tc, nwl, wtrs, 
+                                 wake, wty, sor, cor, rmq_, late, lt_m, lt_mu, 
+                                 old_mu, lt_mu_, ww, old_mu_, sdl, scn, lt, rc, 
+                                 old_t, c, dl_, cn_, old_mu_w, lt_, first, 
+                                 out_, rc_, hadw, ata, so_, havel, tw, allr, 
+                                 omw, fca, sorw, all, old_c, tws, alr, rmq, dl, 
+                                 cn, gen, old_cv, lt_c, rc_c, so, out, ndl, 
+                                 wcn, old, wq, still2, cvr, dw, k, cdw, ck >>
 
 lk_3_cas(self) == /\ pc[self] = "lk_3_cas"
                   /\ IF word = old_m[self]
@@ -1571,17 +1607,17 @@ lk_3_cas(self) == /\ pc[self] = "lk_3_cas"
                              /\ pc' = [pc EXCEPT ![self] = "ls_1_ld"]
                              /\ UNCHANGED << word, held, inlock, lt_m >>
                   /\ UNCHANGED << queue, cvword, cvq, waiting, rmc, cvmu, wl, 
-                                  wc, sc, nww, nwsem, sem, data, now, note, 
-                                  nreg, ret, sres, picked, sleeps, ip, nq, 
-                                  muFreed, refs, nwalive, taint3, lt_u, old_u, 
-                                  tc, nwl, wtrs, wake, wty, sor, cor, rmq_, 
-                                  late, lt_mu, old_mu, lt_mu_, ww, old_mu_, 
-                                  sdl, scn, lt, rc, old_t, c, dl_, cn_, 
-                                  old_mu_w, lt_, first, out_, rc_, hadw, ata, 
-                                  so_, havel, tw, allr, omw, fca, sorw, all, 
-                                  old_c, tws, alr, rmq, dl, cn, gen, old_cv, 
-                                  lt_c, rc_c, so, out, ndl, old, wq, dw, k, 
-                                  cdw, ck >>
+                                  wc, sc, nww, nwsem, nww2, nreg2, sem, data, 
+                                  now, note, nreg, ret, sres, picked, sleeps, 
+                                  ip, nq, muFreed, refs, nwalive, taint3, lt_u, 
+                                  old_u, tc, nwl, wtrs, wake, wty, sor, cor, 
+                                  rmq_, late, lt_mu, old_mu, lt_mu_, ww, 
+                                  old_mu_, sdl, scn, lt, rc, old_t, c, dl_, 
+                                  cn_, old_mu_w, lt_, first, out_, rc_, hadw, 
+                                  ata, so_, havel, tw, allr, omw, fca, sorw, 
+                                  all, old_c, tws, alr, rmq, dl, cn, gen, 
+                                  old_cv, lt_c, rc_c, so, out, ndl, wcn, old, 
+                                  wq, still2, cvr, dw, k, cdw, ck >>
 
 mu_lock(self) == lk_1_cas(self) \/ lk_2_ld(self) \/ lk_3_cas(self)
 
@@ -1598,18 +1634,19 @@ tl_1_cas(self) == /\ pc[self] = "tl_1_cas"
                              /\ UNCHANGED << word, held, ret, stack, lt_mu, 
                                              old_mu >>
                   /\ UNCHANGED << queue, cvword, cvq, waiting, rmc, cvmu, wl, 
-                                  wc, sc, nww, nwsem, sem, data, now, note, 
-                                  nreg, sres, picked, sleeps, inlock, ip, mw, 
-                                  pool, nalloc, nq, muFreed, refs, nwalive, 
-                                  taint3, lt_l, clear, old_, zlo, zhi, wcnt, 
-                                  lw, lt_u, old_u, tc, nwl, wtrs, wake, wty, 
-                                  sor, cor, rmq_, late, lt_m, old_m, lt_mu_, 
-                                  ww, old_mu_, sdl, scn, lt, rc, old_t, c, dl_, 
-                                  cn_, old_mu_w, lt_, first, out_, rc_, hadw, 
-                                  ata, so_, havel, tw, allr, omw, fca, sorw, 
-                                  all, old_c, tws, alr, rmq, dl, cn, gen, 
-                                  old_cv, lt_c, rc_c, so, out, ndl, old, wq, 
-                                  dw, k, cdw, ck >>
+                                  wc, sc, nww, nwsem, nww2, nreg2, sem, data, 
+                                  now, note, nreg, sres, picked, sleeps, 
+                                  inlock, ip, mw, pool, nalloc, nq, muFreed, 
+                                  refs, nwalive, taint3, lt_l, clear, old_, 
+                                  zlo, zhi, wcnt, lw, lt_u, old_u, tc, nwl, 
+                                  wtrs, wake, wty, sor, cor, rmq_, late, lt_m, 
+                                  old_m, lt_mu_, ww, old_mu_, sdl, scn, lt, rc, 
+                                  old_t, c, dl_, cn_, old_mu_w, lt_, first, 
+                                  out_, rc_, hadw, ata, so_, havel, tw, allr, 
+                                  omw, fca, sorw, all, old_c, tws, alr, rmq, 
+                                  dl, cn, gen, old_cv, lt_c, rc_c, so, out, 
+                                  ndl, wcn, old, wq, still2, cvr, dw, k, cdw, 
+                                  ck >>
 
 tl_2_ld(self) == /\ pc[self] = "tl_2_ld"
                  /\ IF AndZ(word, IF lt_mu[self] = 1 THEN WZLO ELSE RZLO, IF lt_mu[self] = 1 THEN WZHI ELSE RZHI) # 0
@@ -1622,17 +1659,18 @@ tl_2_ld(self) == /\ pc[self] = "tl_2_ld"
                             /\ pc' = [pc EXCEPT ![self] = "tl_3_cas"]
                             /\ UNCHANGED << ret, stack, lt_mu >>
                  /\ UNCHANGED << word, queue, cvword, cvq, waiting, rmc, cvmu, 
-                                 wl, wc, sc, nww, nwsem, sem, data, now, note, 
-                                 nreg, held, sres, picked, sleeps, inlock, ip, 
-                                 mw, pool, nalloc, nq, muFreed, refs, nwalive, 
-                                 taint3, lt_l, clear, old_, zlo, zhi, wcnt, lw, 
-                                 lt_u, old_u, tc, nwl, wtrs, wake, wty, sor, 
-                                 cor, rmq_, late, lt_m, old_m, lt_mu_, ww, 
-                                 old_mu_, sdl, scn, lt, rc, old_t, c, dl_, cn_, 
-                                 old_mu_w, lt_, first, out_, rc_, hadw, ata, 
-                                 so_, havel, tw, allr, omw, fca, sorw, all, 
-                                 old_c, tws, alr, rmq, dl, cn, gen, old_cv, 
-                                 lt_c, rc_c, so, out, ndl, old, wq, dw, k, cdw, 
+                                 wl, wc, sc, nww, nwsem, nww2, nreg2, sem, 
+                                 data, now, note, nreg, held, sres, picked, 
+                                 sleeps, inlock, ip, mw, pool, nalloc, nq, 
+                                 muFreed, refs, nwalive, taint3, lt_l, clear, 
+                                 old_, zlo, zhi, wcnt, lw, lt_u, old_u, tc, 
+                                 nwl, wtrs, wake, wty, sor, cor, rmq_, late, 
+                                 lt_m, old_m, lt_mu_, ww, old_mu_, sdl, scn, 
+                                 lt, rc, old_t, c, dl_, cn_, old_mu_w, lt_, 
+                                 first, out_, rc_, hadw, ata, so_, havel, tw, 
+                                 allr, omw, fca, sorw, all, old_c, tws, alr, 
+                                 rmq, dl, cn, gen, old_cv, lt_c, rc_c, so, out, 
+                                 ndl, wcn, old, wq, still2, cvr, dw, k, cdw, 
                                  ck >>
 
 tl_3_cas(self) == /\ pc[self] = "tl_3_cas"
@@ -1651,18 +1689,19 @@ tl_3_cas(self) == /\ pc[self] = "tl_3_cas"
                              /\ stack' = [stack EXCEPT ![self] = Tail(stack[self])]
                              /\ UNCHANGED << word, held >>
                   /\ UNCHANGED << queue, cvword, cvq, waiting, rmc, cvmu, wl, 
-                                  wc, sc, nww, nwsem, sem, data, now, note, 
-                                  nreg, sres, picked, sleeps, inlock, ip, mw, 
-                                  pool, nalloc, nq, muFreed, refs, nwalive, 
-                                  taint3, lt_l, clear, old_, zlo, zhi, wcnt, 
-                                  lw, lt_u, old_u, tc, nwl, wtrs, wake, wty, 
-                                  sor, cor, rmq_, late, lt_m, old_m, lt_mu_, 
-                                  ww, old_mu_, sdl, scn, lt, rc, old_t, c, dl_, 
-                                  cn_, old_mu_w, lt_, first, out_, rc_, hadw, 
-                                  ata, so_, havel, tw, allr, omw, fca, sorw, 
-                                  all, old_c, tws, alr, rmq, dl, cn, gen, 
-                                  old_cv, lt_c, rc_c, so, out, ndl, old, wq, 
-                                  dw, k, cdw, ck >>
+                                  wc, sc, nww, nwsem, nww2, nreg2, sem, data, 
+                                  now, note, nreg, sres, picked, sleeps, 
+                                  inlock, ip, mw, pool, nalloc, nq, muFreed, 
+                                  refs, nwalive, taint3, lt_l, clear, old_, 
+                                  zlo, zhi, wcnt, lw, lt_u, old_u, tc, nwl, 
+                                  wtrs, wake, wty, sor, cor, rmq_, late, lt_m, 
+                                  old_m, lt_mu_, ww, old_mu_, sdl, scn, lt, rc, 
+                                  old_t, c, dl_, cn_, old_mu_w, lt_, first, 
+                                  out_, rc_, hadw, ata, so_, havel, tw, allr, 
+                                  omw, fca, sorw, all, old_c, tws, alr, rmq, 
+                                  dl, cn, gen, old_cv, lt_c, rc_c, so, out, 
+                                  ndl, wcn, old, wq, still2, cvr, dw, k, cdw, 
+                                  ck >>
 
 mu_trylock(self) == tl_1_cas(self) \/ tl_2_ld(self) \/ tl_3_cas(self)
 
@@ -1677,18 +1716,19 @@ ul_1_cas(self) == /\ pc[self] = "ul_1_cas"
                         ELSE /\ pc' = [pc EXCEPT ![self] = "ul_2_ld"]
                              /\ UNCHANGED << word, stack, lt_mu_, ww, old_mu_ >>
                   /\ UNCHANGED << queue, cvword, cvq, waiting, rmc, cvmu, wl, 
-                                  wc, sc, nww, nwsem, sem, data, now, note, 
-                                  nreg, held, ret, sres, picked, sleeps, 
-                                  inlock, ip, mw, pool, nalloc, nq, muFreed, 
-                                  refs, nwalive, taint3, lt_l, clear, old_, 
-                                  zlo, zhi, wcnt, lw, lt_u, old_u, tc, nwl, 
-                                  wtrs, wake, wty, sor, cor, rmq_, late, lt_m, 
-                                  old_m, lt_mu, old_mu, sdl, scn, lt, rc, 
+                                  wc, sc, nww, nwsem, nww2, nreg2, sem, data, 
+                                  now, note, nreg, held, ret, sres, picked, 
+                                  sleeps, inlock, ip, mw, pool, nalloc, nq, 
+                                  muFreed, refs, nwalive, taint3, lt_l, clear, 
+                                  old_, zlo, zhi, wcnt, lw, lt_u, old_u, tc, 
+                                  nwl, wtrs, wake, wty, sor, cor, rmq_, late, 
+                                  lt_m, old_m, lt_mu, old_mu, sdl, scn, lt, rc, 
                                   old_t, c, dl_, cn_, old_mu_w, lt_, first, 
                                   out_, rc_, hadw, ata, so_, havel, tw, allr, 
                                   omw, fca, sorw, all, old_c, tws, alr, rmq, 
                                   dl, cn, gen, old_cv, lt_c, rc_c, so, out, 
-                                  ndl, old, wq, dw, k, cdw, ck >>
+                                  ndl, wcn, old, wq, still2, cvr, dw, k, cdw, 
+                                  ck >>
 
 ul_2_ld(self) == /\ pc[self] = "ul_2_ld"
                  /\ IF lt_mu_[self] = 1 /\ ~ww[self] /\ (word & (WAITING + DESIG)) = WAITING
@@ -1784,17 +1824,17 @@ ul_2_ld(self) == /\ pc[self] = "ul_2_ld"
                                                                   sor, cor, 
                                                                   rmq_, late >>
                  /\ UNCHANGED << word, queue, cvword, cvq, waiting, rmc, cvmu, 
-                                 wl, wc, sc, nww, nwsem, sem, data, now, note, 
-                                 nreg, held, ret, sres, picked, sleeps, inlock, 
-                                 ip, mw, pool, nalloc, nq, muFreed, refs, 
-                                 nwalive, taint3, lt_l, clear, old_, zlo, zhi, 
-                                 wcnt, lw, lt_m, old_m, lt_mu, old_mu, lt_mu_, 
-                                 ww, sdl, scn, lt, rc, old_t, c, dl_, cn_, 
-                                 old_mu_w, lt_, first, out_, rc_, hadw, ata, 
-                                 so_, havel, tw, allr, omw, fca, sorw, all, 
-                                 old_c, tws, alr, rmq, dl, cn, gen, old_cv, 
-                                 lt_c, rc_c, so, out, ndl, old, wq, dw, k, cdw, 
-                                 ck >>
+                                 wl, wc, sc, nww, nwsem, nww2, nreg2, sem, 
+                                 data, now, note, nreg, held, ret, sres, 
+                                 picked, sleeps, inlock, ip, mw, pool, nalloc, 
+                                 nq, muFreed, refs, nwalive, taint3, lt_l, 
+                                 clear, old_, zlo, zhi, wcnt, lw, lt_m, old_m, 
+                                 lt_mu, old_mu, lt_mu_, ww, sdl, scn, lt, rc, 
+                                 old_t, c, dl_, cn_, old_mu_w, lt_, first, 
+                                 out_, rc_, hadw, ata, so_, havel, tw, allr, 
+                                 omw, fca, sorw, all, old_c, tws, alr, rmq, dl, 
+                                 cn, gen, old_cv, lt_c, rc_c, so, out, ndl, 
+                                 wcn, old, wq, still2, cvr, dw, k, cdw, ck >>
 
 ul_3_cas(self) == /\ pc[self] = "ul_3_cas"
                   /\ IF word = old_mu_[self]
@@ -1835,17 +1875,17 @@ ul_3_cas(self) == /\ pc[self] = "ul_3_cas"
                              /\ pc' = [pc EXCEPT ![self] = "us_1_ld"]
                              /\ UNCHANGED << word, lt_mu_, ww >>
                   /\ UNCHANGED << queue, cvword, cvq, waiting, rmc, cvmu, wl, 
-                                  wc, sc, nww, nwsem, sem, data, now, note, 
-                                  nreg, held, ret, sres, picked, sleeps, 
-                                  inlock, ip, mw, pool, nalloc, nq, muFreed, 
-                                  refs, nwalive, taint3, lt_l, clear, old_, 
-                                  zlo, zhi, wcnt, lw, lt_m, old_m, lt_mu, 
+                                  wc, sc, nww, nwsem, nww2, nreg2, sem, data, 
+                                  now, note, nreg, held, ret, sres, picked, 
+                                  sleeps, inlock, ip, mw, pool, nalloc, nq, 
+                                  muFreed, refs, nwalive, taint3, lt_l, clear, 
+                                  old_, zlo, zhi, wcnt, lw, lt_m, old_m, lt_mu, 
                                   old_mu, sdl, scn, lt, rc, old_t, c, dl_, cn_, 
                                   old_mu_w, lt_, first, out_, rc_, hadw, ata, 
                                   so_, havel, tw, allr, omw, fca, sorw, all, 
                                   old_c, tws, alr, rmq, dl, cn, gen, old_cv, 
-                                  lt_c, rc_c, so, out, ndl, old, wq, dw, k, 
-                                  cdw, ck >>
+                                  lt_c, rc_c, so, out, ndl, wcn, old, wq, 
+                                  still2, cvr, dw, k, cdw, ck >>
 
 mu_unlock(self) == ul_1_cas(self) \/ ul_2_ld(self) \/ ul_3_cas(self)
 
@@ -1864,18 +1904,18 @@ sw_1_r(self) == /\ pc[self] = "sw_1_r"
                                       /\ pc' = [pc EXCEPT ![self] = "sw_2_pd"]
                                       /\ UNCHANGED << sres, stack, sdl, scn >>
                 /\ UNCHANGED << word, queue, cvword, cvq, waiting, rmc, cvmu, 
-                                wl, wc, sc, nww, nwsem, sem, data, now, note, 
-                                held, ret, picked, sleeps, inlock, ip, mw, 
-                                pool, nalloc, nq, muFreed, refs, nwalive, 
-                                taint3, lt_l, clear, old_, zlo, zhi, wcnt, lw, 
-                                lt_u, old_u, tc, nwl, wtrs, wake, wty, sor, 
-                                cor, rmq_, late, lt_m, old_m, lt_mu, old_mu, 
-                                lt_mu_, ww, old_mu_, lt, rc, old_t, c, dl_, 
-                                cn_, old_mu_w, lt_, first, out_, rc_, hadw, 
-                                ata, so_, havel, tw, allr, omw, fca, sorw, all, 
-                                old_c, tws, alr, rmq, dl, cn, gen, old_cv, 
-                                lt_c, rc_c, so, out, ndl, old, wq, dw, k, cdw, 
-                                ck >>
+                                wl, wc, sc, nww, nwsem, nww2, nreg2, sem, data, 
+                                now, note, held, ret, picked, sleeps, inlock, 
+                                ip, mw, pool, nalloc, nq, muFreed, refs, 
+                                nwalive, taint3, lt_l, clear, old_, zlo, zhi, 
+                                wcnt, lw, lt_u, old_u, tc, nwl, wtrs, wake, 
+                                wty, sor, cor, rmq_, late, lt_m, old_m, lt_mu, 
+                                old_mu, lt_mu_, ww, old_mu_, lt, rc, old_t, c, 
+                                dl_, cn_, old_mu_w, lt_, first, out_, rc_, 
+                                hadw, ata, so_, havel, tw, allr, omw, fca, 
+                                sorw, all, old_c, tws, alr, rmq, dl, cn, gen, 
+                                old_cv, lt_c, rc_c, so, out, ndl, wcn, old, wq, 
+                                still2, cvr, dw, k, cdw, ck >>
 
 sw_2_pd(self) == /\ pc[self] = "sw_2_pd"
                  /\ sem[W(self)] > 0 \/ Expired(sdl[self], now)
@@ -1890,18 +1930,18 @@ sw_2_pd(self) == /\ pc[self] = "sw_2_pd"
                  /\ scn' = [scn EXCEPT ![self] = Head(stack[self]).scn]
                  /\ stack' = [stack EXCEPT ![self] = Tail(stack[self])]
                  /\ UNCHANGED << word, queue, cvword, cvq, waiting, rmc, cvmu, 
-                                 wl, wc, sc, nww, nwsem, data, now, note, held, 
-                                 ret, picked, sleeps, inlock, ip, mw, pool, 
-                                 nalloc, nq, muFreed, refs, nwalive, taint3, 
-                                 lt_l, clear, old_, zlo, zhi, wcnt, lw, lt_u, 
-                                 old_u, tc, nwl, wtrs, wake, wty, sor, cor, 
-                                 rmq_, late, lt_m, old_m, lt_mu, old_mu, 
-                                 lt_mu_, ww, old_mu_, lt, rc, old_t, c, dl_, 
-                                 cn_, old_mu_w, lt_, first, out_, rc_, hadw, 
-                                 ata, so_, havel, tw, allr, omw, fca, sorw, 
-                                 all, old_c, tws, alr, rmq, dl, cn, gen, 
-                                 old_cv, lt_c, rc_c, so, out, ndl, old, wq, dw, 
-                                 k, cdw, ck >>
+                                 wl, wc, sc, nww, nwsem, nww2, nreg2, data, 
+                                 now, note, held, ret, picked, sleeps, inlock, 
+                                 ip, mw, pool, nalloc, nq, muFreed, refs, 
+                                 nwalive, taint3, lt_l, clear, old_, zlo, zhi, 
+                                 wcnt, lw, lt_u, old_u, tc, nwl, wtrs, wake, 
+                                 wty, sor, cor, rmq_, late, lt_m, old_m, lt_mu, 
+                                 old_mu, lt_mu_, ww, old_mu_, lt, rc, old_t, c, 
+                                 dl_, cn_, old_mu_w, lt_, first, out_, rc_, 
+                                 hadw, ata, so_, havel, tw, allr, omw, fca, 
+                                 sorw, all, old_c, tws, alr, rmq, dl, cn, gen, 
+                                 old_cv, lt_c, rc_c, so, out, ndl, wcn, old, 
+                                 wq, still2, cvr, dw, k, cdw, ck >>
 
 sem_wait(self) == sw_1_r(self) \/ sw_2_pd(self)
 
@@ -1913,18 +1953,19 @@ ta_1_ld(self) == /\ pc[self] = "ta_1_ld"
                                   THEN /\ pc' = [pc EXCEPT ![self] = "ta_3_cas"]
                                   ELSE /\ pc' = [pc EXCEPT ![self] = "ta_d"]
                  /\ UNCHANGED << word, queue, cvword, cvq, waiting, rmc, cvmu, 
-                                 wl, wc, sc, nww, nwsem, sem, data, now, note, 
-                                 nreg, held, ret, sres, picked, sleeps, inlock, 
-                                 ip, mw, pool, nalloc, nq, muFreed, refs, 
-                                 nwalive, taint3, stack, lt_l, clear, old_, 
-                                 zlo, zhi, wcnt, lw, lt_u, old_u, tc, nwl, 
-                                 wtrs, wake, wty, sor, cor, rmq_, late, lt_m, 
-                                 old_m, lt_mu, old_mu, lt_mu_, ww, old_mu_, 
-                                 sdl, scn, lt, rc, c, dl_, cn_, old_mu_w, lt_, 
-                                 first, out_, rc_, hadw, ata, so_, havel, tw, 
-                                 allr, omw, fca, sorw, all, old_c, tws, alr, 
-                                 rmq, dl, cn, gen, old_cv, lt_c, rc_c, so, out, 
-                                 ndl, old, wq, dw, k, cdw, ck >>
+                                 wl, wc, sc, nww, nwsem, nww2, nreg2, sem, 
+                                 data, now, note, nreg, held, ret, sres, 
+                                 picked, sleeps, inlock, ip, mw, pool, nalloc, 
+                                 nq, muFreed, refs, nwalive, taint3, stack, 
+                                 lt_l, clear, old_, zlo, zhi, wcnt, lw, lt_u, 
+                                 old_u, tc, nwl, wtrs, wake, wty, sor, cor, 
+                                 rmq_, late, lt_m, old_m, lt_mu, old_mu, 
+                                 lt_mu_, ww, old_mu_, sdl, scn, lt, rc, c, dl_, 
+                                 cn_, old_mu_w, lt_, first, out_, rc_, hadw, 
+                                 ata, so_, havel, tw, allr, omw, fca, sorw, 
+                                 all, old_c, tws, alr, rmq, dl, cn, gen, 
+                                 old_cv, lt_c, rc_c, so, out, ndl, wcn, old, 
+                                 wq, still2, cvr, dw, k, cdw, ck >>
 
 ta_2_cas(self) == /\ pc[self] = "ta_2_cas"
                   /\ IF word = old_t[self]
@@ -1935,19 +1976,19 @@ ta_2_cas(self) == /\ pc[self] = "ta_2_cas"
                                    ELSE /\ pc' = [pc EXCEPT ![self] = "ta_d"]
                              /\ word' = word
                   /\ UNCHANGED << queue, cvword, cvq, waiting, rmc, cvmu, wl, 
-                                  wc, sc, nww, nwsem, sem, data, now, note, 
-                                  nreg, held, ret, sres, picked, sleeps, 
-                                  inlock, ip, mw, pool, nalloc, nq, muFreed, 
-                                  refs, nwalive, taint3, stack, lt_l, clear, 
-                                  old_, zlo, zhi, wcnt, lw, lt_u, old_u, tc, 
-                                  nwl, wtrs, wake, wty, sor, cor, rmq_, late, 
-                                  lt_m, old_m, lt_mu, old_mu, lt_mu_, ww, 
+                                  wc, sc, nww, nwsem, nww2, nreg2, sem, data, 
+                                  now, note, nreg, held, ret, sres, picked, 
+                                  sleeps, inlock, ip, mw, pool, nalloc, nq, 
+                                  muFreed, refs, nwalive, taint3, stack, lt_l, 
+                                  clear, old_, zlo, zhi, wcnt, lw, lt_u, old_u, 
+                                  tc, nwl, wtrs, wake, wty, sor, cor, rmq_, 
+                                  late, lt_m, old_m, lt_mu, old_mu, lt_mu_, ww, 
                                   old_mu_, sdl, scn, lt, rc, old_t, c, dl_, 
                                   cn_, old_mu_w, lt_, first, out_, rc_, hadw, 
                                   ata, so_, havel, tw, allr, omw, fca, sorw, 
                                   all, old_c, tws, alr, rmq, dl, cn, gen, 
-                                  old_cv, lt_c, rc_c, so, out, ndl, old, wq, 
-                                  dw, k, cdw, ck >>
+                                  old_cv, lt_c, rc_c, so, out, ndl, wcn, old, 
+                                  wq, still2, cvr, dw, k, cdw, ck >>
 
 ta_3_cas(self) == /\ pc[self] = "ta_3_cas"
                   /\ IF word = old_t[self]
@@ -1956,53 +1997,54 @@ ta_3_cas(self) == /\ pc[self] = "ta_3_cas"
                              /\ word' = word
                   /\ pc' = [pc EXCEPT ![self] = "ta_d"]
                   /\ UNCHANGED << queue, cvword, cvq, waiting, rmc, cvmu, wl, 
-                                  wc, sc, nww, nwsem, sem, data, now, note, 
-                                  nreg, held, ret, sres, picked, sleeps, 
-                                  inlock, ip, mw, pool, nalloc, nq, muFreed, 
-                                  refs, nwalive, taint3, stack, lt_l, clear, 
-                                  old_, zlo, zhi, wcnt, lw, lt_u, old_u, tc, 
-                                  nwl, wtrs, wake, wty, sor, cor, rmq_, late, 
-                                  lt_m, old_m, lt_mu, old_mu, lt_mu_, ww, 
+                                  wc, sc, nww, nwsem, nww2, nreg2, sem, data, 
+                                  now, note, nreg, held, ret, sres, picked, 
+                                  sleeps, inlock, ip, mw, pool, nalloc, nq, 
+                                  muFreed, refs, nwalive, taint3, stack, lt_l, 
+                                  clear, old_, zlo, zhi, wcnt, lw, lt_u, old_u, 
+                                  tc, nwl, wtrs, wake, wty, sor, cor, rmq_, 
+                                  late, lt_m, old_m, lt_mu, old_mu, lt_mu_, ww, 
                                   old_mu_, sdl, scn, lt, rc, old_t, c, dl_, 
                                   cn_, old_mu_w, lt_, first, out_, rc_, hadw, 
                                   ata, so_, havel, tw, allr, omw, fca, sorw, 
                                   all, old_c, tws, alr, rmq, dl, cn, gen, 
-                                  old_cv, lt_c, rc_c, so, out, ndl, old, wq, 
-                                  dw, k, cdw, ck >>
+                                  old_cv, lt_c, rc_c, so, out, ndl, wcn, old, 
+                                  wq, still2, cvr, dw, k, cdw, ck >>
 
 ta_d(self) == /\ pc[self] = "ta_d"
               /\ pc' = [pc EXCEPT ![self] = "ta_1_ld"]
               /\ UNCHANGED << word, queue, cvword, cvq, waiting, rmc, cvmu, wl, 
-                              wc, sc, nww, nwsem, sem, data, now, note, nreg, 
-                              held, ret, sres, picked, sleeps, inlock, ip, mw, 
-                              pool, nalloc, nq, muFreed, refs, nwalive, taint3, 
-                              stack, lt_l, clear, old_, zlo, zhi, wcnt, lw, 
-                              lt_u, old_u, tc, nwl, wtrs, wake, wty, sor, cor, 
-                              rmq_, late, lt_m, old_m, lt_mu, old_mu, lt_mu_, 
-                              ww, old_mu_, sdl, scn, lt, rc, old_t, c, dl_, 
-                              cn_, old_mu_w, lt_, first, out_, rc_, hadw, ata, 
-                              so_, havel, tw, allr, omw, fca, sorw, all, old_c, 
-                              tws, alr, rmq, dl, cn, gen, old_cv, lt_c, rc_c, 
-                              so, out, ndl, old, wq, dw, k, cdw, ck >>
+                              wc, sc, nww, nwsem, nww2, nreg2, sem, data, now, 
+                              note, nreg, held, ret, sres, picked, sleeps, 
+                              inlock, ip, mw, pool, nalloc, nq, muFreed, refs, 
+                              nwalive, taint3, stack, lt_l, clear, old_, zlo, 
+                              zhi, wcnt, lw, lt_u, old_u, tc, nwl, wtrs, wake, 
+                              wty, sor, cor, rmq_, late, lt_m, old_m, lt_mu, 
+                              old_mu, lt_mu_, ww, old_mu_, sdl, scn, lt, rc, 
+                              old_t, c, dl_, cn_, old_mu_w, lt_, first, out_, 
+                              rc_, hadw, ata, so_, havel, tw, allr, omw, fca, 
+                              sorw, all, old_c, tws, alr, rmq, dl, cn, gen, 
+                              old_cv, lt_c, rc_c, so, out, ndl, wcn, old, wq, 
+                              still2, cvr, dw, k, cdw, ck >>
 
 ta_5_ld(self) == /\ pc[self] = "ta_5_ld"
                  /\ IF waiting[W(self)] = 0
                        THEN /\ pc' = [pc EXCEPT ![self] = "ta_9_st"]
                        ELSE /\ pc' = [pc EXCEPT ![self] = "ta_6_ld"]
                  /\ UNCHANGED << word, queue, cvword, cvq, waiting, rmc, cvmu, 
-                                 wl, wc, sc, nww, nwsem, sem, data, now, note, 
-                                 nreg, held, ret, sres, picked, sleeps, inlock, 
-                                 ip, mw, pool, nalloc, nq, muFreed, refs, 
-                                 nwalive, taint3, stack, lt_l, clear, old_, 
-                                 zlo, zhi, wcnt, lw, lt_u, old_u, tc, nwl, 
-                                 wtrs, wake, wty, sor, cor, rmq_, late, lt_m, 
-                                 old_m, lt_mu, old_mu, lt_mu_, ww, old_mu_, 
-                                 sdl, scn, lt, rc, old_t, c, dl_, cn_, 
-                                 old_mu_w, lt_, first, out_, rc_, hadw, ata, 
-                                 so_, havel, tw, allr, omw, fca, sorw, all, 
-                                 old_c, tws, alr, rmq, dl, cn, gen, old_cv, 
-                                 lt_c, rc_c, so, out, ndl, old, wq, dw, k, cdw, 
-                                 ck >>
+                                 wl, wc, sc, nww, nwsem, nww2, nreg2, sem, 
+                                 data, now, note, nreg, held, ret, sres, 
+                                 picked, sleeps, inlock, ip, mw, pool, nalloc, 
+                                 nq, muFreed, refs, nwalive, taint3, stack, 
+                                 lt_l, clear, old_, zlo, zhi, wcnt, lw, lt_u, 
+                                 old_u, tc, nwl, wtrs, wake, wty, sor, cor, 
+                                 rmq_, late, lt_m, old_m, lt_mu, old_mu, 
+                                 lt_mu_, ww, old_mu_, sdl, scn, lt, rc, old_t, 
+                                 c, dl_, cn_, old_mu_w, lt_, first, out_, rc_, 
+                                 hadw, ata, so_, havel, tw, allr, omw, fca, 
+                                 sorw, all, old_c, tws, alr, rmq, dl, cn, gen, 
+                                 old_cv, lt_c, rc_c, so, out, ndl, wcn, old, 
+                                 wq, still2, cvr, dw, k, cdw, ck >>
 
 ta_6_ld(self) == /\ pc[self] = "ta_6_ld"
                  /\ IF rc[self] # rmc[W(self)]
@@ -2013,24 +2055,7 @@ ta_6_ld(self) == /\ pc[self] = "ta_6_ld"
                                  /\ sc' = r.R
                             /\ pc' = [pc EXCEPT ![self] = "ta_7_ld"]
                  /\ UNCHANGED << word, cvword, cvq, waiting, rmc, cvmu, wl, wc, 
-                                 nww, nwsem, sem, data, now, note, nreg, held, 
-                                 ret, sres, picked, sleeps, inlock, ip, mw, 
-                                 pool, nalloc, nq, muFreed, refs, nwalive, 
-                                 taint3, stack, lt_l, clear, old_, zlo, zhi, 
-                                 wcnt, lw, lt_u, old_u, tc, nwl, wtrs, wake, 
-                                 wty, sor, cor, rmq_, late, lt_m, old_m, lt_mu, 
-                                 old_mu, lt_mu_, ww, old_mu_, sdl, scn, lt, rc, 
-                                 old_t, c, dl_, cn_, old_mu_w, lt_, first, 
-                                 out_, rc_, hadw, ata, so_, havel, tw, allr, 
-                                 omw, fca, sorw, all, old_c, tws, alr, rmq, dl, 
-                                 cn, gen, old_cv, lt_c, rc_c, so, out, ndl, 
-                                 old, wq, dw, k, cdw, ck >>
-
-ta_7_ld(self) == /\ pc[self] = "ta_7_ld"
-                 /\ TRUE
-                 /\ pc' = [pc EXCEPT ![self] = "ta_7_cas"]
-                 /\ UNCHANGED << word, queue, cvword, cvq, waiting, rmc, cvmu, 
-                                 wl, wc, sc, nww, nwsem, sem, data, now, note, 
+                                 nww, nwsem, nww2, nreg2, sem, data, now, note, 
                                  nreg, held, ret, sres, picked, sleeps, inlock, 
                                  ip, mw, pool, nalloc, nq, muFreed, refs, 
                                  nwalive, taint3, stack, lt_l, clear, old_, 
@@ -2041,43 +2066,62 @@ ta_7_ld(self) == /\ pc[self] = "ta_7_ld"
                                  old_mu_w, lt_, first, out_, rc_, hadw, ata, 
                                  so_, havel, tw, allr, omw, fca, sorw, all, 
                                  old_c, tws, alr, rmq, dl, cn, gen, old_cv, 
-                                 lt_c, rc_c, so, out, ndl, old, wq, dw, k, cdw, 
-                                 ck >>
+                                 lt_c, rc_c, so, out, ndl, wcn, old, wq, 
+                                 still2, cvr, dw, k, cdw, ck >>
+
+ta_7_ld(self) == /\ pc[self] = "ta_7_ld"
+                 /\ TRUE
+                 /\ pc' = [pc EXCEPT ![self] = "ta_7_cas"]
+                 /\ UNCHANGED << word, queue, cvword, cvq, waiting, rmc, cvmu, 
+                                 wl, wc, sc, nww, nwsem, nww2, nreg2, sem, 
+                                 data, now, note, nreg, held, ret, sres, 
+                                 picked, sleeps, inlock, ip, mw, pool, nalloc, 
+                                 nq, muFreed, refs, nwalive, taint3, stack, 
+                                 lt_l, clear, old_, zlo, zhi, wcnt, lw, lt_u, 
+                                 old_u, tc, nwl, wtrs, wake, wty, sor, cor, 
+                                 rmq_, late, lt_m, old_m, lt_mu, old_mu, 
+                                 lt_mu_, ww, old_mu_, sdl, scn, lt, rc, old_t, 
+                                 c, dl_, cn_, old_mu_w, lt_, first, out_, rc_, 
+                                 hadw, ata, so_, havel, tw, allr, omw, fca, 
+                                 sorw, all, old_c, tws, alr, rmq, dl, cn, gen, 
+                                 old_cv, lt_c, rc_c, so, out, ndl, wcn, old, 
+                                 wq, still2, cvr, dw, k, cdw, ck >>
 
 ta_7_cas(self) == /\ pc[self] = "ta_7_cas"
                   /\ rmc' = [rmc EXCEPT ![W(self)] = rmc[W(self)] + 1]
                   /\ pc' = [pc EXCEPT ![self] = "ta_8_st"]
                   /\ UNCHANGED << word, queue, cvword, cvq, waiting, cvmu, wl, 
-                                  wc, sc, nww, nwsem, sem, data, now, note, 
-                                  nreg, held, ret, sres, picked, sleeps, 
-                                  inlock, ip, mw, pool, nalloc, nq, muFreed, 
-                                  refs, nwalive, taint3, stack, lt_l, clear, 
-                                  old_, zlo, zhi, wcnt, lw, lt_u, old_u, tc, 
-                                  nwl, wtrs, wake, wty, sor, cor, rmq_, late, 
-                                  lt_m, old_m, lt_mu, old_mu, lt_mu_, ww, 
+                                  wc, sc, nww, nwsem, nww2, nreg2, sem, data, 
+                                  now, note, nreg, held, ret, sres, picked, 
+                                  sleeps, inlock, ip, mw, pool, nalloc, nq, 
+                                  muFreed, refs, nwalive, taint3, stack, lt_l, 
+                                  clear, old_, zlo, zhi, wcnt, lw, lt_u, old_u, 
+                                  tc, nwl, wtrs, wake, wty, sor, cor, rmq_, 
+                                  late, lt_m, old_m, lt_mu, old_mu, lt_mu_, ww, 
                                   old_mu_, sdl, scn, lt, rc, old_t, c, dl_, 
                                   cn_, old_mu_w, lt_, first, out_, rc_, hadw, 
                                   ata, so_, havel, tw, allr, omw, fca, sorw, 
                                   all, old_c, tws, alr, rmq, dl, cn, gen, 
-                                  old_cv, lt_c, rc_c, so, out, ndl, old, wq, 
-                                  dw, k, cdw, ck >>
+                                  old_cv, lt_c, rc_c, so, out, ndl, wcn, old, 
+                                  wq, still2, cvr, dw, k, cdw, ck >>
 
 ta_8_st(self) == /\ pc[self] = "ta_8_st"
                  /\ waiting' = [waiting EXCEPT ![W(self)] = 0]
                  /\ pc' = [pc EXCEPT ![self] = "ta_8b_st"]
                  /\ UNCHANGED << word, queue, cvword, cvq, rmc, cvmu, wl, wc, 
-                                 sc, nww, nwsem, sem, data, now, note, nreg, 
-                                 held, ret, sres, picked, sleeps, inlock, ip, 
-                                 mw, pool, nalloc, nq, muFreed, refs, nwalive, 
-                                 taint3, stack, lt_l, clear, old_, zlo, zhi, 
-                                 wcnt, lw, lt_u, old_u, tc, nwl, wtrs, wake, 
-                                 wty, sor, cor, rmq_, late, lt_m, old_m, lt_mu, 
-                                 old_mu, lt_mu_, ww, old_mu_, sdl, scn, lt, rc, 
-                                 old_t, c, dl_, cn_, old_mu_w, lt_, first, 
-                                 out_, rc_, hadw, ata, so_, havel, tw, allr, 
-                                 omw, fca, sorw, all, old_c, tws, alr, rmq, dl, 
-                                 cn, gen, old_cv, lt_c, rc_c, so, out, ndl, 
-                                 old, wq, dw, k, cdw, ck >>
+                                 sc, nww, nwsem, nww2, nreg2, sem, data, now, 
+                                 note, nreg, held, ret, sres, picked, sleeps, 
+                                 inlock, ip, mw, pool, nalloc, nq, muFreed, 
+                                 refs, nwalive, taint3, stack, lt_l, clear, 
+                                 old_, zlo, zhi, wcnt, lw, lt_u, old_u, tc, 
+                                 nwl, wtrs, wake, wty, sor, cor, rmq_, late, 
+                                 lt_m, old_m, lt_mu, old_mu, lt_mu_, ww, 
+                                 old_mu_, sdl, scn, lt, rc, old_t, c, dl_, cn_, 
+                                 old_mu_w, lt_, first, out_, rc_, hadw, ata, 
+                                 so_, havel, tw, allr, omw, fca, sorw, all, 
+                                 old_c, tws, alr, rmq, dl, cn, gen, old_cv, 
+                                 lt_c, rc_c, so, out, ndl, wcn, old, wq, 
+                                 still2, cvr, dw, k, cdw, ck >>
 
 ta_8b_st(self) == /\ pc[self] = "ta_8b_st"
                   /\ word' = old_t[self] + Add(lt[self])
@@ -2089,18 +2133,18 @@ ta_8b_st(self) == /\ pc[self] = "ta_8b_st"
                   /\ rc' = [rc EXCEPT ![self] = Head(stack[self]).rc]
                   /\ stack' = [stack EXCEPT ![self] = Tail(stack[self])]
                   /\ UNCHANGED << queue, cvword, cvq, waiting, rmc, cvmu, wl, 
-                                  wc, sc, nww, nwsem, sem, data, now, note, 
-                                  nreg, ret, picked, sleeps, inlock, ip, mw, 
-                                  pool, nalloc, nq, muFreed, refs, nwalive, 
-                                  taint3, lt_l, clear, old_, zlo, zhi, wcnt, 
-                                  lw, lt_u, old_u, tc, nwl, wtrs, wake, wty, 
-                                  sor, cor, rmq_, late, lt_m, old_m, lt_mu, 
-                                  old_mu, lt_mu_, ww, old_mu_, sdl, scn, c, 
-                                  dl_, cn_, old_mu_w, lt_, first, out_, rc_, 
+                                  wc, sc, nww, nwsem, nww2, nreg2, sem, data, 
+                                  now, note, nreg, ret, picked, sleeps, inlock, 
+                                  ip, mw, pool, nalloc, nq, muFreed, refs, 
+                                  nwalive, taint3, lt_l, clear, old_, zlo, zhi, 
+                                  wcnt, lw, lt_u, old_u, tc, nwl, wtrs, wake, 
+                                  wty, sor, cor, rmq_, late, lt_m, old_m, 
+                                  lt_mu, old_mu, lt_mu_, ww, old_mu_, sdl, scn, 
+                                  c, dl_, cn_, old_mu_w, lt_, first, out_, rc_, 
                                   hadw, ata, so_, havel, tw, allr, omw, fca, 
                                   sorw, all, old_c, tws, alr, rmq, dl, cn, gen, 
-                                  old_cv, lt_c, rc_c, so, out, ndl, old, wq, 
-                                  dw, k, cdw, ck >>
+                                  old_cv, lt_c, rc_c, so, out, ndl, wcn, old, 
+                                  wq, still2, cvr, dw, k, cdw, ck >>
 
 ta_9_st(self) == /\ pc[self] = "ta_9_st"
                  /\ word' = old_t[self]
@@ -2111,18 +2155,18 @@ ta_9_st(self) == /\ pc[self] = "ta_9_st"
                  /\ rc' = [rc EXCEPT ![self] = Head(stack[self]).rc]
                  /\ stack' = [stack EXCEPT ![self] = Tail(stack[self])]
                  /\ UNCHANGED << queue, cvword, cvq, waiting, rmc, cvmu, wl, 
-                                 wc, sc, nww, nwsem, sem, data, now, note, 
-                                 nreg, held, ret, picked, sleeps, inlock, ip, 
-                                 mw, pool, nalloc, nq, muFreed, refs, nwalive, 
-                                 taint3, lt_l, clear, old_, zlo, zhi, wcnt, lw, 
-                                 lt_u, old_u, tc, nwl, wtrs, wake, wty, sor, 
-                                 cor, rmq_, late, lt_m, old_m, lt_mu, old_mu, 
-                                 lt_mu_, ww, old_mu_, sdl, scn, c, dl_, cn_, 
-                                 old_mu_w, lt_, first, out_, rc_, hadw, ata, 
-                                 so_, havel, tw, allr, omw, fca, sorw, all, 
-                                 old_c, tws, alr, rmq, dl, cn, gen, old_cv, 
-                                 lt_c, rc_c, so, out, ndl, old, wq, dw, k, cdw, 
-                                 ck >>
+                                 wc, sc, nww, nwsem, nww2, nreg2, sem, data, 
+                                 now, note, nreg, held, ret, picked, sleeps, 
+                                 inlock, ip, mw, pool, nalloc, nq, muFreed, 
+                                 refs, nwalive, taint3, lt_l, clear, old_, zlo, 
+                                 zhi, wcnt, lw, lt_u, old_u, tc, nwl, wtrs, 
+                                 wake, wty, sor, cor, rmq_, late, lt_m, old_m, 
+                                 lt_mu, old_mu, lt_mu_, ww, old_mu_, sdl, scn, 
+                                 c, dl_, cn_, old_mu_w, lt_, first, out_, rc_, 
+                                 hadw, ata, so_, havel, tw, allr, omw, fca, 
+                                 sorw, all, old_c, tws, alr, rmq, dl, cn, gen, 
+                                 old_cv, lt_c, rc_c, so, out, ndl, wcn, old, 
+                                 wq, still2, cvr, dw, k, cdw, ck >>
 
 try_acquire(self) == ta_1_ld(self) \/ ta_2_cas(self) \/ ta_3_cas(self)
                         \/ ta_d(self) \/ ta_5_ld(self) \/ ta_6_ld(self)
@@ -2163,16 +2207,17 @@ mw_1_ld(self) == /\ pc[self] = "mw_1_ld"
                                             first, out_, rc_, hadw, ata, so_, 
                                             havel >>
                  /\ UNCHANGED << word, queue, cvword, cvq, waiting, rmc, cvmu, 
-                                 wl, wc, sc, nww, nwsem, sem, data, now, note, 
-                                 nreg, held, sres, picked, sleeps, inlock, ip, 
-                                 nq, muFreed, refs, nwalive, taint3, lt_l, 
-                                 clear, old_, zlo, zhi, wcnt, lw, lt_u, old_u, 
-                                 tc, nwl, wtrs, wake, wty, sor, cor, rmq_, 
-                                 late, lt_m, old_m, lt_mu, old_mu, lt_mu_, ww, 
-                                 old_mu_, sdl, scn, lt, rc, old_t, tw, allr, 
-                                 omw, fca, sorw, all, old_c, tws, alr, rmq, dl, 
-                                 cn, gen, old_cv, lt_c, rc_c, so, out, ndl, 
-                                 old, wq, dw, k, cdw, ck >>
+                                 wl, wc, sc, nww, nwsem, nww2, nreg2, sem, 
+                                 data, now, note, nreg, held, sres, picked, 
+                                 sleeps, inlock, ip, nq, muFreed, refs, 
+                                 nwalive, taint3, lt_l, clear, old_, zlo, zhi, 
+                                 wcnt, lw, lt_u, old_u, tc, nwl, wtrs, wake, 
+                                 wty, sor, cor, rmq_, late, lt_m, old_m, lt_mu, 
+                                 old_mu, lt_mu_, ww, old_mu_, sdl, scn, lt, rc, 
+                                 old_t, tw, allr, omw, fca, sorw, all, old_c, 
+                                 tws, alr, rmq, dl, cn, gen, old_cv, lt_c, 
+                                 rc_c, so, out, ndl, wcn, old, wq, still2, cvr, 
+                                 dw, k, cdw, ck >>
 
 mw_2_st(self) == /\ pc[self] = "mw_2_st"
                  /\ waiting' = [waiting EXCEPT ![W(self)] = 1]
@@ -2181,35 +2226,36 @@ mw_2_st(self) == /\ pc[self] = "mw_2_st"
                  /\ wc' = [wc EXCEPT ![W(self)] = c[self]]
                  /\ pc' = [pc EXCEPT ![self] = "mw_3_ld"]
                  /\ UNCHANGED << word, queue, cvword, cvq, rmc, sc, nww, nwsem, 
-                                 sem, data, now, note, nreg, held, ret, sres, 
+                                 nww2, nreg2, sem, data, now, note, nreg, held, 
+                                 ret, sres, picked, sleeps, inlock, ip, mw, 
+                                 pool, nalloc, nq, muFreed, refs, nwalive, 
+                                 taint3, stack, lt_l, clear, old_, zlo, zhi, 
+                                 wcnt, lw, lt_u, old_u, tc, nwl, wtrs, wake, 
+                                 wty, sor, cor, rmq_, late, lt_m, old_m, lt_mu, 
+                                 old_mu, lt_mu_, ww, old_mu_, sdl, scn, lt, rc, 
+                                 old_t, c, dl_, cn_, old_mu_w, lt_, first, 
+                                 out_, rc_, hadw, ata, so_, havel, tw, allr, 
+                                 omw, fca, sorw, all, old_c, tws, alr, rmq, dl, 
+                                 cn, gen, old_cv, lt_c, rc_c, so, out, ndl, 
+                                 wcn, old, wq, still2, cvr, dw, k, cdw, ck >>
+
+mw_3_ld(self) == /\ pc[self] = "mw_3_ld"
+                 /\ rc_' = [rc_ EXCEPT ![self] = rmc[W(self)]]
+                 /\ pc' = [pc EXCEPT ![self] = "mw_4_ld"]
+                 /\ UNCHANGED << word, queue, cvword, cvq, waiting, rmc, cvmu, 
+                                 wl, wc, sc, nww, nwsem, nww2, nreg2, sem, 
+                                 data, now, note, nreg, held, ret, sres, 
                                  picked, sleeps, inlock, ip, mw, pool, nalloc, 
                                  nq, muFreed, refs, nwalive, taint3, stack, 
                                  lt_l, clear, old_, zlo, zhi, wcnt, lw, lt_u, 
                                  old_u, tc, nwl, wtrs, wake, wty, sor, cor, 
                                  rmq_, late, lt_m, old_m, lt_mu, old_mu, 
                                  lt_mu_, ww, old_mu_, sdl, scn, lt, rc, old_t, 
-                                 c, dl_, cn_, old_mu_w, lt_, first, out_, rc_, 
-                                 hadw, ata, so_, havel, tw, allr, omw, fca, 
-                                 sorw, all, old_c, tws, alr, rmq, dl, cn, gen, 
-                                 old_cv, lt_c, rc_c, so, out, ndl, old, wq, dw, 
-                                 k, cdw, ck >>
-
-mw_3_ld(self) == /\ pc[self] = "mw_3_ld"
-                 /\ rc_' = [rc_ EXCEPT ![self] = rmc[W(self)]]
-                 /\ pc' = [pc EXCEPT ![self] = "mw_4_ld"]
-                 /\ UNCHANGED << word, queue, cvword, cvq, waiting, rmc, cvmu, 
-                                 wl, wc, sc, nww, nwsem, sem, data, now, note, 
-                                 nreg, held, ret, sres, picked, sleeps, inlock, 
-                                 ip, mw, pool, nalloc, nq, muFreed, refs, 
-                                 nwalive, taint3, stack, lt_l, clear, old_, 
-                                 zlo, zhi, wcnt, lw, lt_u, old_u, tc, nwl, 
-                                 wtrs, wake, wty, sor, cor, rmq_, late, lt_m, 
-                                 old_m, lt_mu, old_mu, lt_mu_, ww, old_mu_, 
-                                 sdl, scn, lt, rc, old_t, c, dl_, cn_, 
-                                 old_mu_w, lt_, first, out_, hadw, ata, so_, 
-                                 havel, tw, allr, omw, fca, sorw, all, old_c, 
-                                 tws, alr, rmq, dl, cn, gen, old_cv, lt_c, 
-                                 rc_c, so, out, ndl, old, wq, dw, k, cdw, ck >>
+                                 c, dl_, cn_, old_mu_w, lt_, first, out_, hadw, 
+                                 ata, so_, havel, tw, allr, omw, fca, sorw, 
+                                 all, old_c, tws, alr, rmq, dl, cn, gen, 
+                                 old_cv, lt_c, rc_c, so, out, ndl, wcn, old, 
+                                 wq, still2, cvr, dw, k, cdw, ck >>
 
 mw_4_ld(self) == /\ pc[self] = "mw_4_ld"
                  /\ old_mu_w' = [old_mu_w EXCEPT ![self] = word]
@@ -2217,18 +2263,19 @@ mw_4_ld(self) == /\ pc[self] = "mw_4_ld"
                        THEN /\ pc' = [pc EXCEPT ![self] = "mw_4_d"]
                        ELSE /\ pc' = [pc EXCEPT ![self] = "mw_5_cas"]
                  /\ UNCHANGED << word, queue, cvword, cvq, waiting, rmc, cvmu, 
-                                 wl, wc, sc, nww, nwsem, sem, data, now, note, 
-                                 nreg, held, ret, sres, picked, sleeps, inlock, 
-                                 ip, mw, pool, nalloc, nq, muFreed, refs, 
-                                 nwalive, taint3, stack, lt_l, clear, old_, 
-                                 zlo, zhi, wcnt, lw, lt_u, old_u, tc, nwl, 
-                                 wtrs, wake, wty, sor, cor, rmq_, late, lt_m, 
-                                 old_m, lt_mu, old_mu, lt_mu_, ww, old_mu_, 
-                                 sdl, scn, lt, rc, old_t, c, dl_, cn_, lt_, 
-                                 first, out_, rc_, hadw, ata, so_, havel, tw, 
-                                 allr, omw, fca, sorw, all, old_c, tws, alr, 
-                                 rmq, dl, cn, gen, old_cv, lt_c, rc_c, so, out, 
-                                 ndl, old, wq, dw, k, cdw, ck >>
+                                 wl, wc, sc, nww, nwsem, nww2, nreg2, sem, 
+                                 data, now, note, nreg, held, ret, sres, 
+                                 picked, sleeps, inlock, ip, mw, pool, nalloc, 
+                                 nq, muFreed, refs, nwalive, taint3, stack, 
+                                 lt_l, clear, old_, zlo, zhi, wcnt, lw, lt_u, 
+                                 old_u, tc, nwl, wtrs, wake, wty, sor, cor, 
+                                 rmq_, late, lt_m, old_m, lt_mu, old_mu, 
+                                 lt_mu_, ww, old_mu_, sdl, scn, lt, rc, old_t, 
+                                 c, dl_, cn_, lt_, first, out_, rc_, hadw, ata, 
+                                 so_, havel, tw, allr, omw, fca, sorw, all, 
+                                 old_c, tws, alr, rmq, dl, cn, gen, old_cv, 
+                                 lt_c, rc_c, so, out, ndl, wcn, old, wq, 
+                                 still2, cvr, dw, k, cdw, ck >>
 
 mw_5_cas(self) == /\ pc[self] = "mw_5_cas"
                   /\ IF word = old_mu_w[self]
@@ -2248,51 +2295,54 @@ mw_5_cas(self) == /\ pc[self] = "mw_5_cas"
                              /\ UNCHANGED << word, queue, sc, held, nq, first, 
                                              hadw >>
                   /\ UNCHANGED << cvword, cvq, waiting, rmc, cvmu, wl, wc, nww, 
-                                  nwsem, sem, data, now, note, nreg, ret, sres, 
-                                  picked, sleeps, inlock, ip, mw, pool, nalloc, 
-                                  muFreed, refs, nwalive, taint3, stack, lt_l, 
-                                  clear, old_, zlo, zhi, wcnt, lw, lt_u, old_u, 
-                                  tc, nwl, wtrs, wake, wty, sor, cor, rmq_, 
-                                  late, lt_m, old_m, lt_mu, old_mu, lt_mu_, ww, 
-                                  old_mu_, sdl, scn, lt, rc, old_t, c, dl_, 
-                                  cn_, old_mu_w, lt_, out_, rc_, ata, so_, 
-                                  havel, tw, allr, omw, fca, sorw, all, old_c, 
-                                  tws, alr, rmq, dl, cn, gen, old_cv, lt_c, 
-                                  rc_c, so, out, ndl, old, wq, dw, k, cdw, ck >>
+                                  nwsem, nww2, nreg2, sem, data, now, note, 
+                                  nreg, ret, sres, picked, sleeps, inlock, ip, 
+                                  mw, pool, nalloc, muFreed, refs, nwalive, 
+                                  taint3, stack, lt_l, clear, old_, zlo, zhi, 
+                                  wcnt, lw, lt_u, old_u, tc, nwl, wtrs, wake, 
+                                  wty, sor, cor, rmq_, late, lt_m, old_m, 
+                                  lt_mu, old_mu, lt_mu_, ww, old_mu_, sdl, scn, 
+                                  lt, rc, old_t, c, dl_, cn_, old_mu_w, lt_, 
+                                  out_, rc_, ata, so_, havel, tw, allr, omw, 
+                                  fca, sorw, all, old_c, tws, alr, rmq, dl, cn, 
+                                  gen, old_cv, lt_c, rc_c, so, out, ndl, wcn, 
+                                  old, wq, still2, cvr, dw, k, cdw, ck >>
 
 mw_4_d(self) == /\ pc[self] = "mw_4_d"
                 /\ pc' = [pc EXCEPT ![self] = "mw_4_ld"]
                 /\ UNCHANGED << word, queue, cvword, cvq, waiting, rmc, cvmu, 
-                                wl, wc, sc, nww, nwsem, sem, data, now, note, 
-                                nreg, held, ret, sres, picked, sleeps, inlock, 
-                                ip, mw, pool, nalloc, nq, muFreed, refs, 
-                                nwalive, taint3, stack, lt_l, clear, old_, zlo, 
-                                zhi, wcnt, lw, lt_u, old_u, tc, nwl, wtrs, 
-                                wake, wty, sor, cor, rmq_, late, lt_m, old_m, 
-                                lt_mu, old_mu, lt_mu_, ww, old_mu_, sdl, scn, 
-                                lt, rc, old_t, c, dl_, cn_, old_mu_w, lt_, 
-                                first, out_, rc_, hadw, ata, so_, havel, tw, 
-                                allr, omw, fca, sorw, all, old_c, tws, alr, 
-                                rmq, dl, cn, gen, old_cv, lt_c, rc_c, so, out, 
-                                ndl, old, wq, dw, k, cdw, ck >>
+                                wl, wc, sc, nww, nwsem, nww2, nreg2, sem, data, 
+                                now, note, nreg, held, ret, sres, picked, 
+                                sleeps, inlock, ip, mw, pool, nalloc, nq, 
+                                muFreed, refs, nwalive, taint3, stack, lt_l, 
+                                clear, old_, zlo, zhi, wcnt, lw, lt_u, old_u, 
+                                tc, nwl, wtrs, wake, wty, sor, cor, rmq_, late, 
+                                lt_m, old_m, lt_mu, old_mu, lt_mu_, ww, 
+                                old_mu_, sdl, scn, lt, rc, old_t, c, dl_, cn_, 
+                                old_mu_w, lt_, first, out_, rc_, hadw, ata, 
+                                so_, havel, tw, allr, omw, fca, sorw, all, 
+                                old_c, tws, alr, rmq, dl, cn, gen, old_cv, 
+                                lt_c, rc_c, so, out, ndl, wcn, old, wq, still2, 
+                                cvr, dw, k, cdw, ck >>
 
 mw_6_ld(self) == /\ pc[self] = "mw_6_ld"
                  /\ old_mu_w' = [old_mu_w EXCEPT ![self] = word]
                  /\ ata' = [ata EXCEPT ![self] = IF AnyLock(old_mu_w'[self] - Add(lt_[self])) = 0 /\ hadw[self] THEN 0 ELSE Add(lt_[self])]
                  /\ pc' = [pc EXCEPT ![self] = "mw_7_cas"]
                  /\ UNCHANGED << word, queue, cvword, cvq, waiting, rmc, cvmu, 
-                                 wl, wc, sc, nww, nwsem, sem, data, now, note, 
-                                 nreg, held, ret, sres, picked, sleeps, inlock, 
-                                 ip, mw, pool, nalloc, nq, muFreed, refs, 
-                                 nwalive, taint3, stack, lt_l, clear, old_, 
-                                 zlo, zhi, wcnt, lw, lt_u, old_u, tc, nwl, 
-                                 wtrs, wake, wty, sor, cor, rmq_, late, lt_m, 
-                                 old_m, lt_mu, old_mu, lt_mu_, ww, old_mu_, 
-                                 sdl, scn, lt, rc, old_t, c, dl_, cn_, lt_, 
-                                 first, out_, rc_, hadw, so_, havel, tw, allr, 
-                                 omw, fca, sorw, all, old_c, tws, alr, rmq, dl, 
-                                 cn, gen, old_cv, lt_c, rc_c, so, out, ndl, 
-                                 old, wq, dw, k, cdw, ck >>
+                                 wl, wc, sc, nww, nwsem, nww2, nreg2, sem, 
+                                 data, now, note, nreg, held, ret, sres, 
+                                 picked, sleeps, inlock, ip, mw, pool, nalloc, 
+                                 nq, muFreed, refs, nwalive, taint3, stack, 
+                                 lt_l, clear, old_, zlo, zhi, wcnt, lw, lt_u, 
+                                 old_u, tc, nwl, wtrs, wake, wty, sor, cor, 
+                                 rmq_, late, lt_m, old_m, lt_mu, old_mu, 
+                                 lt_mu_, ww, old_mu_, sdl, scn, lt, rc, old_t, 
+                                 c, dl_, cn_, lt_, first, out_, rc_, hadw, so_, 
+                                 havel, tw, allr, omw, fca, sorw, all, old_c, 
+                                 tws, alr, rmq, dl, cn, gen, old_cv, lt_c, 
+                                 rc_c, so, out, ndl, wcn, old, wq, still2, cvr, 
+                                 dw, k, cdw, ck >>
 
 mw_7_cas(self) == /\ pc[self] = "mw_7_cas"
                   /\ IF word = old_mu_w[self]
@@ -2335,17 +2385,17 @@ mw_7_cas(self) == /\ pc[self] = "mw_7_cas"
                                              wtrs, wake, wty, sor, cor, rmq_, 
                                              late, so_, havel >>
                   /\ UNCHANGED << queue, cvword, cvq, waiting, rmc, cvmu, wl, 
-                                  wc, sc, nww, nwsem, sem, data, now, note, 
-                                  nreg, held, ret, sres, picked, sleeps, 
-                                  inlock, ip, mw, pool, nalloc, nq, muFreed, 
-                                  refs, nwalive, taint3, lt_l, clear, old_, 
-                                  zlo, zhi, wcnt, lw, lt_m, old_m, lt_mu, 
+                                  wc, sc, nww, nwsem, nww2, nreg2, sem, data, 
+                                  now, note, nreg, held, ret, sres, picked, 
+                                  sleeps, inlock, ip, mw, pool, nalloc, nq, 
+                                  muFreed, refs, nwalive, taint3, lt_l, clear, 
+                                  old_, zlo, zhi, wcnt, lw, lt_m, old_m, lt_mu, 
                                   old_mu, lt_mu_, ww, old_mu_, sdl, scn, lt, 
                                   rc, old_t, c, dl_, cn_, old_mu_w, lt_, first, 
                                   out_, rc_, hadw, ata, tw, allr, omw, fca, 
                                   sorw, all, old_c, tws, alr, rmq, dl, cn, gen, 
-                                  old_cv, lt_c, rc_c, so, out, ndl, old, wq, 
-                                  dw, k, cdw, ck >>
+                                  old_cv, lt_c, rc_c, so, out, ndl, wcn, old, 
+                                  wq, still2, cvr, dw, k, cdw, ck >>
 
 mw_8_ld(self) == /\ pc[self] = "mw_8_ld"
                  /\ IF waiting[W(self)] = 0
@@ -2363,18 +2413,19 @@ mw_8_ld(self) == /\ pc[self] = "mw_8_ld"
                                                                                \o stack[self]]
                                        /\ pc' = [pc EXCEPT ![self] = "sw_1_r"]
                  /\ UNCHANGED << word, queue, cvword, cvq, waiting, rmc, cvmu, 
-                                 wl, wc, sc, nww, nwsem, sem, data, now, note, 
-                                 nreg, held, ret, sres, picked, sleeps, inlock, 
-                                 ip, mw, pool, nalloc, nq, muFreed, refs, 
-                                 nwalive, taint3, lt_l, clear, old_, zlo, zhi, 
-                                 wcnt, lw, lt_u, old_u, tc, nwl, wtrs, wake, 
-                                 wty, sor, cor, rmq_, late, lt_m, old_m, lt_mu, 
-                                 old_mu, lt_mu_, ww, old_mu_, lt, rc, old_t, c, 
-                                 dl_, cn_, old_mu_w, lt_, first, out_, rc_, 
-                                 hadw, ata, so_, havel, tw, allr, omw, fca, 
-                                 sorw, all, old_c, tws, alr, rmq, dl, cn, gen, 
-                                 old_cv, lt_c, rc_c, so, out, ndl, old, wq, dw, 
-                                 k, cdw, ck >>
+                                 wl, wc, sc, nww, nwsem, nww2, nreg2, sem, 
+                                 data, now, note, nreg, held, ret, sres, 
+                                 picked, sleeps, inlock, ip, mw, pool, nalloc, 
+                                 nq, muFreed, refs, nwalive, taint3, lt_l, 
+                                 clear, old_, zlo, zhi, wcnt, lw, lt_u, old_u, 
+                                 tc, nwl, wtrs, wake, wty, sor, cor, rmq_, 
+                                 late, lt_m, old_m, lt_mu, old_mu, lt_mu_, ww, 
+                                 old_mu_, lt, rc, old_t, c, dl_, cn_, old_mu_w, 
+                                 lt_, first, out_, rc_, hadw, ata, so_, havel, 
+                                 tw, allr, omw, fca, sorw, all, old_c, tws, 
+                                 alr, rmq, dl, cn, gen, old_cv, lt_c, rc_c, so, 
+                                 out, ndl, wcn, old, wq, still2, cvr, dw, k, 
+                                 cdw, ck >>
 
 mw_9b_l(self) == /\ pc[self] = "mw_9b_l"
                  /\ so_' = [so_ EXCEPT ![self] = sres[self]]
@@ -2382,37 +2433,38 @@ mw_9b_l(self) == /\ pc[self] = "mw_9b_l"
                        THEN /\ pc' = [pc EXCEPT ![self] = "mw_12_ld"]
                        ELSE /\ pc' = [pc EXCEPT ![self] = "mw_10_ld"]
                  /\ UNCHANGED << word, queue, cvword, cvq, waiting, rmc, cvmu, 
-                                 wl, wc, sc, nww, nwsem, sem, data, now, note, 
-                                 nreg, held, ret, sres, picked, sleeps, inlock, 
-                                 ip, mw, pool, nalloc, nq, muFreed, refs, 
-                                 nwalive, taint3, stack, lt_l, clear, old_, 
-                                 zlo, zhi, wcnt, lw, lt_u, old_u, tc, nwl, 
-                                 wtrs, wake, wty, sor, cor, rmq_, late, lt_m, 
-                                 old_m, lt_mu, old_mu, lt_mu_, ww, old_mu_, 
-                                 sdl, scn, lt, rc, old_t, c, dl_, cn_, 
-                                 old_mu_w, lt_, first, out_, rc_, hadw, ata, 
-                                 havel, tw, allr, omw, fca, sorw, all, old_c, 
-                                 tws, alr, rmq, dl, cn, gen, old_cv, lt_c, 
-                                 rc_c, so, out, ndl, old, wq, dw, k, cdw, ck >>
+                                 wl, wc, sc, nww, nwsem, nww2, nreg2, sem, 
+                                 data, now, note, nreg, held, ret, sres, 
+                                 picked, sleeps, inlock, ip, mw, pool, nalloc, 
+                                 nq, muFreed, refs, nwalive, taint3, stack, 
+                                 lt_l, clear, old_, zlo, zhi, wcnt, lw, lt_u, 
+                                 old_u, tc, nwl, wtrs, wake, wty, sor, cor, 
+                                 rmq_, late, lt_m, old_m, lt_mu, old_mu, 
+                                 lt_mu_, ww, old_mu_, sdl, scn, lt, rc, old_t, 
+                                 c, dl_, cn_, old_mu_w, lt_, first, out_, rc_, 
+                                 hadw, ata, havel, tw, allr, omw, fca, sorw, 
+                                 all, old_c, tws, alr, rmq, dl, cn, gen, 
+                                 old_cv, lt_c, rc_c, so, out, ndl, wcn, old, 
+                                 wq, still2, cvr, dw, k, cdw, ck >>
 
 mw_10_ld(self) == /\ pc[self] = "mw_10_ld"
                   /\ IF waiting[W(self)] = 0
                         THEN /\ pc' = [pc EXCEPT ![self] = "mw_12_ld"]
                         ELSE /\ pc' = [pc EXCEPT ![self] = "mw_11_l"]
                   /\ UNCHANGED << word, queue, cvword, cvq, waiting, rmc, cvmu, 
-                                  wl, wc, sc, nww, nwsem, sem, data, now, note, 
-                                  nreg, held, ret, sres, picked, sleeps, 
-                                  inlock, ip, mw, pool, nalloc, nq, muFreed, 
-                                  refs, nwalive, taint3, stack, lt_l, clear, 
-                                  old_, zlo, zhi, wcnt, lw, lt_u, old_u, tc, 
-                                  nwl, wtrs, wake, wty, sor, cor, rmq_, late, 
-                                  lt_m, old_m, lt_mu, old_mu, lt_mu_, ww, 
-                                  old_mu_, sdl, scn, lt, rc, old_t, c, dl_, 
-                                  cn_, old_mu_w, lt_, first, out_, rc_, hadw, 
-                                  ata, so_, havel, tw, allr, omw, fca, sorw, 
-                                  all, old_c, tws, alr, rmq, dl, cn, gen, 
-                                  old_cv, lt_c, rc_c, so, out, ndl, old, wq, 
-                                  dw, k, cdw, ck >>
+                                  wl, wc, sc, nww, nwsem, nww2, nreg2, sem, 
+                                  data, now, note, nreg, held, ret, sres, 
+                                  picked, sleeps, inlock, ip, mw, pool, nalloc, 
+                                  nq, muFreed, refs, nwalive, taint3, stack, 
+                                  lt_l, clear, old_, zlo, zhi, wcnt, lw, lt_u, 
+                                  old_u, tc, nwl, wtrs, wake, wty, sor, cor, 
+                                  rmq_, late, lt_m, old_m, lt_mu, old_mu, 
+                                  lt_mu_, ww, old_mu_, sdl, scn, lt, rc, old_t, 
+                                  c, dl_, cn_, old_mu_w, lt_, first, out_, rc_, 
+                                  hadw, ata, so_, havel, tw, allr, omw, fca, 
+                                  sorw, all, old_c, tws, alr, rmq, dl, cn, gen, 
+                                  old_cv, lt_c, rc_c, so, out, ndl, wcn, old, 
+                                  wq, still2, cvr, dw, k, cdw, ck >>
 
 mw_11_l(self) == /\ pc[self] = "mw_11_l"
                  /\ /\ lt' = [lt EXCEPT ![self] = lt_[self]]
@@ -2426,18 +2478,19 @@ mw_11_l(self) == /\ pc[self] = "mw_11_l"
                  /\ old_t' = [old_t EXCEPT ![self] = 0]
                  /\ pc' = [pc EXCEPT ![self] = "ta_1_ld"]
                  /\ UNCHANGED << word, queue, cvword, cvq, waiting, rmc, cvmu, 
-                                 wl, wc, sc, nww, nwsem, sem, data, now, note, 
-                                 nreg, held, ret, sres, picked, sleeps, inlock, 
-                                 ip, mw, pool, nalloc, nq, muFreed, refs, 
-                                 nwalive, taint3, lt_l, clear, old_, zlo, zhi, 
-                                 wcnt, lw, lt_u, old_u, tc, nwl, wtrs, wake, 
-                                 wty, sor, cor, rmq_, late, lt_m, old_m, lt_mu, 
-                                 old_mu, lt_mu_, ww, old_mu_, sdl, scn, c, dl_, 
-                                 cn_, old_mu_w, lt_, first, out_, rc_, hadw, 
-                                 ata, so_, havel, tw, allr, omw, fca, sorw, 
-                                 all, old_c, tws, alr, rmq, dl, cn, gen, 
-                                 old_cv, lt_c, rc_c, so, out, ndl, old, wq, dw, 
-                                 k, cdw, ck >>
+                                 wl, wc, sc, nww, nwsem, nww2, nreg2, sem, 
+                                 data, now, note, nreg, held, ret, sres, 
+                                 picked, sleeps, inlock, ip, mw, pool, nalloc, 
+                                 nq, muFreed, refs, nwalive, taint3, lt_l, 
+                                 clear, old_, zlo, zhi, wcnt, lw, lt_u, old_u, 
+                                 tc, nwl, wtrs, wake, wty, sor, cor, rmq_, 
+                                 late, lt_m, old_m, lt_mu, old_mu, lt_mu_, ww, 
+                                 old_mu_, sdl, scn, c, dl_, cn_, old_mu_w, lt_, 
+                                 first, out_, rc_, hadw, ata, so_, havel, tw, 
+                                 allr, omw, fca, sorw, all, old_c, tws, alr, 
+                                 rmq, dl, cn, gen, old_cv, lt_c, rc_c, so, out, 
+                                 ndl, wcn, old, wq, still2, cvr, dw, k, cdw, 
+                                 ck >>
 
 mw_11b_l(self) == /\ pc[self] = "mw_11b_l"
                   /\ havel' = [havel EXCEPT ![self] = (sres[self] = 1)]
@@ -2447,54 +2500,55 @@ mw_11b_l(self) == /\ pc[self] = "mw_11b_l"
                              /\ out_' = out_
                   /\ pc' = [pc EXCEPT ![self] = "mw_12_ld"]
                   /\ UNCHANGED << word, queue, cvword, cvq, waiting, rmc, cvmu, 
-                                  wl, wc, sc, nww, nwsem, sem, data, now, note, 
-                                  nreg, held, ret, sres, picked, sleeps, 
-                                  inlock, ip, mw, pool, nalloc, nq, muFreed, 
-                                  refs, nwalive, taint3, stack, lt_l, clear, 
-                                  old_, zlo, zhi, wcnt, lw, lt_u, old_u, tc, 
-                                  nwl, wtrs, wake, wty, sor, cor, rmq_, late, 
-                                  lt_m, old_m, lt_mu, old_mu, lt_mu_, ww, 
-                                  old_mu_, sdl, scn, lt, rc, old_t, c, dl_, 
-                                  cn_, old_mu_w, lt_, first, rc_, hadw, ata, 
-                                  so_, tw, allr, omw, fca, sorw, all, old_c, 
-                                  tws, alr, rmq, dl, cn, gen, old_cv, lt_c, 
-                                  rc_c, so, out, ndl, old, wq, dw, k, cdw, ck >>
+                                  wl, wc, sc, nww, nwsem, nww2, nreg2, sem, 
+                                  data, now, note, nreg, held, ret, sres, 
+                                  picked, sleeps, inlock, ip, mw, pool, nalloc, 
+                                  nq, muFreed, refs, nwalive, taint3, stack, 
+                                  lt_l, clear, old_, zlo, zhi, wcnt, lw, lt_u, 
+                                  old_u, tc, nwl, wtrs, wake, wty, sor, cor, 
+                                  rmq_, late, lt_m, old_m, lt_mu, old_mu, 
+                                  lt_mu_, ww, old_mu_, sdl, scn, lt, rc, old_t, 
+                                  c, dl_, cn_, old_mu_w, lt_, first, rc_, hadw, 
+                                  ata, so_, tw, allr, omw, fca, sorw, all, 
+                                  old_c, tws, alr, rmq, dl, cn, gen, old_cv, 
+                                  lt_c, rc_c, so, out, ndl, wcn, old, wq, 
+                                  still2, cvr, dw, k, cdw, ck >>
 
 mw_12_ld(self) == /\ pc[self] = "mw_12_ld"
                   /\ IF waiting[W(self)] # 0
                         THEN /\ pc' = [pc EXCEPT ![self] = "mw_12_d"]
                         ELSE /\ pc' = [pc EXCEPT ![self] = "mw_8_ld"]
                   /\ UNCHANGED << word, queue, cvword, cvq, waiting, rmc, cvmu, 
-                                  wl, wc, sc, nww, nwsem, sem, data, now, note, 
-                                  nreg, held, ret, sres, picked, sleeps, 
-                                  inlock, ip, mw, pool, nalloc, nq, muFreed, 
-                                  refs, nwalive, taint3, stack, lt_l, clear, 
-                                  old_, zlo, zhi, wcnt, lw, lt_u, old_u, tc, 
-                                  nwl, wtrs, wake, wty, sor, cor, rmq_, late, 
-                                  lt_m, old_m, lt_mu, old_mu, lt_mu_, ww, 
-                                  old_mu_, sdl, scn, lt, rc, old_t, c, dl_, 
-                                  cn_, old_mu_w, lt_, first, out_, rc_, hadw, 
-                                  ata, so_, havel, tw, allr, omw, fca, sorw, 
-                                  all, old_c, tws, alr, rmq, dl, cn, gen, 
-                                  old_cv, lt_c, rc_c, so, out, ndl, old, wq, 
-                                  dw, k, cdw, ck >>
+                                  wl, wc, sc, nww, nwsem, nww2, nreg2, sem, 
+                                  data, now, note, nreg, held, ret, sres, 
+                                  picked, sleeps, inlock, ip, mw, pool, nalloc, 
+                                  nq, muFreed, refs, nwalive, taint3, stack, 
+                                  lt_l, clear, old_, zlo, zhi, wcnt, lw, lt_u, 
+                                  old_u, tc, nwl, wtrs, wake, wty, sor, cor, 
+                                  rmq_, late, lt_m, old_m, lt_mu, old_mu, 
+                                  lt_mu_, ww, old_mu_, sdl, scn, lt, rc, old_t, 
+                                  c, dl_, cn_, old_mu_w, lt_, first, out_, rc_, 
+                                  hadw, ata, so_, havel, tw, allr, omw, fca, 
+                                  sorw, all, old_c, tws, alr, rmq, dl, cn, gen, 
+                                  old_cv, lt_c, rc_c, so, out, ndl, wcn, old, 
+                                  wq, still2, cvr, dw, k, cdw, ck >>
 
 mw_12_d(self) == /\ pc[self] = "mw_12_d"
                  /\ pc' = [pc EXCEPT ![self] = "mw_8_ld"]
                  /\ UNCHANGED << word, queue, cvword, cvq, waiting, rmc, cvmu, 
-                                 wl, wc, sc, nww, nwsem, sem, data, now, note, 
-                                 nreg, held, ret, sres, picked, sleeps, inlock, 
-                                 ip, mw, pool, nalloc, nq, muFreed, refs, 
-                                 nwalive, taint3, stack, lt_l, clear, old_, 
-                                 zlo, zhi, wcnt, lw, lt_u, old_u, tc, nwl, 
-                                 wtrs, wake, wty, sor, cor, rmq_, late, lt_m, 
-                                 old_m, lt_mu, old_mu, lt_mu_, ww, old_mu_, 
-                                 sdl, scn, lt, rc, old_t, c, dl_, cn_, 
-                                 old_mu_w, lt_, first, out_, rc_, hadw, ata, 
-                                 so_, havel, tw, allr, omw, fca, sorw, all, 
-                                 old_c, tws, alr, rmq, dl, cn, gen, old_cv, 
-                                 lt_c, rc_c, so, out, ndl, old, wq, dw, k, cdw, 
-                                 ck >>
+                                 wl, wc, sc, nww, nwsem, nww2, nreg2, sem, 
+                                 data, now, note, nreg, held, ret, sres, 
+                                 picked, sleeps, inlock, ip, mw, pool, nalloc, 
+                                 nq, muFreed, refs, nwalive, taint3, stack, 
+                                 lt_l, clear, old_, zlo, zhi, wcnt, lw, lt_u, 
+                                 old_u, tc, nwl, wtrs, wake, wty, sor, cor, 
+                                 rmq_, late, lt_m, old_m, lt_mu, old_mu, 
+                                 lt_mu_, ww, old_mu_, sdl, scn, lt, rc, old_t, 
+                                 c, dl_, cn_, old_mu_w, lt_, first, out_, rc_, 
+                                 hadw, ata, so_, havel, tw, allr, omw, fca, 
+                                 sorw, all, old_c, tws, alr, rmq, dl, cn, gen, 
+                                 old_cv, lt_c, rc_c, so, out, ndl, wcn, old, 
+                                 wq, still2, cvr, dw, k, cdw, ck >>
 
 mw_13_l(self) == /\ pc[self] = "mw_13_l"
                  /\ IF ~havel[self]
@@ -2520,17 +2574,18 @@ mw_13_l(self) == /\ pc[self] = "mw_13_l"
                             /\ UNCHANGED << stack, lt_l, clear, old_, zlo, zhi, 
                                             wcnt, lw >>
                  /\ UNCHANGED << word, queue, cvword, cvq, waiting, rmc, cvmu, 
-                                 wl, wc, sc, nww, nwsem, sem, data, now, note, 
-                                 nreg, held, ret, sres, picked, sleeps, inlock, 
-                                 ip, mw, pool, nalloc, nq, muFreed, refs, 
-                                 nwalive, taint3, lt_u, old_u, tc, nwl, wtrs, 
-                                 wake, wty, sor, cor, rmq_, late, lt_m, old_m, 
-                                 lt_mu, old_mu, lt_mu_, ww, old_mu_, sdl, scn, 
-                                 lt, rc, old_t, c, dl_, cn_, old_mu_w, lt_, 
-                                 first, out_, rc_, hadw, ata, so_, havel, tw, 
-                                 allr, omw, fca, sorw, all, old_c, tws, alr, 
-                                 rmq, dl, cn, gen, old_cv, lt_c, rc_c, so, out, 
-                                 ndl, old, wq, dw, k, cdw, ck >>
+                                 wl, wc, sc, nww, nwsem, nww2, nreg2, sem, 
+                                 data, now, note, nreg, held, ret, sres, 
+                                 picked, sleeps, inlock, ip, mw, pool, nalloc, 
+                                 nq, muFreed, refs, nwalive, taint3, lt_u, 
+                                 old_u, tc, nwl, wtrs, wake, wty, sor, cor, 
+                                 rmq_, late, lt_m, old_m, lt_mu, old_mu, 
+                                 lt_mu_, ww, old_mu_, sdl, scn, lt, rc, old_t, 
+                                 c, dl_, cn_, old_mu_w, lt_, first, out_, rc_, 
+                                 hadw, ata, so_, havel, tw, allr, omw, fca, 
+                                 sorw, all, old_c, tws, alr, rmq, dl, cn, gen, 
+                                 old_cv, lt_c, rc_c, so, out, ndl, wcn, old, 
+                                 wq, still2, cvr, dw, k, cdw, ck >>
 
 mw_14_l(self) == /\ pc[self] = "mw_14_l"
                  /\ IF out_[self] = 0 /\ ~((c[self] = 0) \/ CondTrue(c[self], data))
@@ -2554,16 +2609,17 @@ mw_14_l(self) == /\ pc[self] = "mw_14_l"
                             /\ cn_' = [cn_ EXCEPT ![self] = Head(stack[self]).cn_]
                             /\ stack' = [stack EXCEPT ![self] = Tail(stack[self])]
                  /\ UNCHANGED << word, queue, cvword, cvq, waiting, rmc, cvmu, 
-                                 wl, wc, sc, nww, nwsem, sem, data, now, note, 
-                                 nreg, held, sres, picked, sleeps, inlock, ip, 
-                                 mw, pool, nalloc, nq, muFreed, refs, nwalive, 
-                                 taint3, lt_l, clear, old_, zlo, zhi, wcnt, lw, 
-                                 lt_u, old_u, tc, nwl, wtrs, wake, wty, sor, 
-                                 cor, rmq_, late, lt_m, old_m, lt_mu, old_mu, 
-                                 lt_mu_, ww, old_mu_, sdl, scn, lt, rc, old_t, 
-                                 tw, allr, omw, fca, sorw, all, old_c, tws, 
-                                 alr, rmq, dl, cn, gen, old_cv, lt_c, rc_c, so, 
-                                 out, ndl, old, wq, dw, k, cdw, ck >>
+                                 wl, wc, sc, nww, nwsem, nww2, nreg2, sem, 
+                                 data, now, note, nreg, held, sres, picked, 
+                                 sleeps, inlock, ip, mw, pool, nalloc, nq, 
+                                 muFreed, refs, nwalive, taint3, lt_l, clear, 
+                                 old_, zlo, zhi, wcnt, lw, lt_u, old_u, tc, 
+                                 nwl, wtrs, wake, wty, sor, cor, rmq_, late, 
+                                 lt_m, old_m, lt_mu, old_mu, lt_mu_, ww, 
+                                 old_mu_, sdl, scn, lt, rc, old_t, tw, allr, 
+                                 omw, fca, sorw, all, old_c, tws, alr, rmq, dl, 
+                                 cn, gen, old_cv, lt_c, rc_c, so, out, ndl, 
+                                 wcn, old, wq, still2, cvr, dw, k, cdw, ck >>
 
 mu_wait(self) == mw_1_ld(self) \/ mw_2_st(self) \/ mw_3_ld(self)
                     \/ mw_4_ld(self) \/ mw_5_cas(self) \/ mw_4_d(self)
@@ -2577,18 +2633,19 @@ ww_0_l(self) == /\ pc[self] = "ww_0_l"
                       THEN /\ pc' = [pc EXCEPT ![self] = "ww_5_st"]
                       ELSE /\ pc' = [pc EXCEPT ![self] = "ww_1_ld"]
                 /\ UNCHANGED << word, queue, cvword, cvq, waiting, rmc, cvmu, 
-                                wl, wc, sc, nww, nwsem, sem, data, now, note, 
-                                nreg, held, ret, sres, picked, sleeps, inlock, 
-                                ip, mw, pool, nalloc, nq, muFreed, refs, 
-                                nwalive, taint3, stack, lt_l, clear, old_, zlo, 
-                                zhi, wcnt, lw, lt_u, old_u, tc, nwl, wtrs, 
-                                wake, wty, sor, cor, rmq_, late, lt_m, old_m, 
-                                lt_mu, old_mu, lt_mu_, ww, old_mu_, sdl, scn, 
-                                lt, rc, old_t, c, dl_, cn_, old_mu_w, lt_, 
-                                first, out_, rc_, hadw, ata, so_, havel, tw, 
-                                allr, omw, fca, sorw, all, old_c, tws, alr, 
-                                rmq, dl, cn, gen, old_cv, lt_c, rc_c, so, out, 
-                                ndl, old, wq, dw, k, cdw, ck >>
+                                wl, wc, sc, nww, nwsem, nww2, nreg2, sem, data, 
+                                now, note, nreg, held, ret, sres, picked, 
+                                sleeps, inlock, ip, mw, pool, nalloc, nq, 
+                                muFreed, refs, nwalive, taint3, stack, lt_l, 
+                                clear, old_, zlo, zhi, wcnt, lw, lt_u, old_u, 
+                                tc, nwl, wtrs, wake, wty, sor, cor, rmq_, late, 
+                                lt_m, old_m, lt_mu, old_mu, lt_mu_, ww, 
+                                old_mu_, sdl, scn, lt, rc, old_t, c, dl_, cn_, 
+                                old_mu_w, lt_, first, out_, rc_, hadw, ata, 
+                                so_, havel, tw, allr, omw, fca, sorw, all, 
+                                old_c, tws, alr, rmq, dl, cn, gen, old_cv, 
+                                lt_c, rc_c, so, out, ndl, wcn, old, wq, still2, 
+                                cvr, dw, k, cdw, ck >>
 
 ww_1_ld(self) == /\ pc[self] = "ww_1_ld"
                  /\ omw' = [omw EXCEPT ![self] = word]
@@ -2597,18 +2654,19 @@ ww_1_ld(self) == /\ pc[self] = "ww_1_ld"
                        THEN /\ pc' = [pc EXCEPT ![self] = "ww_5_st"]
                        ELSE /\ pc' = [pc EXCEPT ![self] = "ww_2_cas"]
                  /\ UNCHANGED << word, queue, cvword, cvq, waiting, rmc, cvmu, 
-                                 wl, wc, sc, nww, nwsem, sem, data, now, note, 
-                                 nreg, held, ret, sres, picked, sleeps, inlock, 
-                                 ip, mw, pool, nalloc, nq, muFreed, refs, 
-                                 nwalive, taint3, stack, lt_l, clear, old_, 
-                                 zlo, zhi, wcnt, lw, lt_u, old_u, tc, nwl, 
-                                 wtrs, wake, wty, sor, cor, rmq_, late, lt_m, 
-                                 old_m, lt_mu, old_mu, lt_mu_, ww, old_mu_, 
-                                 sdl, scn, lt, rc, old_t, c, dl_, cn_, 
-                                 old_mu_w, lt_, first, out_, rc_, hadw, ata, 
-                                 so_, havel, tw, allr, sorw, all, old_c, tws, 
-                                 alr, rmq, dl, cn, gen, old_cv, lt_c, rc_c, so, 
-                                 out, ndl, old, wq, dw, k, cdw, ck >>
+                                 wl, wc, sc, nww, nwsem, nww2, nreg2, sem, 
+                                 data, now, note, nreg, held, ret, sres, 
+                                 picked, sleeps, inlock, ip, mw, pool, nalloc, 
+                                 nq, muFreed, refs, nwalive, taint3, stack, 
+                                 lt_l, clear, old_, zlo, zhi, wcnt, lw, lt_u, 
+                                 old_u, tc, nwl, wtrs, wake, wty, sor, cor, 
+                                 rmq_, late, lt_m, old_m, lt_mu, old_mu, 
+                                 lt_mu_, ww, old_mu_, sdl, scn, lt, rc, old_t, 
+                                 c, dl_, cn_, old_mu_w, lt_, first, out_, rc_, 
+                                 hadw, ata, so_, havel, tw, allr, sorw, all, 
+                                 old_c, tws, alr, rmq, dl, cn, gen, old_cv, 
+                                 lt_c, rc_c, so, out, ndl, wcn, old, wq, 
+                                 still2, cvr, dw, k, cdw, ck >>
 
 ww_2_cas(self) == /\ pc[self] = "ww_2_cas"
                   /\ IF word = omw[self]
@@ -2622,44 +2680,7 @@ ww_2_cas(self) == /\ pc[self] = "ww_2_cas"
                         ELSE /\ pc' = [pc EXCEPT ![self] = "ww_5_st"]
                              /\ UNCHANGED << word, queue, cvmu, tw, sorw >>
                   /\ UNCHANGED << cvword, cvq, waiting, rmc, wl, wc, sc, nww, 
-                                  nwsem, sem, data, now, note, nreg, held, ret, 
-                                  sres, picked, sleeps, inlock, ip, mw, pool, 
-                                  nalloc, nq, muFreed, refs, nwalive, taint3, 
-                                  stack, lt_l, clear, old_, zlo, zhi, wcnt, lw, 
-                                  lt_u, old_u, tc, nwl, wtrs, wake, wty, sor, 
-                                  cor, rmq_, late, lt_m, old_m, lt_mu, old_mu, 
-                                  lt_mu_, ww, old_mu_, sdl, scn, lt, rc, old_t, 
-                                  c, dl_, cn_, old_mu_w, lt_, first, out_, rc_, 
-                                  hadw, ata, so_, havel, allr, omw, fca, all, 
-                                  old_c, tws, alr, rmq, dl, cn, gen, old_cv, 
-                                  lt_c, rc_c, so, out, ndl, old, wq, dw, k, 
-                                  cdw, ck >>
-
-ww_3_ld(self) == /\ pc[self] = "ww_3_ld"
-                 /\ omw' = [omw EXCEPT ![self] = word]
-                 /\ pc' = [pc EXCEPT ![self] = "ww_4_cas"]
-                 /\ UNCHANGED << word, queue, cvword, cvq, waiting, rmc, cvmu, 
-                                 wl, wc, sc, nww, nwsem, sem, data, now, note, 
-                                 nreg, held, ret, sres, picked, sleeps, inlock, 
-                                 ip, mw, pool, nalloc, nq, muFreed, refs, 
-                                 nwalive, taint3, stack, lt_l, clear, old_, 
-                                 zlo, zhi, wcnt, lw, lt_u, old_u, tc, nwl, 
-                                 wtrs, wake, wty, sor, cor, rmq_, late, lt_m, 
-                                 old_m, lt_mu, old_mu, lt_mu_, ww, old_mu_, 
-                                 sdl, scn, lt, rc, old_t, c, dl_, cn_, 
-                                 old_mu_w, lt_, first, out_, rc_, hadw, ata, 
-                                 so_, havel, tw, allr, fca, sorw, all, old_c, 
-                                 tws, alr, rmq, dl, cn, gen, old_cv, lt_c, 
-                                 rc_c, so, out, ndl, old, wq, dw, k, cdw, ck >>
-
-ww_4_cas(self) == /\ pc[self] = "ww_4_cas"
-                  /\ IF word = omw[self]
-                        THEN /\ word' = Clr(omw[self] | sorw[self], SPIN)
-                             /\ pc' = [pc EXCEPT ![self] = "ww_4b_l"]
-                        ELSE /\ pc' = [pc EXCEPT ![self] = "ww_3_ld"]
-                             /\ word' = word
-                  /\ UNCHANGED << queue, cvword, cvq, waiting, rmc, cvmu, wl, 
-                                  wc, sc, nww, nwsem, sem, data, now, note, 
+                                  nwsem, nww2, nreg2, sem, data, now, note, 
                                   nreg, held, ret, sres, picked, sleeps, 
                                   inlock, ip, mw, pool, nalloc, nq, muFreed, 
                                   refs, nwalive, taint3, stack, lt_l, clear, 
@@ -2668,10 +2689,49 @@ ww_4_cas(self) == /\ pc[self] = "ww_4_cas"
                                   lt_m, old_m, lt_mu, old_mu, lt_mu_, ww, 
                                   old_mu_, sdl, scn, lt, rc, old_t, c, dl_, 
                                   cn_, old_mu_w, lt_, first, out_, rc_, hadw, 
+                                  ata, so_, havel, allr, omw, fca, all, old_c, 
+                                  tws, alr, rmq, dl, cn, gen, old_cv, lt_c, 
+                                  rc_c, so, out, ndl, wcn, old, wq, still2, 
+                                  cvr, dw, k, cdw, ck >>
+
+ww_3_ld(self) == /\ pc[self] = "ww_3_ld"
+                 /\ omw' = [omw EXCEPT ![self] = word]
+                 /\ pc' = [pc EXCEPT ![self] = "ww_4_cas"]
+                 /\ UNCHANGED << word, queue, cvword, cvq, waiting, rmc, cvmu, 
+                                 wl, wc, sc, nww, nwsem, nww2, nreg2, sem, 
+                                 data, now, note, nreg, held, ret, sres, 
+                                 picked, sleeps, inlock, ip, mw, pool, nalloc, 
+                                 nq, muFreed, refs, nwalive, taint3, stack, 
+                                 lt_l, clear, old_, zlo, zhi, wcnt, lw, lt_u, 
+                                 old_u, tc, nwl, wtrs, wake, wty, sor, cor, 
+                                 rmq_, late, lt_m, old_m, lt_mu, old_mu, 
+                                 lt_mu_, ww, old_mu_, sdl, scn, lt, rc, old_t, 
+                                 c, dl_, cn_, old_mu_w, lt_, first, out_, rc_, 
+                                 hadw, ata, so_, havel, tw, allr, fca, sorw, 
+                                 all, old_c, tws, alr, rmq, dl, cn, gen, 
+                                 old_cv, lt_c, rc_c, so, out, ndl, wcn, old, 
+                                 wq, still2, cvr, dw, k, cdw, ck >>
+
+ww_4_cas(self) == /\ pc[self] = "ww_4_cas"
+                  /\ IF word = omw[self]
+                        THEN /\ word' = Clr(omw[self] | sorw[self], SPIN)
+                             /\ pc' = [pc EXCEPT ![self] = "ww_4b_l"]
+                        ELSE /\ pc' = [pc EXCEPT ![self] = "ww_3_ld"]
+                             /\ word' = word
+                  /\ UNCHANGED << queue, cvword, cvq, waiting, rmc, cvmu, wl, 
+                                  wc, sc, nww, nwsem, nww2, nreg2, sem, data, 
+                                  now, note, nreg, held, ret, sres, picked, 
+                                  sleeps, inlock, ip, mw, pool, nalloc, nq, 
+                                  muFreed, refs, nwalive, taint3, stack, lt_l, 
+                                  clear, old_, zlo, zhi, wcnt, lw, lt_u, old_u, 
+                                  tc, nwl, wtrs, wake, wty, sor, cor, rmq_, 
+                                  late, lt_m, old_m, lt_mu, old_mu, lt_mu_, ww, 
+                                  old_mu_, sdl, scn, lt, rc, old_t, c, dl_, 
+                                  cn_, old_mu_w, lt_, first, out_, rc_, hadw, 
                                   ata, so_, havel, tw, allr, omw, fca, sorw, 
                                   all, old_c, tws, alr, rmq, dl, cn, gen, 
-                                  old_cv, lt_c, rc_c, so, out, ndl, old, wq, 
-                                  dw, k, cdw, ck >>
+                                  old_cv, lt_c, rc_c, so, out, ndl, wcn, old, 
+                                  wq, still2, cvr, dw, k, cdw, ck >>
 
 ww_4b_l(self) == /\ pc[self] = "ww_4b_l"
                  /\ IF tw[self] = <<>>
@@ -2685,17 +2745,18 @@ ww_4b_l(self) == /\ pc[self] = "ww_4b_l"
                        ELSE /\ pc' = [pc EXCEPT ![self] = "ww_5_st"]
                             /\ UNCHANGED << stack, tw, allr, omw, fca, sorw >>
                  /\ UNCHANGED << word, queue, cvword, cvq, waiting, rmc, cvmu, 
-                                 wl, wc, sc, nww, nwsem, sem, data, now, note, 
-                                 nreg, held, ret, sres, picked, sleeps, inlock, 
-                                 ip, mw, pool, nalloc, nq, muFreed, refs, 
-                                 nwalive, taint3, lt_l, clear, old_, zlo, zhi, 
-                                 wcnt, lw, lt_u, old_u, tc, nwl, wtrs, wake, 
-                                 wty, sor, cor, rmq_, late, lt_m, old_m, lt_mu, 
-                                 old_mu, lt_mu_, ww, old_mu_, sdl, scn, lt, rc, 
-                                 old_t, c, dl_, cn_, old_mu_w, lt_, first, 
-                                 out_, rc_, hadw, ata, so_, havel, all, old_c, 
-                                 tws, alr, rmq, dl, cn, gen, old_cv, lt_c, 
-                                 rc_c, so, out, ndl, old, wq, dw, k, cdw, ck >>
+                                 wl, wc, sc, nww, nwsem, nww2, nreg2, sem, 
+                                 data, now, note, nreg, held, ret, sres, 
+                                 picked, sleeps, inlock, ip, mw, pool, nalloc, 
+                                 nq, muFreed, refs, nwalive, taint3, lt_l, 
+                                 clear, old_, zlo, zhi, wcnt, lw, lt_u, old_u, 
+                                 tc, nwl, wtrs, wake, wty, sor, cor, rmq_, 
+                                 late, lt_m, old_m, lt_mu, old_mu, lt_mu_, ww, 
+                                 old_mu_, sdl, scn, lt, rc, old_t, c, dl_, cn_, 
+                                 old_mu_w, lt_, first, out_, rc_, hadw, ata, 
+                                 so_, havel, all, old_c, tws, alr, rmq, dl, cn, 
+                                 gen, old_cv, lt_c, rc_c, so, out, ndl, wcn, 
+                                 old, wq, still2, cvr, dw, k, cdw, ck >>
 
 ww_5_st(self) == /\ pc[self] = "ww_5_st"
                  /\ IF IsMuCv(Head(tw[self]))
@@ -2705,18 +2766,19 @@ ww_5_st(self) == /\ pc[self] = "ww_5_st"
                             /\ UNCHANGED waiting
                  /\ pc' = [pc EXCEPT ![self] = "ww_6_v"]
                  /\ UNCHANGED << word, queue, cvword, cvq, rmc, cvmu, wl, wc, 
-                                 sc, nwsem, sem, data, now, note, nreg, held, 
-                                 ret, sres, picked, sleeps, inlock, ip, mw, 
-                                 pool, nalloc, nq, muFreed, refs, nwalive, 
-                                 taint3, stack, lt_l, clear, old_, zlo, zhi, 
-                                 wcnt, lw, lt_u, old_u, tc, nwl, wtrs, wake, 
-                                 wty, sor, cor, rmq_, late, lt_m, old_m, lt_mu, 
-                                 old_mu, lt_mu_, ww, old_mu_, sdl, scn, lt, rc, 
-                                 old_t, c, dl_, cn_, old_mu_w, lt_, first, 
-                                 out_, rc_, hadw, ata, so_, havel, tw, allr, 
-                                 omw, fca, sorw, all, old_c, tws, alr, rmq, dl, 
-                                 cn, gen, old_cv, lt_c, rc_c, so, out, ndl, 
-                                 old, wq, dw, k, cdw, ck >>
+                                 sc, nwsem, nww2, nreg2, sem, data, now, note, 
+                                 nreg, held, ret, sres, picked, sleeps, inlock, 
+                                 ip, mw, pool, nalloc, nq, muFreed, refs, 
+                                 nwalive, taint3, stack, lt_l, clear, old_, 
+                                 zlo, zhi, wcnt, lw, lt_u, old_u, tc, nwl, 
+                                 wtrs, wake, wty, sor, cor, rmq_, late, lt_m, 
+                                 old_m, lt_mu, old_mu, lt_mu_, ww, old_mu_, 
+                                 sdl, scn, lt, rc, old_t, c, dl_, cn_, 
+                                 old_mu_w, lt_, first, out_, rc_, hadw, ata, 
+                                 so_, havel, tw, allr, omw, fca, sorw, all, 
+                                 old_c, tws, alr, rmq, dl, cn, gen, old_cv, 
+                                 lt_c, rc_c, so, out, ndl, wcn, old, wq, 
+                                 still2, cvr, dw, k, cdw, ck >>
 
 ww_6_v(self) == /\ pc[self] = "ww_6_v"
                 /\ sem' = [sem EXCEPT ![SemOf(Head(tw[self]))] = SetV(sem[SemOf(Head(tw[self]))])]
@@ -2732,17 +2794,18 @@ ww_6_v(self) == /\ pc[self] = "ww_6_v"
                            /\ pc' = [pc EXCEPT ![self] = "ww_5_st"]
                            /\ UNCHANGED << stack, allr, omw, fca, sorw >>
                 /\ UNCHANGED << word, queue, cvword, cvq, waiting, rmc, cvmu, 
-                                wl, wc, sc, nww, nwsem, data, now, note, nreg, 
-                                held, ret, sres, picked, sleeps, inlock, ip, 
-                                mw, pool, nalloc, nq, muFreed, refs, nwalive, 
-                                taint3, lt_l, clear, old_, zlo, zhi, wcnt, lw, 
-                                lt_u, old_u, tc, nwl, wtrs, wake, wty, sor, 
-                                cor, rmq_, late, lt_m, old_m, lt_mu, old_mu, 
-                                lt_mu_, ww, old_mu_, sdl, scn, lt, rc, old_t, 
-                                c, dl_, cn_, old_mu_w, lt_, first, out_, rc_, 
-                                hadw, ata, so_, havel, all, old_c, tws, alr, 
-                                rmq, dl, cn, gen, old_cv, lt_c, rc_c, so, out, 
-                                ndl, old, wq, dw, k, cdw, ck >>
+                                wl, wc, sc, nww, nwsem, nww2, nreg2, data, now, 
+                                note, nreg, held, ret, sres, picked, sleeps, 
+                                inlock, ip, mw, pool, nalloc, nq, muFreed, 
+                                refs, nwalive, taint3, lt_l, clear, old_, zlo, 
+                                zhi, wcnt, lw, lt_u, old_u, tc, nwl, wtrs, 
+                                wake, wty, sor, cor, rmq_, late, lt_m, old_m, 
+                                lt_mu, old_mu, lt_mu_, ww, old_mu_, sdl, scn, 
+                                lt, rc, old_t, c, dl_, cn_, old_mu_w, lt_, 
+                                first, out_, rc_, hadw, ata, so_, havel, all, 
+                                old_c, tws, alr, rmq, dl, cn, gen, old_cv, 
+                                lt_c, rc_c, so, out, ndl, wcn, old, wq, still2, 
+                                cvr, dw, k, cdw, ck >>
 
 wake_waiters(self) == ww_0_l(self) \/ ww_1_ld(self) \/ ww_2_cas(self)
                          \/ ww_3_ld(self) \/ ww_4_cas(self)
@@ -2760,17 +2823,18 @@ cs_1_ld(self) == /\ pc[self] = "cs_1_ld"
                        ELSE /\ pc' = [pc EXCEPT ![self] = "cs_2_ld"]
                             /\ UNCHANGED << stack, all, old_c, tws, alr, rmq >>
                  /\ UNCHANGED << word, queue, cvword, cvq, waiting, rmc, cvmu, 
-                                 wl, wc, sc, nww, nwsem, sem, data, now, note, 
-                                 nreg, held, ret, sres, picked, sleeps, inlock, 
-                                 ip, mw, pool, nalloc, nq, muFreed, refs, 
-                                 nwalive, taint3, lt_l, clear, old_, zlo, zhi, 
-                                 wcnt, lw, lt_u, old_u, tc, nwl, wtrs, wake, 
-                                 wty, sor, cor, rmq_, late, lt_m, old_m, lt_mu, 
-                                 old_mu, lt_mu_, ww, old_mu_, sdl, scn, lt, rc, 
-                                 old_t, c, dl_, cn_, old_mu_w, lt_, first, 
-                                 out_, rc_, hadw, ata, so_, havel, tw, allr, 
-                                 omw, fca, sorw, dl, cn, gen, old_cv, lt_c, 
-                                 rc_c, so, out, ndl, old, wq, dw, k, cdw, ck >>
+                                 wl, wc, sc, nww, nwsem, nww2, nreg2, sem, 
+                                 data, now, note, nreg, held, ret, sres, 
+                                 picked, sleeps, inlock, ip, mw, pool, nalloc, 
+                                 nq, muFreed, refs, nwalive, taint3, lt_l, 
+                                 clear, old_, zlo, zhi, wcnt, lw, lt_u, old_u, 
+                                 tc, nwl, wtrs, wake, wty, sor, cor, rmq_, 
+                                 late, lt_m, old_m, lt_mu, old_mu, lt_mu_, ww, 
+                                 old_mu_, sdl, scn, lt, rc, old_t, c, dl_, cn_, 
+                                 old_mu_w, lt_, first, out_, rc_, hadw, ata, 
+                                 so_, havel, tw, allr, omw, fca, sorw, dl, cn, 
+                                 gen, old_cv, lt_c, rc_c, so, out, ndl, wcn, 
+                                 old, wq, still2, cvr, dw, k, cdw, ck >>
 
 cs_2_ld(self) == /\ pc[self] = "cs_2_ld"
                  /\ old_c' = [old_c EXCEPT ![self] = cvword]
@@ -2778,18 +2842,19 @@ cs_2_ld(self) == /\ pc[self] = "cs_2_ld"
                        THEN /\ pc' = [pc EXCEPT ![self] = "cs_2_d"]
                        ELSE /\ pc' = [pc EXCEPT ![self] = "cs_3_cas"]
                  /\ UNCHANGED << word, queue, cvword, cvq, waiting, rmc, cvmu, 
-                                 wl, wc, sc, nww, nwsem, sem, data, now, note, 
-                                 nreg, held, ret, sres, picked, sleeps, inlock, 
-                                 ip, mw, pool, nalloc, nq, muFreed, refs, 
-                                 nwalive, taint3, stack, lt_l, clear, old_, 
-                                 zlo, zhi, wcnt, lw, lt_u, old_u, tc, nwl, 
-                                 wtrs, wake, wty, sor, cor, rmq_, late, lt_m, 
-                                 old_m, lt_mu, old_mu, lt_mu_, ww, old_mu_, 
-                                 sdl, scn, lt, rc, old_t, c, dl_, cn_, 
-                                 old_mu_w, lt_, first, out_, rc_, hadw, ata, 
-                                 so_, havel, tw, allr, omw, fca, sorw, all, 
-                                 tws, alr, rmq, dl, cn, gen, old_cv, lt_c, 
-                                 rc_c, so, out, ndl, old, wq, dw, k, cdw, ck >>
+                                 wl, wc, sc, nww, nwsem, nww2, nreg2, sem, 
+                                 data, now, note, nreg, held, ret, sres, 
+                                 picked, sleeps, inlock, ip, mw, pool, nalloc, 
+                                 nq, muFreed, refs, nwalive, taint3, stack, 
+                                 lt_l, clear, old_, zlo, zhi, wcnt, lw, lt_u, 
+                                 old_u, tc, nwl, wtrs, wake, wty, sor, cor, 
+                                 rmq_, late, lt_m, old_m, lt_mu, old_mu, 
+                                 lt_mu_, ww, old_mu_, sdl, scn, lt, rc, old_t, 
+                                 c, dl_, cn_, old_mu_w, lt_, first, out_, rc_, 
+                                 hadw, ata, so_, havel, tw, allr, omw, fca, 
+                                 sorw, all, tws, alr, rmq, dl, cn, gen, old_cv, 
+                                 lt_c, rc_c, so, out, ndl, wcn, old, wq, 
+                                 still2, cvr, dw, k, cdw, ck >>
 
 cs_3_cas(self) == /\ pc[self] = "cs_3_cas"
                   /\ IF cvword = old_c[self]
@@ -2809,18 +2874,19 @@ cs_3_cas(self) == /\ pc[self] = "cs_3_cas"
                         ELSE /\ pc' = [pc EXCEPT ![self] = "cs_2_d"]
                              /\ UNCHANGED << cvword, cvq, tws, alr >>
                   /\ UNCHANGED << word, queue, waiting, rmc, cvmu, wl, wc, sc, 
-                                  nww, nwsem, sem, data, now, note, nreg, held, 
-                                  ret, sres, picked, sleeps, inlock, ip, mw, 
-                                  pool, nalloc, nq, muFreed, refs, nwalive, 
-                                  taint3, stack, lt_l, clear, old_, zlo, zhi, 
-                                  wcnt, lw, lt_u, old_u, tc, nwl, wtrs, wake, 
-                                  wty, sor, cor, rmq_, late, lt_m, old_m, 
-                                  lt_mu, old_mu, lt_mu_, ww, old_mu_, sdl, scn, 
-                                  lt, rc, old_t, c, dl_, cn_, old_mu_w, lt_, 
-                                  first, out_, rc_, hadw, ata, so_, havel, tw, 
-                                  allr, omw, fca, sorw, all, old_c, rmq, dl, 
-                                  cn, gen, old_cv, lt_c, rc_c, so, out, ndl, 
-                                  old, wq, dw, k, cdw, ck >>
+                                  nww, nwsem, nww2, nreg2, sem, data, now, 
+                                  note, nreg, held, ret, sres, picked, sleeps, 
+                                  inlock, ip, mw, pool, nalloc, nq, muFreed, 
+                                  refs, nwalive, taint3, stack, lt_l, clear, 
+                                  old_, zlo, zhi, wcnt, lw, lt_u, old_u, tc, 
+                                  nwl, wtrs, wake, wty, sor, cor, rmq_, late, 
+                                  lt_m, old_m, lt_mu, old_mu, lt_mu_, ww, 
+                                  old_mu_, sdl, scn, lt, rc, old_t, c, dl_, 
+                                  cn_, old_mu_w, lt_, first, out_, rc_, hadw, 
+                                  ata, so_, havel, tw, allr, omw, fca, sorw, 
+                                  all, old_c, rmq, dl, cn, gen, old_cv, lt_c, 
+                                  rc_c, so, out, ndl, wcn, old, wq, still2, 
+                                  cvr, dw, k, cdw, ck >>
 
 cs_3b_l(self) == /\ pc[self] = "cs_3b_l"
                  /\ rmq' = [rmq EXCEPT ![self] = IF CvFix THEN tws[self] ELSE SelectSeq(tws[self], IsMuCv)]
@@ -2828,34 +2894,36 @@ cs_3b_l(self) == /\ pc[self] = "cs_3b_l"
                  /\ tws' = [tws EXCEPT ![self] = IF CvFix THEN SelectSeq(tws[self], IsMuCv) ELSE tws[self]]
                  /\ pc' = [pc EXCEPT ![self] = "cs_rmq_l"]
                  /\ UNCHANGED << word, queue, cvword, cvq, waiting, rmc, cvmu, 
-                                 wl, wc, sc, nww, nwsem, sem, data, now, note, 
-                                 nreg, held, ret, sres, sleeps, inlock, ip, mw, 
-                                 pool, nalloc, nq, muFreed, refs, nwalive, 
-                                 taint3, stack, lt_l, clear, old_, zlo, zhi, 
-                                 wcnt, lw, lt_u, old_u, tc, nwl, wtrs, wake, 
-                                 wty, sor, cor, rmq_, late, lt_m, old_m, lt_mu, 
-                                 old_mu, lt_mu_, ww, old_mu_, sdl, scn, lt, rc, 
-                                 old_t, c, dl_, cn_, old_mu_w, lt_, first, 
-                                 out_, rc_, hadw, ata, so_, havel, tw, allr, 
-                                 omw, fca, sorw, all, old_c, alr, dl, cn, gen, 
-                                 old_cv, lt_c, rc_c, so, out, ndl, old, wq, dw, 
+                                 wl, wc, sc, nww, nwsem, nww2, nreg2, sem, 
+                                 data, now, note, nreg, held, ret, sres, 
+                                 sleeps, inlock, ip, mw, pool, nalloc, nq, 
+                                 muFreed, refs, nwalive, taint3, stack, lt_l, 
+                                 clear, old_, zlo, zhi, wcnt, lw, lt_u, old_u, 
+                                 tc, nwl, wtrs, wake, wty, sor, cor, rmq_, 
+                                 late, lt_m, old_m, lt_mu, old_mu, lt_mu_, ww, 
+                                 old_mu_, sdl, scn, lt, rc, old_t, c, dl_, cn_, 
+                                 old_mu_w, lt_, first, out_, rc_, hadw, ata, 
+                                 so_, havel, tw, allr, omw, fca, sorw, all, 
+                                 old_c, alr, dl, cn, gen, old_cv, lt_c, rc_c, 
+                                 so, out, ndl, wcn, old, wq, still2, cvr, dw, 
                                  k, cdw, ck >>
 
 cs_2_d(self) == /\ pc[self] = "cs_2_d"
                 /\ pc' = [pc EXCEPT ![self] = "cs_2_ld"]
                 /\ UNCHANGED << word, queue, cvword, cvq, waiting, rmc, cvmu, 
-                                wl, wc, sc, nww, nwsem, sem, data, now, note, 
-                                nreg, held, ret, sres, picked, sleeps, inlock, 
-                                ip, mw, pool, nalloc, nq, muFreed, refs, 
-                                nwalive, taint3, stack, lt_l, clear, old_, zlo, 
-                                zhi, wcnt, lw, lt_u, old_u, tc, nwl, wtrs, 
-                                wake, wty, sor, cor, rmq_, late, lt_m, old_m, 
-                                lt_mu, old_mu, lt_mu_, ww, old_mu_, sdl, scn, 
-                                lt, rc, old_t, c, dl_, cn_, old_mu_w, lt_, 
-                                first, out_, rc_, hadw, ata, so_, havel, tw, 
-                                allr, omw, fca, sorw, all, old_c, tws, alr, 
-                                rmq, dl, cn, gen, old_cv, lt_c, rc_c, so, out, 
-                                ndl, old, wq, dw, k, cdw, ck >>
+                                wl, wc, sc, nww, nwsem, nww2, nreg2, sem, data, 
+                                now, note, nreg, held, ret, sres, picked, 
+                                sleeps, inlock, ip, mw, pool, nalloc, nq, 
+                                muFreed, refs, nwalive, taint3, stack, lt_l, 
+                                clear, old_, zlo, zhi, wcnt, lw, lt_u, old_u, 
+                                tc, nwl, wtrs, wake, wty, sor, cor, rmq_, late, 
+                                lt_m, old_m, lt_mu, old_mu, lt_mu_, ww, 
+                                old_mu_, sdl, scn, lt, rc, old_t, c, dl_, cn_, 
+                                old_mu_w, lt_, first, out_, rc_, hadw, ata, 
+                                so_, havel, tw, allr, omw, fca, sorw, all, 
+                                old_c, tws, alr, rmq, dl, cn, gen, old_cv, 
+                                lt_c, rc_c, so, out, ndl, wcn, old, wq, still2, 
+                                cvr, dw, k, cdw, ck >>
 
 cs_rmq_l(self) == /\ pc[self] = "cs_rmq_l"
                   /\ IF rmq[self] = <<>>
@@ -2864,91 +2932,92 @@ cs_rmq_l(self) == /\ pc[self] = "cs_rmq_l"
                                    THEN /\ pc' = [pc EXCEPT ![self] = "cs_f_st"]
                                    ELSE /\ pc' = [pc EXCEPT ![self] = "cs_rm_ld"]
                   /\ UNCHANGED << word, queue, cvword, cvq, waiting, rmc, cvmu, 
-                                  wl, wc, sc, nww, nwsem, sem, data, now, note, 
-                                  nreg, held, ret, sres, picked, sleeps, 
-                                  inlock, ip, mw, pool, nalloc, nq, muFreed, 
-                                  refs, nwalive, taint3, stack, lt_l, clear, 
-                                  old_, zlo, zhi, wcnt, lw, lt_u, old_u, tc, 
-                                  nwl, wtrs, wake, wty, sor, cor, rmq_, late, 
-                                  lt_m, old_m, lt_mu, old_mu, lt_mu_, ww, 
-                                  old_mu_, sdl, scn, lt, rc, old_t, c, dl_, 
-                                  cn_, old_mu_w, lt_, first, out_, rc_, hadw, 
-                                  ata, so_, havel, tw, allr, omw, fca, sorw, 
-                                  all, old_c, tws, alr, rmq, dl, cn, gen, 
-                                  old_cv, lt_c, rc_c, so, out, ndl, old, wq, 
-                                  dw, k, cdw, ck >>
+                                  wl, wc, sc, nww, nwsem, nww2, nreg2, sem, 
+                                  data, now, note, nreg, held, ret, sres, 
+                                  picked, sleeps, inlock, ip, mw, pool, nalloc, 
+                                  nq, muFreed, refs, nwalive, taint3, stack, 
+                                  lt_l, clear, old_, zlo, zhi, wcnt, lw, lt_u, 
+                                  old_u, tc, nwl, wtrs, wake, wty, sor, cor, 
+                                  rmq_, late, lt_m, old_m, lt_mu, old_mu, 
+                                  lt_mu_, ww, old_mu_, sdl, scn, lt, rc, old_t, 
+                                  c, dl_, cn_, old_mu_w, lt_, first, out_, rc_, 
+                                  hadw, ata, so_, havel, tw, allr, omw, fca, 
+                                  sorw, all, old_c, tws, alr, rmq, dl, cn, gen, 
+                                  old_cv, lt_c, rc_c, so, out, ndl, wcn, old, 
+                                  wq, still2, cvr, dw, k, cdw, ck >>
 
 cs_rm_ld(self) == /\ pc[self] = "cs_rm_ld"
                   /\ TRUE
                   /\ pc' = [pc EXCEPT ![self] = "cs_rm_cas"]
                   /\ UNCHANGED << word, queue, cvword, cvq, waiting, rmc, cvmu, 
-                                  wl, wc, sc, nww, nwsem, sem, data, now, note, 
-                                  nreg, held, ret, sres, picked, sleeps, 
-                                  inlock, ip, mw, pool, nalloc, nq, muFreed, 
-                                  refs, nwalive, taint3, stack, lt_l, clear, 
-                                  old_, zlo, zhi, wcnt, lw, lt_u, old_u, tc, 
-                                  nwl, wtrs, wake, wty, sor, cor, rmq_, late, 
-                                  lt_m, old_m, lt_mu, old_mu, lt_mu_, ww, 
-                                  old_mu_, sdl, scn, lt, rc, old_t, c, dl_, 
-                                  cn_, old_mu_w, lt_, first, out_, rc_, hadw, 
-                                  ata, so_, havel, tw, allr, omw, fca, sorw, 
-                                  all, old_c, tws, alr, rmq, dl, cn, gen, 
-                                  old_cv, lt_c, rc_c, so, out, ndl, old, wq, 
-                                  dw, k, cdw, ck >>
+                                  wl, wc, sc, nww, nwsem, nww2, nreg2, sem, 
+                                  data, now, note, nreg, held, ret, sres, 
+                                  picked, sleeps, inlock, ip, mw, pool, nalloc, 
+                                  nq, muFreed, refs, nwalive, taint3, stack, 
+                                  lt_l, clear, old_, zlo, zhi, wcnt, lw, lt_u, 
+                                  old_u, tc, nwl, wtrs, wake, wty, sor, cor, 
+                                  rmq_, late, lt_m, old_m, lt_mu, old_mu, 
+                                  lt_mu_, ww, old_mu_, sdl, scn, lt, rc, old_t, 
+                                  c, dl_, cn_, old_mu_w, lt_, first, out_, rc_, 
+                                  hadw, ata, so_, havel, tw, allr, omw, fca, 
+                                  sorw, all, old_c, tws, alr, rmq, dl, cn, gen, 
+                                  old_cv, lt_c, rc_c, so, out, ndl, wcn, old, 
+                                  wq, still2, cvr, dw, k, cdw, ck >>
 
 cs_rm_cas(self) == /\ pc[self] = "cs_rm_cas"
                    /\ rmc' = [rmc EXCEPT ![Head(rmq[self])] = rmc[Head(rmq[self])] + 1]
                    /\ rmq' = [rmq EXCEPT ![self] = Tail(rmq[self])]
                    /\ pc' = [pc EXCEPT ![self] = "cs_rmq_l"]
                    /\ UNCHANGED << word, queue, cvword, cvq, waiting, cvmu, wl, 
-                                   wc, sc, nww, nwsem, sem, data, now, note, 
-                                   nreg, held, ret, sres, picked, sleeps, 
-                                   inlock, ip, mw, pool, nalloc, nq, muFreed, 
-                                   refs, nwalive, taint3, stack, lt_l, clear, 
-                                   old_, zlo, zhi, wcnt, lw, lt_u, old_u, tc, 
-                                   nwl, wtrs, wake, wty, sor, cor, rmq_, late, 
-                                   lt_m, old_m, lt_mu, old_mu, lt_mu_, ww, 
-                                   old_mu_, sdl, scn, lt, rc, old_t, c, dl_, 
-                                   cn_, old_mu_w, lt_, first, out_, rc_, hadw, 
-                                   ata, so_, havel, tw, allr, omw, fca, sorw, 
-                                   all, old_c, tws, alr, dl, cn, gen, old_cv, 
-                                   lt_c, rc_c, so, out, ndl, old, wq, dw, k, 
-                                   cdw, ck >>
+                                   wc, sc, nww, nwsem, nww2, nreg2, sem, data, 
+                                   now, note, nreg, held, ret, sres, picked, 
+                                   sleeps, inlock, ip, mw, pool, nalloc, nq, 
+                                   muFreed, refs, nwalive, taint3, stack, lt_l, 
+                                   clear, old_, zlo, zhi, wcnt, lw, lt_u, 
+                                   old_u, tc, nwl, wtrs, wake, wty, sor, cor, 
+                                   rmq_, late, lt_m, old_m, lt_mu, old_mu, 
+                                   lt_mu_, ww, old_mu_, sdl, scn, lt, rc, 
+                                   old_t, c, dl_, cn_, old_mu_w, lt_, first, 
+                                   out_, rc_, hadw, ata, so_, havel, tw, allr, 
+                                   omw, fca, sorw, all, old_c, tws, alr, dl, 
+                                   cn, gen, old_cv, lt_c, rc_c, so, out, ndl, 
+                                   wcn, old, wq, still2, cvr, dw, k, cdw, ck >>
 
 cs_f_st(self) == /\ pc[self] = "cs_f_st"
                  /\ nww' = [nww EXCEPT ![-Head(rmq[self])] = 0]
                  /\ pc' = [pc EXCEPT ![self] = "cs_f_v"]
                  /\ UNCHANGED << word, queue, cvword, cvq, waiting, rmc, cvmu, 
-                                 wl, wc, sc, nwsem, sem, data, now, note, nreg, 
-                                 held, ret, sres, picked, sleeps, inlock, ip, 
-                                 mw, pool, nalloc, nq, muFreed, refs, nwalive, 
-                                 taint3, stack, lt_l, clear, old_, zlo, zhi, 
-                                 wcnt, lw, lt_u, old_u, tc, nwl, wtrs, wake, 
-                                 wty, sor, cor, rmq_, late, lt_m, old_m, lt_mu, 
-                                 old_mu, lt_mu_, ww, old_mu_, sdl, scn, lt, rc, 
-                                 old_t, c, dl_, cn_, old_mu_w, lt_, first, 
-                                 out_, rc_, hadw, ata, so_, havel, tw, allr, 
-                                 omw, fca, sorw, all, old_c, tws, alr, rmq, dl, 
-                                 cn, gen, old_cv, lt_c, rc_c, so, out, ndl, 
-                                 old, wq, dw, k, cdw, ck >>
+                                 wl, wc, sc, nwsem, nww2, nreg2, sem, data, 
+                                 now, note, nreg, held, ret, sres, picked, 
+                                 sleeps, inlock, ip, mw, pool, nalloc, nq, 
+                                 muFreed, refs, nwalive, taint3, stack, lt_l, 
+                                 clear, old_, zlo, zhi, wcnt, lw, lt_u, old_u, 
+                                 tc, nwl, wtrs, wake, wty, sor, cor, rmq_, 
+                                 late, lt_m, old_m, lt_mu, old_mu, lt_mu_, ww, 
+                                 old_mu_, sdl, scn, lt, rc, old_t, c, dl_, cn_, 
+                                 old_mu_w, lt_, first, out_, rc_, hadw, ata, 
+                                 so_, havel, tw, allr, omw, fca, sorw, all, 
+                                 old_c, tws, alr, rmq, dl, cn, gen, old_cv, 
+                                 lt_c, rc_c, so, out, ndl, wcn, old, wq, 
+                                 still2, cvr, dw, k, cdw, ck >>
 
 cs_f_v(self) == /\ pc[self] = "cs_f_v"
                 /\ sem' = [sem EXCEPT ![SemOf(Head(rmq[self]))] = SetV(sem[SemOf(Head(rmq[self]))])]
                 /\ rmq' = [rmq EXCEPT ![self] = Tail(rmq[self])]
                 /\ pc' = [pc EXCEPT ![self] = "cs_rmq_l"]
                 /\ UNCHANGED << word, queue, cvword, cvq, waiting, rmc, cvmu, 
-                                wl, wc, sc, nww, nwsem, data, now, note, nreg, 
-                                held, ret, sres, picked, sleeps, inlock, ip, 
-                                mw, pool, nalloc, nq, muFreed, refs, nwalive, 
-                                taint3, stack, lt_l, clear, old_, zlo, zhi, 
-                                wcnt, lw, lt_u, old_u, tc, nwl, wtrs, wake, 
-                                wty, sor, cor, rmq_, late, lt_m, old_m, lt_mu, 
-                                old_mu, lt_mu_, ww, old_mu_, sdl, scn, lt, rc, 
-                                old_t, c, dl_, cn_, old_mu_w, lt_, first, out_, 
-                                rc_, hadw, ata, so_, havel, tw, allr, omw, fca, 
-                                sorw, all, old_c, tws, alr, dl, cn, gen, 
-                                old_cv, lt_c, rc_c, so, out, ndl, old, wq, dw, 
-                                k, cdw, ck >>
+                                wl, wc, sc, nww, nwsem, nww2, nreg2, data, now, 
+                                note, nreg, held, ret, sres, picked, sleeps, 
+                                inlock, ip, mw, pool, nalloc, nq, muFreed, 
+                                refs, nwalive, taint3, stack, lt_l, clear, 
+                                old_, zlo, zhi, wcnt, lw, lt_u, old_u, tc, nwl, 
+                                wtrs, wake, wty, sor, cor, rmq_, late, lt_m, 
+                                old_m, lt_mu, old_mu, lt_mu_, ww, old_mu_, sdl, 
+                                scn, lt, rc, old_t, c, dl_, cn_, old_mu_w, lt_, 
+                                first, out_, rc_, hadw, ata, so_, havel, tw, 
+                                allr, omw, fca, sorw, all, old_c, tws, alr, dl, 
+                                cn, gen, old_cv, lt_c, rc_c, so, out, ndl, wcn, 
+                                old, wq, still2, cvr, dw, k, cdw, ck >>
 
 cs_4_st(self) == /\ pc[self] = "cs_4_st"
                  /\ cvword' = IF all[self] THEN 0 ELSE (IF cvq = <<>> THEN Clr(old_c[self], CVNE) ELSE old_c[self])
@@ -2981,17 +3050,17 @@ cs_4_st(self) == /\ pc[self] = "cs_4_st"
                             /\ pc' = [pc EXCEPT ![self] = "ww_0_l"]
                             /\ all' = all
                  /\ UNCHANGED << word, queue, cvq, waiting, rmc, cvmu, wl, wc, 
-                                 sc, nww, nwsem, sem, data, now, note, nreg, 
-                                 held, ret, sres, picked, sleeps, inlock, ip, 
-                                 mw, pool, nalloc, nq, muFreed, refs, nwalive, 
-                                 taint3, lt_l, clear, old_, zlo, zhi, wcnt, lw, 
-                                 lt_u, old_u, tc, nwl, wtrs, wake, wty, sor, 
-                                 cor, rmq_, late, lt_m, old_m, lt_mu, old_mu, 
-                                 lt_mu_, ww, old_mu_, sdl, scn, lt, rc, old_t, 
-                                 c, dl_, cn_, old_mu_w, lt_, first, out_, rc_, 
-                                 hadw, ata, so_, havel, dl, cn, gen, old_cv, 
-                                 lt_c, rc_c, so, out, ndl, old, wq, dw, k, cdw, 
-                                 ck >>
+                                 sc, nww, nwsem, nww2, nreg2, sem, data, now, 
+                                 note, nreg, held, ret, sres, picked, sleeps, 
+                                 inlock, ip, mw, pool, nalloc, nq, muFreed, 
+                                 refs, nwalive, taint3, lt_l, clear, old_, zlo, 
+                                 zhi, wcnt, lw, lt_u, old_u, tc, nwl, wtrs, 
+                                 wake, wty, sor, cor, rmq_, late, lt_m, old_m, 
+                                 lt_mu, old_mu, lt_mu_, ww, old_mu_, sdl, scn, 
+                                 lt, rc, old_t, c, dl_, cn_, old_mu_w, lt_, 
+                                 first, out_, rc_, hadw, ata, so_, havel, dl, 
+                                 cn, gen, old_cv, lt_c, rc_c, so, out, ndl, 
+                                 wcn, old, wq, still2, cvr, dw, k, cdw, ck >>
 
 cv_wake(self) == cs_1_ld(self) \/ cs_2_ld(self) \/ cs_3_cas(self)
                     \/ cs_3b_l(self) \/ cs_2_d(self) \/ cs_rmq_l(self)
@@ -3010,17 +3079,18 @@ cw_1_st(self) == /\ pc[self] = "cw_1_st"
                        ELSE /\ pc' = [pc EXCEPT ![self] = "cw_2_ld"]
                             /\ UNCHANGED << cvmu, wl, lt_c >>
                  /\ UNCHANGED << word, queue, cvword, cvq, rmc, sc, nww, nwsem, 
-                                 sem, data, now, note, nreg, held, ret, sres, 
-                                 sleeps, inlock, ip, mw, pool, nalloc, nq, 
-                                 muFreed, refs, nwalive, taint3, stack, lt_l, 
-                                 clear, old_, zlo, zhi, wcnt, lw, lt_u, old_u, 
-                                 tc, nwl, wtrs, wake, wty, sor, cor, rmq_, 
-                                 late, lt_m, old_m, lt_mu, old_mu, lt_mu_, ww, 
-                                 old_mu_, sdl, scn, lt, rc, old_t, c, dl_, cn_, 
-                                 old_mu_w, lt_, first, out_, rc_, hadw, ata, 
-                                 so_, havel, tw, allr, omw, fca, sorw, all, 
-                                 old_c, tws, alr, rmq, dl, cn, gen, old_cv, 
-                                 rc_c, so, out, ndl, old, wq, dw, k, cdw, ck >>
+                                 nww2, nreg2, sem, data, now, note, nreg, held, 
+                                 ret, sres, sleeps, inlock, ip, mw, pool, 
+                                 nalloc, nq, muFreed, refs, nwalive, taint3, 
+                                 stack, lt_l, clear, old_, zlo, zhi, wcnt, lw, 
+                                 lt_u, old_u, tc, nwl, wtrs, wake, wty, sor, 
+                                 cor, rmq_, late, lt_m, old_m, lt_mu, old_mu, 
+                                 lt_mu_, ww, old_mu_, sdl, scn, lt, rc, old_t, 
+                                 c, dl_, cn_, old_mu_w, lt_, first, out_, rc_, 
+                                 hadw, ata, so_, havel, tw, allr, omw, fca, 
+                                 sorw, all, old_c, tws, alr, rmq, dl, cn, gen, 
+                                 old_cv, rc_c, so, out, ndl, wcn, old, wq, 
+                                 still2, cvr, dw, k, cdw, ck >>
 
 cw_2_ld(self) == /\ pc[self] = "cw_2_ld"
                  /\ lt_c' = [lt_c EXCEPT ![self] = IF (word & WLOCK) # 0 THEN 1 ELSE 2]
@@ -3028,17 +3098,18 @@ cw_2_ld(self) == /\ pc[self] = "cw_2_ld"
                  /\ wl' = [wl EXCEPT ![W(self)] = lt_c'[self]]
                  /\ pc' = [pc EXCEPT ![self] = "cw_3_ld"]
                  /\ UNCHANGED << word, queue, cvword, cvq, waiting, rmc, wc, 
-                                 sc, nww, nwsem, sem, data, now, note, nreg, 
-                                 held, ret, sres, picked, sleeps, inlock, ip, 
-                                 mw, pool, nalloc, nq, muFreed, refs, nwalive, 
-                                 taint3, stack, lt_l, clear, old_, zlo, zhi, 
-                                 wcnt, lw, lt_u, old_u, tc, nwl, wtrs, wake, 
-                                 wty, sor, cor, rmq_, late, lt_m, old_m, lt_mu, 
-                                 old_mu, lt_mu_, ww, old_mu_, sdl, scn, lt, rc, 
-                                 old_t, c, dl_, cn_, old_mu_w, lt_, first, 
-                                 out_, rc_, hadw, ata, so_, havel, tw, allr, 
-                                 omw, fca, sorw, all, old_c, tws, alr, rmq, dl, 
-                                 cn, gen, old_cv, rc_c, so, out, ndl, old, wq, 
+                                 sc, nww, nwsem, nww2, nreg2, sem, data, now, 
+                                 note, nreg, held, ret, sres, picked, sleeps, 
+                                 inlock, ip, mw, pool, nalloc, nq, muFreed, 
+                                 refs, nwalive, taint3, stack, lt_l, clear, 
+                                 old_, zlo, zhi, wcnt, lw, lt_u, old_u, tc, 
+                                 nwl, wtrs, wake, wty, sor, cor, rmq_, late, 
+                                 lt_m, old_m, lt_mu, old_mu, lt_mu_, ww, 
+                                 old_mu_, sdl, scn, lt, rc, old_t, c, dl_, cn_, 
+                                 old_mu_w, lt_, first, out_, rc_, hadw, ata, 
+                                 so_, havel, tw, allr, omw, fca, sorw, all, 
+                                 old_c, tws, alr, rmq, dl, cn, gen, old_cv, 
+                                 rc_c, so, out, ndl, wcn, old, wq, still2, cvr, 
                                  dw, k, cdw, ck >>
 
 cw_3_ld(self) == /\ pc[self] = "cw_3_ld"
@@ -3047,18 +3118,19 @@ cw_3_ld(self) == /\ pc[self] = "cw_3_ld"
                        THEN /\ pc' = [pc EXCEPT ![self] = "cw_3_d"]
                        ELSE /\ pc' = [pc EXCEPT ![self] = "cw_4_cas"]
                  /\ UNCHANGED << word, queue, cvword, cvq, waiting, rmc, cvmu, 
-                                 wl, wc, sc, nww, nwsem, sem, data, now, note, 
-                                 nreg, held, ret, sres, picked, sleeps, inlock, 
-                                 ip, mw, pool, nalloc, nq, muFreed, refs, 
-                                 nwalive, taint3, stack, lt_l, clear, old_, 
-                                 zlo, zhi, wcnt, lw, lt_u, old_u, tc, nwl, 
-                                 wtrs, wake, wty, sor, cor, rmq_, late, lt_m, 
-                                 old_m, lt_mu, old_mu, lt_mu_, ww, old_mu_, 
-                                 sdl, scn, lt, rc, old_t, c, dl_, cn_, 
-                                 old_mu_w, lt_, first, out_, rc_, hadw, ata, 
-                                 so_, havel, tw, allr, omw, fca, sorw, all, 
-                                 old_c, tws, alr, rmq, dl, cn, gen, lt_c, rc_c, 
-                                 so, out, ndl, old, wq, dw, k, cdw, ck >>
+                                 wl, wc, sc, nww, nwsem, nww2, nreg2, sem, 
+                                 data, now, note, nreg, held, ret, sres, 
+                                 picked, sleeps, inlock, ip, mw, pool, nalloc, 
+                                 nq, muFreed, refs, nwalive, taint3, stack, 
+                                 lt_l, clear, old_, zlo, zhi, wcnt, lw, lt_u, 
+                                 old_u, tc, nwl, wtrs, wake, wty, sor, cor, 
+                                 rmq_, late, lt_m, old_m, lt_mu, old_mu, 
+                                 lt_mu_, ww, old_mu_, sdl, scn, lt, rc, old_t, 
+                                 c, dl_, cn_, old_mu_w, lt_, first, out_, rc_, 
+                                 hadw, ata, so_, havel, tw, allr, omw, fca, 
+                                 sorw, all, old_c, tws, alr, rmq, dl, cn, gen, 
+                                 lt_c, rc_c, so, out, ndl, wcn, old, wq, 
+                                 still2, cvr, dw, k, cdw, ck >>
 
 cw_4_cas(self) == /\ pc[self] = "cw_4_cas"
                   /\ IF cvword = old_cv[self]
@@ -3069,51 +3141,54 @@ cw_4_cas(self) == /\ pc[self] = "cw_4_cas"
                         ELSE /\ pc' = [pc EXCEPT ![self] = "cw_3_d"]
                              /\ UNCHANGED << cvword, cvq, nq >>
                   /\ UNCHANGED << word, queue, waiting, rmc, cvmu, wl, wc, sc, 
-                                  nww, nwsem, sem, data, now, note, nreg, held, 
-                                  ret, sres, picked, sleeps, inlock, ip, mw, 
-                                  pool, nalloc, muFreed, refs, nwalive, taint3, 
-                                  stack, lt_l, clear, old_, zlo, zhi, wcnt, lw, 
-                                  lt_u, old_u, tc, nwl, wtrs, wake, wty, sor, 
-                                  cor, rmq_, late, lt_m, old_m, lt_mu, old_mu, 
-                                  lt_mu_, ww, old_mu_, sdl, scn, lt, rc, old_t, 
-                                  c, dl_, cn_, old_mu_w, lt_, first, out_, rc_, 
-                                  hadw, ata, so_, havel, tw, allr, omw, fca, 
-                                  sorw, all, old_c, tws, alr, rmq, dl, cn, gen, 
-                                  old_cv, lt_c, rc_c, so, out, ndl, old, wq, 
-                                  dw, k, cdw, ck >>
+                                  nww, nwsem, nww2, nreg2, sem, data, now, 
+                                  note, nreg, held, ret, sres, picked, sleeps, 
+                                  inlock, ip, mw, pool, nalloc, muFreed, refs, 
+                                  nwalive, taint3, stack, lt_l, clear, old_, 
+                                  zlo, zhi, wcnt, lw, lt_u, old_u, tc, nwl, 
+                                  wtrs, wake, wty, sor, cor, rmq_, late, lt_m, 
+                                  old_m, lt_mu, old_mu, lt_mu_, ww, old_mu_, 
+                                  sdl, scn, lt, rc, old_t, c, dl_, cn_, 
+                                  old_mu_w, lt_, first, out_, rc_, hadw, ata, 
+                                  so_, havel, tw, allr, omw, fca, sorw, all, 
+                                  old_c, tws, alr, rmq, dl, cn, gen, old_cv, 
+                                  lt_c, rc_c, so, out, ndl, wcn, old, wq, 
+                                  still2, cvr, dw, k, cdw, ck >>
 
 cw_3_d(self) == /\ pc[self] = "cw_3_d"
                 /\ pc' = [pc EXCEPT ![self] = "cw_3_ld"]
                 /\ UNCHANGED << word, queue, cvword, cvq, waiting, rmc, cvmu, 
-                                wl, wc, sc, nww, nwsem, sem, data, now, note, 
-                                nreg, held, ret, sres, picked, sleeps, inlock, 
-                                ip, mw, pool, nalloc, nq, muFreed, refs, 
-                                nwalive, taint3, stack, lt_l, clear, old_, zlo, 
-                                zhi, wcnt, lw, lt_u, old_u, tc, nwl, wtrs, 
-                                wake, wty, sor, cor, rmq_, late, lt_m, old_m, 
-                                lt_mu, old_mu, lt_mu_, ww, old_mu_, sdl, scn, 
-                                lt, rc, old_t, c, dl_, cn_, old_mu_w, lt_, 
-                                first, out_, rc_, hadw, ata, so_, havel, tw, 
-                                allr, omw, fca, sorw, all, old_c, tws, alr, 
-                                rmq, dl, cn, gen, old_cv, lt_c, rc_c, so, out, 
-                                ndl, old, wq, dw, k, cdw, ck >>
+                                wl, wc, sc, nww, nwsem, nww2, nreg2, sem, data, 
+                                now, note, nreg, held, ret, sres, picked, 
+                                sleeps, inlock, ip, mw, pool, nalloc, nq, 
+                                muFreed, refs, nwalive, taint3, stack, lt_l, 
+                                clear, old_, zlo, zhi, wcnt, lw, lt_u, old_u, 
+                                tc, nwl, wtrs, wake, wty, sor, cor, rmq_, late, 
+                                lt_m, old_m, lt_mu, old_mu, lt_mu_, ww, 
+                                old_mu_, sdl, scn, lt, rc, old_t, c, dl_, cn_, 
+                                old_mu_w, lt_, first, out_, rc_, hadw, ata, 
+                                so_, havel, tw, allr, omw, fca, sorw, all, 
+                                old_c, tws, alr, rmq, dl, cn, gen, old_cv, 
+                                lt_c, rc_c, so, out, ndl, wcn, old, wq, still2, 
+                                cvr, dw, k, cdw, ck >>
 
 cw_5_ld(self) == /\ pc[self] = "cw_5_ld"
                  /\ rc_c' = [rc_c EXCEPT ![self] = rmc[W(self)]]
                  /\ pc' = [pc EXCEPT ![self] = "cw_6_st"]
                  /\ UNCHANGED << word, queue, cvword, cvq, waiting, rmc, cvmu, 
-                                 wl, wc, sc, nww, nwsem, sem, data, now, note, 
-                                 nreg, held, ret, sres, picked, sleeps, inlock, 
-                                 ip, mw, pool, nalloc, nq, muFreed, refs, 
-                                 nwalive, taint3, stack, lt_l, clear, old_, 
-                                 zlo, zhi, wcnt, lw, lt_u, old_u, tc, nwl, 
-                                 wtrs, wake, wty, sor, cor, rmq_, late, lt_m, 
-                                 old_m, lt_mu, old_mu, lt_mu_, ww, old_mu_, 
-                                 sdl, scn, lt, rc, old_t, c, dl_, cn_, 
-                                 old_mu_w, lt_, first, out_, rc_, hadw, ata, 
-                                 so_, havel, tw, allr, omw, fca, sorw, all, 
-                                 old_c, tws, alr, rmq, dl, cn, gen, old_cv, 
-                                 lt_c, so, out, ndl, old, wq, dw, k, cdw, ck >>
+                                 wl, wc, sc, nww, nwsem, nww2, nreg2, sem, 
+                                 data, now, note, nreg, held, ret, sres, 
+                                 picked, sleeps, inlock, ip, mw, pool, nalloc, 
+                                 nq, muFreed, refs, nwalive, taint3, stack, 
+                                 lt_l, clear, old_, zlo, zhi, wcnt, lw, lt_u, 
+                                 old_u, tc, nwl, wtrs, wake, wty, sor, cor, 
+                                 rmq_, late, lt_m, old_m, lt_mu, old_mu, 
+                                 lt_mu_, ww, old_mu_, sdl, scn, lt, rc, old_t, 
+                                 c, dl_, cn_, old_mu_w, lt_, first, out_, rc_, 
+                                 hadw, ata, so_, havel, tw, allr, omw, fca, 
+                                 sorw, all, old_c, tws, alr, rmq, dl, cn, gen, 
+                                 old_cv, lt_c, so, out, ndl, wcn, old, wq, 
+                                 still2, cvr, dw, k, cdw, ck >>
 
 cw_6_st(self) == /\ pc[self] = "cw_6_st"
                  /\ cvword' = old_cv[self] | CVNE
@@ -3131,17 +3206,18 @@ cw_6_st(self) == /\ pc[self] = "cw_6_st"
                  /\ old_mu_' = [old_mu_ EXCEPT ![self] = 0]
                  /\ pc' = [pc EXCEPT ![self] = "ul_1_cas"]
                  /\ UNCHANGED << word, queue, cvq, waiting, rmc, cvmu, wl, wc, 
-                                 sc, nww, nwsem, sem, data, now, note, nreg, 
-                                 ret, sres, picked, sleeps, inlock, ip, mw, 
-                                 pool, nalloc, nq, muFreed, refs, nwalive, 
-                                 taint3, lt_l, clear, old_, zlo, zhi, wcnt, lw, 
-                                 lt_u, old_u, tc, nwl, wtrs, wake, wty, sor, 
-                                 cor, rmq_, late, lt_m, old_m, lt_mu, old_mu, 
-                                 sdl, scn, lt, rc, old_t, c, dl_, cn_, 
+                                 sc, nww, nwsem, nww2, nreg2, sem, data, now, 
+                                 note, nreg, ret, sres, picked, sleeps, inlock, 
+                                 ip, mw, pool, nalloc, nq, muFreed, refs, 
+                                 nwalive, taint3, lt_l, clear, old_, zlo, zhi, 
+                                 wcnt, lw, lt_u, old_u, tc, nwl, wtrs, wake, 
+                                 wty, sor, cor, rmq_, late, lt_m, old_m, lt_mu, 
+                                 old_mu, sdl, scn, lt, rc, old_t, c, dl_, cn_, 
                                  old_mu_w, lt_, first, out_, rc_, hadw, ata, 
                                  so_, havel, tw, allr, omw, fca, sorw, all, 
                                  old_c, tws, alr, rmq, dl, cn, gen, old_cv, 
-                                 lt_c, rc_c, ndl, old, wq, dw, k, cdw, ck >>
+                                 lt_c, rc_c, ndl, wcn, old, wq, still2, cvr, 
+                                 dw, k, cdw, ck >>
 
 cw_7_ld(self) == /\ pc[self] = "cw_7_ld"
                  /\ IF waiting[W(self)] = 0
@@ -3159,18 +3235,19 @@ cw_7_ld(self) == /\ pc[self] = "cw_7_ld"
                                                                                \o stack[self]]
                                        /\ pc' = [pc EXCEPT ![self] = "sw_1_r"]
                  /\ UNCHANGED << word, queue, cvword, cvq, waiting, rmc, cvmu, 
-                                 wl, wc, sc, nww, nwsem, sem, data, now, note, 
-                                 nreg, held, ret, sres, picked, sleeps, inlock, 
-                                 ip, mw, pool, nalloc, nq, muFreed, refs, 
-                                 nwalive, taint3, lt_l, clear, old_, zlo, zhi, 
-                                 wcnt, lw, lt_u, old_u, tc, nwl, wtrs, wake, 
-                                 wty, sor, cor, rmq_, late, lt_m, old_m, lt_mu, 
-                                 old_mu, lt_mu_, ww, old_mu_, lt, rc, old_t, c, 
-                                 dl_, cn_, old_mu_w, lt_, first, out_, rc_, 
-                                 hadw, ata, so_, havel, tw, allr, omw, fca, 
-                                 sorw, all, old_c, tws, alr, rmq, dl, cn, gen, 
-                                 old_cv, lt_c, rc_c, so, out, ndl, old, wq, dw, 
-                                 k, cdw, ck >>
+                                 wl, wc, sc, nww, nwsem, nww2, nreg2, sem, 
+                                 data, now, note, nreg, held, ret, sres, 
+                                 picked, sleeps, inlock, ip, mw, pool, nalloc, 
+                                 nq, muFreed, refs, nwalive, taint3, lt_l, 
+                                 clear, old_, zlo, zhi, wcnt, lw, lt_u, old_u, 
+                                 tc, nwl, wtrs, wake, wty, sor, cor, rmq_, 
+                                 late, lt_m, old_m, lt_mu, old_mu, lt_mu_, ww, 
+                                 old_mu_, lt, rc, old_t, c, dl_, cn_, old_mu_w, 
+                                 lt_, first, out_, rc_, hadw, ata, so_, havel, 
+                                 tw, allr, omw, fca, sorw, all, old_c, tws, 
+                                 alr, rmq, dl, cn, gen, old_cv, lt_c, rc_c, so, 
+                                 out, ndl, wcn, old, wq, still2, cvr, dw, k, 
+                                 cdw, ck >>
 
 cw_8b_l(self) == /\ pc[self] = "cw_8b_l"
                  /\ so' = [so EXCEPT ![self] = sres[self]]
@@ -3178,37 +3255,38 @@ cw_8b_l(self) == /\ pc[self] = "cw_8b_l"
                        THEN /\ pc' = [pc EXCEPT ![self] = "cw_16_ld"]
                        ELSE /\ pc' = [pc EXCEPT ![self] = "cw_9_ld"]
                  /\ UNCHANGED << word, queue, cvword, cvq, waiting, rmc, cvmu, 
-                                 wl, wc, sc, nww, nwsem, sem, data, now, note, 
-                                 nreg, held, ret, sres, picked, sleeps, inlock, 
-                                 ip, mw, pool, nalloc, nq, muFreed, refs, 
-                                 nwalive, taint3, stack, lt_l, clear, old_, 
-                                 zlo, zhi, wcnt, lw, lt_u, old_u, tc, nwl, 
-                                 wtrs, wake, wty, sor, cor, rmq_, late, lt_m, 
-                                 old_m, lt_mu, old_mu, lt_mu_, ww, old_mu_, 
-                                 sdl, scn, lt, rc, old_t, c, dl_, cn_, 
-                                 old_mu_w, lt_, first, out_, rc_, hadw, ata, 
-                                 so_, havel, tw, allr, omw, fca, sorw, all, 
-                                 old_c, tws, alr, rmq, dl, cn, gen, old_cv, 
-                                 lt_c, rc_c, out, ndl, old, wq, dw, k, cdw, ck >>
+                                 wl, wc, sc, nww, nwsem, nww2, nreg2, sem, 
+                                 data, now, note, nreg, held, ret, sres, 
+                                 picked, sleeps, inlock, ip, mw, pool, nalloc, 
+                                 nq, muFreed, refs, nwalive, taint3, stack, 
+                                 lt_l, clear, old_, zlo, zhi, wcnt, lw, lt_u, 
+                                 old_u, tc, nwl, wtrs, wake, wty, sor, cor, 
+                                 rmq_, late, lt_m, old_m, lt_mu, old_mu, 
+                                 lt_mu_, ww, old_mu_, sdl, scn, lt, rc, old_t, 
+                                 c, dl_, cn_, old_mu_w, lt_, first, out_, rc_, 
+                                 hadw, ata, so_, havel, tw, allr, omw, fca, 
+                                 sorw, all, old_c, tws, alr, rmq, dl, cn, gen, 
+                                 old_cv, lt_c, rc_c, out, ndl, wcn, old, wq, 
+                                 still2, cvr, dw, k, cdw, ck >>
 
 cw_9_ld(self) == /\ pc[self] = "cw_9_ld"
                  /\ IF waiting[W(self)] = 0
                        THEN /\ pc' = [pc EXCEPT ![self] = "cw_16_ld"]
                        ELSE /\ pc' = [pc EXCEPT ![self] = "cw_10_ld"]
                  /\ UNCHANGED << word, queue, cvword, cvq, waiting, rmc, cvmu, 
-                                 wl, wc, sc, nww, nwsem, sem, data, now, note, 
-                                 nreg, held, ret, sres, picked, sleeps, inlock, 
-                                 ip, mw, pool, nalloc, nq, muFreed, refs, 
-                                 nwalive, taint3, stack, lt_l, clear, old_, 
-                                 zlo, zhi, wcnt, lw, lt_u, old_u, tc, nwl, 
-                                 wtrs, wake, wty, sor, cor, rmq_, late, lt_m, 
-                                 old_m, lt_mu, old_mu, lt_mu_, ww, old_mu_, 
-                                 sdl, scn, lt, rc, old_t, c, dl_, cn_, 
-                                 old_mu_w, lt_, first, out_, rc_, hadw, ata, 
-                                 so_, havel, tw, allr, omw, fca, sorw, all, 
-                                 old_c, tws, alr, rmq, dl, cn, gen, old_cv, 
-                                 lt_c, rc_c, so, out, ndl, old, wq, dw, k, cdw, 
-                                 ck >>
+                                 wl, wc, sc, nww, nwsem, nww2, nreg2, sem, 
+                                 data, now, note, nreg, held, ret, sres, 
+                                 picked, sleeps, inlock, ip, mw, pool, nalloc, 
+                                 nq, muFreed, refs, nwalive, taint3, stack, 
+                                 lt_l, clear, old_, zlo, zhi, wcnt, lw, lt_u, 
+                                 old_u, tc, nwl, wtrs, wake, wty, sor, cor, 
+                                 rmq_, late, lt_m, old_m, lt_mu, old_mu, 
+                                 lt_mu_, ww, old_mu_, sdl, scn, lt, rc, old_t, 
+                                 c, dl_, cn_, old_mu_w, lt_, first, out_, rc_, 
+                                 hadw, ata, so_, havel, tw, allr, omw, fca, 
+                                 sorw, all, old_c, tws, alr, rmq, dl, cn, gen, 
+                                 old_cv, lt_c, rc_c, so, out, ndl, wcn, old, 
+                                 wq, still2, cvr, dw, k, cdw, ck >>
 
 cw_10_ld(self) == /\ pc[self] = "cw_10_ld"
                   /\ old_cv' = [old_cv EXCEPT ![self] = cvword]
@@ -3216,18 +3294,19 @@ cw_10_ld(self) == /\ pc[self] = "cw_10_ld"
                         THEN /\ pc' = [pc EXCEPT ![self] = "cw_10_d"]
                         ELSE /\ pc' = [pc EXCEPT ![self] = "cw_11_cas"]
                   /\ UNCHANGED << word, queue, cvword, cvq, waiting, rmc, cvmu, 
-                                  wl, wc, sc, nww, nwsem, sem, data, now, note, 
-                                  nreg, held, ret, sres, picked, sleeps, 
-                                  inlock, ip, mw, pool, nalloc, nq, muFreed, 
-                                  refs, nwalive, taint3, stack, lt_l, clear, 
-                                  old_, zlo, zhi, wcnt, lw, lt_u, old_u, tc, 
-                                  nwl, wtrs, wake, wty, sor, cor, rmq_, late, 
-                                  lt_m, old_m, lt_mu, old_mu, lt_mu_, ww, 
-                                  old_mu_, sdl, scn, lt, rc, old_t, c, dl_, 
-                                  cn_, old_mu_w, lt_, first, out_, rc_, hadw, 
-                                  ata, so_, havel, tw, allr, omw, fca, sorw, 
-                                  all, old_c, tws, alr, rmq, dl, cn, gen, lt_c, 
-                                  rc_c, so, out, ndl, old, wq, dw, k, cdw, ck >>
+                                  wl, wc, sc, nww, nwsem, nww2, nreg2, sem, 
+                                  data, now, note, nreg, held, ret, sres, 
+                                  picked, sleeps, inlock, ip, mw, pool, nalloc, 
+                                  nq, muFreed, refs, nwalive, taint3, stack, 
+                                  lt_l, clear, old_, zlo, zhi, wcnt, lw, lt_u, 
+                                  old_u, tc, nwl, wtrs, wake, wty, sor, cor, 
+                                  rmq_, late, lt_m, old_m, lt_mu, old_mu, 
+                                  lt_mu_, ww, old_mu_, sdl, scn, lt, rc, old_t, 
+                                  c, dl_, cn_, old_mu_w, lt_, first, out_, rc_, 
+                                  hadw, ata, so_, havel, tw, allr, omw, fca, 
+                                  sorw, all, old_c, tws, alr, rmq, dl, cn, gen, 
+                                  lt_c, rc_c, so, out, ndl, wcn, old, wq, 
+                                  still2, cvr, dw, k, cdw, ck >>
 
 cw_11_cas(self) == /\ pc[self] = "cw_11_cas"
                    /\ IF cvword = old_cv[self]
@@ -3236,55 +3315,56 @@ cw_11_cas(self) == /\ pc[self] = "cw_11_cas"
                          ELSE /\ pc' = [pc EXCEPT ![self] = "cw_10_d"]
                               /\ UNCHANGED cvword
                    /\ UNCHANGED << word, queue, cvq, waiting, rmc, cvmu, wl, 
-                                   wc, sc, nww, nwsem, sem, data, now, note, 
-                                   nreg, held, ret, sres, picked, sleeps, 
-                                   inlock, ip, mw, pool, nalloc, nq, muFreed, 
-                                   refs, nwalive, taint3, stack, lt_l, clear, 
-                                   old_, zlo, zhi, wcnt, lw, lt_u, old_u, tc, 
-                                   nwl, wtrs, wake, wty, sor, cor, rmq_, late, 
-                                   lt_m, old_m, lt_mu, old_mu, lt_mu_, ww, 
-                                   old_mu_, sdl, scn, lt, rc, old_t, c, dl_, 
-                                   cn_, old_mu_w, lt_, first, out_, rc_, hadw, 
-                                   ata, so_, havel, tw, allr, omw, fca, sorw, 
-                                   all, old_c, tws, alr, rmq, dl, cn, gen, 
-                                   old_cv, lt_c, rc_c, so, out, ndl, old, wq, 
-                                   dw, k, cdw, ck >>
+                                   wc, sc, nww, nwsem, nww2, nreg2, sem, data, 
+                                   now, note, nreg, held, ret, sres, picked, 
+                                   sleeps, inlock, ip, mw, pool, nalloc, nq, 
+                                   muFreed, refs, nwalive, taint3, stack, lt_l, 
+                                   clear, old_, zlo, zhi, wcnt, lw, lt_u, 
+                                   old_u, tc, nwl, wtrs, wake, wty, sor, cor, 
+                                   rmq_, late, lt_m, old_m, lt_mu, old_mu, 
+                                   lt_mu_, ww, old_mu_, sdl, scn, lt, rc, 
+                                   old_t, c, dl_, cn_, old_mu_w, lt_, first, 
+                                   out_, rc_, hadw, ata, so_, havel, tw, allr, 
+                                   omw, fca, sorw, all, old_c, tws, alr, rmq, 
+                                   dl, cn, gen, old_cv, lt_c, rc_c, so, out, 
+                                   ndl, wcn, old, wq, still2, cvr, dw, k, cdw, 
+                                   ck >>
 
 cw_10_d(self) == /\ pc[self] = "cw_10_d"
                  /\ pc' = [pc EXCEPT ![self] = "cw_10_ld"]
                  /\ UNCHANGED << word, queue, cvword, cvq, waiting, rmc, cvmu, 
-                                 wl, wc, sc, nww, nwsem, sem, data, now, note, 
-                                 nreg, held, ret, sres, picked, sleeps, inlock, 
-                                 ip, mw, pool, nalloc, nq, muFreed, refs, 
-                                 nwalive, taint3, stack, lt_l, clear, old_, 
-                                 zlo, zhi, wcnt, lw, lt_u, old_u, tc, nwl, 
-                                 wtrs, wake, wty, sor, cor, rmq_, late, lt_m, 
-                                 old_m, lt_mu, old_mu, lt_mu_, ww, old_mu_, 
-                                 sdl, scn, lt, rc, old_t, c, dl_, cn_, 
-                                 old_mu_w, lt_, first, out_, rc_, hadw, ata, 
-                                 so_, havel, tw, allr, omw, fca, sorw, all, 
-                                 old_c, tws, alr, rmq, dl, cn, gen, old_cv, 
-                                 lt_c, rc_c, so, out, ndl, old, wq, dw, k, cdw, 
-                                 ck >>
+                                 wl, wc, sc, nww, nwsem, nww2, nreg2, sem, 
+                                 data, now, note, nreg, held, ret, sres, 
+                                 picked, sleeps, inlock, ip, mw, pool, nalloc, 
+                                 nq, muFreed, refs, nwalive, taint3, stack, 
+                                 lt_l, clear, old_, zlo, zhi, wcnt, lw, lt_u, 
+                                 old_u, tc, nwl, wtrs, wake, wty, sor, cor, 
+                                 rmq_, late, lt_m, old_m, lt_mu, old_mu, 
+                                 lt_mu_, ww, old_mu_, sdl, scn, lt, rc, old_t, 
+                                 c, dl_, cn_, old_mu_w, lt_, first, out_, rc_, 
+                                 hadw, ata, so_, havel, tw, allr, omw, fca, 
+                                 sorw, all, old_c, tws, alr, rmq, dl, cn, gen, 
+                                 old_cv, lt_c, rc_c, so, out, ndl, wcn, old, 
+                                 wq, still2, cvr, dw, k, cdw, ck >>
 
 cw_12_ld(self) == /\ pc[self] = "cw_12_ld"
                   /\ IF waiting[W(self)] = 0
                         THEN /\ pc' = [pc EXCEPT ![self] = "cw_15_st"]
                         ELSE /\ pc' = [pc EXCEPT ![self] = "cw_13_ld"]
                   /\ UNCHANGED << word, queue, cvword, cvq, waiting, rmc, cvmu, 
-                                  wl, wc, sc, nww, nwsem, sem, data, now, note, 
-                                  nreg, held, ret, sres, picked, sleeps, 
-                                  inlock, ip, mw, pool, nalloc, nq, muFreed, 
-                                  refs, nwalive, taint3, stack, lt_l, clear, 
-                                  old_, zlo, zhi, wcnt, lw, lt_u, old_u, tc, 
-                                  nwl, wtrs, wake, wty, sor, cor, rmq_, late, 
-                                  lt_m, old_m, lt_mu, old_mu, lt_mu_, ww, 
-                                  old_mu_, sdl, scn, lt, rc, old_t, c, dl_, 
-                                  cn_, old_mu_w, lt_, first, out_, rc_, hadw, 
-                                  ata, so_, havel, tw, allr, omw, fca, sorw, 
-                                  all, old_c, tws, alr, rmq, dl, cn, gen, 
-                                  old_cv, lt_c, rc_c, so, out, ndl, old, wq, 
-                                  dw, k, cdw, ck >>
+                                  wl, wc, sc, nww, nwsem, nww2, nreg2, sem, 
+                                  data, now, note, nreg, held, ret, sres, 
+                                  picked, sleeps, inlock, ip, mw, pool, nalloc, 
+                                  nq, muFreed, refs, nwalive, taint3, stack, 
+                                  lt_l, clear, old_, zlo, zhi, wcnt, lw, lt_u, 
+                                  old_u, tc, nwl, wtrs, wake, wty, sor, cor, 
+                                  rmq_, late, lt_m, old_m, lt_mu, old_mu, 
+                                  lt_mu_, ww, old_mu_, sdl, scn, lt, rc, old_t, 
+                                  c, dl_, cn_, old_mu_w, lt_, first, out_, rc_, 
+                                  hadw, ata, so_, havel, tw, allr, omw, fca, 
+                                  sorw, all, old_c, tws, alr, rmq, dl, cn, gen, 
+                                  old_cv, lt_c, rc_c, so, out, ndl, wcn, old, 
+                                  wq, still2, cvr, dw, k, cdw, ck >>
 
 cw_13_ld(self) == /\ pc[self] = "cw_13_ld"
                   /\ IF rc_c[self] # rmc[W(self)]
@@ -3294,98 +3374,63 @@ cw_13_ld(self) == /\ pc[self] = "cw_13_ld"
                              /\ cvq' = Without(cvq, W(self))
                              /\ pc' = [pc EXCEPT ![self] = "cw_14_ld"]
                   /\ UNCHANGED << word, queue, cvword, waiting, rmc, cvmu, wl, 
-                                  wc, sc, nww, nwsem, sem, data, now, note, 
-                                  nreg, held, ret, sres, picked, sleeps, 
-                                  inlock, ip, mw, pool, nalloc, nq, muFreed, 
-                                  refs, nwalive, taint3, stack, lt_l, clear, 
-                                  old_, zlo, zhi, wcnt, lw, lt_u, old_u, tc, 
-                                  nwl, wtrs, wake, wty, sor, cor, rmq_, late, 
-                                  lt_m, old_m, lt_mu, old_mu, lt_mu_, ww, 
+                                  wc, sc, nww, nwsem, nww2, nreg2, sem, data, 
+                                  now, note, nreg, held, ret, sres, picked, 
+                                  sleeps, inlock, ip, mw, pool, nalloc, nq, 
+                                  muFreed, refs, nwalive, taint3, stack, lt_l, 
+                                  clear, old_, zlo, zhi, wcnt, lw, lt_u, old_u, 
+                                  tc, nwl, wtrs, wake, wty, sor, cor, rmq_, 
+                                  late, lt_m, old_m, lt_mu, old_mu, lt_mu_, ww, 
                                   old_mu_, sdl, scn, lt, rc, old_t, c, dl_, 
                                   cn_, old_mu_w, lt_, first, out_, rc_, hadw, 
                                   ata, so_, havel, tw, allr, omw, fca, sorw, 
                                   all, old_c, tws, alr, rmq, dl, cn, gen, 
-                                  old_cv, lt_c, rc_c, so, ndl, old, wq, dw, k, 
-                                  cdw, ck >>
+                                  old_cv, lt_c, rc_c, so, ndl, wcn, old, wq, 
+                                  still2, cvr, dw, k, cdw, ck >>
 
 cw_14_ld(self) == /\ pc[self] = "cw_14_ld"
                   /\ TRUE
                   /\ pc' = [pc EXCEPT ![self] = "cw_14_cas"]
                   /\ UNCHANGED << word, queue, cvword, cvq, waiting, rmc, cvmu, 
-                                  wl, wc, sc, nww, nwsem, sem, data, now, note, 
-                                  nreg, held, ret, sres, picked, sleeps, 
-                                  inlock, ip, mw, pool, nalloc, nq, muFreed, 
-                                  refs, nwalive, taint3, stack, lt_l, clear, 
-                                  old_, zlo, zhi, wcnt, lw, lt_u, old_u, tc, 
-                                  nwl, wtrs, wake, wty, sor, cor, rmq_, late, 
-                                  lt_m, old_m, lt_mu, old_mu, lt_mu_, ww, 
-                                  old_mu_, sdl, scn, lt, rc, old_t, c, dl_, 
-                                  cn_, old_mu_w, lt_, first, out_, rc_, hadw, 
-                                  ata, so_, havel, tw, allr, omw, fca, sorw, 
-                                  all, old_c, tws, alr, rmq, dl, cn, gen, 
-                                  old_cv, lt_c, rc_c, so, out, ndl, old, wq, 
-                                  dw, k, cdw, ck >>
+                                  wl, wc, sc, nww, nwsem, nww2, nreg2, sem, 
+                                  data, now, note, nreg, held, ret, sres, 
+                                  picked, sleeps, inlock, ip, mw, pool, nalloc, 
+                                  nq, muFreed, refs, nwalive, taint3, stack, 
+                                  lt_l, clear, old_, zlo, zhi, wcnt, lw, lt_u, 
+                                  old_u, tc, nwl, wtrs, wake, wty, sor, cor, 
+                                  rmq_, late, lt_m, old_m, lt_mu, old_mu, 
+                                  lt_mu_, ww, old_mu_, sdl, scn, lt, rc, old_t, 
+                                  c, dl_, cn_, old_mu_w, lt_, first, out_, rc_, 
+                                  hadw, ata, so_, havel, tw, allr, omw, fca, 
+                                  sorw, all, old_c, tws, alr, rmq, dl, cn, gen, 
+                                  old_cv, lt_c, rc_c, so, out, ndl, wcn, old, 
+                                  wq, still2, cvr, dw, k, cdw, ck >>
 
 cw_14_cas(self) == /\ pc[self] = "cw_14_cas"
                    /\ rmc' = [rmc EXCEPT ![W(self)] = rmc[W(self)] + 1]
                    /\ old_cv' = [old_cv EXCEPT ![self] = IF cvq = <<>> THEN Clr(old_cv[self], CVNE) ELSE old_cv[self]]
                    /\ pc' = [pc EXCEPT ![self] = "cw_14_st"]
                    /\ UNCHANGED << word, queue, cvword, cvq, waiting, cvmu, wl, 
-                                   wc, sc, nww, nwsem, sem, data, now, note, 
-                                   nreg, held, ret, sres, picked, sleeps, 
-                                   inlock, ip, mw, pool, nalloc, nq, muFreed, 
-                                   refs, nwalive, taint3, stack, lt_l, clear, 
-                                   old_, zlo, zhi, wcnt, lw, lt_u, old_u, tc, 
-                                   nwl, wtrs, wake, wty, sor, cor, rmq_, late, 
-                                   lt_m, old_m, lt_mu, old_mu, lt_mu_, ww, 
-                                   old_mu_, sdl, scn, lt, rc, old_t, c, dl_, 
-                                   cn_, old_mu_w, lt_, first, out_, rc_, hadw, 
-                                   ata, so_, havel, tw, allr, omw, fca, sorw, 
-                                   all, old_c, tws, alr, rmq, dl, cn, gen, 
-                                   lt_c, rc_c, so, out, ndl, old, wq, dw, k, 
-                                   cdw, ck >>
+                                   wc, sc, nww, nwsem, nww2, nreg2, sem, data, 
+                                   now, note, nreg, held, ret, sres, picked, 
+                                   sleeps, inlock, ip, mw, pool, nalloc, nq, 
+                                   muFreed, refs, nwalive, taint3, stack, lt_l, 
+                                   clear, old_, zlo, zhi, wcnt, lw, lt_u, 
+                                   old_u, tc, nwl, wtrs, wake, wty, sor, cor, 
+                                   rmq_, late, lt_m, old_m, lt_mu, old_mu, 
+                                   lt_mu_, ww, old_mu_, sdl, scn, lt, rc, 
+                                   old_t, c, dl_, cn_, old_mu_w, lt_, first, 
+                                   out_, rc_, hadw, ata, so_, havel, tw, allr, 
+                                   omw, fca, sorw, all, old_c, tws, alr, rmq, 
+                                   dl, cn, gen, lt_c, rc_c, so, out, ndl, wcn, 
+                                   old, wq, still2, cvr, dw, k, cdw, ck >>
 
 cw_14_st(self) == /\ pc[self] = "cw_14_st"
                   /\ waiting' = [waiting EXCEPT ![W(self)] = 0]
                   /\ pc' = [pc EXCEPT ![self] = "cw_15_st"]
                   /\ UNCHANGED << word, queue, cvword, cvq, rmc, cvmu, wl, wc, 
-                                  sc, nww, nwsem, sem, data, now, note, nreg, 
-                                  held, ret, sres, picked, sleeps, inlock, ip, 
-                                  mw, pool, nalloc, nq, muFreed, refs, nwalive, 
-                                  taint3, stack, lt_l, clear, old_, zlo, zhi, 
-                                  wcnt, lw, lt_u, old_u, tc, nwl, wtrs, wake, 
-                                  wty, sor, cor, rmq_, late, lt_m, old_m, 
-                                  lt_mu, old_mu, lt_mu_, ww, old_mu_, sdl, scn, 
-                                  lt, rc, old_t, c, dl_, cn_, old_mu_w, lt_, 
-                                  first, out_, rc_, hadw, ata, so_, havel, tw, 
-                                  allr, omw, fca, sorw, all, old_c, tws, alr, 
-                                  rmq, dl, cn, gen, old_cv, lt_c, rc_c, so, 
-                                  out, ndl, old, wq, dw, k, cdw, ck >>
-
-cw_15_st(self) == /\ pc[self] = "cw_15_st"
-                  /\ cvword' = old_cv[self]
-                  /\ pc' = [pc EXCEPT ![self] = "cw_16_ld"]
-                  /\ UNCHANGED << word, queue, cvq, waiting, rmc, cvmu, wl, wc, 
-                                  sc, nww, nwsem, sem, data, now, note, nreg, 
-                                  held, ret, sres, picked, sleeps, inlock, ip, 
-                                  mw, pool, nalloc, nq, muFreed, refs, nwalive, 
-                                  taint3, stack, lt_l, clear, old_, zlo, zhi, 
-                                  wcnt, lw, lt_u, old_u, tc, nwl, wtrs, wake, 
-                                  wty, sor, cor, rmq_, late, lt_m, old_m, 
-                                  lt_mu, old_mu, lt_mu_, ww, old_mu_, sdl, scn, 
-                                  lt, rc, old_t, c, dl_, cn_, old_mu_w, lt_, 
-                                  first, out_, rc_, hadw, ata, so_, havel, tw, 
-                                  allr, omw, fca, sorw, all, old_c, tws, alr, 
-                                  rmq, dl, cn, gen, old_cv, lt_c, rc_c, so, 
-                                  out, ndl, old, wq, dw, k, cdw, ck >>
-
-cw_16_ld(self) == /\ pc[self] = "cw_16_ld"
-                  /\ IF waiting[W(self)] # 0
-                        THEN /\ pc' = [pc EXCEPT ![self] = "cw_16_d"]
-                        ELSE /\ pc' = [pc EXCEPT ![self] = "cw_7_ld"]
-                  /\ UNCHANGED << word, queue, cvword, cvq, waiting, rmc, cvmu, 
-                                  wl, wc, sc, nww, nwsem, sem, data, now, note, 
-                                  nreg, held, ret, sres, picked, sleeps, 
+                                  sc, nww, nwsem, nww2, nreg2, sem, data, now, 
+                                  note, nreg, held, ret, sres, picked, sleeps, 
                                   inlock, ip, mw, pool, nalloc, nq, muFreed, 
                                   refs, nwalive, taint3, stack, lt_l, clear, 
                                   old_, zlo, zhi, wcnt, lw, lt_u, old_u, tc, 
@@ -3395,25 +3440,62 @@ cw_16_ld(self) == /\ pc[self] = "cw_16_ld"
                                   cn_, old_mu_w, lt_, first, out_, rc_, hadw, 
                                   ata, so_, havel, tw, allr, omw, fca, sorw, 
                                   all, old_c, tws, alr, rmq, dl, cn, gen, 
-                                  old_cv, lt_c, rc_c, so, out, ndl, old, wq, 
-                                  dw, k, cdw, ck >>
+                                  old_cv, lt_c, rc_c, so, out, ndl, wcn, old, 
+                                  wq, still2, cvr, dw, k, cdw, ck >>
+
+cw_15_st(self) == /\ pc[self] = "cw_15_st"
+                  /\ cvword' = old_cv[self]
+                  /\ pc' = [pc EXCEPT ![self] = "cw_16_ld"]
+                  /\ UNCHANGED << word, queue, cvq, waiting, rmc, cvmu, wl, wc, 
+                                  sc, nww, nwsem, nww2, nreg2, sem, data, now, 
+                                  note, nreg, held, ret, sres, picked, sleeps, 
+                                  inlock, ip, mw, pool, nalloc, nq, muFreed, 
+                                  refs, nwalive, taint3, stack, lt_l, clear, 
+                                  old_, zlo, zhi, wcnt, lw, lt_u, old_u, tc, 
+                                  nwl, wtrs, wake, wty, sor, cor, rmq_, late, 
+                                  lt_m, old_m, lt_mu, old_mu, lt_mu_, ww, 
+                                  old_mu_, sdl, scn, lt, rc, old_t, c, dl_, 
+                                  cn_, old_mu_w, lt_, first, out_, rc_, hadw, 
+                                  ata, so_, havel, tw, allr, omw, fca, sorw, 
+                                  all, old_c, tws, alr, rmq, dl, cn, gen, 
+                                  old_cv, lt_c, rc_c, so, out, ndl, wcn, old, 
+                                  wq, still2, cvr, dw, k, cdw, ck >>
+
+cw_16_ld(self) == /\ pc[self] = "cw_16_ld"
+                  /\ IF waiting[W(self)] # 0
+                        THEN /\ pc' = [pc EXCEPT ![self] = "cw_16_d"]
+                        ELSE /\ pc' = [pc EXCEPT ![self] = "cw_7_ld"]
+                  /\ UNCHANGED << word, queue, cvword, cvq, waiting, rmc, cvmu, 
+                                  wl, wc, sc, nww, nwsem, nww2, nreg2, sem, 
+                                  data, now, note, nreg, held, ret, sres, 
+                                  picked, sleeps, inlock, ip, mw, pool, nalloc, 
+                                  nq, muFreed, refs, nwalive, taint3, stack, 
+                                  lt_l, clear, old_, zlo, zhi, wcnt, lw, lt_u, 
+                                  old_u, tc, nwl, wtrs, wake, wty, sor, cor, 
+                                  rmq_, late, lt_m, old_m, lt_mu, old_mu, 
+                                  lt_mu_, ww, old_mu_, sdl, scn, lt, rc, old_t, 
+                                  c, dl_, cn_, old_mu_w, lt_, first, out_, rc_, 
+                                  hadw, ata, so_, havel, tw, allr, omw, fca, 
+                                  sorw, all, old_c, tws, alr, rmq, dl, cn, gen, 
+                                  old_cv, lt_c, rc_c, so, out, ndl, wcn, old, 
+                                  wq, still2, cvr, dw, k, cdw, ck >>
 
 cw_16_d(self) == /\ pc[self] = "cw_16_d"
                  /\ pc' = [pc EXCEPT ![self] = "cw_7_ld"]
                  /\ UNCHANGED << word, queue, cvword, cvq, waiting, rmc, cvmu, 
-                                 wl, wc, sc, nww, nwsem, sem, data, now, note, 
-                                 nreg, held, ret, sres, picked, sleeps, inlock, 
-                                 ip, mw, pool, nalloc, nq, muFreed, refs, 
-                                 nwalive, taint3, stack, lt_l, clear, old_, 
-                                 zlo, zhi, wcnt, lw, lt_u, old_u, tc, nwl, 
-                                 wtrs, wake, wty, sor, cor, rmq_, late, lt_m, 
-                                 old_m, lt_mu, old_mu, lt_mu_, ww, old_mu_, 
-                                 sdl, scn, lt, rc, old_t, c, dl_, cn_, 
-                                 old_mu_w, lt_, first, out_, rc_, hadw, ata, 
-                                 so_, havel, tw, allr, omw, fca, sorw, all, 
-                                 old_c, tws, alr, rmq, dl, cn, gen, old_cv, 
-                                 lt_c, rc_c, so, out, ndl, old, wq, dw, k, cdw, 
-                                 ck >>
+                                 wl, wc, sc, nww, nwsem, nww2, nreg2, sem, 
+                                 data, now, note, nreg, held, ret, sres, 
+                                 picked, sleeps, inlock, ip, mw, pool, nalloc, 
+                                 nq, muFreed, refs, nwalive, taint3, stack, 
+                                 lt_l, clear, old_, zlo, zhi, wcnt, lw, lt_u, 
+                                 old_u, tc, nwl, wtrs, wake, wty, sor, cor, 
+                                 rmq_, late, lt_m, old_m, lt_mu, old_mu, 
+                                 lt_mu_, ww, old_mu_, sdl, scn, lt, rc, old_t, 
+                                 c, dl_, cn_, old_mu_w, lt_, first, out_, rc_, 
+                                 hadw, ata, so_, havel, tw, allr, omw, fca, 
+                                 sorw, all, old_c, tws, alr, rmq, dl, cn, gen, 
+                                 old_cv, lt_c, rc_c, so, out, ndl, wcn, old, 
+                                 wq, still2, cvr, dw, k, cdw, ck >>
 
 cw_17_l(self) == /\ pc[self] = "cw_17_l"
                  /\ IF ~gen[self] /\ ~cvmu[W(self)]
@@ -3447,17 +3529,18 @@ cw_17_l(self) == /\ pc[self] = "cw_17_l"
                             /\ UNCHANGED << lt_l, clear, old_, zlo, zhi, wcnt, 
                                             lw >>
                  /\ UNCHANGED << word, queue, cvword, cvq, waiting, rmc, cvmu, 
-                                 wl, wc, sc, nww, nwsem, sem, data, now, note, 
-                                 nreg, held, ret, sres, picked, sleeps, inlock, 
-                                 ip, mw, pool, nalloc, nq, muFreed, refs, 
-                                 nwalive, taint3, lt_u, old_u, tc, nwl, wtrs, 
-                                 wake, wty, sor, cor, rmq_, late, lt_mu, 
-                                 old_mu, lt_mu_, ww, old_mu_, sdl, scn, lt, rc, 
-                                 old_t, c, dl_, cn_, old_mu_w, lt_, first, 
-                                 out_, rc_, hadw, ata, so_, havel, tw, allr, 
-                                 omw, fca, sorw, all, old_c, tws, alr, rmq, dl, 
-                                 cn, gen, old_cv, lt_c, rc_c, so, out, ndl, 
-                                 old, wq, dw, k, cdw, ck >>
+                                 wl, wc, sc, nww, nwsem, nww2, nreg2, sem, 
+                                 data, now, note, nreg, held, ret, sres, 
+                                 picked, sleeps, inlock, ip, mw, pool, nalloc, 
+                                 nq, muFreed, refs, nwalive, taint3, lt_u, 
+                                 old_u, tc, nwl, wtrs, wake, wty, sor, cor, 
+                                 rmq_, late, lt_mu, old_mu, lt_mu_, ww, 
+                                 old_mu_, sdl, scn, lt, rc, old_t, c, dl_, cn_, 
+                                 old_mu_w, lt_, first, out_, rc_, hadw, ata, 
+                                 so_, havel, tw, allr, omw, fca, sorw, all, 
+                                 old_c, tws, alr, rmq, dl, cn, gen, old_cv, 
+                                 lt_c, rc_c, so, out, ndl, wcn, old, wq, 
+                                 still2, cvr, dw, k, cdw, ck >>
 
 cw_18_l(self) == /\ pc[self] = "cw_18_l"
                  /\ ret' = [ret EXCEPT ![self] = out[self]]
@@ -3472,17 +3555,18 @@ cw_18_l(self) == /\ pc[self] = "cw_18_l"
                  /\ gen' = [gen EXCEPT ![self] = Head(stack[self]).gen]
                  /\ stack' = [stack EXCEPT ![self] = Tail(stack[self])]
                  /\ UNCHANGED << word, queue, cvword, cvq, waiting, rmc, cvmu, 
-                                 wl, wc, sc, nww, nwsem, sem, data, now, note, 
-                                 nreg, held, sres, picked, sleeps, inlock, ip, 
-                                 mw, pool, nalloc, nq, muFreed, refs, nwalive, 
-                                 taint3, lt_l, clear, old_, zlo, zhi, wcnt, lw, 
-                                 lt_u, old_u, tc, nwl, wtrs, wake, wty, sor, 
-                                 cor, rmq_, late, lt_m, old_m, lt_mu, old_mu, 
-                                 lt_mu_, ww, old_mu_, sdl, scn, lt, rc, old_t, 
-                                 c, dl_, cn_, old_mu_w, lt_, first, out_, rc_, 
-                                 hadw, ata, so_, havel, tw, allr, omw, fca, 
-                                 sorw, all, old_c, tws, alr, rmq, ndl, old, wq, 
-                                 dw, k, cdw, ck >>
+                                 wl, wc, sc, nww, nwsem, nww2, nreg2, sem, 
+                                 data, now, note, nreg, held, sres, picked, 
+                                 sleeps, inlock, ip, mw, pool, nalloc, nq, 
+                                 muFreed, refs, nwalive, taint3, lt_l, clear, 
+                                 old_, zlo, zhi, wcnt, lw, lt_u, old_u, tc, 
+                                 nwl, wtrs, wake, wty, sor, cor, rmq_, late, 
+                                 lt_m, old_m, lt_mu, old_mu, lt_mu_, ww, 
+                                 old_mu_, sdl, scn, lt, rc, old_t, c, dl_, cn_, 
+                                 old_mu_w, lt_, first, out_, rc_, hadw, ata, 
+                                 so_, havel, tw, allr, omw, fca, sorw, all, 
+                                 old_c, tws, alr, rmq, ndl, wcn, old, wq, 
+                                 still2, cvr, dw, k, cdw, ck >>
 
 cv_wait(self) == cw_1_st(self) \/ cw_2_ld(self) \/ cw_3_ld(self)
                     \/ cw_4_cas(self) \/ cw_3_d(self) \/ cw_5_ld(self)
@@ -3493,6 +3577,73 @@ cv_wait(self) == cw_1_st(self) \/ cw_2_ld(self) \/ cw_3_ld(self)
                     \/ cw_15_st(self) \/ cw_16_ld(self) \/ cw_16_d(self)
                     \/ cw_17_l(self) \/ cw_18_l(self)
 
+wn_0_l(self) == /\ pc[self] = "wn_0_l"
+                /\ IF ~wcn[self]
+                      THEN /\ IF mw[self] = 0
+                                 THEN /\ IF pool # <<>>
+                                            THEN /\ mw' = [mw EXCEPT ![self] = Head(pool)]
+                                                 /\ pool' = Tail(pool)
+                                                 /\ UNCHANGED nalloc
+                                            ELSE /\ mw' = [mw EXCEPT ![self] = nalloc + 1]
+                                                 /\ nalloc' = nalloc + 1
+                                                 /\ pool' = pool
+                                 ELSE /\ TRUE
+                                      /\ UNCHANGED << mw, pool, nalloc >>
+                           /\ pc' = [pc EXCEPT ![self] = "wn_1_st"]
+                      ELSE /\ pc' = [pc EXCEPT ![self] = "wn_0_r"]
+                           /\ UNCHANGED << mw, pool, nalloc >>
+                /\ UNCHANGED << word, queue, cvword, cvq, waiting, rmc, cvmu, 
+                                wl, wc, sc, nww, nwsem, nww2, nreg2, sem, data, 
+                                now, note, nreg, held, ret, sres, picked, 
+                                sleeps, inlock, ip, nq, muFreed, refs, nwalive, 
+                                taint3, stack, lt_l, clear, old_, zlo, zhi, 
+                                wcnt, lw, lt_u, old_u, tc, nwl, wtrs, wake, 
+                                wty, sor, cor, rmq_, late, lt_m, old_m, lt_mu, 
+                                old_mu, lt_mu_, ww, old_mu_, sdl, scn, lt, rc, 
+                                old_t, c, dl_, cn_, old_mu_w, lt_, first, out_, 
+                                rc_, hadw, ata, so_, havel, tw, allr, omw, fca, 
+                                sorw, all, old_c, tws, alr, rmq, dl, cn, gen, 
+                                old_cv, lt_c, rc_c, so, out, ndl, wcn, old, wq, 
+                                still2, cvr, dw, k, cdw, ck >>
+
+wn_0_r(self) == /\ pc[self] = "wn_0_r"
+                /\ IF note
+                      THEN /\ ret' = [ret EXCEPT ![self] = 1]
+                           /\ pc' = [pc EXCEPT ![self] = Head(stack[self]).pc]
+                           /\ old' = [old EXCEPT ![self] = Head(stack[self]).old]
+                           /\ wq' = [wq EXCEPT ![self] = Head(stack[self]).wq]
+                           /\ still2' = [still2 EXCEPT ![self] = Head(stack[self]).still2]
+                           /\ cvr' = [cvr EXCEPT ![self] = Head(stack[self]).cvr]
+                           /\ ndl' = [ndl EXCEPT ![self] = Head(stack[self]).ndl]
+                           /\ wcn' = [wcn EXCEPT ![self] = Head(stack[self]).wcn]
+                           /\ stack' = [stack EXCEPT ![self] = Tail(stack[self])]
+                           /\ UNCHANGED << mw, pool, nalloc >>
+                      ELSE /\ IF mw[self] = 0
+                                 THEN /\ IF pool # <<>>
+                                            THEN /\ mw' = [mw EXCEPT ![self] = Head(pool)]
+                                                 /\ pool' = Tail(pool)
+                                                 /\ UNCHANGED nalloc
+                                            ELSE /\ mw' = [mw EXCEPT ![self] = nalloc + 1]
+                                                 /\ nalloc' = nalloc + 1
+                                                 /\ pool' = pool
+                                 ELSE /\ TRUE
+                                      /\ UNCHANGED << mw, pool, nalloc >>
+                           /\ pc' = [pc EXCEPT ![self] = "wn_1_st"]
+                           /\ UNCHANGED << ret, stack, ndl, wcn, old, wq, 
+                                           still2, cvr >>
+                /\ UNCHANGED << word, queue, cvword, cvq, waiting, rmc, cvmu, 
+                                wl, wc, sc, nww, nwsem, nww2, nreg2, sem, data, 
+                                now, note, nreg, held, sres, picked, sleeps, 
+                                inlock, ip, nq, muFreed, refs, nwalive, taint3, 
+                                lt_l, clear, old_, zlo, zhi, wcnt, lw, lt_u, 
+                                old_u, tc, nwl, wtrs, wake, wty, sor, cor, 
+                                rmq_, late, lt_m, old_m, lt_mu, old_mu, lt_mu_, 
+                                ww, old_mu_, sdl, scn, lt, rc, old_t, c, dl_, 
+                                cn_, old_mu_w, lt_, first, out_, rc_, hadw, 
+                                ata, so_, havel, tw, allr, omw, fca, sorw, all, 
+                                old_c, tws, alr, rmq, dl, cn, gen, old_cv, 
+                                lt_c, rc_c, so, out, dw, k, cdw, ck >>
+
 wn_1_st(self) == /\ pc[self] = "wn_1_st"
                  /\ nww' = [nww EXCEPT ![self] = 0]
                  /\ picked' = [picked EXCEPT ![self] = FALSE]
@@ -3500,9 +3651,29 @@ wn_1_st(self) == /\ pc[self] = "wn_1_st"
                  /\ nwsem' = [nwsem EXCEPT ![self] = W(self)]
                  /\ pc' = [pc EXCEPT ![self] = "wn_2_ld"]
                  /\ UNCHANGED << word, queue, cvword, cvq, waiting, rmc, cvmu, 
-                                 wl, wc, sc, sem, data, now, note, nreg, held, 
-                                 ret, sres, sleeps, inlock, ip, mw, pool, 
-                                 nalloc, nq, muFreed, refs, taint3, stack, 
+                                 wl, wc, sc, nww2, nreg2, sem, data, now, note, 
+                                 nreg, held, ret, sres, sleeps, inlock, ip, mw, 
+                                 pool, nalloc, nq, muFreed, refs, taint3, 
+                                 stack, lt_l, clear, old_, zlo, zhi, wcnt, lw, 
+                                 lt_u, old_u, tc, nwl, wtrs, wake, wty, sor, 
+                                 cor, rmq_, late, lt_m, old_m, lt_mu, old_mu, 
+                                 lt_mu_, ww, old_mu_, sdl, scn, lt, rc, old_t, 
+                                 c, dl_, cn_, old_mu_w, lt_, first, out_, rc_, 
+                                 hadw, ata, so_, havel, tw, allr, omw, fca, 
+                                 sorw, all, old_c, tws, alr, rmq, dl, cn, gen, 
+                                 old_cv, lt_c, rc_c, so, out, ndl, wcn, old, 
+                                 wq, still2, cvr, dw, k, cdw, ck >>
+
+wn_2_ld(self) == /\ pc[self] = "wn_2_ld"
+                 /\ old' = [old EXCEPT ![self] = cvword]
+                 /\ IF (old'[self] & CVSPIN) # 0
+                       THEN /\ pc' = [pc EXCEPT ![self] = "wn_2_d"]
+                       ELSE /\ pc' = [pc EXCEPT ![self] = "wn_3_cas"]
+                 /\ UNCHANGED << word, queue, cvword, cvq, waiting, rmc, cvmu, 
+                                 wl, wc, sc, nww, nwsem, nww2, nreg2, sem, 
+                                 data, now, note, nreg, held, ret, sres, 
+                                 picked, sleeps, inlock, ip, mw, pool, nalloc, 
+                                 nq, muFreed, refs, nwalive, taint3, stack, 
                                  lt_l, clear, old_, zlo, zhi, wcnt, lw, lt_u, 
                                  old_u, tc, nwl, wtrs, wake, wty, sor, cor, 
                                  rmq_, late, lt_m, old_m, lt_mu, old_mu, 
@@ -3510,14 +3681,129 @@ wn_1_st(self) == /\ pc[self] = "wn_1_st"
                                  c, dl_, cn_, old_mu_w, lt_, first, out_, rc_, 
                                  hadw, ata, so_, havel, tw, allr, omw, fca, 
                                  sorw, all, old_c, tws, alr, rmq, dl, cn, gen, 
-                                 old_cv, lt_c, rc_c, so, out, ndl, old, wq, dw, 
-                                 k, cdw, ck >>
+                                 old_cv, lt_c, rc_c, so, out, ndl, wcn, wq, 
+                                 still2, cvr, dw, k, cdw, ck >>
 
-wn_2_ld(self) == /\ pc[self] = "wn_2_ld"
-                 /\ old' = [old EXCEPT ![self] = cvword]
-                 /\ IF (old'[self] & CVSPIN) # 0
-                       THEN /\ pc' = [pc EXCEPT ![self] = "wn_2_d"]
-                       ELSE /\ pc' = [pc EXCEPT ![self] = "wn_3_cas"]
+wn_3_cas(self) == /\ pc[self] = "wn_3_cas"
+                  /\ IF cvword = old[self]
+                        THEN /\ cvword' = old[self] | CVSPIN
+                             /\ cvq' = Append(cvq, -self)
+                             /\ nq' = (IF nq < N THEN nq + 1 ELSE nq)
+                             /\ pc' = [pc EXCEPT ![self] = "wn_4_st"]
+                        ELSE /\ pc' = [pc EXCEPT ![self] = "wn_2_d"]
+                             /\ UNCHANGED << cvword, cvq, nq >>
+                  /\ UNCHANGED << word, queue, waiting, rmc, cvmu, wl, wc, sc, 
+                                  nww, nwsem, nww2, nreg2, sem, data, now, 
+                                  note, nreg, held, ret, sres, picked, sleeps, 
+                                  inlock, ip, mw, pool, nalloc, muFreed, refs, 
+                                  nwalive, taint3, stack, lt_l, clear, old_, 
+                                  zlo, zhi, wcnt, lw, lt_u, old_u, tc, nwl, 
+                                  wtrs, wake, wty, sor, cor, rmq_, late, lt_m, 
+                                  old_m, lt_mu, old_mu, lt_mu_, ww, old_mu_, 
+                                  sdl, scn, lt, rc, old_t, c, dl_, cn_, 
+                                  old_mu_w, lt_, first, out_, rc_, hadw, ata, 
+                                  so_, havel, tw, allr, omw, fca, sorw, all, 
+                                  old_c, tws, alr, rmq, dl, cn, gen, old_cv, 
+                                  lt_c, rc_c, so, out, ndl, wcn, old, wq, 
+                                  still2, cvr, dw, k, cdw, ck >>
+
+wn_2_d(self) == /\ pc[self] = "wn_2_d"
+                /\ pc' = [pc EXCEPT ![self] = "wn_2_ld"]
+                /\ UNCHANGED << word, queue, cvword, cvq, waiting, rmc, cvmu, 
+                                wl, wc, sc, nww, nwsem, nww2, nreg2, sem, data, 
+                                now, note, nreg, held, ret, sres, picked, 
+                                sleeps, inlock, ip, mw, pool, nalloc, nq, 
+                                muFreed, refs, nwalive, taint3, stack, lt_l, 
+                                clear, old_, zlo, zhi, wcnt, lw, lt_u, old_u, 
+                                tc, nwl, wtrs, wake, wty, sor, cor, rmq_, late, 
+                                lt_m, old_m, lt_mu, old_mu, lt_mu_, ww, 
+                                old_mu_, sdl, scn, lt, rc, old_t, c, dl_, cn_, 
+                                old_mu_w, lt_, first, out_, rc_, hadw, ata, 
+                                so_, havel, tw, allr, omw, fca, sorw, all, 
+                                old_c, tws, alr, rmq, dl, cn, gen, old_cv, 
+                                lt_c, rc_c, so, out, ndl, wcn, old, wq, still2, 
+                                cvr, dw, k, cdw, ck >>
+
+wn_4_st(self) == /\ pc[self] = "wn_4_st"
+                 /\ nww' = [nww EXCEPT ![self] = 1]
+                 /\ pc' = [pc EXCEPT ![self] = "wn_5_st"]
+                 /\ UNCHANGED << word, queue, cvword, cvq, waiting, rmc, cvmu, 
+                                 wl, wc, sc, nwsem, nww2, nreg2, sem, data, 
+                                 now, note, nreg, held, ret, sres, picked, 
+                                 sleeps, inlock, ip, mw, pool, nalloc, nq, 
+                                 muFreed, refs, nwalive, taint3, stack, lt_l, 
+                                 clear, old_, zlo, zhi, wcnt, lw, lt_u, old_u, 
+                                 tc, nwl, wtrs, wake, wty, sor, cor, rmq_, 
+                                 late, lt_m, old_m, lt_mu, old_mu, lt_mu_, ww, 
+                                 old_mu_, sdl, scn, lt, rc, old_t, c, dl_, cn_, 
+                                 old_mu_w, lt_, first, out_, rc_, hadw, ata, 
+                                 so_, havel, tw, allr, omw, fca, sorw, all, 
+                                 old_c, tws, alr, rmq, dl, cn, gen, old_cv, 
+                                 lt_c, rc_c, so, out, ndl, wcn, old, wq, 
+                                 still2, cvr, dw, k, cdw, ck >>
+
+wn_5_st(self) == /\ pc[self] = "wn_5_st"
+                 /\ cvword' = old[self] | CVNE
+                 /\ pc' = [pc EXCEPT ![self] = "wn_5_l"]
+                 /\ UNCHANGED << word, queue, cvq, waiting, rmc, cvmu, wl, wc, 
+                                 sc, nww, nwsem, nww2, nreg2, sem, data, now, 
+                                 note, nreg, held, ret, sres, picked, sleeps, 
+                                 inlock, ip, mw, pool, nalloc, nq, muFreed, 
+                                 refs, nwalive, taint3, stack, lt_l, clear, 
+                                 old_, zlo, zhi, wcnt, lw, lt_u, old_u, tc, 
+                                 nwl, wtrs, wake, wty, sor, cor, rmq_, late, 
+                                 lt_m, old_m, lt_mu, old_mu, lt_mu_, ww, 
+                                 old_mu_, sdl, scn, lt, rc, old_t, c, dl_, cn_, 
+                                 old_mu_w, lt_, first, out_, rc_, hadw, ata, 
+                                 so_, havel, tw, allr, omw, fca, sorw, all, 
+                                 old_c, tws, alr, rmq, dl, cn, gen, old_cv, 
+                                 lt_c, rc_c, so, out, ndl, wcn, old, wq, 
+                                 still2, cvr, dw, k, cdw, ck >>
+
+wn_5_l(self) == /\ pc[self] = "wn_5_l"
+                /\ IF ~wcn[self]
+                      THEN /\ pc' = [pc EXCEPT ![self] = "wn_5u_l"]
+                      ELSE /\ pc' = [pc EXCEPT ![self] = "wn_5a_st"]
+                /\ UNCHANGED << word, queue, cvword, cvq, waiting, rmc, cvmu, 
+                                wl, wc, sc, nww, nwsem, nww2, nreg2, sem, data, 
+                                now, note, nreg, held, ret, sres, picked, 
+                                sleeps, inlock, ip, mw, pool, nalloc, nq, 
+                                muFreed, refs, nwalive, taint3, stack, lt_l, 
+                                clear, old_, zlo, zhi, wcnt, lw, lt_u, old_u, 
+                                tc, nwl, wtrs, wake, wty, sor, cor, rmq_, late, 
+                                lt_m, old_m, lt_mu, old_mu, lt_mu_, ww, 
+                                old_mu_, sdl, scn, lt, rc, old_t, c, dl_, cn_, 
+                                old_mu_w, lt_, first, out_, rc_, hadw, ata, 
+                                so_, havel, tw, allr, omw, fca, sorw, all, 
+                                old_c, tws, alr, rmq, dl, cn, gen, old_cv, 
+                                lt_c, rc_c, so, out, ndl, wcn, old, wq, still2, 
+                                cvr, dw, k, cdw, ck >>
+
+wn_5a_st(self) == /\ pc[self] = "wn_5a_st"
+                  /\ nww2' = [nww2 EXCEPT ![self] = 0]
+                  /\ pc' = [pc EXCEPT ![self] = "wn_5b_r"]
+                  /\ UNCHANGED << word, queue, cvword, cvq, waiting, rmc, cvmu, 
+                                  wl, wc, sc, nww, nwsem, nreg2, sem, data, 
+                                  now, note, nreg, held, ret, sres, picked, 
+                                  sleeps, inlock, ip, mw, pool, nalloc, nq, 
+                                  muFreed, refs, nwalive, taint3, stack, lt_l, 
+                                  clear, old_, zlo, zhi, wcnt, lw, lt_u, old_u, 
+                                  tc, nwl, wtrs, wake, wty, sor, cor, rmq_, 
+                                  late, lt_m, old_m, lt_mu, old_mu, lt_mu_, ww, 
+                                  old_mu_, sdl, scn, lt, rc, old_t, c, dl_, 
+                                  cn_, old_mu_w, lt_, first, out_, rc_, hadw, 
+                                  ata, so_, havel, tw, allr, omw, fca, sorw, 
+                                  all, old_c, tws, alr, rmq, dl, cn, gen, 
+                                  old_cv, lt_c, rc_c, so, out, ndl, wcn, old, 
+                                  wq, still2, cvr, dw, k, cdw, ck >>
+
+wn_5b_r(self) == /\ pc[self] = "wn_5b_r"
+                 /\ IF ~note
+                       THEN /\ nww2' = [nww2 EXCEPT ![self] = 1]
+                            /\ nreg2' = (nreg2 \cup {self})
+                       ELSE /\ TRUE
+                            /\ UNCHANGED << nww2, nreg2 >>
+                 /\ pc' = [pc EXCEPT ![self] = "wn_5u_l"]
                  /\ UNCHANGED << word, queue, cvword, cvq, waiting, rmc, cvmu, 
                                  wl, wc, sc, nww, nwsem, sem, data, now, note, 
                                  nreg, held, ret, sres, picked, sleeps, inlock, 
@@ -3530,65 +3816,10 @@ wn_2_ld(self) == /\ pc[self] = "wn_2_ld"
                                  old_mu_w, lt_, first, out_, rc_, hadw, ata, 
                                  so_, havel, tw, allr, omw, fca, sorw, all, 
                                  old_c, tws, alr, rmq, dl, cn, gen, old_cv, 
-                                 lt_c, rc_c, so, out, ndl, wq, dw, k, cdw, ck >>
+                                 lt_c, rc_c, so, out, ndl, wcn, old, wq, 
+                                 still2, cvr, dw, k, cdw, ck >>
 
-wn_3_cas(self) == /\ pc[self] = "wn_3_cas"
-                  /\ IF cvword = old[self]
-                        THEN /\ cvword' = old[self] | CVSPIN
-                             /\ cvq' = Append(cvq, -self)
-                             /\ nq' = (IF nq < N THEN nq + 1 ELSE nq)
-                             /\ pc' = [pc EXCEPT ![self] = "wn_4_st"]
-                        ELSE /\ pc' = [pc EXCEPT ![self] = "wn_2_d"]
-                             /\ UNCHANGED << cvword, cvq, nq >>
-                  /\ UNCHANGED << word, queue, waiting, rmc, cvmu, wl, wc, sc, 
-                                  nww, nwsem, sem, data, now, note, nreg, held, 
-                                  ret, sres, picked, sleeps, inlock, ip, mw, 
-                                  pool, nalloc, muFreed, refs, nwalive, taint3, 
-                                  stack, lt_l, clear, old_, zlo, zhi, wcnt, lw, 
-                                  lt_u, old_u, tc, nwl, wtrs, wake, wty, sor, 
-                                  cor, rmq_, late, lt_m, old_m, lt_mu, old_mu, 
-                                  lt_mu_, ww, old_mu_, sdl, scn, lt, rc, old_t, 
-                                  c, dl_, cn_, old_mu_w, lt_, first, out_, rc_, 
-                                  hadw, ata, so_, havel, tw, allr, omw, fca, 
-                                  sorw, all, old_c, tws, alr, rmq, dl, cn, gen, 
-                                  old_cv, lt_c, rc_c, so, out, ndl, old, wq, 
-                                  dw, k, cdw, ck >>
-
-wn_2_d(self) == /\ pc[self] = "wn_2_d"
-                /\ pc' = [pc EXCEPT ![self] = "wn_2_ld"]
-                /\ UNCHANGED << word, queue, cvword, cvq, waiting, rmc, cvmu, 
-                                wl, wc, sc, nww, nwsem, sem, data, now, note, 
-                                nreg, held, ret, sres, picked, sleeps, inlock, 
-                                ip, mw, pool, nalloc, nq, muFreed, refs, 
-                                nwalive, taint3, stack, lt_l, clear, old_, zlo, 
-                                zhi, wcnt, lw, lt_u, old_u, tc, nwl, wtrs, 
-                                wake, wty, sor, cor, rmq_, late, lt_m, old_m, 
-                                lt_mu, old_mu, lt_mu_, ww, old_mu_, sdl, scn, 
-                                lt, rc, old_t, c, dl_, cn_, old_mu_w, lt_, 
-                                first, out_, rc_, hadw, ata, so_, havel, tw, 
-                                allr, omw, fca, sorw, all, old_c, tws, alr, 
-                                rmq, dl, cn, gen, old_cv, lt_c, rc_c, so, out, 
-                                ndl, old, wq, dw, k, cdw, ck >>
-
-wn_4_st(self) == /\ pc[self] = "wn_4_st"
-                 /\ nww' = [nww EXCEPT ![self] = 1]
-                 /\ pc' = [pc EXCEPT ![self] = "wn_5_st"]
-                 /\ UNCHANGED << word, queue, cvword, cvq, waiting, rmc, cvmu, 
-                                 wl, wc, sc, nwsem, sem, data, now, note, nreg, 
-                                 held, ret, sres, picked, sleeps, inlock, ip, 
-                                 mw, pool, nalloc, nq, muFreed, refs, nwalive, 
-                                 taint3, stack, lt_l, clear, old_, zlo, zhi, 
-                                 wcnt, lw, lt_u, old_u, tc, nwl, wtrs, wake, 
-                                 wty, sor, cor, rmq_, late, lt_m, old_m, lt_mu, 
-                                 old_mu, lt_mu_, ww, old_mu_, sdl, scn, lt, rc, 
-                                 old_t, c, dl_, cn_, old_mu_w, lt_, first, 
-                                 out_, rc_, hadw, ata, so_, havel, tw, allr, 
-                                 omw, fca, sorw, all, old_c, tws, alr, rmq, dl, 
-                                 cn, gen, old_cv, lt_c, rc_c, so, out, ndl, 
-                                 old, wq, dw, k, cdw, ck >>
-
-wn_5_st(self) == /\ pc[self] = "wn_5_st"
-                 /\ cvword' = old[self] | CVNE
+wn_5u_l(self) == /\ pc[self] = "wn_5u_l"
                  /\ held' = [held EXCEPT ![self] = 0]
                  /\ /\ lt_mu_' = [lt_mu_ EXCEPT ![self] = 1]
                     /\ stack' = [stack EXCEPT ![self] = << [ procedure |->  "mu_unlock",
@@ -3600,38 +3831,77 @@ wn_5_st(self) == /\ pc[self] = "wn_5_st"
                     /\ ww' = [ww EXCEPT ![self] = FALSE]
                  /\ old_mu_' = [old_mu_ EXCEPT ![self] = 0]
                  /\ pc' = [pc EXCEPT ![self] = "ul_1_cas"]
-                 /\ UNCHANGED << word, queue, cvq, waiting, rmc, cvmu, wl, wc, 
-                                 sc, nww, nwsem, sem, data, now, note, nreg, 
-                                 ret, sres, picked, sleeps, inlock, ip, mw, 
-                                 pool, nalloc, nq, muFreed, refs, nwalive, 
-                                 taint3, lt_l, clear, old_, zlo, zhi, wcnt, lw, 
-                                 lt_u, old_u, tc, nwl, wtrs, wake, wty, sor, 
-                                 cor, rmq_, late, lt_m, old_m, lt_mu, old_mu, 
-                                 sdl, scn, lt, rc, old_t, c, dl_, cn_, 
-                                 old_mu_w, lt_, first, out_, rc_, hadw, ata, 
-                                 so_, havel, tw, allr, omw, fca, sorw, all, 
-                                 old_c, tws, alr, rmq, dl, cn, gen, old_cv, 
-                                 lt_c, rc_c, so, out, ndl, old, wq, dw, k, cdw, 
-                                 ck >>
+                 /\ UNCHANGED << word, queue, cvword, cvq, waiting, rmc, cvmu, 
+                                 wl, wc, sc, nww, nwsem, nww2, nreg2, sem, 
+                                 data, now, note, nreg, ret, sres, picked, 
+                                 sleeps, inlock, ip, mw, pool, nalloc, nq, 
+                                 muFreed, refs, nwalive, taint3, lt_l, clear, 
+                                 old_, zlo, zhi, wcnt, lw, lt_u, old_u, tc, 
+                                 nwl, wtrs, wake, wty, sor, cor, rmq_, late, 
+                                 lt_m, old_m, lt_mu, old_mu, sdl, scn, lt, rc, 
+                                 old_t, c, dl_, cn_, old_mu_w, lt_, first, 
+                                 out_, rc_, hadw, ata, so_, havel, tw, allr, 
+                                 omw, fca, sorw, all, old_c, tws, alr, rmq, dl, 
+                                 cn, gen, old_cv, lt_c, rc_c, so, out, ndl, 
+                                 wcn, old, wq, still2, cvr, dw, k, cdw, ck >>
 
 wn_6_ld(self) == /\ pc[self] = "wn_6_ld"
-                 /\ IF nww[self] = 0
+                 /\ cvr' = [cvr EXCEPT ![self] = (nww[self] = 0)]
+                 /\ pc' = [pc EXCEPT ![self] = "wn_6_l"]
+                 /\ UNCHANGED << word, queue, cvword, cvq, waiting, rmc, cvmu, 
+                                 wl, wc, sc, nww, nwsem, nww2, nreg2, sem, 
+                                 data, now, note, nreg, held, ret, sres, 
+                                 picked, sleeps, inlock, ip, mw, pool, nalloc, 
+                                 nq, muFreed, refs, nwalive, taint3, stack, 
+                                 lt_l, clear, old_, zlo, zhi, wcnt, lw, lt_u, 
+                                 old_u, tc, nwl, wtrs, wake, wty, sor, cor, 
+                                 rmq_, late, lt_m, old_m, lt_mu, old_mu, 
+                                 lt_mu_, ww, old_mu_, sdl, scn, lt, rc, old_t, 
+                                 c, dl_, cn_, old_mu_w, lt_, first, out_, rc_, 
+                                 hadw, ata, so_, havel, tw, allr, omw, fca, 
+                                 sorw, all, old_c, tws, alr, rmq, dl, cn, gen, 
+                                 old_cv, lt_c, rc_c, so, out, ndl, wcn, old, 
+                                 wq, still2, dw, k, cdw, ck >>
+
+wn_6_l(self) == /\ pc[self] = "wn_6_l"
+                /\ IF ~wcn[self]
+                      THEN /\ IF cvr[self]
+                                 THEN /\ pc' = [pc EXCEPT ![self] = "wn_8_ld"]
+                                 ELSE /\ pc' = [pc EXCEPT ![self] = "wn_7_pd"]
+                      ELSE /\ pc' = [pc EXCEPT ![self] = "wn_6a_r"]
+                /\ UNCHANGED << word, queue, cvword, cvq, waiting, rmc, cvmu, 
+                                wl, wc, sc, nww, nwsem, nww2, nreg2, sem, data, 
+                                now, note, nreg, held, ret, sres, picked, 
+                                sleeps, inlock, ip, mw, pool, nalloc, nq, 
+                                muFreed, refs, nwalive, taint3, stack, lt_l, 
+                                clear, old_, zlo, zhi, wcnt, lw, lt_u, old_u, 
+                                tc, nwl, wtrs, wake, wty, sor, cor, rmq_, late, 
+                                lt_m, old_m, lt_mu, old_mu, lt_mu_, ww, 
+                                old_mu_, sdl, scn, lt, rc, old_t, c, dl_, cn_, 
+                                old_mu_w, lt_, first, out_, rc_, hadw, ata, 
+                                so_, havel, tw, allr, omw, fca, sorw, all, 
+                                old_c, tws, alr, rmq, dl, cn, gen, old_cv, 
+                                lt_c, rc_c, so, out, ndl, wcn, old, wq, still2, 
+                                cvr, dw, k, cdw, ck >>
+
+wn_6a_r(self) == /\ pc[self] = "wn_6a_r"
+                 /\ IF cvr[self] \/ note
                        THEN /\ pc' = [pc EXCEPT ![self] = "wn_8_ld"]
                        ELSE /\ pc' = [pc EXCEPT ![self] = "wn_7_pd"]
                  /\ UNCHANGED << word, queue, cvword, cvq, waiting, rmc, cvmu, 
-                                 wl, wc, sc, nww, nwsem, sem, data, now, note, 
-                                 nreg, held, ret, sres, picked, sleeps, inlock, 
-                                 ip, mw, pool, nalloc, nq, muFreed, refs, 
-                                 nwalive, taint3, stack, lt_l, clear, old_, 
-                                 zlo, zhi, wcnt, lw, lt_u, old_u, tc, nwl, 
-                                 wtrs, wake, wty, sor, cor, rmq_, late, lt_m, 
-                                 old_m, lt_mu, old_mu, lt_mu_, ww, old_mu_, 
-                                 sdl, scn, lt, rc, old_t, c, dl_, cn_, 
-                                 old_mu_w, lt_, first, out_, rc_, hadw, ata, 
-                                 so_, havel, tw, allr, omw, fca, sorw, all, 
-                                 old_c, tws, alr, rmq, dl, cn, gen, old_cv, 
-                                 lt_c, rc_c, so, out, ndl, old, wq, dw, k, cdw, 
-                                 ck >>
+                                 wl, wc, sc, nww, nwsem, nww2, nreg2, sem, 
+                                 data, now, note, nreg, held, ret, sres, 
+                                 picked, sleeps, inlock, ip, mw, pool, nalloc, 
+                                 nq, muFreed, refs, nwalive, taint3, stack, 
+                                 lt_l, clear, old_, zlo, zhi, wcnt, lw, lt_u, 
+                                 old_u, tc, nwl, wtrs, wake, wty, sor, cor, 
+                                 rmq_, late, lt_m, old_m, lt_mu, old_mu, 
+                                 lt_mu_, ww, old_mu_, sdl, scn, lt, rc, old_t, 
+                                 c, dl_, cn_, old_mu_w, lt_, first, out_, rc_, 
+                                 hadw, ata, so_, havel, tw, allr, omw, fca, 
+                                 sorw, all, old_c, tws, alr, rmq, dl, cn, gen, 
+                                 old_cv, lt_c, rc_c, so, out, ndl, wcn, old, 
+                                 wq, still2, cvr, dw, k, cdw, ck >>
 
 wn_7_pd(self) == /\ pc[self] = "wn_7_pd"
                  /\ sem[W(self)] > 0 \/ Expired(ndl[self], now)
@@ -3641,18 +3911,19 @@ wn_7_pd(self) == /\ pc[self] = "wn_7_pd"
                        ELSE /\ pc' = [pc EXCEPT ![self] = "wn_8_ld"]
                             /\ sem' = sem
                  /\ UNCHANGED << word, queue, cvword, cvq, waiting, rmc, cvmu, 
-                                 wl, wc, sc, nww, nwsem, data, now, note, nreg, 
-                                 held, ret, sres, picked, sleeps, inlock, ip, 
-                                 mw, pool, nalloc, nq, muFreed, refs, nwalive, 
-                                 taint3, stack, lt_l, clear, old_, zlo, zhi, 
-                                 wcnt, lw, lt_u, old_u, tc, nwl, wtrs, wake, 
-                                 wty, sor, cor, rmq_, late, lt_m, old_m, lt_mu, 
-                                 old_mu, lt_mu_, ww, old_mu_, sdl, scn, lt, rc, 
-                                 old_t, c, dl_, cn_, old_mu_w, lt_, first, 
-                                 out_, rc_, hadw, ata, so_, havel, tw, allr, 
-                                 omw, fca, sorw, all, old_c, tws, alr, rmq, dl, 
-                                 cn, gen, old_cv, lt_c, rc_c, so, out, ndl, 
-                                 old, wq, dw, k, cdw, ck >>
+                                 wl, wc, sc, nww, nwsem, nww2, nreg2, data, 
+                                 now, note, nreg, held, ret, sres, picked, 
+                                 sleeps, inlock, ip, mw, pool, nalloc, nq, 
+                                 muFreed, refs, nwalive, taint3, stack, lt_l, 
+                                 clear, old_, zlo, zhi, wcnt, lw, lt_u, old_u, 
+                                 tc, nwl, wtrs, wake, wty, sor, cor, rmq_, 
+                                 late, lt_m, old_m, lt_mu, old_mu, lt_mu_, ww, 
+                                 old_mu_, sdl, scn, lt, rc, old_t, c, dl_, cn_, 
+                                 old_mu_w, lt_, first, out_, rc_, hadw, ata, 
+                                 so_, havel, tw, allr, omw, fca, sorw, all, 
+                                 old_c, tws, alr, rmq, dl, cn, gen, old_cv, 
+                                 lt_c, rc_c, so, out, ndl, wcn, old, wq, 
+                                 still2, cvr, dw, k, cdw, ck >>
 
 wn_8_ld(self) == /\ pc[self] = "wn_8_ld"
                  /\ old' = [old EXCEPT ![self] = cvword]
@@ -3660,18 +3931,19 @@ wn_8_ld(self) == /\ pc[self] = "wn_8_ld"
                        THEN /\ pc' = [pc EXCEPT ![self] = "wn_8_d"]
                        ELSE /\ pc' = [pc EXCEPT ![self] = "wn_9_cas"]
                  /\ UNCHANGED << word, queue, cvword, cvq, waiting, rmc, cvmu, 
-                                 wl, wc, sc, nww, nwsem, sem, data, now, note, 
-                                 nreg, held, ret, sres, picked, sleeps, inlock, 
-                                 ip, mw, pool, nalloc, nq, muFreed, refs, 
-                                 nwalive, taint3, stack, lt_l, clear, old_, 
-                                 zlo, zhi, wcnt, lw, lt_u, old_u, tc, nwl, 
-                                 wtrs, wake, wty, sor, cor, rmq_, late, lt_m, 
-                                 old_m, lt_mu, old_mu, lt_mu_, ww, old_mu_, 
-                                 sdl, scn, lt, rc, old_t, c, dl_, cn_, 
-                                 old_mu_w, lt_, first, out_, rc_, hadw, ata, 
-                                 so_, havel, tw, allr, omw, fca, sorw, all, 
-                                 old_c, tws, alr, rmq, dl, cn, gen, old_cv, 
-                                 lt_c, rc_c, so, out, ndl, wq, dw, k, cdw, ck >>
+                                 wl, wc, sc, nww, nwsem, nww2, nreg2, sem, 
+                                 data, now, note, nreg, held, ret, sres, 
+                                 picked, sleeps, inlock, ip, mw, pool, nalloc, 
+                                 nq, muFreed, refs, nwalive, taint3, stack, 
+                                 lt_l, clear, old_, zlo, zhi, wcnt, lw, lt_u, 
+                                 old_u, tc, nwl, wtrs, wake, wty, sor, cor, 
+                                 rmq_, late, lt_m, old_m, lt_mu, old_mu, 
+                                 lt_mu_, ww, old_mu_, sdl, scn, lt, rc, old_t, 
+                                 c, dl_, cn_, old_mu_w, lt_, first, out_, rc_, 
+                                 hadw, ata, so_, havel, tw, allr, omw, fca, 
+                                 sorw, all, old_c, tws, alr, rmq, dl, cn, gen, 
+                                 old_cv, lt_c, rc_c, so, out, ndl, wcn, wq, 
+                                 still2, cvr, dw, k, cdw, ck >>
 
 wn_9_cas(self) == /\ pc[self] = "wn_9_cas"
                   /\ IF cvword = old[self]
@@ -3680,34 +3952,36 @@ wn_9_cas(self) == /\ pc[self] = "wn_9_cas"
                         ELSE /\ pc' = [pc EXCEPT ![self] = "wn_8_d"]
                              /\ UNCHANGED cvword
                   /\ UNCHANGED << word, queue, cvq, waiting, rmc, cvmu, wl, wc, 
-                                  sc, nww, nwsem, sem, data, now, note, nreg, 
-                                  held, ret, sres, picked, sleeps, inlock, ip, 
-                                  mw, pool, nalloc, nq, muFreed, refs, nwalive, 
-                                  taint3, stack, lt_l, clear, old_, zlo, zhi, 
-                                  wcnt, lw, lt_u, old_u, tc, nwl, wtrs, wake, 
-                                  wty, sor, cor, rmq_, late, lt_m, old_m, 
-                                  lt_mu, old_mu, lt_mu_, ww, old_mu_, sdl, scn, 
-                                  lt, rc, old_t, c, dl_, cn_, old_mu_w, lt_, 
-                                  first, out_, rc_, hadw, ata, so_, havel, tw, 
-                                  allr, omw, fca, sorw, all, old_c, tws, alr, 
-                                  rmq, dl, cn, gen, old_cv, lt_c, rc_c, so, 
-                                  out, ndl, old, wq, dw, k, cdw, ck >>
+                                  sc, nww, nwsem, nww2, nreg2, sem, data, now, 
+                                  note, nreg, held, ret, sres, picked, sleeps, 
+                                  inlock, ip, mw, pool, nalloc, nq, muFreed, 
+                                  refs, nwalive, taint3, stack, lt_l, clear, 
+                                  old_, zlo, zhi, wcnt, lw, lt_u, old_u, tc, 
+                                  nwl, wtrs, wake, wty, sor, cor, rmq_, late, 
+                                  lt_m, old_m, lt_mu, old_mu, lt_mu_, ww, 
+                                  old_mu_, sdl, scn, lt, rc, old_t, c, dl_, 
+                                  cn_, old_mu_w, lt_, first, out_, rc_, hadw, 
+                                  ata, so_, havel, tw, allr, omw, fca, sorw, 
+                                  all, old_c, tws, alr, rmq, dl, cn, gen, 
+                                  old_cv, lt_c, rc_c, so, out, ndl, wcn, old, 
+                                  wq, still2, cvr, dw, k, cdw, ck >>
 
 wn_8_d(self) == /\ pc[self] = "wn_8_d"
                 /\ pc' = [pc EXCEPT ![self] = "wn_8_ld"]
                 /\ UNCHANGED << word, queue, cvword, cvq, waiting, rmc, cvmu, 
-                                wl, wc, sc, nww, nwsem, sem, data, now, note, 
-                                nreg, held, ret, sres, picked, sleeps, inlock, 
-                                ip, mw, pool, nalloc, nq, muFreed, refs, 
-                                nwalive, taint3, stack, lt_l, clear, old_, zlo, 
-                                zhi, wcnt, lw, lt_u, old_u, tc, nwl, wtrs, 
-                                wake, wty, sor, cor, rmq_, late, lt_m, old_m, 
-                                lt_mu, old_mu, lt_mu_, ww, old_mu_, sdl, scn, 
-                                lt, rc, old_t, c, dl_, cn_, old_mu_w, lt_, 
-                                first, out_, rc_, hadw, ata, so_, havel, tw, 
-                                allr, omw, fca, sorw, all, old_c, tws, alr, 
-                                rmq, dl, cn, gen, old_cv, lt_c, rc_c, so, out, 
-                                ndl, old, wq, dw, k, cdw, ck >>
+                                wl, wc, sc, nww, nwsem, nww2, nreg2, sem, data, 
+                                now, note, nreg, held, ret, sres, picked, 
+                                sleeps, inlock, ip, mw, pool, nalloc, nq, 
+                                muFreed, refs, nwalive, taint3, stack, lt_l, 
+                                clear, old_, zlo, zhi, wcnt, lw, lt_u, old_u, 
+                                tc, nwl, wtrs, wake, wty, sor, cor, rmq_, late, 
+                                lt_m, old_m, lt_mu, old_mu, lt_mu_, ww, 
+                                old_mu_, sdl, scn, lt, rc, old_t, c, dl_, cn_, 
+                                old_mu_w, lt_, first, out_, rc_, hadw, ata, 
+                                so_, havel, tw, allr, omw, fca, sorw, all, 
+                                old_c, tws, alr, rmq, dl, cn, gen, old_cv, 
+                                lt_c, rc_c, so, out, ndl, wcn, old, wq, still2, 
+                                cvr, dw, k, cdw, ck >>
 
 wn_10_ld(self) == /\ pc[self] = "wn_10_ld"
                   /\ IF nww[self] = 0
@@ -3719,24 +3993,82 @@ wn_10_ld(self) == /\ pc[self] = "wn_10_ld"
                              /\ wq' = [wq EXCEPT ![self] = TRUE]
                              /\ pc' = [pc EXCEPT ![self] = "wn_11_st"]
                   /\ UNCHANGED << word, queue, cvword, waiting, rmc, cvmu, wl, 
-                                  wc, sc, nww, nwsem, sem, data, now, note, 
-                                  nreg, held, ret, sres, picked, sleeps, 
-                                  inlock, ip, mw, pool, nalloc, nq, muFreed, 
-                                  refs, nwalive, stack, lt_l, clear, old_, zlo, 
-                                  zhi, wcnt, lw, lt_u, old_u, tc, nwl, wtrs, 
-                                  wake, wty, sor, cor, rmq_, late, lt_m, old_m, 
-                                  lt_mu, old_mu, lt_mu_, ww, old_mu_, sdl, scn, 
-                                  lt, rc, old_t, c, dl_, cn_, old_mu_w, lt_, 
-                                  first, out_, rc_, hadw, ata, so_, havel, tw, 
-                                  allr, omw, fca, sorw, all, old_c, tws, alr, 
-                                  rmq, dl, cn, gen, old_cv, lt_c, rc_c, so, 
-                                  out, ndl, old, dw, k, cdw, ck >>
+                                  wc, sc, nww, nwsem, nww2, nreg2, sem, data, 
+                                  now, note, nreg, held, ret, sres, picked, 
+                                  sleeps, inlock, ip, mw, pool, nalloc, nq, 
+                                  muFreed, refs, nwalive, stack, lt_l, clear, 
+                                  old_, zlo, zhi, wcnt, lw, lt_u, old_u, tc, 
+                                  nwl, wtrs, wake, wty, sor, cor, rmq_, late, 
+                                  lt_m, old_m, lt_mu, old_mu, lt_mu_, ww, 
+                                  old_mu_, sdl, scn, lt, rc, old_t, c, dl_, 
+                                  cn_, old_mu_w, lt_, first, out_, rc_, hadw, 
+                                  ata, so_, havel, tw, allr, omw, fca, sorw, 
+                                  all, old_c, tws, alr, rmq, dl, cn, gen, 
+                                  old_cv, lt_c, rc_c, so, out, ndl, wcn, old, 
+                                  still2, cvr, dw, k, cdw, ck >>
 
 wn_11_st(self) == /\ pc[self] = "wn_11_st"
                   /\ nww' = [nww EXCEPT ![self] = 0]
                   /\ pc' = [pc EXCEPT ![self] = "wn_12_st"]
                   /\ UNCHANGED << word, queue, cvword, cvq, waiting, rmc, cvmu, 
-                                  wl, wc, sc, nwsem, sem, data, now, note, 
+                                  wl, wc, sc, nwsem, nww2, nreg2, sem, data, 
+                                  now, note, nreg, held, ret, sres, picked, 
+                                  sleeps, inlock, ip, mw, pool, nalloc, nq, 
+                                  muFreed, refs, nwalive, taint3, stack, lt_l, 
+                                  clear, old_, zlo, zhi, wcnt, lw, lt_u, old_u, 
+                                  tc, nwl, wtrs, wake, wty, sor, cor, rmq_, 
+                                  late, lt_m, old_m, lt_mu, old_mu, lt_mu_, ww, 
+                                  old_mu_, sdl, scn, lt, rc, old_t, c, dl_, 
+                                  cn_, old_mu_w, lt_, first, out_, rc_, hadw, 
+                                  ata, so_, havel, tw, allr, omw, fca, sorw, 
+                                  all, old_c, tws, alr, rmq, dl, cn, gen, 
+                                  old_cv, lt_c, rc_c, so, out, ndl, wcn, old, 
+                                  wq, still2, cvr, dw, k, cdw, ck >>
+
+wn_12_st(self) == /\ pc[self] = "wn_12_st"
+                  /\ cvword' = (IF cvq = <<>> THEN Clr(old[self], CVNE) ELSE old[self])
+                  /\ pc' = [pc EXCEPT ![self] = "wn_12_l"]
+                  /\ UNCHANGED << word, queue, cvq, waiting, rmc, cvmu, wl, wc, 
+                                  sc, nww, nwsem, nww2, nreg2, sem, data, now, 
+                                  note, nreg, held, ret, sres, picked, sleeps, 
+                                  inlock, ip, mw, pool, nalloc, nq, muFreed, 
+                                  refs, nwalive, taint3, stack, lt_l, clear, 
+                                  old_, zlo, zhi, wcnt, lw, lt_u, old_u, tc, 
+                                  nwl, wtrs, wake, wty, sor, cor, rmq_, late, 
+                                  lt_m, old_m, lt_mu, old_mu, lt_mu_, ww, 
+                                  old_mu_, sdl, scn, lt, rc, old_t, c, dl_, 
+                                  cn_, old_mu_w, lt_, first, out_, rc_, hadw, 
+                                  ata, so_, havel, tw, allr, omw, fca, sorw, 
+                                  all, old_c, tws, alr, rmq, dl, cn, gen, 
+                                  old_cv, lt_c, rc_c, so, out, ndl, wcn, old, 
+                                  wq, still2, cvr, dw, k, cdw, ck >>
+
+wn_12_l(self) == /\ pc[self] = "wn_12_l"
+                 /\ IF ~wcn[self]
+                       THEN /\ pc' = [pc EXCEPT ![self] = "wn_12u_l"]
+                       ELSE /\ pc' = [pc EXCEPT ![self] = "wn_12a_r"]
+                 /\ UNCHANGED << word, queue, cvword, cvq, waiting, rmc, cvmu, 
+                                 wl, wc, sc, nww, nwsem, nww2, nreg2, sem, 
+                                 data, now, note, nreg, held, ret, sres, 
+                                 picked, sleeps, inlock, ip, mw, pool, nalloc, 
+                                 nq, muFreed, refs, nwalive, taint3, stack, 
+                                 lt_l, clear, old_, zlo, zhi, wcnt, lw, lt_u, 
+                                 old_u, tc, nwl, wtrs, wake, wty, sor, cor, 
+                                 rmq_, late, lt_m, old_m, lt_mu, old_mu, 
+                                 lt_mu_, ww, old_mu_, sdl, scn, lt, rc, old_t, 
+                                 c, dl_, cn_, old_mu_w, lt_, first, out_, rc_, 
+                                 hadw, ata, so_, havel, tw, allr, omw, fca, 
+                                 sorw, all, old_c, tws, alr, rmq, dl, cn, gen, 
+                                 old_cv, lt_c, rc_c, so, out, ndl, wcn, old, 
+                                 wq, still2, cvr, dw, k, cdw, ck >>
+
+wn_12a_r(self) == /\ pc[self] = "wn_12a_r"
+                  /\ still2' = [still2 EXCEPT ![self] = ~note]
+                  /\ nreg2' = nreg2 \ {self}
+                  /\ nww2' = [nww2 EXCEPT ![self] = 0]
+                  /\ pc' = [pc EXCEPT ![self] = "wn_12u_l"]
+                  /\ UNCHANGED << word, queue, cvword, cvq, waiting, rmc, cvmu, 
+                                  wl, wc, sc, nww, nwsem, sem, data, now, note, 
                                   nreg, held, ret, sres, picked, sleeps, 
                                   inlock, ip, mw, pool, nalloc, nq, muFreed, 
                                   refs, nwalive, taint3, stack, lt_l, clear, 
@@ -3747,11 +4079,10 @@ wn_11_st(self) == /\ pc[self] = "wn_11_st"
                                   cn_, old_mu_w, lt_, first, out_, rc_, hadw, 
                                   ata, so_, havel, tw, allr, omw, fca, sorw, 
                                   all, old_c, tws, alr, rmq, dl, cn, gen, 
-                                  old_cv, lt_c, rc_c, so, out, ndl, old, wq, 
-                                  dw, k, cdw, ck >>
+                                  old_cv, lt_c, rc_c, so, out, ndl, wcn, old, 
+                                  wq, cvr, dw, k, cdw, ck >>
 
-wn_12_st(self) == /\ pc[self] = "wn_12_st"
-                  /\ cvword' = (IF cvq = <<>> THEN Clr(old[self], CVNE) ELSE old[self])
+wn_12u_l(self) == /\ pc[self] = "wn_12u_l"
                   /\ /\ lt_m' = [lt_m EXCEPT ![self] = 1]
                      /\ stack' = [stack EXCEPT ![self] = << [ procedure |->  "mu_lock",
                                                               pc        |->  "wn_13_l",
@@ -3760,46 +4091,55 @@ wn_12_st(self) == /\ pc[self] = "wn_12_st"
                                                           \o stack[self]]
                   /\ old_m' = [old_m EXCEPT ![self] = 0]
                   /\ pc' = [pc EXCEPT ![self] = "lk_1_cas"]
-                  /\ UNCHANGED << word, queue, cvq, waiting, rmc, cvmu, wl, wc, 
-                                  sc, nww, nwsem, sem, data, now, note, nreg, 
-                                  held, ret, sres, picked, sleeps, inlock, ip, 
-                                  mw, pool, nalloc, nq, muFreed, refs, nwalive, 
-                                  taint3, lt_l, clear, old_, zlo, zhi, wcnt, 
-                                  lw, lt_u, old_u, tc, nwl, wtrs, wake, wty, 
-                                  sor, cor, rmq_, late, lt_mu, old_mu, lt_mu_, 
-                                  ww, old_mu_, sdl, scn, lt, rc, old_t, c, dl_, 
-                                  cn_, old_mu_w, lt_, first, out_, rc_, hadw, 
-                                  ata, so_, havel, tw, allr, omw, fca, sorw, 
-                                  all, old_c, tws, alr, rmq, dl, cn, gen, 
-                                  old_cv, lt_c, rc_c, so, out, ndl, old, wq, 
-                                  dw, k, cdw, ck >>
+                  /\ UNCHANGED << word, queue, cvword, cvq, waiting, rmc, cvmu, 
+                                  wl, wc, sc, nww, nwsem, nww2, nreg2, sem, 
+                                  data, now, note, nreg, held, ret, sres, 
+                                  picked, sleeps, inlock, ip, mw, pool, nalloc, 
+                                  nq, muFreed, refs, nwalive, taint3, lt_l, 
+                                  clear, old_, zlo, zhi, wcnt, lw, lt_u, old_u, 
+                                  tc, nwl, wtrs, wake, wty, sor, cor, rmq_, 
+                                  late, lt_mu, old_mu, lt_mu_, ww, old_mu_, 
+                                  sdl, scn, lt, rc, old_t, c, dl_, cn_, 
+                                  old_mu_w, lt_, first, out_, rc_, hadw, ata, 
+                                  so_, havel, tw, allr, omw, fca, sorw, all, 
+                                  old_c, tws, alr, rmq, dl, cn, gen, old_cv, 
+                                  lt_c, rc_c, so, out, ndl, wcn, old, wq, 
+                                  still2, cvr, dw, k, cdw, ck >>
 
 wn_13_l(self) == /\ pc[self] = "wn_13_l"
-                 /\ ret' = [ret EXCEPT ![self] = IF wq[self] THEN 1 ELSE 0]
+                 /\ ret' = [ret EXCEPT ![self] = IF ~wq[self] THEN 0 ELSE IF wcn[self] /\ ~still2[self] THEN 1 ELSE (IF wcn[self] THEN 2 ELSE 1)]
                  /\ nwalive' = [nwalive EXCEPT ![self] = FALSE]
                  /\ pc' = [pc EXCEPT ![self] = Head(stack[self]).pc]
                  /\ old' = [old EXCEPT ![self] = Head(stack[self]).old]
                  /\ wq' = [wq EXCEPT ![self] = Head(stack[self]).wq]
+                 /\ still2' = [still2 EXCEPT ![self] = Head(stack[self]).still2]
+                 /\ cvr' = [cvr EXCEPT ![self] = Head(stack[self]).cvr]
                  /\ ndl' = [ndl EXCEPT ![self] = Head(stack[self]).ndl]
+                 /\ wcn' = [wcn EXCEPT ![self] = Head(stack[self]).wcn]
                  /\ stack' = [stack EXCEPT ![self] = Tail(stack[self])]
                  /\ UNCHANGED << word, queue, cvword, cvq, waiting, rmc, cvmu, 
-                                 wl, wc, sc, nww, nwsem, sem, data, now, note, 
-                                 nreg, held, sres, picked, sleeps, inlock, ip, 
-                                 mw, pool, nalloc, nq, muFreed, refs, taint3, 
-                                 lt_l, clear, old_, zlo, zhi, wcnt, lw, lt_u, 
-                                 old_u, tc, nwl, wtrs, wake, wty, sor, cor, 
-                                 rmq_, late, lt_m, old_m, lt_mu, old_mu, 
-                                 lt_mu_, ww, old_mu_, sdl, scn, lt, rc, old_t, 
-                                 c, dl_, cn_, old_mu_w, lt_, first, out_, rc_, 
-                                 hadw, ata, so_, havel, tw, allr, omw, fca, 
-                                 sorw, all, old_c, tws, alr, rmq, dl, cn, gen, 
-                                 old_cv, lt_c, rc_c, so, out, dw, k, cdw, ck >>
+                                 wl, wc, sc, nww, nwsem, nww2, nreg2, sem, 
+                                 data, now, note, nreg, held, sres, picked, 
+                                 sleeps, inlock, ip, mw, pool, nalloc, nq, 
+                                 muFreed, refs, taint3, lt_l, clear, old_, zlo, 
+                                 zhi, wcnt, lw, lt_u, old_u, tc, nwl, wtrs, 
+                                 wake, wty, sor, cor, rmq_, late, lt_m, old_m, 
+                                 lt_mu, old_mu, lt_mu_, ww, old_mu_, sdl, scn, 
+                                 lt, rc, old_t, c, dl_, cn_, old_mu_w, lt_, 
+                                 first, out_, rc_, hadw, ata, so_, havel, tw, 
+                                 allr, omw, fca, sorw, all, old_c, tws, alr, 
+                                 rmq, dl, cn, gen, old_cv, lt_c, rc_c, so, out, 
+                                 dw, k, cdw, ck >>
 
-wait_n(self) == wn_1_st(self) \/ wn_2_ld(self) \/ wn_3_cas(self)
-                   \/ wn_2_d(self) \/ wn_4_st(self) \/ wn_5_st(self)
-                   \/ wn_6_ld(self) \/ wn_7_pd(self) \/ wn_8_ld(self)
-                   \/ wn_9_cas(self) \/ wn_8_d(self) \/ wn_10_ld(self)
-                   \/ wn_11_st(self) \/ wn_12_st(self) \/ wn_13_l(self)
+wait_n(self) == wn_0_l(self) \/ wn_0_r(self) \/ wn_1_st(self)
+                   \/ wn_2_ld(self) \/ wn_3_cas(self) \/ wn_2_d(self)
+                   \/ wn_4_st(self) \/ wn_5_st(self) \/ wn_5_l(self)
+                   \/ wn_5a_st(self) \/ wn_5b_r(self) \/ wn_5u_l(self)
+                   \/ wn_6_ld(self) \/ wn_6_l(self) \/ wn_6a_r(self)
+                   \/ wn_7_pd(self) \/ wn_8_ld(self) \/ wn_9_cas(self)
+                   \/ wn_8_d(self) \/ wn_10_ld(self) \/ wn_11_st(self)
+                   \/ wn_12_st(self) \/ wn_12_l(self) \/ wn_12a_r(self)
+                   \/ wn_12u_l(self) \/ wn_13_l(self)
 
 db_1_ld(self) == /\ pc[self] = "db_1_ld"
                  /\ IF (word & WAITING) = 0
@@ -3810,18 +4150,19 @@ db_1_ld(self) == /\ pc[self] = "db_1_ld"
                        ELSE /\ pc' = [pc EXCEPT ![self] = "db_2_ld"]
                             /\ UNCHANGED << stack, dw, k >>
                  /\ UNCHANGED << word, queue, cvword, cvq, waiting, rmc, cvmu, 
-                                 wl, wc, sc, nww, nwsem, sem, data, now, note, 
-                                 nreg, held, ret, sres, picked, sleeps, inlock, 
-                                 ip, mw, pool, nalloc, nq, muFreed, refs, 
-                                 nwalive, taint3, lt_l, clear, old_, zlo, zhi, 
-                                 wcnt, lw, lt_u, old_u, tc, nwl, wtrs, wake, 
-                                 wty, sor, cor, rmq_, late, lt_m, old_m, lt_mu, 
-                                 old_mu, lt_mu_, ww, old_mu_, sdl, scn, lt, rc, 
-                                 old_t, c, dl_, cn_, old_mu_w, lt_, first, 
-                                 out_, rc_, hadw, ata, so_, havel, tw, allr, 
-                                 omw, fca, sorw, all, old_c, tws, alr, rmq, dl, 
-                                 cn, gen, old_cv, lt_c, rc_c, so, out, ndl, 
-                                 old, wq, cdw, ck >>
+                                 wl, wc, sc, nww, nwsem, nww2, nreg2, sem, 
+                                 data, now, note, nreg, held, ret, sres, 
+                                 picked, sleeps, inlock, ip, mw, pool, nalloc, 
+                                 nq, muFreed, refs, nwalive, taint3, lt_l, 
+                                 clear, old_, zlo, zhi, wcnt, lw, lt_u, old_u, 
+                                 tc, nwl, wtrs, wake, wty, sor, cor, rmq_, 
+                                 late, lt_m, old_m, lt_mu, old_mu, lt_mu_, ww, 
+                                 old_mu_, sdl, scn, lt, rc, old_t, c, dl_, cn_, 
+                                 old_mu_w, lt_, first, out_, rc_, hadw, ata, 
+                                 so_, havel, tw, allr, omw, fca, sorw, all, 
+                                 old_c, tws, alr, rmq, dl, cn, gen, old_cv, 
+                                 lt_c, rc_c, so, out, ndl, wcn, old, wq, 
+                                 still2, cvr, cdw, ck >>
 
 db_2_ld(self) == /\ pc[self] = "db_2_ld"
                  /\ dw' = [dw EXCEPT ![self] = word]
@@ -3829,18 +4170,19 @@ db_2_ld(self) == /\ pc[self] = "db_2_ld"
                        THEN /\ pc' = [pc EXCEPT ![self] = "db_d"]
                        ELSE /\ pc' = [pc EXCEPT ![self] = "db_3_cas"]
                  /\ UNCHANGED << word, queue, cvword, cvq, waiting, rmc, cvmu, 
-                                 wl, wc, sc, nww, nwsem, sem, data, now, note, 
-                                 nreg, held, ret, sres, picked, sleeps, inlock, 
-                                 ip, mw, pool, nalloc, nq, muFreed, refs, 
-                                 nwalive, taint3, stack, lt_l, clear, old_, 
-                                 zlo, zhi, wcnt, lw, lt_u, old_u, tc, nwl, 
-                                 wtrs, wake, wty, sor, cor, rmq_, late, lt_m, 
-                                 old_m, lt_mu, old_mu, lt_mu_, ww, old_mu_, 
-                                 sdl, scn, lt, rc, old_t, c, dl_, cn_, 
-                                 old_mu_w, lt_, first, out_, rc_, hadw, ata, 
-                                 so_, havel, tw, allr, omw, fca, sorw, all, 
-                                 old_c, tws, alr, rmq, dl, cn, gen, old_cv, 
-                                 lt_c, rc_c, so, out, ndl, old, wq, k, cdw, ck >>
+                                 wl, wc, sc, nww, nwsem, nww2, nreg2, sem, 
+                                 data, now, note, nreg, held, ret, sres, 
+                                 picked, sleeps, inlock, ip, mw, pool, nalloc, 
+                                 nq, muFreed, refs, nwalive, taint3, stack, 
+                                 lt_l, clear, old_, zlo, zhi, wcnt, lw, lt_u, 
+                                 old_u, tc, nwl, wtrs, wake, wty, sor, cor, 
+                                 rmq_, late, lt_m, old_m, lt_mu, old_mu, 
+                                 lt_mu_, ww, old_mu_, sdl, scn, lt, rc, old_t, 
+                                 c, dl_, cn_, old_mu_w, lt_, first, out_, rc_, 
+                                 hadw, ata, so_, havel, tw, allr, omw, fca, 
+                                 sorw, all, old_c, tws, alr, rmq, dl, cn, gen, 
+                                 old_cv, lt_c, rc_c, so, out, ndl, wcn, old, 
+                                 wq, still2, cvr, k, cdw, ck >>
 
 db_3_cas(self) == /\ pc[self] = "db_3_cas"
                   /\ IF word = dw[self]
@@ -3850,107 +4192,109 @@ db_3_cas(self) == /\ pc[self] = "db_3_cas"
                         ELSE /\ pc' = [pc EXCEPT ![self] = "db_d"]
                              /\ UNCHANGED << word, k >>
                   /\ UNCHANGED << queue, cvword, cvq, waiting, rmc, cvmu, wl, 
-                                  wc, sc, nww, nwsem, sem, data, now, note, 
-                                  nreg, held, ret, sres, picked, sleeps, 
-                                  inlock, ip, mw, pool, nalloc, nq, muFreed, 
-                                  refs, nwalive, taint3, stack, lt_l, clear, 
-                                  old_, zlo, zhi, wcnt, lw, lt_u, old_u, tc, 
-                                  nwl, wtrs, wake, wty, sor, cor, rmq_, late, 
-                                  lt_m, old_m, lt_mu, old_mu, lt_mu_, ww, 
+                                  wc, sc, nww, nwsem, nww2, nreg2, sem, data, 
+                                  now, note, nreg, held, ret, sres, picked, 
+                                  sleeps, inlock, ip, mw, pool, nalloc, nq, 
+                                  muFreed, refs, nwalive, taint3, stack, lt_l, 
+                                  clear, old_, zlo, zhi, wcnt, lw, lt_u, old_u, 
+                                  tc, nwl, wtrs, wake, wty, sor, cor, rmq_, 
+                                  late, lt_m, old_m, lt_mu, old_mu, lt_mu_, ww, 
                                   old_mu_, sdl, scn, lt, rc, old_t, c, dl_, 
                                   cn_, old_mu_w, lt_, first, out_, rc_, hadw, 
                                   ata, so_, havel, tw, allr, omw, fca, sorw, 
                                   all, old_c, tws, alr, rmq, dl, cn, gen, 
-                                  old_cv, lt_c, rc_c, so, out, ndl, old, wq, 
-                                  dw, cdw, ck >>
+                                  old_cv, lt_c, rc_c, so, out, ndl, wcn, old, 
+                                  wq, still2, cvr, dw, cdw, ck >>
 
 db_d(self) == /\ pc[self] = "db_d"
               /\ pc' = [pc EXCEPT ![self] = "db_2_ld"]
               /\ UNCHANGED << word, queue, cvword, cvq, waiting, rmc, cvmu, wl, 
-                              wc, sc, nww, nwsem, sem, data, now, note, nreg, 
-                              held, ret, sres, picked, sleeps, inlock, ip, mw, 
-                              pool, nalloc, nq, muFreed, refs, nwalive, taint3, 
-                              stack, lt_l, clear, old_, zlo, zhi, wcnt, lw, 
-                              lt_u, old_u, tc, nwl, wtrs, wake, wty, sor, cor, 
-                              rmq_, late, lt_m, old_m, lt_mu, old_mu, lt_mu_, 
-                              ww, old_mu_, sdl, scn, lt, rc, old_t, c, dl_, 
-                              cn_, old_mu_w, lt_, first, out_, rc_, hadw, ata, 
-                              so_, havel, tw, allr, omw, fca, sorw, all, old_c, 
-                              tws, alr, rmq, dl, cn, gen, old_cv, lt_c, rc_c, 
-                              so, out, ndl, old, wq, dw, k, cdw, ck >>
+                              wc, sc, nww, nwsem, nww2, nreg2, sem, data, now, 
+                              note, nreg, held, ret, sres, picked, sleeps, 
+                              inlock, ip, mw, pool, nalloc, nq, muFreed, refs, 
+                              nwalive, taint3, stack, lt_l, clear, old_, zlo, 
+                              zhi, wcnt, lw, lt_u, old_u, tc, nwl, wtrs, wake, 
+                              wty, sor, cor, rmq_, late, lt_m, old_m, lt_mu, 
+                              old_mu, lt_mu_, ww, old_mu_, sdl, scn, lt, rc, 
+                              old_t, c, dl_, cn_, old_mu_w, lt_, first, out_, 
+                              rc_, hadw, ata, so_, havel, tw, allr, omw, fca, 
+                              sorw, all, old_c, tws, alr, rmq, dl, cn, gen, 
+                              old_cv, lt_c, rc_c, so, out, ndl, wcn, old, wq, 
+                              still2, cvr, dw, k, cdw, ck >>
 
 db_w_l(self) == /\ pc[self] = "db_w_l"
                 /\ IF k[self] = 0
                       THEN /\ pc' = [pc EXCEPT ![self] = "db_rel_l"]
                       ELSE /\ pc' = [pc EXCEPT ![self] = "db_w1_ld"]
                 /\ UNCHANGED << word, queue, cvword, cvq, waiting, rmc, cvmu, 
-                                wl, wc, sc, nww, nwsem, sem, data, now, note, 
-                                nreg, held, ret, sres, picked, sleeps, inlock, 
-                                ip, mw, pool, nalloc, nq, muFreed, refs, 
-                                nwalive, taint3, stack, lt_l, clear, old_, zlo, 
-                                zhi, wcnt, lw, lt_u, old_u, tc, nwl, wtrs, 
-                                wake, wty, sor, cor, rmq_, late, lt_m, old_m, 
-                                lt_mu, old_mu, lt_mu_, ww, old_mu_, sdl, scn, 
-                                lt, rc, old_t, c, dl_, cn_, old_mu_w, lt_, 
-                                first, out_, rc_, hadw, ata, so_, havel, tw, 
-                                allr, omw, fca, sorw, all, old_c, tws, alr, 
-                                rmq, dl, cn, gen, old_cv, lt_c, rc_c, so, out, 
-                                ndl, old, wq, dw, k, cdw, ck >>
+                                wl, wc, sc, nww, nwsem, nww2, nreg2, sem, data, 
+                                now, note, nreg, held, ret, sres, picked, 
+                                sleeps, inlock, ip, mw, pool, nalloc, nq, 
+                                muFreed, refs, nwalive, taint3, stack, lt_l, 
+                                clear, old_, zlo, zhi, wcnt, lw, lt_u, old_u, 
+                                tc, nwl, wtrs, wake, wty, sor, cor, rmq_, late, 
+                                lt_m, old_m, lt_mu, old_mu, lt_mu_, ww, 
+                                old_mu_, sdl, scn, lt, rc, old_t, c, dl_, cn_, 
+                                old_mu_w, lt_, first, out_, rc_, hadw, ata, 
+                                so_, havel, tw, allr, omw, fca, sorw, all, 
+                                old_c, tws, alr, rmq, dl, cn, gen, old_cv, 
+                                lt_c, rc_c, so, out, ndl, wcn, old, wq, still2, 
+                                cvr, dw, k, cdw, ck >>
 
 db_w1_ld(self) == /\ pc[self] = "db_w1_ld"
                   /\ TRUE
                   /\ pc' = [pc EXCEPT ![self] = "db_w2_ld"]
                   /\ UNCHANGED << word, queue, cvword, cvq, waiting, rmc, cvmu, 
-                                  wl, wc, sc, nww, nwsem, sem, data, now, note, 
-                                  nreg, held, ret, sres, picked, sleeps, 
-                                  inlock, ip, mw, pool, nalloc, nq, muFreed, 
-                                  refs, nwalive, taint3, stack, lt_l, clear, 
-                                  old_, zlo, zhi, wcnt, lw, lt_u, old_u, tc, 
-                                  nwl, wtrs, wake, wty, sor, cor, rmq_, late, 
-                                  lt_m, old_m, lt_mu, old_mu, lt_mu_, ww, 
-                                  old_mu_, sdl, scn, lt, rc, old_t, c, dl_, 
-                                  cn_, old_mu_w, lt_, first, out_, rc_, hadw, 
-                                  ata, so_, havel, tw, allr, omw, fca, sorw, 
-                                  all, old_c, tws, alr, rmq, dl, cn, gen, 
-                                  old_cv, lt_c, rc_c, so, out, ndl, old, wq, 
-                                  dw, k, cdw, ck >>
+                                  wl, wc, sc, nww, nwsem, nww2, nreg2, sem, 
+                                  data, now, note, nreg, held, ret, sres, 
+                                  picked, sleeps, inlock, ip, mw, pool, nalloc, 
+                                  nq, muFreed, refs, nwalive, taint3, stack, 
+                                  lt_l, clear, old_, zlo, zhi, wcnt, lw, lt_u, 
+                                  old_u, tc, nwl, wtrs, wake, wty, sor, cor, 
+                                  rmq_, late, lt_m, old_m, lt_mu, old_mu, 
+                                  lt_mu_, ww, old_mu_, sdl, scn, lt, rc, old_t, 
+                                  c, dl_, cn_, old_mu_w, lt_, first, out_, rc_, 
+                                  hadw, ata, so_, havel, tw, allr, omw, fca, 
+                                  sorw, all, old_c, tws, alr, rmq, dl, cn, gen, 
+                                  old_cv, lt_c, rc_c, so, out, ndl, wcn, old, 
+                                  wq, still2, cvr, dw, k, cdw, ck >>
 
 db_w2_ld(self) == /\ pc[self] = "db_w2_ld"
                   /\ k' = [k EXCEPT ![self] = k[self] - 1]
                   /\ pc' = [pc EXCEPT ![self] = "db_w_l"]
                   /\ UNCHANGED << word, queue, cvword, cvq, waiting, rmc, cvmu, 
-                                  wl, wc, sc, nww, nwsem, sem, data, now, note, 
-                                  nreg, held, ret, sres, picked, sleeps, 
-                                  inlock, ip, mw, pool, nalloc, nq, muFreed, 
-                                  refs, nwalive, taint3, stack, lt_l, clear, 
-                                  old_, zlo, zhi, wcnt, lw, lt_u, old_u, tc, 
-                                  nwl, wtrs, wake, wty, sor, cor, rmq_, late, 
-                                  lt_m, old_m, lt_mu, old_mu, lt_mu_, ww, 
-                                  old_mu_, sdl, scn, lt, rc, old_t, c, dl_, 
-                                  cn_, old_mu_w, lt_, first, out_, rc_, hadw, 
-                                  ata, so_, havel, tw, allr, omw, fca, sorw, 
-                                  all, old_c, tws, alr, rmq, dl, cn, gen, 
-                                  old_cv, lt_c, rc_c, so, out, ndl, old, wq, 
-                                  dw, cdw, ck >>
+                                  wl, wc, sc, nww, nwsem, nww2, nreg2, sem, 
+                                  data, now, note, nreg, held, ret, sres, 
+                                  picked, sleeps, inlock, ip, mw, pool, nalloc, 
+                                  nq, muFreed, refs, nwalive, taint3, stack, 
+                                  lt_l, clear, old_, zlo, zhi, wcnt, lw, lt_u, 
+                                  old_u, tc, nwl, wtrs, wake, wty, sor, cor, 
+                                  rmq_, late, lt_m, old_m, lt_mu, old_mu, 
+                                  lt_mu_, ww, old_mu_, sdl, scn, lt, rc, old_t, 
+                                  c, dl_, cn_, old_mu_w, lt_, first, out_, rc_, 
+                                  hadw, ata, so_, havel, tw, allr, omw, fca, 
+                                  sorw, all, old_c, tws, alr, rmq, dl, cn, gen, 
+                                  old_cv, lt_c, rc_c, so, out, ndl, wcn, old, 
+                                  wq, still2, cvr, dw, cdw, ck >>
 
 db_rel_l(self) == /\ pc[self] = "db_rel_l"
                   /\ IF DbgFixed
                         THEN /\ pc' = [pc EXCEPT ![self] = "db_5_ld"]
                         ELSE /\ pc' = [pc EXCEPT ![self] = "db_4_st"]
                   /\ UNCHANGED << word, queue, cvword, cvq, waiting, rmc, cvmu, 
-                                  wl, wc, sc, nww, nwsem, sem, data, now, note, 
-                                  nreg, held, ret, sres, picked, sleeps, 
-                                  inlock, ip, mw, pool, nalloc, nq, muFreed, 
-                                  refs, nwalive, taint3, stack, lt_l, clear, 
-                                  old_, zlo, zhi, wcnt, lw, lt_u, old_u, tc, 
-                                  nwl, wtrs, wake, wty, sor, cor, rmq_, late, 
-                                  lt_m, old_m, lt_mu, old_mu, lt_mu_, ww, 
-                                  old_mu_, sdl, scn, lt, rc, old_t, c, dl_, 
-                                  cn_, old_mu_w, lt_, first, out_, rc_, hadw, 
-                                  ata, so_, havel, tw, allr, omw, fca, sorw, 
-                                  all, old_c, tws, alr, rmq, dl, cn, gen, 
-                                  old_cv, lt_c, rc_c, so, out, ndl, old, wq, 
-                                  dw, k, cdw, ck >>
+                                  wl, wc, sc, nww, nwsem, nww2, nreg2, sem, 
+                                  data, now, note, nreg, held, ret, sres, 
+                                  picked, sleeps, inlock, ip, mw, pool, nalloc, 
+                                  nq, muFreed, refs, nwalive, taint3, stack, 
+                                  lt_l, clear, old_, zlo, zhi, wcnt, lw, lt_u, 
+                                  old_u, tc, nwl, wtrs, wake, wty, sor, cor, 
+                                  rmq_, late, lt_m, old_m, lt_mu, old_mu, 
+                                  lt_mu_, ww, old_mu_, sdl, scn, lt, rc, old_t, 
+                                  c, dl_, cn_, old_mu_w, lt_, first, out_, rc_, 
+                                  hadw, ata, so_, havel, tw, allr, omw, fca, 
+                                  sorw, all, old_c, tws, alr, rmq, dl, cn, gen, 
+                                  old_cv, lt_c, rc_c, so, out, ndl, wcn, old, 
+                                  wq, still2, cvr, dw, k, cdw, ck >>
 
 db_4_st(self) == /\ pc[self] = "db_4_st"
                  /\ word' = dw[self]
@@ -3959,35 +4303,37 @@ db_4_st(self) == /\ pc[self] = "db_4_st"
                  /\ k' = [k EXCEPT ![self] = Head(stack[self]).k]
                  /\ stack' = [stack EXCEPT ![self] = Tail(stack[self])]
                  /\ UNCHANGED << queue, cvword, cvq, waiting, rmc, cvmu, wl, 
-                                 wc, sc, nww, nwsem, sem, data, now, note, 
-                                 nreg, held, ret, sres, picked, sleeps, inlock, 
-                                 ip, mw, pool, nalloc, nq, muFreed, refs, 
-                                 nwalive, taint3, lt_l, clear, old_, zlo, zhi, 
-                                 wcnt, lw, lt_u, old_u, tc, nwl, wtrs, wake, 
-                                 wty, sor, cor, rmq_, late, lt_m, old_m, lt_mu, 
-                                 old_mu, lt_mu_, ww, old_mu_, sdl, scn, lt, rc, 
-                                 old_t, c, dl_, cn_, old_mu_w, lt_, first, 
-                                 out_, rc_, hadw, ata, so_, havel, tw, allr, 
-                                 omw, fca, sorw, all, old_c, tws, alr, rmq, dl, 
-                                 cn, gen, old_cv, lt_c, rc_c, so, out, ndl, 
-                                 old, wq, cdw, ck >>
+                                 wc, sc, nww, nwsem, nww2, nreg2, sem, data, 
+                                 now, note, nreg, held, ret, sres, picked, 
+                                 sleeps, inlock, ip, mw, pool, nalloc, nq, 
+                                 muFreed, refs, nwalive, taint3, lt_l, clear, 
+                                 old_, zlo, zhi, wcnt, lw, lt_u, old_u, tc, 
+                                 nwl, wtrs, wake, wty, sor, cor, rmq_, late, 
+                                 lt_m, old_m, lt_mu, old_mu, lt_mu_, ww, 
+                                 old_mu_, sdl, scn, lt, rc, old_t, c, dl_, cn_, 
+                                 old_mu_w, lt_, first, out_, rc_, hadw, ata, 
+                                 so_, havel, tw, allr, omw, fca, sorw, all, 
+                                 old_c, tws, alr, rmq, dl, cn, gen, old_cv, 
+                                 lt_c, rc_c, so, out, ndl, wcn, old, wq, 
+                                 still2, cvr, cdw, ck >>
 
 db_5_ld(self) == /\ pc[self] = "db_5_ld"
                  /\ dw' = [dw EXCEPT ![self] = word]
                  /\ pc' = [pc EXCEPT ![self] = "db_6_cas"]
                  /\ UNCHANGED << word, queue, cvword, cvq, waiting, rmc, cvmu, 
-                                 wl, wc, sc, nww, nwsem, sem, data, now, note, 
-                                 nreg, held, ret, sres, picked, sleeps, inlock, 
-                                 ip, mw, pool, nalloc, nq, muFreed, refs, 
-                                 nwalive, taint3, stack, lt_l, clear, old_, 
-                                 zlo, zhi, wcnt, lw, lt_u, old_u, tc, nwl, 
-                                 wtrs, wake, wty, sor, cor, rmq_, late, lt_m, 
-                                 old_m, lt_mu, old_mu, lt_mu_, ww, old_mu_, 
-                                 sdl, scn, lt, rc, old_t, c, dl_, cn_, 
-                                 old_mu_w, lt_, first, out_, rc_, hadw, ata, 
-                                 so_, havel, tw, allr, omw, fca, sorw, all, 
-                                 old_c, tws, alr, rmq, dl, cn, gen, old_cv, 
-                                 lt_c, rc_c, so, out, ndl, old, wq, k, cdw, ck >>
+                                 wl, wc, sc, nww, nwsem, nww2, nreg2, sem, 
+                                 data, now, note, nreg, held, ret, sres, 
+                                 picked, sleeps, inlock, ip, mw, pool, nalloc, 
+                                 nq, muFreed, refs, nwalive, taint3, stack, 
+                                 lt_l, clear, old_, zlo, zhi, wcnt, lw, lt_u, 
+                                 old_u, tc, nwl, wtrs, wake, wty, sor, cor, 
+                                 rmq_, late, lt_m, old_m, lt_mu, old_mu, 
+                                 lt_mu_, ww, old_mu_, sdl, scn, lt, rc, old_t, 
+                                 c, dl_, cn_, old_mu_w, lt_, first, out_, rc_, 
+                                 hadw, ata, so_, havel, tw, allr, omw, fca, 
+                                 sorw, all, old_c, tws, alr, rmq, dl, cn, gen, 
+                                 old_cv, lt_c, rc_c, so, out, ndl, wcn, old, 
+                                 wq, still2, cvr, k, cdw, ck >>
 
 db_6_cas(self) == /\ pc[self] = "db_6_cas"
                   /\ IF word = dw[self]
@@ -3999,18 +4345,19 @@ db_6_cas(self) == /\ pc[self] = "db_6_cas"
                         ELSE /\ pc' = [pc EXCEPT ![self] = "db_5_ld"]
                              /\ UNCHANGED << word, stack, dw, k >>
                   /\ UNCHANGED << queue, cvword, cvq, waiting, rmc, cvmu, wl, 
-                                  wc, sc, nww, nwsem, sem, data, now, note, 
-                                  nreg, held, ret, sres, picked, sleeps, 
-                                  inlock, ip, mw, pool, nalloc, nq, muFreed, 
-                                  refs, nwalive, taint3, lt_l, clear, old_, 
-                                  zlo, zhi, wcnt, lw, lt_u, old_u, tc, nwl, 
-                                  wtrs, wake, wty, sor, cor, rmq_, late, lt_m, 
-                                  old_m, lt_mu, old_mu, lt_mu_, ww, old_mu_, 
-                                  sdl, scn, lt, rc, old_t, c, dl_, cn_, 
-                                  old_mu_w, lt_, first, out_, rc_, hadw, ata, 
-                                  so_, havel, tw, allr, omw, fca, sorw, all, 
-                                  old_c, tws, alr, rmq, dl, cn, gen, old_cv, 
-                                  lt_c, rc_c, so, out, ndl, old, wq, cdw, ck >>
+                                  wc, sc, nww, nwsem, nww2, nreg2, sem, data, 
+                                  now, note, nreg, held, ret, sres, picked, 
+                                  sleeps, inlock, ip, mw, pool, nalloc, nq, 
+                                  muFreed, refs, nwalive, taint3, lt_l, clear, 
+                                  old_, zlo, zhi, wcnt, lw, lt_u, old_u, tc, 
+                                  nwl, wtrs, wake, wty, sor, cor, rmq_, late, 
+                                  lt_m, old_m, lt_mu, old_mu, lt_mu_, ww, 
+                                  old_mu_, sdl, scn, lt, rc, old_t, c, dl_, 
+                                  cn_, old_mu_w, lt_, first, out_, rc_, hadw, 
+                                  ata, so_, havel, tw, allr, omw, fca, sorw, 
+                                  all, old_c, tws, alr, rmq, dl, cn, gen, 
+                                  old_cv, lt_c, rc_c, so, out, ndl, wcn, old, 
+                                  wq, still2, cvr, cdw, ck >>
 
 debug_state(self) == db_1_ld(self) \/ db_2_ld(self) \/ db_3_cas(self)
                         \/ db_d(self) \/ db_w_l(self) \/ db_w1_ld(self)
@@ -4026,18 +4373,19 @@ dc_1_ld(self) == /\ pc[self] = "dc_1_ld"
                        ELSE /\ pc' = [pc EXCEPT ![self] = "dc_2_ld"]
                             /\ UNCHANGED << stack, cdw, ck >>
                  /\ UNCHANGED << word, queue, cvword, cvq, waiting, rmc, cvmu, 
-                                 wl, wc, sc, nww, nwsem, sem, data, now, note, 
-                                 nreg, held, ret, sres, picked, sleeps, inlock, 
-                                 ip, mw, pool, nalloc, nq, muFreed, refs, 
-                                 nwalive, taint3, lt_l, clear, old_, zlo, zhi, 
-                                 wcnt, lw, lt_u, old_u, tc, nwl, wtrs, wake, 
-                                 wty, sor, cor, rmq_, late, lt_m, old_m, lt_mu, 
-                                 old_mu, lt_mu_, ww, old_mu_, sdl, scn, lt, rc, 
-                                 old_t, c, dl_, cn_, old_mu_w, lt_, first, 
-                                 out_, rc_, hadw, ata, so_, havel, tw, allr, 
-                                 omw, fca, sorw, all, old_c, tws, alr, rmq, dl, 
-                                 cn, gen, old_cv, lt_c, rc_c, so, out, ndl, 
-                                 old, wq, dw, k >>
+                                 wl, wc, sc, nww, nwsem, nww2, nreg2, sem, 
+                                 data, now, note, nreg, held, ret, sres, 
+                                 picked, sleeps, inlock, ip, mw, pool, nalloc, 
+                                 nq, muFreed, refs, nwalive, taint3, lt_l, 
+                                 clear, old_, zlo, zhi, wcnt, lw, lt_u, old_u, 
+                                 tc, nwl, wtrs, wake, wty, sor, cor, rmq_, 
+                                 late, lt_m, old_m, lt_mu, old_mu, lt_mu_, ww, 
+                                 old_mu_, sdl, scn, lt, rc, old_t, c, dl_, cn_, 
+                                 old_mu_w, lt_, first, out_, rc_, hadw, ata, 
+                                 so_, havel, tw, allr, omw, fca, sorw, all, 
+                                 old_c, tws, alr, rmq, dl, cn, gen, old_cv, 
+                                 lt_c, rc_c, so, out, ndl, wcn, old, wq, 
+                                 still2, cvr, dw, k >>
 
 dc_2_ld(self) == /\ pc[self] = "dc_2_ld"
                  /\ cdw' = [cdw EXCEPT ![self] = cvword]
@@ -4045,18 +4393,19 @@ dc_2_ld(self) == /\ pc[self] = "dc_2_ld"
                        THEN /\ pc' = [pc EXCEPT ![self] = "dc_d"]
                        ELSE /\ pc' = [pc EXCEPT ![self] = "dc_3_cas"]
                  /\ UNCHANGED << word, queue, cvword, cvq, waiting, rmc, cvmu, 
-                                 wl, wc, sc, nww, nwsem, sem, data, now, note, 
-                                 nreg, held, ret, sres, picked, sleeps, inlock, 
-                                 ip, mw, pool, nalloc, nq, muFreed, refs, 
-                                 nwalive, taint3, stack, lt_l, clear, old_, 
-                                 zlo, zhi, wcnt, lw, lt_u, old_u, tc, nwl, 
-                                 wtrs, wake, wty, sor, cor, rmq_, late, lt_m, 
-                                 old_m, lt_mu, old_mu, lt_mu_, ww, old_mu_, 
-                                 sdl, scn, lt, rc, old_t, c, dl_, cn_, 
-                                 old_mu_w, lt_, first, out_, rc_, hadw, ata, 
-                                 so_, havel, tw, allr, omw, fca, sorw, all, 
-                                 old_c, tws, alr, rmq, dl, cn, gen, old_cv, 
-                                 lt_c, rc_c, so, out, ndl, old, wq, dw, k, ck >>
+                                 wl, wc, sc, nww, nwsem, nww2, nreg2, sem, 
+                                 data, now, note, nreg, held, ret, sres, 
+                                 picked, sleeps, inlock, ip, mw, pool, nalloc, 
+                                 nq, muFreed, refs, nwalive, taint3, stack, 
+                                 lt_l, clear, old_, zlo, zhi, wcnt, lw, lt_u, 
+                                 old_u, tc, nwl, wtrs, wake, wty, sor, cor, 
+                                 rmq_, late, lt_m, old_m, lt_mu, old_mu, 
+                                 lt_mu_, ww, old_mu_, sdl, scn, lt, rc, old_t, 
+                                 c, dl_, cn_, old_mu_w, lt_, first, out_, rc_, 
+                                 hadw, ata, so_, havel, tw, allr, omw, fca, 
+                                 sorw, all, old_c, tws, alr, rmq, dl, cn, gen, 
+                                 old_cv, lt_c, rc_c, so, out, ndl, wcn, old, 
+                                 wq, still2, cvr, dw, k, ck >>
 
 dc_3_cas(self) == /\ pc[self] = "dc_3_cas"
                   /\ IF cvword = cdw[self]
@@ -4066,87 +4415,90 @@ dc_3_cas(self) == /\ pc[self] = "dc_3_cas"
                         ELSE /\ pc' = [pc EXCEPT ![self] = "dc_d"]
                              /\ UNCHANGED << cvword, ck >>
                   /\ UNCHANGED << word, queue, cvq, waiting, rmc, cvmu, wl, wc, 
-                                  sc, nww, nwsem, sem, data, now, note, nreg, 
-                                  held, ret, sres, picked, sleeps, inlock, ip, 
-                                  mw, pool, nalloc, nq, muFreed, refs, nwalive, 
-                                  taint3, stack, lt_l, clear, old_, zlo, zhi, 
-                                  wcnt, lw, lt_u, old_u, tc, nwl, wtrs, wake, 
-                                  wty, sor, cor, rmq_, late, lt_m, old_m, 
-                                  lt_mu, old_mu, lt_mu_, ww, old_mu_, sdl, scn, 
-                                  lt, rc, old_t, c, dl_, cn_, old_mu_w, lt_, 
-                                  first, out_, rc_, hadw, ata, so_, havel, tw, 
-                                  allr, omw, fca, sorw, all, old_c, tws, alr, 
-                                  rmq, dl, cn, gen, old_cv, lt_c, rc_c, so, 
-                                  out, ndl, old, wq, dw, k, cdw >>
+                                  sc, nww, nwsem, nww2, nreg2, sem, data, now, 
+                                  note, nreg, held, ret, sres, picked, sleeps, 
+                                  inlock, ip, mw, pool, nalloc, nq, muFreed, 
+                                  refs, nwalive, taint3, stack, lt_l, clear, 
+                                  old_, zlo, zhi, wcnt, lw, lt_u, old_u, tc, 
+                                  nwl, wtrs, wake, wty, sor, cor, rmq_, late, 
+                                  lt_m, old_m, lt_mu, old_mu, lt_mu_, ww, 
+                                  old_mu_, sdl, scn, lt, rc, old_t, c, dl_, 
+                                  cn_, old_mu_w, lt_, first, out_, rc_, hadw, 
+                                  ata, so_, havel, tw, allr, omw, fca, sorw, 
+                                  all, old_c, tws, alr, rmq, dl, cn, gen, 
+                                  old_cv, lt_c, rc_c, so, out, ndl, wcn, old, 
+                                  wq, still2, cvr, dw, k, cdw >>
 
 dc_d(self) == /\ pc[self] = "dc_d"
               /\ pc' = [pc EXCEPT ![self] = "dc_2_ld"]
               /\ UNCHANGED << word, queue, cvword, cvq, waiting, rmc, cvmu, wl, 
-                              wc, sc, nww, nwsem, sem, data, now, note, nreg, 
-                              held, ret, sres, picked, sleeps, inlock, ip, mw, 
-                              pool, nalloc, nq, muFreed, refs, nwalive, taint3, 
-                              stack, lt_l, clear, old_, zlo, zhi, wcnt, lw, 
-                              lt_u, old_u, tc, nwl, wtrs, wake, wty, sor, cor, 
-                              rmq_, late, lt_m, old_m, lt_mu, old_mu, lt_mu_, 
-                              ww, old_mu_, sdl, scn, lt, rc, old_t, c, dl_, 
-                              cn_, old_mu_w, lt_, first, out_, rc_, hadw, ata, 
-                              so_, havel, tw, allr, omw, fca, sorw, all, old_c, 
-                              tws, alr, rmq, dl, cn, gen, old_cv, lt_c, rc_c, 
-                              so, out, ndl, old, wq, dw, k, cdw, ck >>
+                              wc, sc, nww, nwsem, nww2, nreg2, sem, data, now, 
+                              note, nreg, held, ret, sres, picked, sleeps, 
+                              inlock, ip, mw, pool, nalloc, nq, muFreed, refs, 
+                              nwalive, taint3, stack, lt_l, clear, old_, zlo, 
+                              zhi, wcnt, lw, lt_u, old_u, tc, nwl, wtrs, wake, 
+                              wty, sor, cor, rmq_, late, lt_m, old_m, lt_mu, 
+                              old_mu, lt_mu_, ww, old_mu_, sdl, scn, lt, rc, 
+                              old_t, c, dl_, cn_, old_mu_w, lt_, first, out_, 
+                              rc_, hadw, ata, so_, havel, tw, allr, omw, fca, 
+                              sorw, all, old_c, tws, alr, rmq, dl, cn, gen, 
+                              old_cv, lt_c, rc_c, so, out, ndl, wcn, old, wq, 
+                              still2, cvr, dw, k, cdw, ck >>
 
 dc_w_l(self) == /\ pc[self] = "dc_w_l"
                 /\ IF ck[self] = 0
                       THEN /\ pc' = [pc EXCEPT ![self] = "dc_4_st"]
                       ELSE /\ pc' = [pc EXCEPT ![self] = "dc_w1_ld"]
                 /\ UNCHANGED << word, queue, cvword, cvq, waiting, rmc, cvmu, 
-                                wl, wc, sc, nww, nwsem, sem, data, now, note, 
-                                nreg, held, ret, sres, picked, sleeps, inlock, 
-                                ip, mw, pool, nalloc, nq, muFreed, refs, 
-                                nwalive, taint3, stack, lt_l, clear, old_, zlo, 
-                                zhi, wcnt, lw, lt_u, old_u, tc, nwl, wtrs, 
-                                wake, wty, sor, cor, rmq_, late, lt_m, old_m, 
-                                lt_mu, old_mu, lt_mu_, ww, old_mu_, sdl, scn, 
-                                lt, rc, old_t, c, dl_, cn_, old_mu_w, lt_, 
-                                first, out_, rc_, hadw, ata, so_, havel, tw, 
-                                allr, omw, fca, sorw, all, old_c, tws, alr, 
-                                rmq, dl, cn, gen, old_cv, lt_c, rc_c, so, out, 
-                                ndl, old, wq, dw, k, cdw, ck >>
+                                wl, wc, sc, nww, nwsem, nww2, nreg2, sem, data, 
+                                now, note, nreg, held, ret, sres, picked, 
+                                sleeps, inlock, ip, mw, pool, nalloc, nq, 
+                                muFreed, refs, nwalive, taint3, stack, lt_l, 
+                                clear, old_, zlo, zhi, wcnt, lw, lt_u, old_u, 
+                                tc, nwl, wtrs, wake, wty, sor, cor, rmq_, late, 
+                                lt_m, old_m, lt_mu, old_mu, lt_mu_, ww, 
+                                old_mu_, sdl, scn, lt, rc, old_t, c, dl_, cn_, 
+                                old_mu_w, lt_, first, out_, rc_, hadw, ata, 
+                                so_, havel, tw, allr, omw, fca, sorw, all, 
+                                old_c, tws, alr, rmq, dl, cn, gen, old_cv, 
+                                lt_c, rc_c, so, out, ndl, wcn, old, wq, still2, 
+                                cvr, dw, k, cdw, ck >>
 
 dc_w1_ld(self) == /\ pc[self] = "dc_w1_ld"
                   /\ TRUE
                   /\ pc' = [pc EXCEPT ![self] = "dc_w2_ld"]
                   /\ UNCHANGED << word, queue, cvword, cvq, waiting, rmc, cvmu, 
-                                  wl, wc, sc, nww, nwsem, sem, data, now, note, 
-                                  nreg, held, ret, sres, picked, sleeps, 
-                                  inlock, ip, mw, pool, nalloc, nq, muFreed, 
-                                  refs, nwalive, taint3, stack, lt_l, clear, 
-                                  old_, zlo, zhi, wcnt, lw, lt_u, old_u, tc, 
-                                  nwl, wtrs, wake, wty, sor, cor, rmq_, late, 
-                                  lt_m, old_m, lt_mu, old_mu, lt_mu_, ww, 
-                                  old_mu_, sdl, scn, lt, rc, old_t, c, dl_, 
-                                  cn_, old_mu_w, lt_, first, out_, rc_, hadw, 
-                                  ata, so_, havel, tw, allr, omw, fca, sorw, 
-                                  all, old_c, tws, alr, rmq, dl, cn, gen, 
-                                  old_cv, lt_c, rc_c, so, out, ndl, old, wq, 
-                                  dw, k, cdw, ck >>
+                                  wl, wc, sc, nww, nwsem, nww2, nreg2, sem, 
+                                  data, now, note, nreg, held, ret, sres, 
+                                  picked, sleeps, inlock, ip, mw, pool, nalloc, 
+                                  nq, muFreed, refs, nwalive, taint3, stack, 
+                                  lt_l, clear, old_, zlo, zhi, wcnt, lw, lt_u, 
+                                  old_u, tc, nwl, wtrs, wake, wty, sor, cor, 
+                                  rmq_, late, lt_m, old_m, lt_mu, old_mu, 
+                                  lt_mu_, ww, old_mu_, sdl, scn, lt, rc, old_t, 
+                                  c, dl_, cn_, old_mu_w, lt_, first, out_, rc_, 
+                                  hadw, ata, so_, havel, tw, allr, omw, fca, 
+                                  sorw, all, old_c, tws, alr, rmq, dl, cn, gen, 
+                                  old_cv, lt_c, rc_c, so, out, ndl, wcn, old, 
+                                  wq, still2, cvr, dw, k, cdw, ck >>
 
 dc_w2_ld(self) == /\ pc[self] = "dc_w2_ld"
                   /\ ck' = [ck EXCEPT ![self] = ck[self] - 1]
                   /\ pc' = [pc EXCEPT ![self] = "dc_w_l"]
                   /\ UNCHANGED << word, queue, cvword, cvq, waiting, rmc, cvmu, 
-                                  wl, wc, sc, nww, nwsem, sem, data, now, note, 
-                                  nreg, held, ret, sres, picked, sleeps, 
-                                  inlock, ip, mw, pool, nalloc, nq, muFreed, 
-                                  refs, nwalive, taint3, stack, lt_l, clear, 
-                                  old_, zlo, zhi, wcnt, lw, lt_u, old_u, tc, 
-                                  nwl, wtrs, wake, wty, sor, cor, rmq_, late, 
-                                  lt_m, old_m, lt_mu, old_mu, lt_mu_, ww, 
-                                  old_mu_, sdl, scn, lt, rc, old_t, c, dl_, 
-                                  cn_, old_mu_w, lt_, first, out_, rc_, hadw, 
-                                  ata, so_, havel, tw, allr, omw, fca, sorw, 
-                                  all, old_c, tws, alr, rmq, dl, cn, gen, 
-                                  old_cv, lt_c, rc_c, so, out, ndl, old, wq, 
-                                  dw, k, cdw >>
+                                  wl, wc, sc, nww, nwsem, nww2, nreg2, sem, 
+                                  data, now, note, nreg, held, ret, sres, 
+                                  picked, sleeps, inlock, ip, mw, pool, nalloc, 
+                                  nq, muFreed, refs, nwalive, taint3, stack, 
+                                  lt_l, clear, old_, zlo, zhi, wcnt, lw, lt_u, 
+                                  old_u, tc, nwl, wtrs, wake, wty, sor, cor, 
+                                  rmq_, late, lt_m, old_m, lt_mu, old_mu, 
+                                  lt_mu_, ww, old_mu_, sdl, scn, lt, rc, old_t, 
+                                  c, dl_, cn_, old_mu_w, lt_, first, out_, rc_, 
+                                  hadw, ata, so_, havel, tw, allr, omw, fca, 
+                                  sorw, all, old_c, tws, alr, rmq, dl, cn, gen, 
+                                  old_cv, lt_c, rc_c, so, out, ndl, wcn, old, 
+                                  wq, still2, cvr, dw, k, cdw >>
 
 dc_4_st(self) == /\ pc[self] = "dc_4_st"
                  /\ cvword' = cdw[self]
@@ -4155,18 +4507,18 @@ dc_4_st(self) == /\ pc[self] = "dc_4_st"
                  /\ ck' = [ck EXCEPT ![self] = Head(stack[self]).ck]
                  /\ stack' = [stack EXCEPT ![self] = Tail(stack[self])]
                  /\ UNCHANGED << word, queue, cvq, waiting, rmc, cvmu, wl, wc, 
-                                 sc, nww, nwsem, sem, data, now, note, nreg, 
-                                 held, ret, sres, picked, sleeps, inlock, ip, 
-                                 mw, pool, nalloc, nq, muFreed, refs, nwalive, 
-                                 taint3, lt_l, clear, old_, zlo, zhi, wcnt, lw, 
-                                 lt_u, old_u, tc, nwl, wtrs, wake, wty, sor, 
-                                 cor, rmq_, late, lt_m, old_m, lt_mu, old_mu, 
-                                 lt_mu_, ww, old_mu_, sdl, scn, lt, rc, old_t, 
-                                 c, dl_, cn_, old_mu_w, lt_, first, out_, rc_, 
-                                 hadw, ata, so_, havel, tw, allr, omw, fca, 
-                                 sorw, all, old_c, tws, alr, rmq, dl, cn, gen, 
-                                 old_cv, lt_c, rc_c, so, out, ndl, old, wq, dw, 
-                                 k >>
+                                 sc, nww, nwsem, nww2, nreg2, sem, data, now, 
+                                 note, nreg, held, ret, sres, picked, sleeps, 
+                                 inlock, ip, mw, pool, nalloc, nq, muFreed, 
+                                 refs, nwalive, taint3, lt_l, clear, old_, zlo, 
+                                 zhi, wcnt, lw, lt_u, old_u, tc, nwl, wtrs, 
+                                 wake, wty, sor, cor, rmq_, late, lt_m, old_m, 
+                                 lt_mu, old_mu, lt_mu_, ww, old_mu_, sdl, scn, 
+                                 lt, rc, old_t, c, dl_, cn_, old_mu_w, lt_, 
+                                 first, out_, rc_, hadw, ata, so_, havel, tw, 
+                                 allr, omw, fca, sorw, all, old_c, tws, alr, 
+                                 rmq, dl, cn, gen, old_cv, lt_c, rc_c, so, out, 
+                                 ndl, wcn, old, wq, still2, cvr, dw, k >>
 
 debug_cv(self) == dc_1_ld(self) \/ dc_2_ld(self) \/ dc_3_cas(self)
                      \/ dc_d(self) \/ dc_w_l(self) \/ dc_w1_ld(self)
@@ -4180,28 +4532,31 @@ c0(self) == /\ pc[self] = "c0"
                              ELSE /\ TRUE
                                   /\ UNCHANGED << mw, pool >>
                        /\ pc' = [pc EXCEPT ![self] = "Done"]
-                       /\ UNCHANGED << sem, data, note, nreg, held, ret, 
-                                       sleeps, inlock, ip, nalloc, muFreed, 
-                                       refs, stack, lt_m, old_m, lt_mu, old_mu, 
-                                       lt_mu_, ww, old_mu_, c, dl_, cn_, 
-                                       old_mu_w, lt_, first, out_, rc_, hadw, 
-                                       ata, so_, havel, all, old_c, tws, alr, 
-                                       rmq, dl, cn, gen, old_cv, lt_c, rc_c, 
-                                       so, out, ndl, old, wq, dw, k, cdw, ck >>
+                       /\ UNCHANGED << nww2, nreg2, sem, data, note, nreg, 
+                                       held, ret, sleeps, inlock, ip, nalloc, 
+                                       muFreed, refs, stack, lt_m, old_m, 
+                                       lt_mu, old_mu, lt_mu_, ww, old_mu_, c, 
+                                       dl_, cn_, old_mu_w, lt_, first, out_, 
+                                       rc_, hadw, ata, so_, havel, all, old_c, 
+                                       tws, alr, rmq, dl, cn, gen, old_cv, 
+                                       lt_c, rc_c, so, out, ndl, wcn, old, wq, 
+                                       still2, cvr, dw, k, cdw, ck >>
                   ELSE /\ IF ip[self] > Len(Prog[self])
                              THEN /\ ip' = [ip EXCEPT ![self] = 1]
                                   /\ pc' = [pc EXCEPT ![self] = "c0"]
-                                  /\ UNCHANGED << sem, data, note, nreg, held, 
-                                                  ret, sleeps, inlock, mw, 
-                                                  pool, nalloc, muFreed, refs, 
-                                                  stack, lt_m, old_m, lt_mu, 
-                                                  old_mu, lt_mu_, ww, old_mu_, 
-                                                  c, dl_, cn_, old_mu_w, lt_, 
-                                                  first, out_, rc_, hadw, ata, 
-                                                  so_, havel, all, old_c, tws, 
-                                                  alr, rmq, dl, cn, gen, 
-                                                  old_cv, lt_c, rc_c, so, out, 
-                                                  ndl, old, wq, dw, k, cdw, ck >>
+                                  /\ UNCHANGED << nww2, nreg2, sem, data, note, 
+                                                  nreg, held, ret, sleeps, 
+                                                  inlock, mw, pool, nalloc, 
+                                                  muFreed, refs, stack, lt_m, 
+                                                  old_m, lt_mu, old_mu, lt_mu_, 
+                                                  ww, old_mu_, c, dl_, cn_, 
+                                                  old_mu_w, lt_, first, out_, 
+                                                  rc_, hadw, ata, so_, havel, 
+                                                  all, old_c, tws, alr, rmq, 
+                                                  dl, cn, gen, old_cv, lt_c, 
+                                                  rc_c, so, out, ndl, wcn, old, 
+                                                  wq, still2, cvr, dw, k, cdw, 
+                                                  ck >>
                              ELSE /\ IF CurOp(self).op = "lock"
                                         THEN /\ ip' = [ip EXCEPT ![self] = ip[self] + 1]
                                              /\ sleeps' = [sleeps EXCEPT ![self] = 0]
@@ -4214,9 +4569,10 @@ c0(self) == /\ pc[self] = "c0"
                                                                                      \o stack[self]]
                                              /\ old_m' = [old_m EXCEPT ![self] = 0]
                                              /\ pc' = [pc EXCEPT ![self] = "lk_1_cas"]
-                                             /\ UNCHANGED << sem, data, note, 
-                                                             nreg, held, ret, 
-                                                             mw, pool, nalloc, 
+                                             /\ UNCHANGED << nww2, nreg2, sem, 
+                                                             data, note, nreg, 
+                                                             held, ret, mw, 
+                                                             pool, nalloc, 
                                                              muFreed, refs, 
                                                              lt_mu, old_mu, 
                                                              lt_mu_, ww, 
@@ -4229,7 +4585,8 @@ c0(self) == /\ pc[self] = "c0"
                                                              rmq, dl, cn, gen, 
                                                              old_cv, lt_c, 
                                                              rc_c, so, out, 
-                                                             ndl, old, wq, dw, 
+                                                             ndl, wcn, old, wq, 
+                                                             still2, cvr, dw, 
                                                              k, cdw, ck >>
                                         ELSE /\ IF CurOp(self).op = "trylock"
                                                    THEN /\ ip' = [ip EXCEPT ![self] = ip[self] + 1]
@@ -4241,7 +4598,9 @@ c0(self) == /\ pc[self] = "c0"
                                                                                                 \o stack[self]]
                                                         /\ old_mu' = [old_mu EXCEPT ![self] = 0]
                                                         /\ pc' = [pc EXCEPT ![self] = "tl_1_cas"]
-                                                        /\ UNCHANGED << sem, 
+                                                        /\ UNCHANGED << nww2, 
+                                                                        nreg2, 
+                                                                        sem, 
                                                                         data, 
                                                                         note, 
                                                                         nreg, 
@@ -4279,9 +4638,13 @@ c0(self) == /\ pc[self] = "c0"
                                                                         so, 
                                                                         out, 
                                                                         ndl, 
+                                                                        wcn, 
                                                                         old, 
-                                                                        wq, dw, 
-                                                                        k, cdw, 
+                                                                        wq, 
+                                                                        still2, 
+                                                                        cvr, 
+                                                                        dw, k, 
+                                                                        cdw, 
                                                                         ck >>
                                                    ELSE /\ IF CurOp(self).op = "unlock"
                                                               THEN /\ ip' = [ip EXCEPT ![self] = ip[self] + 1]
@@ -4296,7 +4659,9 @@ c0(self) == /\ pc[self] = "c0"
                                                                       /\ ww' = [ww EXCEPT ![self] = FALSE]
                                                                    /\ old_mu_' = [old_mu_ EXCEPT ![self] = 0]
                                                                    /\ pc' = [pc EXCEPT ![self] = "ul_1_cas"]
-                                                                   /\ UNCHANGED << sem, 
+                                                                   /\ UNCHANGED << nww2, 
+                                                                                   nreg2, 
+                                                                                   sem, 
                                                                                    data, 
                                                                                    note, 
                                                                                    nreg, 
@@ -4332,8 +4697,11 @@ c0(self) == /\ pc[self] = "c0"
                                                                                    so, 
                                                                                    out, 
                                                                                    ndl, 
+                                                                                   wcn, 
                                                                                    old, 
                                                                                    wq, 
+                                                                                   still2, 
+                                                                                   cvr, 
                                                                                    dw, 
                                                                                    k, 
                                                                                    cdw, 
@@ -4351,7 +4719,9 @@ c0(self) == /\ pc[self] = "c0"
                                                                                  /\ ww' = [ww EXCEPT ![self] = TRUE]
                                                                               /\ old_mu_' = [old_mu_ EXCEPT ![self] = 0]
                                                                               /\ pc' = [pc EXCEPT ![self] = "ul_1_cas"]
-                                                                              /\ UNCHANGED << sem, 
+                                                                              /\ UNCHANGED << nww2, 
+                                                                                              nreg2, 
+                                                                                              sem, 
                                                                                               data, 
                                                                                               note, 
                                                                                               nreg, 
@@ -4387,8 +4757,11 @@ c0(self) == /\ pc[self] = "c0"
                                                                                               so, 
                                                                                               out, 
                                                                                               ndl, 
+                                                                                              wcn, 
                                                                                               old, 
                                                                                               wq, 
+                                                                                              still2, 
+                                                                                              cvr, 
                                                                                               dw, 
                                                                                               k, 
                                                                                               cdw, 
@@ -4396,7 +4769,9 @@ c0(self) == /\ pc[self] = "c0"
                                                                          ELSE /\ IF CurOp(self).op = "get"
                                                                                     THEN /\ ip' = [ip EXCEPT ![self] = ip[self] + 1]
                                                                                          /\ pc' = [pc EXCEPT ![self] = "c0"]
-                                                                                         /\ UNCHANGED << sem, 
+                                                                                         /\ UNCHANGED << nww2, 
+                                                                                                         nreg2, 
+                                                                                                         sem, 
                                                                                                          data, 
                                                                                                          note, 
                                                                                                          nreg, 
@@ -4433,8 +4808,11 @@ c0(self) == /\ pc[self] = "c0"
                                                                                                          so, 
                                                                                                          out, 
                                                                                                          ndl, 
+                                                                                                         wcn, 
                                                                                                          old, 
                                                                                                          wq, 
+                                                                                                         still2, 
+                                                                                                         cvr, 
                                                                                                          dw, 
                                                                                                          k, 
                                                                                                          cdw, 
@@ -4443,7 +4821,9 @@ c0(self) == /\ pc[self] = "c0"
                                                                                                THEN /\ GateOK(CurOp(self).x)
                                                                                                     /\ ip' = [ip EXCEPT ![self] = ip[self] + 1]
                                                                                                     /\ pc' = [pc EXCEPT ![self] = "c0"]
-                                                                                                    /\ UNCHANGED << sem, 
+                                                                                                    /\ UNCHANGED << nww2, 
+                                                                                                                    nreg2, 
+                                                                                                                    sem, 
                                                                                                                     data, 
                                                                                                                     note, 
                                                                                                                     nreg, 
@@ -4480,8 +4860,11 @@ c0(self) == /\ pc[self] = "c0"
                                                                                                                     so, 
                                                                                                                     out, 
                                                                                                                     ndl, 
+                                                                                                                    wcn, 
                                                                                                                     old, 
                                                                                                                     wq, 
+                                                                                                                    still2, 
+                                                                                                                    cvr, 
                                                                                                                     dw, 
                                                                                                                     k, 
                                                                                                                     cdw, 
@@ -4490,7 +4873,9 @@ c0(self) == /\ pc[self] = "c0"
                                                                                                           THEN /\ ip' = [ip EXCEPT ![self] = ip[self] + 1]
                                                                                                                /\ data' = [data EXCEPT ![CurOp(self).v] = CurOp(self).x]
                                                                                                                /\ pc' = [pc EXCEPT ![self] = "c0"]
-                                                                                                               /\ UNCHANGED << sem, 
+                                                                                                               /\ UNCHANGED << nww2, 
+                                                                                                                               nreg2, 
+                                                                                                                               sem, 
                                                                                                                                note, 
                                                                                                                                nreg, 
                                                                                                                                ret, 
@@ -4526,8 +4911,11 @@ c0(self) == /\ pc[self] = "c0"
                                                                                                                                so, 
                                                                                                                                out, 
                                                                                                                                ndl, 
+                                                                                                                               wcn, 
                                                                                                                                old, 
                                                                                                                                wq, 
+                                                                                                                               still2, 
+                                                                                                                               cvr, 
                                                                                                                                dw, 
                                                                                                                                k, 
                                                                                                                                cdw, 
@@ -4535,7 +4923,9 @@ c0(self) == /\ pc[self] = "c0"
                                                                                                           ELSE /\ IF CurOp(self).op = "skipunless"
                                                                                                                      THEN /\ ip' = [ip EXCEPT ![self] = IF ret[self] # 1 THEN ip[self] + 1 + CurOp(self).skip ELSE ip[self] + 1]
                                                                                                                           /\ pc' = [pc EXCEPT ![self] = "c0"]
-                                                                                                                          /\ UNCHANGED << sem, 
+                                                                                                                          /\ UNCHANGED << nww2, 
+                                                                                                                                          nreg2, 
+                                                                                                                                          sem, 
                                                                                                                                           note, 
                                                                                                                                           nreg, 
                                                                                                                                           ret, 
@@ -4571,8 +4961,11 @@ c0(self) == /\ pc[self] = "c0"
                                                                                                                                           so, 
                                                                                                                                           out, 
                                                                                                                                           ndl, 
+                                                                                                                                          wcn, 
                                                                                                                                           old, 
                                                                                                                                           wq, 
+                                                                                                                                          still2, 
+                                                                                                                                          cvr, 
                                                                                                                                           dw, 
                                                                                                                                           k, 
                                                                                                                                           cdw, 
@@ -4607,7 +5000,9 @@ c0(self) == /\ pc[self] = "c0"
                                                                                                                                      /\ so_' = [so_ EXCEPT ![self] = 0]
                                                                                                                                      /\ havel' = [havel EXCEPT ![self] = FALSE]
                                                                                                                                      /\ pc' = [pc EXCEPT ![self] = "mw_1_ld"]
-                                                                                                                                     /\ UNCHANGED << sem, 
+                                                                                                                                     /\ UNCHANGED << nww2, 
+                                                                                                                                                     nreg2, 
+                                                                                                                                                     sem, 
                                                                                                                                                      note, 
                                                                                                                                                      nreg, 
                                                                                                                                                      ret, 
@@ -4630,8 +5025,11 @@ c0(self) == /\ pc[self] = "c0"
                                                                                                                                                      so, 
                                                                                                                                                      out, 
                                                                                                                                                      ndl, 
+                                                                                                                                                     wcn, 
                                                                                                                                                      old, 
                                                                                                                                                      wq, 
+                                                                                                                                                     still2, 
+                                                                                                                                                     cvr, 
                                                                                                                                                      dw, 
                                                                                                                                                      k, 
                                                                                                                                                      cdw, 
@@ -4670,7 +5068,9 @@ c0(self) == /\ pc[self] = "c0"
                                                                                                                                                 /\ so' = [so EXCEPT ![self] = 0]
                                                                                                                                                 /\ out' = [out EXCEPT ![self] = 0]
                                                                                                                                                 /\ pc' = [pc EXCEPT ![self] = "cw_1_st"]
-                                                                                                                                                /\ UNCHANGED << sem, 
+                                                                                                                                                /\ UNCHANGED << nww2, 
+                                                                                                                                                                nreg2, 
+                                                                                                                                                                sem, 
                                                                                                                                                                 note, 
                                                                                                                                                                 nreg, 
                                                                                                                                                                 ret, 
@@ -4682,8 +5082,11 @@ c0(self) == /\ pc[self] = "c0"
                                                                                                                                                                 alr, 
                                                                                                                                                                 rmq, 
                                                                                                                                                                 ndl, 
+                                                                                                                                                                wcn, 
                                                                                                                                                                 old, 
                                                                                                                                                                 wq, 
+                                                                                                                                                                still2, 
+                                                                                                                                                                cvr, 
                                                                                                                                                                 dw, 
                                                                                                                                                                 k, 
                                                                                                                                                                 cdw, 
@@ -4739,7 +5142,9 @@ c0(self) == /\ pc[self] = "c0"
                                                                                                                                                                                       rc_c, 
                                                                                                                                                                                       so, 
                                                                                                                                                                                       out >>
-                                                                                                                                                           /\ UNCHANGED << sem, 
+                                                                                                                                                           /\ UNCHANGED << nww2, 
+                                                                                                                                                                           nreg2, 
+                                                                                                                                                                           sem, 
                                                                                                                                                                            note, 
                                                                                                                                                                            nreg, 
                                                                                                                                                                            muFreed, 
@@ -4750,37 +5155,36 @@ c0(self) == /\ pc[self] = "c0"
                                                                                                                                                                            alr, 
                                                                                                                                                                            rmq, 
                                                                                                                                                                            ndl, 
+                                                                                                                                                                           wcn, 
                                                                                                                                                                            old, 
                                                                                                                                                                            wq, 
+                                                                                                                                                                           still2, 
+                                                                                                                                                                           cvr, 
                                                                                                                                                                            dw, 
                                                                                                                                                                            k, 
                                                                                                                                                                            cdw, 
                                                                                                                                                                            ck >>
                                                                                                                                                       ELSE /\ IF CurOp(self).op = "waitn"
                                                                                                                                                                  THEN /\ ip' = [ip EXCEPT ![self] = ip[self] + 1]
-                                                                                                                                                                      /\ IF mw[self] = 0
-                                                                                                                                                                            THEN /\ IF pool # <<>>
-                                                                                                                                                                                       THEN /\ mw' = [mw EXCEPT ![self] = Head(pool)]
-                                                                                                                                                                                            /\ pool' = Tail(pool)
-                                                                                                                                                                                            /\ UNCHANGED nalloc
-                                                                                                                                                                                       ELSE /\ mw' = [mw EXCEPT ![self] = nalloc + 1]
-                                                                                                                                                                                            /\ nalloc' = nalloc + 1
-                                                                                                                                                                                            /\ pool' = pool
-                                                                                                                                                                            ELSE /\ TRUE
-                                                                                                                                                                                 /\ UNCHANGED << mw, 
-                                                                                                                                                                                                 pool, 
-                                                                                                                                                                                                 nalloc >>
                                                                                                                                                                       /\ /\ ndl' = [ndl EXCEPT ![self] = CurOp(self).dl]
                                                                                                                                                                          /\ stack' = [stack EXCEPT ![self] = << [ procedure |->  "wait_n",
                                                                                                                                                                                                                   pc        |->  "c0",
                                                                                                                                                                                                                   old       |->  old[self],
                                                                                                                                                                                                                   wq        |->  wq[self],
-                                                                                                                                                                                                                  ndl       |->  ndl[self] ] >>
+                                                                                                                                                                                                                  still2    |->  still2[self],
+                                                                                                                                                                                                                  cvr       |->  cvr[self],
+                                                                                                                                                                                                                  ndl       |->  ndl[self],
+                                                                                                                                                                                                                  wcn       |->  wcn[self] ] >>
                                                                                                                                                                                                               \o stack[self]]
+                                                                                                                                                                         /\ wcn' = [wcn EXCEPT ![self] = CurOp(self).cn]
                                                                                                                                                                       /\ old' = [old EXCEPT ![self] = 0]
                                                                                                                                                                       /\ wq' = [wq EXCEPT ![self] = FALSE]
-                                                                                                                                                                      /\ pc' = [pc EXCEPT ![self] = "wn_1_st"]
-                                                                                                                                                                      /\ UNCHANGED << sem, 
+                                                                                                                                                                      /\ still2' = [still2 EXCEPT ![self] = TRUE]
+                                                                                                                                                                      /\ cvr' = [cvr EXCEPT ![self] = FALSE]
+                                                                                                                                                                      /\ pc' = [pc EXCEPT ![self] = "wn_0_l"]
+                                                                                                                                                                      /\ UNCHANGED << nww2, 
+                                                                                                                                                                                      nreg2, 
+                                                                                                                                                                                      sem, 
                                                                                                                                                                                       note, 
                                                                                                                                                                                       nreg, 
                                                                                                                                                                                       ret, 
@@ -4797,41 +5201,37 @@ c0(self) == /\ pc[self] = "c0"
                                                                                                                                                                                       ck >>
                                                                                                                                                                  ELSE /\ IF CurOp(self).op = "waitnloop"
                                                                                                                                                                             THEN /\ IF data[CurOp(self).v] = 0 /\ ret[self] # 1
-                                                                                                                                                                                       THEN /\ IF mw[self] = 0
-                                                                                                                                                                                                  THEN /\ IF pool # <<>>
-                                                                                                                                                                                                             THEN /\ mw' = [mw EXCEPT ![self] = Head(pool)]
-                                                                                                                                                                                                                  /\ pool' = Tail(pool)
-                                                                                                                                                                                                                  /\ UNCHANGED nalloc
-                                                                                                                                                                                                             ELSE /\ mw' = [mw EXCEPT ![self] = nalloc + 1]
-                                                                                                                                                                                                                  /\ nalloc' = nalloc + 1
-                                                                                                                                                                                                                  /\ pool' = pool
-                                                                                                                                                                                                  ELSE /\ TRUE
-                                                                                                                                                                                                       /\ UNCHANGED << mw, 
-                                                                                                                                                                                                                       pool, 
-                                                                                                                                                                                                                       nalloc >>
-                                                                                                                                                                                            /\ /\ ndl' = [ndl EXCEPT ![self] = CurOp(self).dl]
+                                                                                                                                                                                       THEN /\ /\ ndl' = [ndl EXCEPT ![self] = CurOp(self).dl]
                                                                                                                                                                                                /\ stack' = [stack EXCEPT ![self] = << [ procedure |->  "wait_n",
                                                                                                                                                                                                                                         pc        |->  "c0",
                                                                                                                                                                                                                                         old       |->  old[self],
                                                                                                                                                                                                                                         wq        |->  wq[self],
-                                                                                                                                                                                                                                        ndl       |->  ndl[self] ] >>
+                                                                                                                                                                                                                                        still2    |->  still2[self],
+                                                                                                                                                                                                                                        cvr       |->  cvr[self],
+                                                                                                                                                                                                                                        ndl       |->  ndl[self],
+                                                                                                                                                                                                                                        wcn       |->  wcn[self] ] >>
                                                                                                                                                                                                                                     \o stack[self]]
+                                                                                                                                                                                               /\ wcn' = [wcn EXCEPT ![self] = FALSE]
                                                                                                                                                                                             /\ old' = [old EXCEPT ![self] = 0]
                                                                                                                                                                                             /\ wq' = [wq EXCEPT ![self] = FALSE]
-                                                                                                                                                                                            /\ pc' = [pc EXCEPT ![self] = "wn_1_st"]
+                                                                                                                                                                                            /\ still2' = [still2 EXCEPT ![self] = TRUE]
+                                                                                                                                                                                            /\ cvr' = [cvr EXCEPT ![self] = FALSE]
+                                                                                                                                                                                            /\ pc' = [pc EXCEPT ![self] = "wn_0_l"]
                                                                                                                                                                                             /\ UNCHANGED << ret, 
                                                                                                                                                                                                             ip >>
                                                                                                                                                                                        ELSE /\ ip' = [ip EXCEPT ![self] = ip[self] + 1]
                                                                                                                                                                                             /\ ret' = [ret EXCEPT ![self] = -1]
                                                                                                                                                                                             /\ pc' = [pc EXCEPT ![self] = "c0"]
-                                                                                                                                                                                            /\ UNCHANGED << mw, 
-                                                                                                                                                                                                            pool, 
-                                                                                                                                                                                                            nalloc, 
-                                                                                                                                                                                                            stack, 
+                                                                                                                                                                                            /\ UNCHANGED << stack, 
                                                                                                                                                                                                             ndl, 
+                                                                                                                                                                                                            wcn, 
                                                                                                                                                                                                             old, 
-                                                                                                                                                                                                            wq >>
-                                                                                                                                                                                 /\ UNCHANGED << sem, 
+                                                                                                                                                                                                            wq, 
+                                                                                                                                                                                                            still2, 
+                                                                                                                                                                                                            cvr >>
+                                                                                                                                                                                 /\ UNCHANGED << nww2, 
+                                                                                                                                                                                                 nreg2, 
+                                                                                                                                                                                                 sem, 
                                                                                                                                                                                                  note, 
                                                                                                                                                                                                  nreg, 
                                                                                                                                                                                                  muFreed, 
@@ -4861,7 +5261,9 @@ c0(self) == /\ pc[self] = "c0"
                                                                                                                                                                                             /\ alr' = [alr EXCEPT ![self] = FALSE]
                                                                                                                                                                                             /\ rmq' = [rmq EXCEPT ![self] = <<>>]
                                                                                                                                                                                             /\ pc' = [pc EXCEPT ![self] = "cs_1_ld"]
-                                                                                                                                                                                            /\ UNCHANGED << sem, 
+                                                                                                                                                                                            /\ UNCHANGED << nww2, 
+                                                                                                                                                                                                            nreg2, 
+                                                                                                                                                                                                            sem, 
                                                                                                                                                                                                             note, 
                                                                                                                                                                                                             nreg, 
                                                                                                                                                                                                             ret, 
@@ -4887,7 +5289,9 @@ c0(self) == /\ pc[self] = "c0"
                                                                                                                                                                                                        /\ alr' = [alr EXCEPT ![self] = FALSE]
                                                                                                                                                                                                        /\ rmq' = [rmq EXCEPT ![self] = <<>>]
                                                                                                                                                                                                        /\ pc' = [pc EXCEPT ![self] = "cs_1_ld"]
-                                                                                                                                                                                                       /\ UNCHANGED << sem, 
+                                                                                                                                                                                                       /\ UNCHANGED << nww2, 
+                                                                                                                                                                                                                       nreg2, 
+                                                                                                                                                                                                                       sem, 
                                                                                                                                                                                                                        note, 
                                                                                                                                                                                                                        nreg, 
                                                                                                                                                                                                                        ret, 
@@ -4907,7 +5311,9 @@ c0(self) == /\ pc[self] = "c0"
                                                                                                                                                                                                                   /\ dw' = [dw EXCEPT ![self] = 0]
                                                                                                                                                                                                                   /\ k' = [k EXCEPT ![self] = 0]
                                                                                                                                                                                                                   /\ pc' = [pc EXCEPT ![self] = "db_1_ld"]
-                                                                                                                                                                                                                  /\ UNCHANGED << sem, 
+                                                                                                                                                                                                                  /\ UNCHANGED << nww2, 
+                                                                                                                                                                                                                                  nreg2, 
+                                                                                                                                                                                                                                  sem, 
                                                                                                                                                                                                                                   note, 
                                                                                                                                                                                                                                   nreg, 
                                                                                                                                                                                                                                   ret, 
@@ -4925,7 +5331,9 @@ c0(self) == /\ pc[self] = "c0"
                                                                                                                                                                                                                              /\ cdw' = [cdw EXCEPT ![self] = 0]
                                                                                                                                                                                                                              /\ ck' = [ck EXCEPT ![self] = 0]
                                                                                                                                                                                                                              /\ pc' = [pc EXCEPT ![self] = "dc_1_ld"]
-                                                                                                                                                                                                                             /\ UNCHANGED << sem, 
+                                                                                                                                                                                                                             /\ UNCHANGED << nww2, 
+                                                                                                                                                                                                                                             nreg2, 
+                                                                                                                                                                                                                                             sem, 
                                                                                                                                                                                                                                              note, 
                                                                                                                                                                                                                                              nreg, 
                                                                                                                                                                                                                                              ret, 
@@ -4934,8 +5342,10 @@ c0(self) == /\ pc[self] = "c0"
                                                                                                                                                                                                                         ELSE /\ IF CurOp(self).op = "notify"
                                                                                                                                                                                                                                    THEN /\ ip' = [ip EXCEPT ![self] = ip[self] + 1]
                                                                                                                                                                                                                                         /\ note' = TRUE
-                                                                                                                                                                                                                                        /\ sem' = [u \in Waiters |-> IF u \in nreg THEN SetV(sem[u]) ELSE sem[u]]
+                                                                                                                                                                                                                                        /\ sem' = [u \in Waiters |-> IF u \in nreg \/ (\E t \in nreg2 : mw[t] = u) THEN SetV(sem[u]) ELSE sem[u]]
                                                                                                                                                                                                                                         /\ nreg' = {}
+                                                                                                                                                                                                                                        /\ nww2' = [t \in Threads |-> IF t \in nreg2 THEN 0 ELSE nww2[t]]
+                                                                                                                                                                                                                                        /\ nreg2' = {}
                                                                                                                                                                                                                                         /\ UNCHANGED << ret, 
                                                                                                                                                                                                                                                         muFreed, 
                                                                                                                                                                                                                                                         refs >>
@@ -4954,7 +5364,9 @@ c0(self) == /\ pc[self] = "c0"
                                                                                                                                                                                                                                                               /\ UNCHANGED muFreed
                                                                                                                                                                                                                                                    /\ UNCHANGED << ret, 
                                                                                                                                                                                                                                                                    refs >>
-                                                                                                                                                                                                                                        /\ UNCHANGED << sem, 
+                                                                                                                                                                                                                                        /\ UNCHANGED << nww2, 
+                                                                                                                                                                                                                                                        nreg2, 
+                                                                                                                                                                                                                                                        sem, 
                                                                                                                                                                                                                                                         note, 
                                                                                                                                                                                                                                                         nreg >>
                                                                                                                                                                                                                              /\ pc' = [pc EXCEPT ![self] = "c0"]
@@ -4968,13 +5380,16 @@ c0(self) == /\ pc[self] = "c0"
                                                                                                                                                                                                                        tws, 
                                                                                                                                                                                                                        alr, 
                                                                                                                                                                                                                        rmq >>
-                                                                                                                                                                                 /\ UNCHANGED << mw, 
-                                                                                                                                                                                                 pool, 
-                                                                                                                                                                                                 nalloc, 
-                                                                                                                                                                                                 ndl, 
+                                                                                                                                                                                 /\ UNCHANGED << ndl, 
+                                                                                                                                                                                                 wcn, 
                                                                                                                                                                                                  old, 
-                                                                                                                                                                                                 wq >>
-                                                                                                                                                           /\ UNCHANGED << dl, 
+                                                                                                                                                                                                 wq, 
+                                                                                                                                                                                                 still2, 
+                                                                                                                                                                                                 cvr >>
+                                                                                                                                                           /\ UNCHANGED << mw, 
+                                                                                                                                                                           pool, 
+                                                                                                                                                                           nalloc, 
+                                                                                                                                                                           dl, 
                                                                                                                                                                            cn, 
                                                                                                                                                                            gen, 
                                                                                                                                                                            old_cv, 
@@ -5033,7 +5448,7 @@ Termination == <>(\A self \in ProcSet: pc[self] = "Done")
 \* END TRANSLATION
 
 \* ====================================================================================
-LocalLabels == {"cs_3b_l", "cs_rmq_l", "cw_17_l", "cw_18_l", "cw_8b_l", "db_rel_l", "db_w_l", "dc_w_l", "mw_11_l", "mw_11b_l", "mw_13_l", "mw_14_l", "mw_9b_l", "us_after_l", "us_merge_l", "us_pass_l", "us_rel_l", "us_rmq_l", "us_scan_l", "wn_13_l", "ww_0_l", "ww_4b_l"}
+LocalLabels == {"cs_3b_l", "cs_rmq_l", "cw_17_l", "cw_18_l", "cw_8b_l", "db_rel_l", "db_w_l", "dc_w_l", "mw_11_l", "mw_11b_l", "mw_13_l", "mw_14_l", "mw_9b_l", "us_after_l", "us_merge_l", "us_pass_l", "us_rel_l", "us_rmq_l", "us_scan_l", "wn_0_l", "wn_12_l", "wn_12u_l", "wn_13_l", "wn_5_l", "wn_5u_l", "wn_6_l", "ww_0_l", "ww_4b_l"}
 Step(self) == \/ lock_slow(self) \/ unlock_slow(self) \/ mu_lock(self) \/ mu_trylock(self) \/ mu_unlock(self)
               \/ sem_wait(self) \/ try_acquire(self) \/ mu_wait(self) \/ wake_waiters(self) \/ cv_wake(self)
               \/ cv_wait(self) \/ wait_n(self) \/ debug_state(self) \/ debug_cv(self) \/ thr(self)
@@ -5042,7 +5457,7 @@ TickUseful == \E u \in Threads : \/ (pc[u] = "sw_2_pd" /\ sdl[u] > now)
                                  \/ (pc[u] = "wn_7_pd" /\ ndl[u] > now)
 Tick == /\ now < MaxNow /\ TickUseful
         /\ now' = now + 1
-        /\ UNCHANGED <<pc, word, queue, cvword, cvq, waiting, rmc, cvmu, wl, wc, sc, nww, nwsem, sem, data, note, nreg, held, ret, sres, picked, sleeps, inlock, ip, mw, pool, nalloc, nq, muFreed, refs, nwalive, taint3, stack, lt_l, clear, old_, zlo, zhi, wcnt, lw, lt_u, old_u, tc, nwl, wtrs, wake, wty, sor, cor, rmq_, late, lt_m, old_m, lt_mu, old_mu, lt_mu_, ww, old_mu_, sdl, scn, lt, rc, old_t, c, dl_, cn_, old_mu_w, lt_, first, out_, rc_, hadw, ata, so_, havel, tw, allr, omw, fca, sorw, all, old_c, tws, alr, rmq, dl, cn, gen, old_cv, lt_c, rc_c, so, out, ndl, old, wq, dw, k, cdw, ck>>
+        /\ UNCHANGED <<pc, word, queue, cvword, cvq, waiting, rmc, cvmu, wl, wc, sc, nww, nwsem, nww2, nreg2, sem, data, note, nreg, held, ret, sres, picked, sleeps, inlock, ip, mw, pool, nalloc, nq, muFreed, refs, nwalive, taint3, stack, lt_l, clear, old_, zlo, zhi, wcnt, lw, lt_u, old_u, tc, nwl, wtrs, wake, wty, sor, cor, rmq_, late, lt_m, old_m, lt_mu, old_mu, lt_mu_, ww, old_mu_, sdl, scn, lt, rc, old_t, c, dl_, cn_, old_mu_w, lt_, first, out_, rc_, hadw, ata, so_, havel, tw, allr, omw, fca, sorw, all, old_c, tws, alr, rmq, dl, cn, gen, old_cv, lt_c, rc_c, so, out, ndl, wcn, old, wq, still2, cvr, dw, k, cdw, ck>>
 \* Local steps (no shared operation) commute with every step of other threads, so they are taken
 \* eagerly: a thread at a local label runs before anything else happens.
 LocalPending == {u \in Threads : pc[u] \in LocalLabels}
@@ -5069,11 +5484,13 @@ NoStuck == (~ENABLED NextU) => DoneOrLegit
 AtClient(u) == pc[u] = "c0"
 PickedReportsWake == \A u \in Threads : (AtClient(u) /\ picked[u] /\ ret[u] # -1) => ret[u] = 0
 \* ---- C05 ----
+\* a record of a two-object nsync_wait_n is registered with the note only while its call is in progress
+NoteRecordLive == \A u \in nreg2 : nwalive[u]
 RetHonest == \A u \in Threads : AtClient(u) => /\ (ret[u] = ECANCELED => note)
 \* ---- C13 ----
 MuLabels == {"cw_2_ld", "db_1_ld", "db_2_ld", "db_3_cas", "db_4_st", "db_5_ld", "db_6_cas", "lk_1_cas", "lk_2_ld", "lk_3_cas", "ls_1_ld", "ls_2_cas", "ls_3_cas", "ls_4_st", "ls_5_ld", "ls_6_cas", "mw_1_ld", "mw_4_ld", "mw_5_cas", "mw_6_ld", "mw_7_cas", "ta_1_ld", "ta_2_cas", "ta_3_cas", "ta_6_ld", "ta_8b_st", "ta_9_st", "tl_1_cas", "tl_2_ld", "tl_3_cas", "ul_1_cas", "ul_2_ld", "ul_3_cas", "us_1_ld", "us_2_cas", "us_3_cas", "us_4_ld", "us_5_cas", "us_merge_l", "us_pass_l", "us_rs_cas", "us_rs_ld", "us_scan_l", "us_ts_cas", "us_ts_ld", "ww_1_ld", "ww_2_cas", "ww_3_ld", "ww_4_cas"}
 NoTouchAfterFree == muFreed => \A u \in Threads : pc[u] \notin MuLabels
-NoDeadRecordTouch == \A u \in Threads : /\ ((pc[u] \in {"ww_5_st", "ww_6_v"} /\ tw[u] # <<>> /\ Head(tw[u]) < 0) => nwalive[-Head(tw[u])])
+NoDeadRecordTouch == NoteRecordLive /\ \A u \in Threads : /\ ((pc[u] \in {"ww_5_st", "ww_6_v"} /\ tw[u] # <<>> /\ Head(tw[u]) < 0) => nwalive[-Head(tw[u])])
                                           /\ ((pc[u] \in {"cs_f_st", "cs_f_v"} /\ rmq[u] # <<>> /\ Head(rmq[u]) < 0) => nwalive[-Head(rmq[u])])
 \* the same invariants outside the window of known finding 6.3
 PickedReportsWakeK == ~taint3 => PickedReportsWake
@@ -5089,7 +5506,7 @@ BadSet == {x \in {"Excl", "WordAgrees", "PickedReportsWake", "RetHonest", "NoDea
              \/ (x = "RetHonest" /\ ~RetHonest) \/ (x = "NoDeadRecordTouch" /\ ~NoDeadRecordTouch)
              \/ (x = "NoTouchAfterFree" /\ ~NoTouchAfterFree) \/ (x = "SleepBound" /\ ~SleepBound)}
 \* BEGIN GENERATED (tools/mkspec.py)
-KindMap == [x \in {"c0", "cs_1_ld", "cs_2_d", "cs_2_ld", "cs_3_cas", "cs_3b_l", "cs_4_st", "cs_f_st", "cs_f_v", "cs_rm_cas", "cs_rm_ld", "cs_rmq_l", "cw_10_d", "cw_10_ld", "cw_11_cas", "cw_12_ld", "cw_13_ld", "cw_14_cas", "cw_14_ld", "cw_14_st", "cw_15_st", "cw_16_d", "cw_16_ld", "cw_17_l", "cw_18_l", "cw_1_st", "cw_2_ld", "cw_3_d", "cw_3_ld", "cw_4_cas", "cw_5_ld", "cw_6_st", "cw_7_ld", "cw_8b_l", "cw_9_ld", "db_1_ld", "db_2_ld", "db_3_cas", "db_4_st", "db_5_ld", "db_6_cas", "db_d", "db_rel_l", "db_w1_ld", "db_w2_ld", "db_w_l", "dc_1_ld", "dc_2_ld", "dc_3_cas", "dc_4_st", "dc_d", "dc_w1_ld", "dc_w2_ld", "dc_w_l", "lk_1_cas", "lk_2_ld", "lk_3_cas", "ls_1_ld", "ls_2_cas", "ls_3_cas", "ls_4_st", "ls_5_ld", "ls_6_cas", "ls_7_ld", "ls_8_p", "ls_d", "mw_10_ld", "mw_11_l", "mw_11b_l", "mw_12_d", "mw_12_ld", "mw_13_l", "mw_14_l", "mw_1_ld", "mw_2_st", "mw_3_ld", "mw_4_d", "mw_4_ld", "mw_5_cas", "mw_6_ld", "mw_7_cas", "mw_8_ld", "mw_9b_l", "sw_1_r", "sw_2_pd", "ta_1_ld", "ta_2_cas", "ta_3_cas", "ta_5_ld", "ta_6_ld", "ta_7_cas", "ta_7_ld", "ta_8_st", "ta_8b_st", "ta_9_st", "ta_d", "tl_1_cas", "tl_2_ld", "tl_3_cas", "ul_1_cas", "ul_2_ld", "ul_3_cas", "us_1_ld", "us_2_cas", "us_3_cas", "us_4_ld", "us_5_cas", "us_6_st", "us_7_v", "us_after_l", "us_d", "us_merge_l", "us_pass_l", "us_rel_l", "us_rm_cas", "us_rm_ld", "us_rmq_l", "us_rs_cas", "us_rs_ld", "us_scan_l", "us_ts_cas", "us_ts_d", "us_ts_ld", "wn_10_ld", "wn_11_st", "wn_12_st", "wn_13_l", "wn_1_st", "wn_2_d", "wn_2_ld", "wn_3_cas", "wn_4_st", "wn_5_st", "wn_6_ld", "wn_7_pd", "wn_8_d", "wn_8_ld", "wn_9_cas", "ww_0_l", "ww_1_ld", "ww_2_cas", "ww_3_ld", "ww_4_cas", "ww_4b_l", "ww_5_st", "ww_6_v", "Done"} |-> CASE x = "c0" -> "c" [] x = "cs_1_ld" -> "ld" [] x = "cs_2_d" -> "d" [] x = "cs_2_ld" -> "ld" [] x = "cs_3_cas" -> "cas" [] x = "cs_3b_l" -> "local" [] x = "cs_4_st" -> "st" [] x = "cs_f_st" -> "st" [] x = "cs_f_v" -> "v" [] x = "cs_rm_cas" -> "cas" [] x = "cs_rm_ld" -> "ld" [] x = "cs_rmq_l" -> "local" [] x = "cw_10_d" -> "d" [] x = "cw_10_ld" -> "ld" [] x = "cw_11_cas" -> "cas" [] x = "cw_12_ld" -> "ld" [] x = "cw_13_ld" -> "ld" [] x = "cw_14_cas" -> "cas" [] x = "cw_14_ld" -> "ld" [] x = "cw_14_st" -> "st" [] x = "cw_15_st" -> "st" [] x = "cw_16_d" -> "d" [] x = "cw_16_ld" -> "ld" [] x = "cw_17_l" -> "local" [] x = "cw_18_l" -> "local" [] x = "cw_1_st" -> "st" [] x = "cw_2_ld" -> "ld" [] x = "cw_3_d" -> "d" [] x = "cw_3_ld" -> "ld" [] x = "cw_4_cas" -> "cas" [] x = "cw_5_ld" -> "ld" [] x = "cw_6_st" -> "st" [] x = "cw_7_ld" -> "ld" [] x = "cw_8b_l" -> "local" [] x = "cw_9_ld" -> "ld" [] x = "db_1_ld" -> "ld" [] x = "db_2_ld" -> "ld" [] x = "db_3_cas" -> "cas" [] x = "db_4_st" -> "st" [] x = "db_5_ld" -> "ld" [] x = "db_6_cas" -> "cas" [] x = "db_d" -> "d" [] x = "db_rel_l" -> "local" [] x = "db_w1_ld" -> "ld" [] x = "db_w2_ld" -> "ld" [] x = "db_w_l" -> "local" [] x = "dc_1_ld" -> "ld" [] x = "dc_2_ld" -> "ld" [] x = "dc_3_cas" -> "cas" [] x = "dc_4_st" -> "st" [] x = "dc_d" -> "d" [] x = "dc_w1_ld" -> "ld" [] x = "dc_w2_ld" -> "ld" [] x = "dc_w_l" -> "local" [] x = "lk_1_cas" -> "cas" [] x = "lk_2_ld" -> "ld" [] x = "lk_3_cas" -> "cas" [] x = "ls_1_ld" -> "ld" [] x = "ls_2_cas" -> "cas" [] x = "ls_3_cas" -> "cas" [] x = "ls_4_st" -> "st" [] x = "ls_5_ld" -> "ld" [] x = "ls_6_cas" -> "cas" [] x = "ls_7_ld" -> "ld" [] x = "ls_8_p" -> "p" [] x = "ls_d" -> "d" [] x = "mw_10_ld" -> "ld" [] x = "mw_11_l" -> "local" [] x = "mw_11b_l" -> "local" [] x = "mw_12_d" -> "d" [] x = "mw_12_ld" -> "ld" [] x = "mw_13_l" -> "local" [] x = "mw_14_l" -> "local" [] x = "mw_1_ld" -> "ld" [] x = "mw_2_st" -> "st" [] x = "mw_3_ld" -> "ld" [] x = "mw_4_d" -> "d" [] x = "mw_4_ld" -> "ld" [] x = "mw_5_cas" -> "cas" [] x = "mw_6_ld" -> "ld" [] x = "mw_7_cas" -> "cas" [] x = "mw_8_ld" -> "ld" [] x = "mw_9b_l" -> "local" [] x = "sw_1_r" -> "region" [] x = "sw_2_pd" -> "pd" [] x = "ta_1_ld" -> "ld" [] x = "ta_2_cas" -> "cas" [] x = "ta_3_cas" -> "cas" [] x = "ta_5_ld" -> "ld" [] x = "ta_6_ld" -> "ld" [] x = "ta_7_cas" -> "cas" [] x = "ta_7_ld" -> "ld" [] x = "ta_8_st" -> "st" [] x = "ta_8b_st" -> "st" [] x = "ta_9_st" -> "st" [] x = "ta_d" -> "d" [] x = "tl_1_cas" -> "cas" [] x = "tl_2_ld" -> "ld" [] x = "tl_3_cas" -> "cas" [] x = "ul_1_cas" -> "cas" [] x = "ul_2_ld" -> "ld" [] x = "ul_3_cas" -> "cas" [] x = "us_1_ld" -> "ld" [] x = "us_2_cas" -> "cas" [] x = "us_3_cas" -> "cas" [] x = "us_4_ld" -> "ld" [] x = "us_5_cas" -> "cas" [] x = "us_6_st" -> "st" [] x = "us_7_v" -> "v" [] x = "us_after_l" -> "local" [] x = "us_d" -> "d" [] x = "us_merge_l" -> "local" [] x = "us_pass_l" -> "local" [] x = "us_rel_l" -> "local" [] x = "us_rm_cas" -> "cas" [] x = "us_rm_ld" -> "ld" [] x = "us_rmq_l" -> "local" [] x = "us_rs_cas" -> "cas" [] x = "us_rs_ld" -> "ld" [] x = "us_scan_l" -> "local" [] x = "us_ts_cas" -> "cas" [] x = "us_ts_d" -> "d" [] x = "us_ts_ld" -> "ld" [] x = "wn_10_ld" -> "ld" [] x = "wn_11_st" -> "st" [] x = "wn_12_st" -> "st" [] x = "wn_13_l" -> "local" [] x = "wn_1_st" -> "st" [] x = "wn_2_d" -> "d" [] x = "wn_2_ld" -> "ld" [] x = "wn_3_cas" -> "cas" [] x = "wn_4_st" -> "st" [] x = "wn_5_st" -> "st" [] x = "wn_6_ld" -> "ld" [] x = "wn_7_pd" -> "pd" [] x = "wn_8_d" -> "d" [] x = "wn_8_ld" -> "ld" [] x = "wn_9_cas" -> "cas" [] x = "ww_0_l" -> "local" [] x = "ww_1_ld" -> "ld" [] x = "ww_2_cas" -> "cas" [] x = "ww_3_ld" -> "ld" [] x = "ww_4_cas" -> "cas" [] x = "ww_4b_l" -> "local" [] x = "ww_5_st" -> "st" [] x = "ww_6_v" -> "v" [] x = "Done" -> "none"]
+KindMap == [x \in {"c0", "cs_1_ld", "cs_2_d", "cs_2_ld", "cs_3_cas", "cs_3b_l", "cs_4_st", "cs_f_st", "cs_f_v", "cs_rm_cas", "cs_rm_ld", "cs_rmq_l", "cw_10_d", "cw_10_ld", "cw_11_cas", "cw_12_ld", "cw_13_ld", "cw_14_cas", "cw_14_ld", "cw_14_st", "cw_15_st", "cw_16_d", "cw_16_ld", "cw_17_l", "cw_18_l", "cw_1_st", "cw_2_ld", "cw_3_d", "cw_3_ld", "cw_4_cas", "cw_5_ld", "cw_6_st", "cw_7_ld", "cw_8b_l", "cw_9_ld", "db_1_ld", "db_2_ld", "db_3_cas", "db_4_st", "db_5_ld", "db_6_cas", "db_d", "db_rel_l", "db_w1_ld", "db_w2_ld", "db_w_l", "dc_1_ld", "dc_2_ld", "dc_3_cas", "dc_4_st", "dc_d", "dc_w1_ld", "dc_w2_ld", "dc_w_l", "lk_1_cas", "lk_2_ld", "lk_3_cas", "ls_1_ld", "ls_2_cas", "ls_3_cas", "ls_4_st", "ls_5_ld", "ls_6_cas", "ls_7_ld", "ls_8_p", "ls_d", "mw_10_ld", "mw_11_l", "mw_11b_l", "mw_12_d", "mw_12_ld", "mw_13_l", "mw_14_l", "mw_1_ld", "mw_2_st", "mw_3_ld", "mw_4_d", "mw_4_ld", "mw_5_cas", "mw_6_ld", "mw_7_cas", "mw_8_ld", "mw_9b_l", "sw_1_r", "sw_2_pd", "ta_1_ld", "ta_2_cas", "ta_3_cas", "ta_5_ld", "ta_6_ld", "ta_7_cas", "ta_7_ld", "ta_8_st", "ta_8b_st", "ta_9_st", "ta_d", "tl_1_cas", "tl_2_ld", "tl_3_cas", "ul_1_cas", "ul_2_ld", "ul_3_cas", "us_1_ld", "us_2_cas", "us_3_cas", "us_4_ld", "us_5_cas", "us_6_st", "us_7_v", "us_after_l", "us_d", "us_merge_l", "us_pass_l", "us_rel_l", "us_rm_cas", "us_rm_ld", "us_rmq_l", "us_rs_cas", "us_rs_ld", "us_scan_l", "us_ts_cas", "us_ts_d", "us_ts_ld", "wn_0_l", "wn_0_r", "wn_10_ld", "wn_11_st", "wn_12_l", "wn_12_st", "wn_12a_r", "wn_12u_l", "wn_13_l", "wn_1_st", "wn_2_d", "wn_2_ld", "wn_3_cas", "wn_4_st", "wn_5_l", "wn_5_st", "wn_5a_st", "wn_5b_r", "wn_5u_l", "wn_6_l", "wn_6_ld", "wn_6a_r", "wn_7_pd", "wn_8_d", "wn_8_ld", "wn_9_cas", "ww_0_l", "ww_1_ld", "ww_2_cas", "ww_3_ld", "ww_4_cas", "ww_4b_l", "ww_5_st", "ww_6_v", "Done"} |-> CASE x = "c0" -> "c" [] x = "cs_1_ld" -> "ld" [] x = "cs_2_d" -> "d" [] x = "cs_2_ld" -> "ld" [] x = "cs_3_cas" -> "cas" [] x = "cs_3b_l" -> "local" [] x = "cs_4_st" -> "st" [] x = "cs_f_st" -> "st" [] x = "cs_f_v" -> "v" [] x = "cs_rm_cas" -> "cas" [] x = "cs_rm_ld" -> "ld" [] x = "cs_rmq_l" -> "local" [] x = "cw_10_d" -> "d" [] x = "cw_10_ld" -> "ld" [] x = "cw_11_cas" -> "cas" [] x = "cw_12_ld" -> "ld" [] x = "cw_13_ld" -> "ld" [] x = "cw_14_cas" -> "cas" [] x = "cw_14_ld" -> "ld" [] x = "cw_14_st" -> "st" [] x = "cw_15_st" -> "st" [] x = "cw_16_d" -> "d" [] x = "cw_16_ld" -> "ld" [] x = "cw_17_l" -> "local" [] x = "cw_18_l" -> "local" [] x = "cw_1_st" -> "st" [] x = "cw_2_ld" -> "ld" [] x = "cw_3_d" -> "d" [] x = "cw_3_ld" -> "ld" [] x = "cw_4_cas" -> "cas" [] x = "cw_5_ld" -> "ld" [] x = "cw_6_st" -> "st" [] x = "cw_7_ld" -> "ld" [] x = "cw_8b_l" -> "local" [] x = "cw_9_ld" -> "ld" [] x = "db_1_ld" -> "ld" [] x = "db_2_ld" -> "ld" [] x = "db_3_cas" -> "cas" [] x = "db_4_st" -> "st" [] x = "db_5_ld" -> "ld" [] x = "db_6_cas" -> "cas" [] x = "db_d" -> "d" [] x = "db_rel_l" -> "local" [] x = "db_w1_ld" -> "ld" [] x = "db_w2_ld" -> "ld" [] x = "db_w_l" -> "local" [] x = "dc_1_ld" -> "ld" [] x = "dc_2_ld" -> "ld" [] x = "dc_3_cas" -> "cas" [] x = "dc_4_st" -> "st" [] x = "dc_d" -> "d" [] x = "dc_w1_ld" -> "ld" [] x = "dc_w2_ld" -> "ld" [] x = "dc_w_l" -> "local" [] x = "lk_1_cas" -> "cas" [] x = "lk_2_ld" -> "ld" [] x = "lk_3_cas" -> "cas" [] x = "ls_1_ld" -> "ld" [] x = "ls_2_cas" -> "cas" [] x = "ls_3_cas" -> "cas" [] x = "ls_4_st" -> "st" [] x = "ls_5_ld" -> "ld" [] x = "ls_6_cas" -> "cas" [] x = "ls_7_ld" -> "ld" [] x = "ls_8_p" -> "p" [] x = "ls_d" -> "d" [] x = "mw_10_ld" -> "ld" [] x = "mw_11_l" -> "local" [] x = "mw_11b_l" -> "local" [] x = "mw_12_d" -> "d" [] x = "mw_12_ld" -> "ld" [] x = "mw_13_l" -> "local" [] x = "mw_14_l" -> "local" [] x = "mw_1_ld" -> "ld" [] x = "mw_2_st" -> "st" [] x = "mw_3_ld" -> "ld" [] x = "mw_4_d" -> "d" [] x = "mw_4_ld" -> "ld" [] x = "mw_5_cas" -> "cas" [] x = "mw_6_ld" -> "ld" [] x = "mw_7_cas" -> "cas" [] x = "mw_8_ld" -> "ld" [] x = "mw_9b_l" -> "local" [] x = "sw_1_r" -> "region" [] x = "sw_2_pd" -> "pd" [] x = "ta_1_ld" -> "ld" [] x = "ta_2_cas" -> "cas" [] x = "ta_3_cas" -> "cas" [] x = "ta_5_ld" -> "ld" [] x = "ta_6_ld" -> "ld" [] x = "ta_7_cas" -> "cas" [] x = "ta_7_ld" -> "ld" [] x = "ta_8_st" -> "st" [] x = "ta_8b_st" -> "st" [] x = "ta_9_st" -> "st" [] x = "ta_d" -> "d" [] x = "tl_1_cas" -> "cas" [] x = "tl_2_ld" -> "ld" [] x = "tl_3_cas" -> "cas" [] x = "ul_1_cas" -> "cas" [] x = "ul_2_ld" -> "ld" [] x = "ul_3_cas" -> "cas" [] x = "us_1_ld" -> "ld" [] x = "us_2_cas" -> "cas" [] x = "us_3_cas" -> "cas" [] x = "us_4_ld" -> "ld" [] x = "us_5_cas" -> "cas" [] x = "us_6_st" -> "st" [] x = "us_7_v" -> "v" [] x = "us_after_l" -> "local" [] x = "us_d" -> "d" [] x = "us_merge_l" -> "local" [] x = "us_pass_l" -> "local" [] x = "us_rel_l" -> "local" [] x = "us_rm_cas" -> "cas" [] x = "us_rm_ld" -> "ld" [] x = "us_rmq_l" -> "local" [] x = "us_rs_cas" -> "cas" [] x = "us_rs_ld" -> "ld" [] x = "us_scan_l" -> "local" [] x = "us_ts_cas" -> "cas" [] x = "us_ts_d" -> "d" [] x = "us_ts_ld" -> "ld" [] x = "wn_0_l" -> "local" [] x = "wn_0_r" -> "region" [] x = "wn_10_ld" -> "ld" [] x = "wn_11_st" -> "st" [] x = "wn_12_l" -> "local" [] x = "wn_12_st" -> "st" [] x = "wn_12a_r" -> "region" [] x = "wn_12u_l" -> "local" [] x = "wn_13_l" -> "local" [] x = "wn_1_st" -> "st" [] x = "wn_2_d" -> "d" [] x = "wn_2_ld" -> "ld" [] x = "wn_3_cas" -> "cas" [] x = "wn_4_st" -> "st" [] x = "wn_5_l" -> "local" [] x = "wn_5_st" -> "st" [] x = "wn_5a_st" -> "st" [] x = "wn_5b_r" -> "region" [] x = "wn_5u_l" -> "local" [] x = "wn_6_l" -> "local" [] x = "wn_6_ld" -> "ld" [] x = "wn_6a_r" -> "region" [] x = "wn_7_pd" -> "pd" [] x = "wn_8_d" -> "d" [] x = "wn_8_ld" -> "ld" [] x = "wn_9_cas" -> "cas" [] x = "ww_0_l" -> "local" [] x = "ww_1_ld" -> "ld" [] x = "ww_2_cas" -> "cas" [] x = "ww_3_ld" -> "ld" [] x = "ww_4_cas" -> "cas" [] x = "ww_4b_l" -> "local" [] x = "ww_5_st" -> "st" [] x = "ww_6_v" -> "v" [] x = "Done" -> "none"]
 ResetAll == (* Global variables *)
         /\ word' = 0
         /\ queue' = <<>>
@@ -5103,6 +5520,8 @@ ResetAll == (* Global variables *)
         /\ sc' = [n |-> [w \in Waiters |-> w], p |-> [w \in Waiters |-> w]]
         /\ nww' = [t \in Threads |-> 0]
         /\ nwsem' = [t \in Threads |-> 0]
+        /\ nww2' = [t \in Threads |-> 0]
+        /\ nreg2' = {}
         /\ sem' = [w \in Waiters |-> 0]
         /\ data' = [v \in 1..NV |-> 0]
         /\ now' = 0
@@ -5196,8 +5615,11 @@ ResetAll == (* Global variables *)
         /\ out' = [ self \in ProcSet |-> 0]
         (* Procedure wait_n *)
         /\ ndl' = [ self \in ProcSet |-> defaultInitValue]
+        /\ wcn' = [ self \in ProcSet |-> defaultInitValue]
         /\ old' = [ self \in ProcSet |-> 0]
         /\ wq' = [ self \in ProcSet |-> FALSE]
+        /\ still2' = [ self \in ProcSet |-> TRUE]
+        /\ cvr' = [ self \in ProcSet |-> FALSE]
         (* Procedure debug_state *)
         /\ dw' = [ self \in ProcSet |-> 0]
         /\ k' = [ self \in ProcSet |-> 0]
@@ -5213,7 +5635,7 @@ Actor == IF \E a \in Threads : Moved(a) THEN CHOOSE a \in Threads : Moved(a) ELS
 SpinFree == (word' & SPIN) = 0
 CvSpinFree == (cvword' & CVSPIN) = 0
 Obs == [word |-> word', q |-> IF SpinFree THEN queue' ELSE <<>>, cvword |-> cvword', cvq |-> IF CvSpinFree THEN cvq' ELSE <<>>,
-        mw |-> mw', waiting |-> waiting', rmc |-> rmc', nww |-> nww', sem |-> sem', held |-> held', data |-> data', now |-> now',
+        mw |-> mw', waiting |-> waiting', rmc |-> rmc', nww |-> nww', nww2 |-> nww2', sem |-> sem', held |-> held', data |-> data', now |-> now',
         note |-> note', ret |-> ret',
         \* ghost part (not compared with the code): which invariants fail in the successor state, termination, taints
         bad |-> BadSet', done |-> DoneOrLegit', taint3 |-> taint3']
